@@ -1,6 +1,20 @@
-(* Error bounds for the exact f32 estimator model (Agent/F32.v): rnd is a correct rounding, Duration::mul_f32 by the
-   estimator constants is within ~2^-22 relative + 1/2 ns of the exact product, one-step and global error recurrences
-   against the RFC 6298 fixed-point reference of Agent/Monitors.v. *)
+(* Error bounds for the exact f32 estimator model (Agent/F32.v) against the RFC 6298 fixed-point reference of
+   Agent/Monitors.v (property C15).
+
+   Stage 1  rnd_spec, rnd_spec_Z   rnd is a correct rounding to 24 bits (half an ulp, relative error <= 2^-24).
+   Stage 2  mul_f32_bound          |mul_f32 ns c - c ns| <= c ns (2^-22 + 2^-45) + 1/2 ns for the five constants of rtt.rs
+                                   and EVERY ns (no range hypothesis); mul_f32_bound_gen for any c = p/q.
+   Stage 3  step_srtt, step_rttvar, step_rto   one update: es' <= 7/8 (1+eps) es + eps S' + 1 ns + 1 unit, etc.
+   Stage 5  srtt_nonzero           samples >= 5 ns never bring SRTT back to 0.
+   Stage 4  global_generic         any invariant of the Stage 3 recurrences that implies the tolerance gives the global
+                                   statement for sample sequences of any length;
+            global_1ms_70ms        constant error bounds;
+            global_1ms_650ms       samples 1 ms .. 650 ms, tolerance of the property (1e-5 relative + 1 us);
+            global_1ms_10s_x2      samples 1 ms .. 10 s, twice that tolerance;
+            global_..._ops         the same with resets (staleness) anywhere between the samples.
+   The worst-case recurrences do NOT fit the tolerance of the property on the whole range 1 ms .. 10 s (witness
+   sequence for the bound: bound_witness); no violation by the exact model was found (greedy_witness: 35 % of the
+   tolerance is the largest deviation an adversarial search reached). *)
 From Coq Require Import List NArith ZArith Bool Lia.
 Require Import ZifyNat ZifyN.
 From Rustun Require Import Agent.F32.
@@ -190,7 +204,7 @@ Print Assumptions rnd_spec_Z.
 Lemma rnd_zero d e : rnd 0 d e = fzero.
 Proof. reflexivity. Qed.
 
-(* ---- Stage 2: Duration::mul_f32.  The error analysis is done over Q (QArith: no axioms); the final statements are
+(* ---- Stage 2: Duration::mul_f32.  The error analysis is done over Q (QArith, constructive); the final statements are
    over N. *)
 From Coq Require Import QArith Qabs Qpower Lqa.
 Local Open Scope Q_scope.
@@ -602,9 +616,25 @@ Print Assumptions srtt_nonzero.
 Definition run (st:rtt_calc) (rs:list N) : rtt_calc := fold_left rtt_update rs st.
 Definition ref_run (est:option (N * N)) (rs:list N) : option (N * N) := fold_left rfc6298_update (map fx rs) est.
 
+(* with resets (client.rs: staleness after more than 600 s): an operation is a sample or a reset *)
+Inductive eop : Set := ESample (r:N) | EReset.
+Definition eop_model (st:rtt_calc) (o:eop) : rtt_calc := match o with ESample r => rtt_update st r | EReset => rtt_reset st end.
+Definition eop_ref (est:option (N * N)) (o:eop) : option (N * N) :=
+  match o with ESample r => rfc6298_update est (fx r) | EReset => None end.
+Definition run_ops (st:rtt_calc) (os:list eop) : rtt_calc := fold_left eop_model os st.
+Definition ref_ops (est:option (N * N)) (os:list eop) : option (N * N) := fold_left eop_ref os est.
+Definition eop_ok (lo hi:N) (o:eop) : Prop := match o with ESample r => (lo <= r <= hi)%N | EReset => True end.
+
+(* the tolerance of the property with its two constants as parameters: |observed - expected| <= expected / rd + ab ns *)
+Definition within_tol (rd ab:N) (observed expected:N) : bool := (absdiff observed expected <=? expected / rd + fx ab)%N.
+Lemma within_tolerance_std o e : within_tolerance o e = within_tol 100000 1000 o e.
+Proof. reflexivity. Qed.
+
 Section Global.
-  Variables LO HI : N.
+  Variables LO HI RD AB : N.
   Hypothesis LO5 : (5 <= LO)%N.
+  Hypothesis RDpos : (0 < RD)%N.
+  Hypothesis AB2 : (2 <= AB)%N.
   (* Inv S V es ev : reference state (units 2^-16 ns) and bounds of the errors of srtt and rttvar *)
   Variable Inv : Z -> Z -> Z -> Z -> Prop.
   Hypothesis Inv_init : forall r, ZN LO <= r <= ZN HI -> Inv (65536 * r) (32768 * r) 0 32768.
@@ -617,8 +647,8 @@ Section Global.
     0 <= ev' -> 4 * P45 * ev' <= 3 * (P45 + E1) * ev + (P45 + E1) * es + E1 * (3 * V + Z.abs (S - 65536 * r)) + 4 * P45 * (65536 + 1) ->
     Inv S' V' es' ev'.
   Hypothesis Inv_final : forall S V es ev T, Inv S V es ev -> 0 <= es -> 0 <= ev -> 0 <= S -> 0 <= V ->
-    100000 * T <= S + 4 * V < 100000 * T + 100000 ->
-    P45 * es + 4 * (P45 + E1) * ev + 4 * E1 * V + P45 * 32768 <= P45 * (T + 65536000).
+    ZN RD * T <= S + 4 * V < ZN RD * T + ZN RD ->
+    P45 * es + 4 * (P45 + E1) * ev + 4 * E1 * V + P45 * 32768 <= P45 * (T + 65536 * ZN AB).
 
   Variables (c : ccfg) (rto gran : N).
   Hypothesis Hgran : cc_gran c = gran.
@@ -628,15 +658,15 @@ Section Global.
   Definition good (st:rtt_calc) (est:option (N * N)) : Prop :=
     exists S V, est = Some (S, V) /\ rc_srtt st <> 0%N /\ rc_gran st = gran /\
       Inv (ZN S) (ZN V) (Z.abs (65536 * ZN (rc_srtt st) - ZN S)) (Z.abs (65536 * ZN (rc_rttvar st) - ZN V)) /\
-      within_tolerance (fx (rc_rto st)) (rfc6298_rto c est) = true.
+      within_tol RD AB (fx (rc_rto st)) (rfc6298_rto c est) = true.
 
-  Lemma tol_Z obs ex : within_tolerance obs ex = true <->
-    Z.abs (ZN obs - ZN ex) <= ZN ex / 100000 + 65536000.
+  Lemma tol_Z obs ex : within_tol RD AB obs ex = true <->
+    Z.abs (ZN obs - ZN ex) <= ZN ex / ZN RD + 65536 * ZN AB.
   Proof.
-    unfold within_tolerance. rewrite N.leb_le. unfold fx.
+    unfold within_tol. rewrite N.leb_le. unfold fx.
     pose proof (absdiff_Z obs ex) as AD.
-    assert (X : ZN (ex / 100000 + 1000 * 65536) = ZN ex / 100000 + 65536000).
-    { rewrite N2Z.inj_add, N2Z.inj_div. reflexivity. }
+    assert (X : ZN (ex / RD + AB * 65536) = ZN ex / ZN RD + 65536 * ZN AB).
+    { rewrite N2Z.inj_add, N2Z.inj_div, N2Z.inj_mul. change (ZN 65536) with 65536. lia. }
     split; intros H; lia.
   Qed.
 
@@ -657,7 +687,7 @@ Section Global.
       replace (ZN (r * 65536)) with (65536 * ZN r) by lia. replace (ZN (32768 * r)) with (32768 * ZN r) by lia.
       eapply Inv_mono; [exact I|lia|lia].
     - apply tol_Z. cbn [rfc6298_rto]. rewrite Hgran, HG, EV. unfold fx. clearbody h b.
-      assert (0 <= ZN (r * 65536 + N.max (gran * 65536) (4 * (32768 * r))) / 100000) by (apply Z.div_pos; lia). lia.
+      assert (0 <= ZN (r * 65536 + N.max (gran * 65536) (4 * (32768 * r))) / ZN RD) by (apply Z.div_pos; lia). lia.
   Qed.
 
   Lemma good_step st est r : (LO <= r <= HI)%N -> good st est -> good (rtt_update st r) (rfc6298_update est (fx r)).
@@ -687,10 +717,11 @@ Section Global.
     exists S', V'. repeat split; try assumption.
     apply tol_Z. cbn [rfc6298_rto]. rewrite fx_Z.
     set (RTO := (S' + N.max (fx (cc_gran c)) (4 * V'))%N) in *.
-    pose proof (Z.div_mod (ZN S' + 4 * ZN V') 100000 ltac:(lia)) as D. pose proof (Z.mod_pos_bound (ZN S' + 4 * ZN V') 100000 ltac:(lia)) as L.
-    pose proof (Inv_final (ZN S') (ZN V') es' ev' ((ZN S' + 4 * ZN V') / 100000) I' ltac:(subst es'; lia) ltac:(subst ev'; lia)
+    pose proof (Z.div_mod (ZN S' + 4 * ZN V') (ZN RD) ltac:(lia)) as D. pose proof (Z.mod_pos_bound (ZN S' + 4 * ZN V') (ZN RD) ltac:(lia)) as L.
+    pose proof (Inv_final (ZN S') (ZN V') es' ev' ((ZN S' + 4 * ZN V') / ZN RD) I' ltac:(subst es'; lia) ltac:(subst ev'; lia)
                   ltac:(lia) ltac:(lia) ltac:(lia)) as F.
-    assert (MONO : (ZN S' + 4 * ZN V') / 100000 <= ZN RTO / 100000) by (apply Z.div_le_mono; subst RTO; lia).
+    assert (MONO : (ZN S' + 4 * ZN V') / ZN RD <= ZN RTO / ZN RD) by (apply Z.div_le_mono; subst RTO; lia).
+    set (q1 := (ZN S' + 4 * ZN V') / ZN RD) in *. set (q2 := ZN RTO / ZN RD) in *. clearbody q1 q2. clear D L.
     unfold P45, E1 in *. lia.
   Qed.
 
@@ -704,18 +735,45 @@ Section Global.
   Qed.
 
   Theorem global_generic rs : (forall r, In r rs -> (LO <= r <= HI)%N) ->
-    within_tolerance (fx (rc_rto (run (rtt_new rto gran) rs))) (rfc6298_rto c (ref_run None rs)) = true.
+    within_tol RD AB (fx (rc_rto (run (rtt_new rto gran) rs))) (rfc6298_rto c (ref_run None rs)) = true.
   Proof.
     intros Hrs. destruct rs as [|r rs].
-    - cbn. rewrite Hrto. apply tol_Z. assert (0 <= ZN (fx rto) / 100000) by (apply Z.div_pos; lia). lia.
+    - cbn. rewrite Hrto. apply tol_Z. assert (0 <= ZN (fx rto) / ZN RD) by (apply Z.div_pos; lia). lia.
     - cbn [run ref_run fold_left map].
       assert (G : good (rtt_update (rtt_new rto gran) r) (rfc6298_update None (fx r))).
       { apply good_first; [apply Hrs; left; reflexivity|reflexivity|reflexivity]. }
       destruct (run_good rs _ _ ltac:(intros; apply Hrs; right; assumption) G) as (S & V & E & _ & _ & _ & T).
       exact T.
   Qed.
-End Global.
 
+  Definition inv_ops (st:rtt_calc) (est:option (N * N)) : Prop :=
+    rc_conf st = rto /\ rc_gran st = gran /\ ((rc_srtt st = 0%N /\ rc_rto st = rto /\ est = None) \/ good st est).
+  Lemma inv_ops_step st est o : eop_ok LO HI o -> inv_ops st est -> inv_ops (eop_model st o) (eop_ref est o).
+  Proof.
+    intros Ho (HC & HG & D). destruct o as [r|]; cbn [eop_model eop_ref eop_ok] in *.
+    - assert (HC' : rc_conf (rtt_update st r) = rto) by (unfold rtt_update; destruct (rc_srtt st =? 0)%N; exact HC).
+      assert (HG' : rc_gran (rtt_update st r) = gran) by (unfold rtt_update; destruct (rc_srtt st =? 0)%N; exact HG).
+      split; [exact HC'|]. split; [exact HG'|]. right. destruct D as [(H0 & _ & ->)|G].
+      + apply good_first; assumption.
+      + apply good_step; assumption.
+    - split; [exact HC|]. split; [exact HG|]. left. cbn. repeat split. exact HC.
+  Qed.
+  Lemma inv_ops_tol st est : inv_ops st est -> within_tol RD AB (fx (rc_rto st)) (rfc6298_rto c est) = true.
+  Proof.
+    intros (_ & _ & [(_ & HR & ->)|(S & V & _ & _ & _ & _ & T)]); [|exact T].
+    cbn [rfc6298_rto]. rewrite HR, Hrto. apply tol_Z. assert (0 <= ZN (fx rto) / ZN RD) by (apply Z.div_pos; lia). lia.
+  Qed.
+  Theorem global_generic_ops os : Forall (eop_ok LO HI) os ->
+    within_tol RD AB (fx (rc_rto (run_ops (rtt_new rto gran) os))) (rfc6298_rto c (ref_ops None os)) = true.
+  Proof.
+    intros Hos. apply inv_ops_tol.
+    assert (I0 : inv_ops (rtt_new rto gran) None) by (split; [reflexivity|]; split; [reflexivity|]; left; repeat split).
+    unfold run_ops, ref_ops. generalize dependent (rtt_new rto gran). generalize (@None (N * N)).
+    induction Hos as [|o os Ho Hos IH]; intros est st I; [exact I|].
+    cbn [fold_left]. apply IH. apply inv_ops_step; assumption.
+  Qed.
+End Global.
+Print Assumptions global_generic. Print Assumptions global_generic_ops.
 
 (* ---- Stage 4, first instance: constant error bounds.  For samples of 1 ms .. 70 ms the errors of srtt and rttvar stay
    below B0, C0 (about 142 ns and 213 ns) whatever the sequence. *)
@@ -728,10 +786,5004 @@ Theorem global_1ms_70ms c rto gran rs : cc_gran c = gran -> cc_rto c = rto ->
   (forall r, In r rs -> (1000000 <= r <= 70000000)%N) ->
   within_tolerance (fx (rc_rto (run (rtt_new rto gran) rs))) (rfc6298_rto c (ref_run None rs)) = true.
 Proof.
-  intros HG HR. apply (global_generic 1000000 70000000 ltac:(lia) crude_Inv); try assumption.
+  intros HG HR. rewrite within_tolerance_std. apply (global_generic 1000000 70000000 100000 1000 ltac:(lia) ltac:(lia) ltac:(lia) crude_Inv); try assumption.
   - intros r Hr. unfold crude_Inv, crude_B0, crude_C0. lia.
   - unfold crude_Inv. intros. lia.
   - unfold crude_Inv, crude_B0, crude_C0, P45, E1. intros S V es ev r S' V' es' ev' (HS & HV & He & Hv) Hr. intros. lia.
-  - unfold crude_Inv, crude_B0, crude_C0, P45, E1. intros S V es ev T (HS & HV & He & Hv). intros. lia.
+  - unfold crude_Inv, crude_B0, crude_C0, P45, E1. intros S V es ev T (HS & HV & He & Hv). change (ZN 100000) with 100000. change (ZN 1000) with 1000. intros. lia.
 Qed.
 Print Assumptions global_1ms_70ms.
+(* ---- Stage 4, second instance: samples of 1 ms .. 650 ms, the tolerance of the property.
+   The invariant is a polyhedron: the box of the reference state and about a hundred inequalities
+     tmpl A B C D K S V es ev :  A es + B ev <= C S + D V + K        (units 2^-16 ns)
+   between the error bounds es, ev and the reference state S (SRTT), V (RTTVAR).  The coefficients were found outside
+   Coq (template polyhedra, descending Kleene iteration with a small LP solver, every iterate a post-fixpoint); nothing
+   of that is trusted: each inequality is shown here to be preserved by the recurrences of Stage 3 (one lemma
+   invXXX_step_i per inequality, the hypotheses are the few inequalities its LP certificate uses), to hold initially
+   and, the last one, to imply the tolerance; all by lia. *)
+Definition tmpl (A B C D K S V es ev : Z) : Prop := A * es + B * ev <= C * S + D * V + K.
+Lemma tmpl_mono A B C D K S V es ev es' ev' : 0 <= A -> 0 <= B -> tmpl A B C D K S V es ev -> es' <= es -> ev' <= ev -> tmpl A B C D K S V es' ev'.
+Proof. unfold tmpl. intros. nia. Qed.
+Definition Inv1ms_650ms (S V es ev : Z) : Prop :=
+  (((((((65536000000 <= S <= 42598400000000) /\ ((0 <= V <= 42598400000000) /\ (tmpl 0 0 8388609 (-16777218) 428274587473769332736 S V es ev))) /\ ((tmpl 0 0 8388609 (-8388609) 106665569490615615488 S V es ev) /\ ((tmpl 0 0 16777218 (-8388609) (-820022133117572608) S V es ev) /\ (tmpl 35184372088832 0 0 0 2877466508466800033792 S V es ev)))) /\ (((tmpl 35184372088832 0 16777218 0 2242070879954330976256 S V es ev) /\ ((tmpl 35184372088832 0 33554436 0 1747629895245335887872 S V es ev) /\ (tmpl 35184372088832 0 33554436 33554436 1448446765830788612096 S V es ev))) /\ (((tmpl 35184372088832 0 50331654 0 1362820312732891873280 S V es ev) /\ (tmpl 35184372088832 0 50331654 33554436 884316247817185263616 S V es ev)) /\ ((tmpl 35184372088832 0 50331654 67108872 784814967622404538368 S V es ev) /\ (tmpl 35184372088832 0 67108872 0 1063279915641196904448 S V es ev))))) /\ ((((tmpl 35184372088832 0 67108872 33554436 543327771809921695744 S V es ev) /\ ((tmpl 35184372088832 0 67108872 67108872 371471404283206434816 S V es ev) /\ (tmpl 35184372088832 0 67108872 134217744 259344637613773324288 S V es ev))) /\ (((tmpl 35184372088832 0 83886090 0 830061870981077401600 S V es ev) /\ (tmpl 35184372088832 0 83886090 33554436 377747762373070553088 S V es ev)) /\ ((tmpl 35184372088832 0 83886090 67108872 231317784994332377088 S V es ev) /\ (tmpl 35184372088832 0 100663308 0 648435995597280378880 S V es ev)))) /\ (((tmpl 35184372088832 0 100663308 33554436 282387936667814559744 S V es ev) /\ ((tmpl 35184372088832 0 117440526 0 506965019255741546496 S V es ev) /\ (tmpl 35184372088832 0 134217744 0 396801676538495565824 S V es ev))) /\ (((tmpl 35184372088832 0 150994962 0 311159808483668262912 S V es ev) /\ (tmpl 35184372088832 0 167772180 0 244907030504182710272 S V es ev)) /\ ((tmpl 35184372088832 0 184549398 0 194216237623767859200 S V es ev) /\ (tmpl 35184372088832 0 201326616 0 156220244632019927040 S V es ev)))))) /\ (((((tmpl 35184372088832 0 218103834 0 128656189891172794368 S V es ev) /\ ((tmpl 35184372088832 0 234881052 0 109549387852147228672 S V es ev) /\ (tmpl 35184372088832 0 251658270 0 97020472845708066816 S V es ev))) /\ (((tmpl 35184372088832 0 268435488 0 89264210019393830912 S V es ev) /\ (tmpl 35184372088832 0 285212706 0 84661829373195763712 S V es ev)) /\ ((tmpl 35184372088832 0 301989924 0 81921442140255387648 S V es ev) /\ (tmpl 35184372088832 0 318767142 0 80147688121855311872 S V es ev)))) /\ (((tmpl 35184372088832 0 335544360 0 78808924128540590080 S V es ev) /\ ((tmpl 35184372088832 0 352321578 0 77637392062984503296 S V es ev) /\ (tmpl 35184372088832 0 369098796 0 76519886598574407680 S V es ev))) /\ (((tmpl 35184372088832 0 385876014 0 75416749541786271744 S V es ev) /\ (tmpl 35184372088832 0 402653232 0 74316672446288396288 S V es ev)) /\ ((tmpl 35184372088832 0 419430450 0 73217096710393970688 S V es ev) /\ (tmpl 35184372088832 0 436207668 0 72117580279886151680 S V es ev))))) /\ ((((tmpl 35184372088832 0 452984886 0 71018068355903430656 S V es ev) /\ ((tmpl 0 35184372088832 0 0 4282236851683024437248 S V es ev) /\ (tmpl 0 35184372088832 33554436 67108872 1955129539045752307712 S V es ev))) /\ (((tmpl 0 35184372088832 67108872 0 2658854277084935618560 S V es ev) /\ (tmpl 0 35184372088832 67108872 33554436 1784664598824412512256 S V es ev)) /\ ((tmpl 0 35184372088832 67108872 67108872 1326611854677505474560 S V es ev) /\ (tmpl 0 35184372088832 67108872 134217744 906708345435608186880 S V es ev)))) /\ (((tmpl 0 35184372088832 100663308 0 2139639364575292293120 S V es ev) /\ ((tmpl 0 35184372088832 100663308 33554436 1426538923632010985472 S V es ev) /\ (tmpl 0 35184372088832 100663308 67108872 987585203811506847744 S V es ev))) /\ (((tmpl 0 35184372088832 100663308 134217744 607345837593670189056 S V es ev) /\ (tmpl 0 35184372088832 134217744 0 1737318176066754314240 S V es ev)) /\ ((tmpl 0 35184372088832 134217744 33554436 1139588593549370982400 S V es ev) /\ (tmpl 0 35184372088832 134217744 67108872 751017339520276234240 S V es ev))))))) /\ ((((((tmpl 0 35184372088832 167772180 0 1402604387814047744000 S V es ev) /\ ((tmpl 0 35184372088832 167772180 33554436 908406956580349804544 S V es ev) /\ (tmpl 0 35184372088832 201326616 0 1127104461815666180096 S V es ev))) /\ ((tmpl 0 35184372088832 201326616 33554436 722638423548835921920 S V es ev) /\ ((tmpl 0 35184372088832 234881052 0 901471410949965086720 S V es ev) /\ (tmpl 0 35184372088832 234881052 33554436 574028143779768369152 S V es ev)))) /\ (((tmpl 0 35184372088832 268435488 0 717737541419268571136 S V es ev) /\ ((tmpl 0 35184372088832 268435488 33554436 456299672223065178112 S V es ev) /\ (tmpl 0 35184372088832 301989924 0 569875734304903790592 S V es ev))) /\ (((tmpl 0 35184372088832 301989924 33554436 364552820924801351680 S V es ev) /\ (tmpl 0 35184372088832 335544360 0 452423358065647812608 S V es ev)) /\ ((tmpl 0 35184372088832 335544360 33554436 294874422449291460608 S V es ev) /\ (tmpl 0 35184372088832 369098796 0 360778367777643954176 S V es ev))))) /\ ((((tmpl 0 35184372088832 369098796 33554436 243907534057014951936 S V es ev) /\ ((tmpl 0 35184372088832 402653232 0 291137308515245064192 S V es ev) /\ (tmpl 0 35184372088832 402653232 33554436 208435982955420975104 S V es ev))) /\ (((tmpl 0 35184372088832 436207668 0 240183854349014925312 S V es ev) /\ (tmpl 0 35184372088832 436207668 33554436 185159205075422085120 S V es ev)) /\ ((tmpl 0 35184372088832 469762104 0 204716958348242845696 S V es ev) /\ (tmpl 0 35184372088832 469762104 33554436 170763984455168884736 S V es ev)))) /\ (((tmpl 0 35184372088832 503316540 0 181441695158893707264 S V es ev) /\ ((tmpl 0 35184372088832 503316540 33554436 162221201110067380224 S V es ev) /\ (tmpl 0 35184372088832 536870976 0 167046923660688719872 S V es ev))) /\ (((tmpl 0 35184372088832 536870976 33554436 157103048667699937280 S V es ev) /\ (tmpl 0 35184372088832 570425412 0 158504257619315851264 S V es ev)) /\ ((tmpl 0 35184372088832 570425412 33554436 153735604770786869248 S V es ev) /\ (tmpl 0 35184372088832 603979848 0 153386130954277552128 S V es ev)))))) /\ (((((tmpl 0 35184372088832 603979848 33554436 151137538017572749312 S V es ev) /\ ((tmpl 0 35184372088832 637534284 0 150018691316956856320 S V es ev) /\ (tmpl 0 35184372088832 637534284 33554436 148859164029440819200 S V es ev))) /\ (((tmpl 35184372088832 140737521909764 0 0 19961800606591941083136 S V es ev) /\ (tmpl 35184372088832 140737521909764 0 33554436 18577583936621525336064 S V es ev)) /\ ((tmpl 35184372088832 140737521909764 0 67108872 17539421426070543400960 S V es ev) /\ (tmpl 109951162777600000 439804755968012500 274877906944 0 53663721722736790732800000 S V es ev)))) /\ (((tmpl 109951162777600000 439804755968012500 274877906944 104857612500 49633710230215177011200000 S V es ev) /\ ((tmpl 109951162777600000 439804755968012500 274877906944 209715225000 45797896959514135756800000 S V es ev) /\ (tmpl 109951162777600000 439804755968012500 274877906944 419430450000 41013520526806443622400000 S V es ev))) /\ (((tmpl 109951162777600000 439804755968012500 549755813888 0 46668960995399617740800000 S V es ev) /\ (tmpl 109951162777600000 439804755968012500 549755813888 104857612500 43002903509903232204800000 S V es ev)) /\ ((tmpl 109951162777600000 439804755968012500 549755813888 209715225000 39510810225110614016000000 S V es ev) /\ (tmpl 109951162777600000 439804755968012500 549755813888 419430450000 33836225968747675648000000 S V es ev))))) /\ ((((tmpl 109951162777600000 439804755968012500 549755813888 838860900000 28834154544893611212800000 S V es ev) /\ ((tmpl 109951162777600000 439804755968012500 824633720832 0 40721307459685842944000000 S V es ev) /\ (tmpl 109951162777600000 439804755968012500 824633720832 104857612500 37420548261335747788800000 S V es ev))) /\ (((tmpl 109951162777600000 439804755968012500 824633720832 209715225000 34272912017916585574400000 S V es ev) /\ (tmpl 109951162777600000 439804755968012500 824633720832 419430450000 28816759000248129945600000 S V es ev)) /\ ((tmpl 109951162777600000 439804755968012500 824633720832 1677721800000 17441674136722066636800000 S V es ev) /\ (tmpl 109951162777600000 439804755968012500 1099511627776 0 35627314248538954137600000 S V es ev)))) /\ (((tmpl 109951162777600000 439804755968012500 1099511627776 104857612500 32667584955783308902400000 S V es ev) /\ ((tmpl 109951162777600000 439804755968012500 1099511627776 209715225000 29849675298388167884800000 S V es ev) /\ (tmpl 109951162777600000 439804755968012500 1099511627776 419430450000 24913354653544303820800000 S V es ev))) /\ (((tmpl 109951162777600000 439804755968012500 1099511627776 838860900000 18743529067647379046400000 S V es ev) /\ (tmpl 109951162777600000 439804755968012500 1099511627776 1677721800000 12725096578756435968000000 S V es ev)) /\ ((tmpl 109951162777600000 439804755968012500 1099511627776 3355443600000 8282118462508079513600000 S V es ev) /\ (tmpl 109951162777600000 439804755968012500 1099511627776 4293188898604 6884438688374521856000000 S V es ev)))))))).
+Lemma inv1ms_650ms_step_4 S V es ev r S' V' es' ev' :
+  65536000000 <= S <= 42598400000000 -> 0 <= V <= 42598400000000 ->
+
+  tmpl 0 0 8388609 (-16777218) 428274587473769332736 S V es ev ->
+  tmpl 0 0 8388609 (-8388609) 106665569490615615488 S V es ev ->
+  1000000 <= r <= 650000000 -> 0 <= es -> 0 <= ev ->
+  8 * S' <= 7 * S + 65536 * r < 8 * S' + 8 ->
+  4 * V' <= 3 * V + Z.abs (S - 65536 * r) < 4 * V' + 4 ->
+  0 <= es' -> 8 * P45 * es' <= 7 * (P45 + E1) * es + E1 * (7 * S + 65536 * r) + 8 * P45 * (65536 + 1) ->
+  0 <= ev' -> 4 * P45 * ev' <= 3 * (P45 + E1) * ev + (P45 + E1) * es + E1 * (3 * V + Z.abs (S - 65536 * r)) + 4 * P45 * (65536 + 1) ->
+  tmpl 0 0 8388609 (-16777218) 428274587473769332736 S' V' es' ev'.
+Proof. unfold tmpl, P45, E1. intros. lia. Qed.
+Lemma inv1ms_650ms_step_5 S V es ev r S' V' es' ev' :
+  65536000000 <= S <= 42598400000000 -> 0 <= V <= 42598400000000 ->
+
+  tmpl 0 0 8388609 (-16777218) 428274587473769332736 S V es ev ->
+  tmpl 0 0 8388609 (-8388609) 106665569490615615488 S V es ev ->
+  tmpl 0 0 16777218 (-8388609) (-820022133117572608) S V es ev ->
+  1000000 <= r <= 650000000 -> 0 <= es -> 0 <= ev ->
+  8 * S' <= 7 * S + 65536 * r < 8 * S' + 8 ->
+  4 * V' <= 3 * V + Z.abs (S - 65536 * r) < 4 * V' + 4 ->
+  0 <= es' -> 8 * P45 * es' <= 7 * (P45 + E1) * es + E1 * (7 * S + 65536 * r) + 8 * P45 * (65536 + 1) ->
+  0 <= ev' -> 4 * P45 * ev' <= 3 * (P45 + E1) * ev + (P45 + E1) * es + E1 * (3 * V + Z.abs (S - 65536 * r)) + 4 * P45 * (65536 + 1) ->
+  tmpl 0 0 8388609 (-8388609) 106665569490615615488 S' V' es' ev'.
+Proof. unfold tmpl, P45, E1. intros. lia. Qed.
+Lemma inv1ms_650ms_step_6 S V es ev r S' V' es' ev' :
+  65536000000 <= S <= 42598400000000 -> 0 <= V <= 42598400000000 ->
+
+  tmpl 0 0 16777218 (-8388609) (-820022133117572608) S V es ev ->
+  1000000 <= r <= 650000000 -> 0 <= es -> 0 <= ev ->
+  8 * S' <= 7 * S + 65536 * r < 8 * S' + 8 ->
+  4 * V' <= 3 * V + Z.abs (S - 65536 * r) < 4 * V' + 4 ->
+  0 <= es' -> 8 * P45 * es' <= 7 * (P45 + E1) * es + E1 * (7 * S + 65536 * r) + 8 * P45 * (65536 + 1) ->
+  0 <= ev' -> 4 * P45 * ev' <= 3 * (P45 + E1) * ev + (P45 + E1) * es + E1 * (3 * V + Z.abs (S - 65536 * r)) + 4 * P45 * (65536 + 1) ->
+  tmpl 0 0 16777218 (-8388609) (-820022133117572608) S' V' es' ev'.
+Proof. unfold tmpl, P45, E1. intros. lia. Qed.
+Lemma inv1ms_650ms_step_7 S V es ev r S' V' es' ev' :
+  65536000000 <= S <= 42598400000000 -> 0 <= V <= 42598400000000 ->
+
+  tmpl 35184372088832 0 0 0 2877466508466800033792 S V es ev ->
+  1000000 <= r <= 650000000 -> 0 <= es -> 0 <= ev ->
+  8 * S' <= 7 * S + 65536 * r < 8 * S' + 8 ->
+  4 * V' <= 3 * V + Z.abs (S - 65536 * r) < 4 * V' + 4 ->
+  0 <= es' -> 8 * P45 * es' <= 7 * (P45 + E1) * es + E1 * (7 * S + 65536 * r) + 8 * P45 * (65536 + 1) ->
+  0 <= ev' -> 4 * P45 * ev' <= 3 * (P45 + E1) * ev + (P45 + E1) * es + E1 * (3 * V + Z.abs (S - 65536 * r)) + 4 * P45 * (65536 + 1) ->
+  tmpl 35184372088832 0 0 0 2877466508466800033792 S' V' es' ev'.
+Proof. unfold tmpl, P45, E1. intros. lia. Qed.
+Lemma inv1ms_650ms_step_8 S V es ev r S' V' es' ev' :
+  65536000000 <= S <= 42598400000000 -> 0 <= V <= 42598400000000 ->
+
+  tmpl 35184372088832 0 0 0 2877466508466800033792 S V es ev ->
+  tmpl 35184372088832 0 16777218 0 2242070879954330976256 S V es ev ->
+  1000000 <= r <= 650000000 -> 0 <= es -> 0 <= ev ->
+  8 * S' <= 7 * S + 65536 * r < 8 * S' + 8 ->
+  4 * V' <= 3 * V + Z.abs (S - 65536 * r) < 4 * V' + 4 ->
+  0 <= es' -> 8 * P45 * es' <= 7 * (P45 + E1) * es + E1 * (7 * S + 65536 * r) + 8 * P45 * (65536 + 1) ->
+  0 <= ev' -> 4 * P45 * ev' <= 3 * (P45 + E1) * ev + (P45 + E1) * es + E1 * (3 * V + Z.abs (S - 65536 * r)) + 4 * P45 * (65536 + 1) ->
+  tmpl 35184372088832 0 16777218 0 2242070879954330976256 S' V' es' ev'.
+Proof. unfold tmpl, P45, E1. intros. lia. Qed.
+Lemma inv1ms_650ms_step_9 S V es ev r S' V' es' ev' :
+  65536000000 <= S <= 42598400000000 -> 0 <= V <= 42598400000000 ->
+
+  tmpl 35184372088832 0 16777218 0 2242070879954330976256 S V es ev ->
+  tmpl 35184372088832 0 33554436 0 1747629895245335887872 S V es ev ->
+  1000000 <= r <= 650000000 -> 0 <= es -> 0 <= ev ->
+  8 * S' <= 7 * S + 65536 * r < 8 * S' + 8 ->
+  4 * V' <= 3 * V + Z.abs (S - 65536 * r) < 4 * V' + 4 ->
+  0 <= es' -> 8 * P45 * es' <= 7 * (P45 + E1) * es + E1 * (7 * S + 65536 * r) + 8 * P45 * (65536 + 1) ->
+  0 <= ev' -> 4 * P45 * ev' <= 3 * (P45 + E1) * ev + (P45 + E1) * es + E1 * (3 * V + Z.abs (S - 65536 * r)) + 4 * P45 * (65536 + 1) ->
+  tmpl 35184372088832 0 33554436 0 1747629895245335887872 S' V' es' ev'.
+Proof. unfold tmpl, P45, E1. intros. lia. Qed.
+Lemma inv1ms_650ms_step_10 S V es ev r S' V' es' ev' :
+  65536000000 <= S <= 42598400000000 -> 0 <= V <= 42598400000000 ->
+
+  tmpl 35184372088832 0 0 0 2877466508466800033792 S V es ev ->
+  tmpl 35184372088832 0 33554436 33554436 1448446765830788612096 S V es ev ->
+  1000000 <= r <= 650000000 -> 0 <= es -> 0 <= ev ->
+  8 * S' <= 7 * S + 65536 * r < 8 * S' + 8 ->
+  4 * V' <= 3 * V + Z.abs (S - 65536 * r) < 4 * V' + 4 ->
+  0 <= es' -> 8 * P45 * es' <= 7 * (P45 + E1) * es + E1 * (7 * S + 65536 * r) + 8 * P45 * (65536 + 1) ->
+  0 <= ev' -> 4 * P45 * ev' <= 3 * (P45 + E1) * ev + (P45 + E1) * es + E1 * (3 * V + Z.abs (S - 65536 * r)) + 4 * P45 * (65536 + 1) ->
+  tmpl 35184372088832 0 33554436 33554436 1448446765830788612096 S' V' es' ev'.
+Proof. unfold tmpl, P45, E1. intros. lia. Qed.
+Lemma inv1ms_650ms_step_11 S V es ev r S' V' es' ev' :
+  65536000000 <= S <= 42598400000000 -> 0 <= V <= 42598400000000 ->
+
+  tmpl 35184372088832 0 33554436 0 1747629895245335887872 S V es ev ->
+  tmpl 35184372088832 0 50331654 0 1362820312732891873280 S V es ev ->
+  1000000 <= r <= 650000000 -> 0 <= es -> 0 <= ev ->
+  8 * S' <= 7 * S + 65536 * r < 8 * S' + 8 ->
+  4 * V' <= 3 * V + Z.abs (S - 65536 * r) < 4 * V' + 4 ->
+  0 <= es' -> 8 * P45 * es' <= 7 * (P45 + E1) * es + E1 * (7 * S + 65536 * r) + 8 * P45 * (65536 + 1) ->
+  0 <= ev' -> 4 * P45 * ev' <= 3 * (P45 + E1) * ev + (P45 + E1) * es + E1 * (3 * V + Z.abs (S - 65536 * r)) + 4 * P45 * (65536 + 1) ->
+  tmpl 35184372088832 0 50331654 0 1362820312732891873280 S' V' es' ev'.
+Proof. unfold tmpl, P45, E1. intros. lia. Qed.
+Lemma inv1ms_650ms_step_12 S V es ev r S' V' es' ev' :
+  65536000000 <= S <= 42598400000000 -> 0 <= V <= 42598400000000 ->
+
+  tmpl 35184372088832 0 16777218 0 2242070879954330976256 S V es ev ->
+  tmpl 35184372088832 0 33554436 0 1747629895245335887872 S V es ev ->
+  tmpl 35184372088832 0 50331654 33554436 884316247817185263616 S V es ev ->
+  1000000 <= r <= 650000000 -> 0 <= es -> 0 <= ev ->
+  8 * S' <= 7 * S + 65536 * r < 8 * S' + 8 ->
+  4 * V' <= 3 * V + Z.abs (S - 65536 * r) < 4 * V' + 4 ->
+  0 <= es' -> 8 * P45 * es' <= 7 * (P45 + E1) * es + E1 * (7 * S + 65536 * r) + 8 * P45 * (65536 + 1) ->
+  0 <= ev' -> 4 * P45 * ev' <= 3 * (P45 + E1) * ev + (P45 + E1) * es + E1 * (3 * V + Z.abs (S - 65536 * r)) + 4 * P45 * (65536 + 1) ->
+  tmpl 35184372088832 0 50331654 33554436 884316247817185263616 S' V' es' ev'.
+Proof. unfold tmpl, P45, E1. intros. lia. Qed.
+Lemma inv1ms_650ms_step_13 S V es ev r S' V' es' ev' :
+  65536000000 <= S <= 42598400000000 -> 0 <= V <= 42598400000000 ->
+
+  tmpl 35184372088832 0 33554436 33554436 1448446765830788612096 S V es ev ->
+  tmpl 35184372088832 0 50331654 33554436 884316247817185263616 S V es ev ->
+  tmpl 35184372088832 0 50331654 67108872 784814967622404538368 S V es ev ->
+  1000000 <= r <= 650000000 -> 0 <= es -> 0 <= ev ->
+  8 * S' <= 7 * S + 65536 * r < 8 * S' + 8 ->
+  4 * V' <= 3 * V + Z.abs (S - 65536 * r) < 4 * V' + 4 ->
+  0 <= es' -> 8 * P45 * es' <= 7 * (P45 + E1) * es + E1 * (7 * S + 65536 * r) + 8 * P45 * (65536 + 1) ->
+  0 <= ev' -> 4 * P45 * ev' <= 3 * (P45 + E1) * ev + (P45 + E1) * es + E1 * (3 * V + Z.abs (S - 65536 * r)) + 4 * P45 * (65536 + 1) ->
+  tmpl 35184372088832 0 50331654 67108872 784814967622404538368 S' V' es' ev'.
+Proof. unfold tmpl, P45, E1. intros. lia. Qed.
+Lemma inv1ms_650ms_step_14 S V es ev r S' V' es' ev' :
+  65536000000 <= S <= 42598400000000 -> 0 <= V <= 42598400000000 ->
+
+  tmpl 35184372088832 0 50331654 0 1362820312732891873280 S V es ev ->
+  tmpl 35184372088832 0 67108872 0 1063279915641196904448 S V es ev ->
+  1000000 <= r <= 650000000 -> 0 <= es -> 0 <= ev ->
+  8 * S' <= 7 * S + 65536 * r < 8 * S' + 8 ->
+  4 * V' <= 3 * V + Z.abs (S - 65536 * r) < 4 * V' + 4 ->
+  0 <= es' -> 8 * P45 * es' <= 7 * (P45 + E1) * es + E1 * (7 * S + 65536 * r) + 8 * P45 * (65536 + 1) ->
+  0 <= ev' -> 4 * P45 * ev' <= 3 * (P45 + E1) * ev + (P45 + E1) * es + E1 * (3 * V + Z.abs (S - 65536 * r)) + 4 * P45 * (65536 + 1) ->
+  tmpl 35184372088832 0 67108872 0 1063279915641196904448 S' V' es' ev'.
+Proof. unfold tmpl, P45, E1. intros. lia. Qed.
+Lemma inv1ms_650ms_step_15 S V es ev r S' V' es' ev' :
+  65536000000 <= S <= 42598400000000 -> 0 <= V <= 42598400000000 ->
+
+  tmpl 35184372088832 0 50331654 0 1362820312732891873280 S V es ev ->
+  tmpl 35184372088832 0 67108872 0 1063279915641196904448 S V es ev ->
+  tmpl 35184372088832 0 67108872 33554436 543327771809921695744 S V es ev ->
+  1000000 <= r <= 650000000 -> 0 <= es -> 0 <= ev ->
+  8 * S' <= 7 * S + 65536 * r < 8 * S' + 8 ->
+  4 * V' <= 3 * V + Z.abs (S - 65536 * r) < 4 * V' + 4 ->
+  0 <= es' -> 8 * P45 * es' <= 7 * (P45 + E1) * es + E1 * (7 * S + 65536 * r) + 8 * P45 * (65536 + 1) ->
+  0 <= ev' -> 4 * P45 * ev' <= 3 * (P45 + E1) * ev + (P45 + E1) * es + E1 * (3 * V + Z.abs (S - 65536 * r)) + 4 * P45 * (65536 + 1) ->
+  tmpl 35184372088832 0 67108872 33554436 543327771809921695744 S' V' es' ev'.
+Proof. unfold tmpl, P45, E1. intros. lia. Qed.
+Lemma inv1ms_650ms_step_16 S V es ev r S' V' es' ev' :
+  65536000000 <= S <= 42598400000000 -> 0 <= V <= 42598400000000 ->
+
+  tmpl 35184372088832 0 50331654 33554436 884316247817185263616 S V es ev ->
+  tmpl 35184372088832 0 67108872 33554436 543327771809921695744 S V es ev ->
+  tmpl 35184372088832 0 67108872 67108872 371471404283206434816 S V es ev ->
+  1000000 <= r <= 650000000 -> 0 <= es -> 0 <= ev ->
+  8 * S' <= 7 * S + 65536 * r < 8 * S' + 8 ->
+  4 * V' <= 3 * V + Z.abs (S - 65536 * r) < 4 * V' + 4 ->
+  0 <= es' -> 8 * P45 * es' <= 7 * (P45 + E1) * es + E1 * (7 * S + 65536 * r) + 8 * P45 * (65536 + 1) ->
+  0 <= ev' -> 4 * P45 * ev' <= 3 * (P45 + E1) * ev + (P45 + E1) * es + E1 * (3 * V + Z.abs (S - 65536 * r)) + 4 * P45 * (65536 + 1) ->
+  tmpl 35184372088832 0 67108872 67108872 371471404283206434816 S' V' es' ev'.
+Proof. unfold tmpl, P45, E1. intros. lia. Qed.
+Lemma inv1ms_650ms_step_17 S V es ev r S' V' es' ev' :
+  65536000000 <= S <= 42598400000000 -> 0 <= V <= 42598400000000 ->
+
+  tmpl 35184372088832 0 50331654 67108872 784814967622404538368 S V es ev ->
+  tmpl 35184372088832 0 67108872 67108872 371471404283206434816 S V es ev ->
+  tmpl 35184372088832 0 67108872 134217744 259344637613773324288 S V es ev ->
+  1000000 <= r <= 650000000 -> 0 <= es -> 0 <= ev ->
+  8 * S' <= 7 * S + 65536 * r < 8 * S' + 8 ->
+  4 * V' <= 3 * V + Z.abs (S - 65536 * r) < 4 * V' + 4 ->
+  0 <= es' -> 8 * P45 * es' <= 7 * (P45 + E1) * es + E1 * (7 * S + 65536 * r) + 8 * P45 * (65536 + 1) ->
+  0 <= ev' -> 4 * P45 * ev' <= 3 * (P45 + E1) * ev + (P45 + E1) * es + E1 * (3 * V + Z.abs (S - 65536 * r)) + 4 * P45 * (65536 + 1) ->
+  tmpl 35184372088832 0 67108872 134217744 259344637613773324288 S' V' es' ev'.
+Proof. unfold tmpl, P45, E1. intros. lia. Qed.
+Lemma inv1ms_650ms_step_18 S V es ev r S' V' es' ev' :
+  65536000000 <= S <= 42598400000000 -> 0 <= V <= 42598400000000 ->
+
+  tmpl 35184372088832 0 67108872 0 1063279915641196904448 S V es ev ->
+  tmpl 35184372088832 0 83886090 0 830061870981077401600 S V es ev ->
+  tmpl 35184372088832 0 100663308 0 648435995597280378880 S V es ev ->
+  1000000 <= r <= 650000000 -> 0 <= es -> 0 <= ev ->
+  8 * S' <= 7 * S + 65536 * r < 8 * S' + 8 ->
+  4 * V' <= 3 * V + Z.abs (S - 65536 * r) < 4 * V' + 4 ->
+  0 <= es' -> 8 * P45 * es' <= 7 * (P45 + E1) * es + E1 * (7 * S + 65536 * r) + 8 * P45 * (65536 + 1) ->
+  0 <= ev' -> 4 * P45 * ev' <= 3 * (P45 + E1) * ev + (P45 + E1) * es + E1 * (3 * V + Z.abs (S - 65536 * r)) + 4 * P45 * (65536 + 1) ->
+  tmpl 35184372088832 0 83886090 0 830061870981077401600 S' V' es' ev'.
+Proof. unfold tmpl, P45, E1. intros. lia. Qed.
+Lemma inv1ms_650ms_step_19 S V es ev r S' V' es' ev' :
+  65536000000 <= S <= 42598400000000 -> 0 <= V <= 42598400000000 ->
+
+  tmpl 35184372088832 0 67108872 33554436 543327771809921695744 S V es ev ->
+  tmpl 35184372088832 0 83886090 33554436 377747762373070553088 S V es ev ->
+  tmpl 35184372088832 0 100663308 0 648435995597280378880 S V es ev ->
+  1000000 <= r <= 650000000 -> 0 <= es -> 0 <= ev ->
+  8 * S' <= 7 * S + 65536 * r < 8 * S' + 8 ->
+  4 * V' <= 3 * V + Z.abs (S - 65536 * r) < 4 * V' + 4 ->
+  0 <= es' -> 8 * P45 * es' <= 7 * (P45 + E1) * es + E1 * (7 * S + 65536 * r) + 8 * P45 * (65536 + 1) ->
+  0 <= ev' -> 4 * P45 * ev' <= 3 * (P45 + E1) * ev + (P45 + E1) * es + E1 * (3 * V + Z.abs (S - 65536 * r)) + 4 * P45 * (65536 + 1) ->
+  tmpl 35184372088832 0 83886090 33554436 377747762373070553088 S' V' es' ev'.
+Proof. unfold tmpl, P45, E1. intros. lia. Qed.
+Lemma inv1ms_650ms_step_20 S V es ev r S' V' es' ev' :
+  65536000000 <= S <= 42598400000000 -> 0 <= V <= 42598400000000 ->
+
+  tmpl 35184372088832 0 83886090 33554436 377747762373070553088 S V es ev ->
+  tmpl 35184372088832 0 83886090 67108872 231317784994332377088 S V es ev ->
+  tmpl 35184372088832 0 100663308 33554436 282387936667814559744 S V es ev ->
+  1000000 <= r <= 650000000 -> 0 <= es -> 0 <= ev ->
+  8 * S' <= 7 * S + 65536 * r < 8 * S' + 8 ->
+  4 * V' <= 3 * V + Z.abs (S - 65536 * r) < 4 * V' + 4 ->
+  0 <= es' -> 8 * P45 * es' <= 7 * (P45 + E1) * es + E1 * (7 * S + 65536 * r) + 8 * P45 * (65536 + 1) ->
+  0 <= ev' -> 4 * P45 * ev' <= 3 * (P45 + E1) * ev + (P45 + E1) * es + E1 * (3 * V + Z.abs (S - 65536 * r)) + 4 * P45 * (65536 + 1) ->
+  tmpl 35184372088832 0 83886090 67108872 231317784994332377088 S' V' es' ev'.
+Proof. unfold tmpl, P45, E1. intros. lia. Qed.
+Lemma inv1ms_650ms_step_21 S V es ev r S' V' es' ev' :
+  65536000000 <= S <= 42598400000000 -> 0 <= V <= 42598400000000 ->
+
+  tmpl 35184372088832 0 83886090 0 830061870981077401600 S V es ev ->
+  tmpl 35184372088832 0 100663308 0 648435995597280378880 S V es ev ->
+  tmpl 35184372088832 0 117440526 0 506965019255741546496 S V es ev ->
+  1000000 <= r <= 650000000 -> 0 <= es -> 0 <= ev ->
+  8 * S' <= 7 * S + 65536 * r < 8 * S' + 8 ->
+  4 * V' <= 3 * V + Z.abs (S - 65536 * r) < 4 * V' + 4 ->
+  0 <= es' -> 8 * P45 * es' <= 7 * (P45 + E1) * es + E1 * (7 * S + 65536 * r) + 8 * P45 * (65536 + 1) ->
+  0 <= ev' -> 4 * P45 * ev' <= 3 * (P45 + E1) * ev + (P45 + E1) * es + E1 * (3 * V + Z.abs (S - 65536 * r)) + 4 * P45 * (65536 + 1) ->
+  tmpl 35184372088832 0 100663308 0 648435995597280378880 S' V' es' ev'.
+Proof. unfold tmpl, P45, E1. intros. lia. Qed.
+Lemma inv1ms_650ms_step_22 S V es ev r S' V' es' ev' :
+  65536000000 <= S <= 42598400000000 -> 0 <= V <= 42598400000000 ->
+
+  tmpl 35184372088832 0 83886090 33554436 377747762373070553088 S V es ev ->
+  tmpl 35184372088832 0 100663308 33554436 282387936667814559744 S V es ev ->
+  tmpl 35184372088832 0 134217744 0 396801676538495565824 S V es ev ->
+  1000000 <= r <= 650000000 -> 0 <= es -> 0 <= ev ->
+  8 * S' <= 7 * S + 65536 * r < 8 * S' + 8 ->
+  4 * V' <= 3 * V + Z.abs (S - 65536 * r) < 4 * V' + 4 ->
+  0 <= es' -> 8 * P45 * es' <= 7 * (P45 + E1) * es + E1 * (7 * S + 65536 * r) + 8 * P45 * (65536 + 1) ->
+  0 <= ev' -> 4 * P45 * ev' <= 3 * (P45 + E1) * ev + (P45 + E1) * es + E1 * (3 * V + Z.abs (S - 65536 * r)) + 4 * P45 * (65536 + 1) ->
+  tmpl 35184372088832 0 100663308 33554436 282387936667814559744 S' V' es' ev'.
+Proof. unfold tmpl, P45, E1. intros. lia. Qed.
+Lemma inv1ms_650ms_step_23 S V es ev r S' V' es' ev' :
+  65536000000 <= S <= 42598400000000 -> 0 <= V <= 42598400000000 ->
+
+  tmpl 35184372088832 0 100663308 0 648435995597280378880 S V es ev ->
+  tmpl 35184372088832 0 117440526 0 506965019255741546496 S V es ev ->
+  tmpl 35184372088832 0 134217744 0 396801676538495565824 S V es ev ->
+  1000000 <= r <= 650000000 -> 0 <= es -> 0 <= ev ->
+  8 * S' <= 7 * S + 65536 * r < 8 * S' + 8 ->
+  4 * V' <= 3 * V + Z.abs (S - 65536 * r) < 4 * V' + 4 ->
+  0 <= es' -> 8 * P45 * es' <= 7 * (P45 + E1) * es + E1 * (7 * S + 65536 * r) + 8 * P45 * (65536 + 1) ->
+  0 <= ev' -> 4 * P45 * ev' <= 3 * (P45 + E1) * ev + (P45 + E1) * es + E1 * (3 * V + Z.abs (S - 65536 * r)) + 4 * P45 * (65536 + 1) ->
+  tmpl 35184372088832 0 117440526 0 506965019255741546496 S' V' es' ev'.
+Proof. unfold tmpl, P45, E1. intros. lia. Qed.
+Lemma inv1ms_650ms_step_24 S V es ev r S' V' es' ev' :
+  65536000000 <= S <= 42598400000000 -> 0 <= V <= 42598400000000 ->
+
+  tmpl 35184372088832 0 117440526 0 506965019255741546496 S V es ev ->
+  tmpl 35184372088832 0 134217744 0 396801676538495565824 S V es ev ->
+  tmpl 35184372088832 0 150994962 0 311159808483668262912 S V es ev ->
+  1000000 <= r <= 650000000 -> 0 <= es -> 0 <= ev ->
+  8 * S' <= 7 * S + 65536 * r < 8 * S' + 8 ->
+  4 * V' <= 3 * V + Z.abs (S - 65536 * r) < 4 * V' + 4 ->
+  0 <= es' -> 8 * P45 * es' <= 7 * (P45 + E1) * es + E1 * (7 * S + 65536 * r) + 8 * P45 * (65536 + 1) ->
+  0 <= ev' -> 4 * P45 * ev' <= 3 * (P45 + E1) * ev + (P45 + E1) * es + E1 * (3 * V + Z.abs (S - 65536 * r)) + 4 * P45 * (65536 + 1) ->
+  tmpl 35184372088832 0 134217744 0 396801676538495565824 S' V' es' ev'.
+Proof. unfold tmpl, P45, E1. intros. lia. Qed.
+Lemma inv1ms_650ms_step_25 S V es ev r S' V' es' ev' :
+  65536000000 <= S <= 42598400000000 -> 0 <= V <= 42598400000000 ->
+
+  tmpl 35184372088832 0 134217744 0 396801676538495565824 S V es ev ->
+  tmpl 35184372088832 0 150994962 0 311159808483668262912 S V es ev ->
+  tmpl 35184372088832 0 167772180 0 244907030504182710272 S V es ev ->
+  1000000 <= r <= 650000000 -> 0 <= es -> 0 <= ev ->
+  8 * S' <= 7 * S + 65536 * r < 8 * S' + 8 ->
+  4 * V' <= 3 * V + Z.abs (S - 65536 * r) < 4 * V' + 4 ->
+  0 <= es' -> 8 * P45 * es' <= 7 * (P45 + E1) * es + E1 * (7 * S + 65536 * r) + 8 * P45 * (65536 + 1) ->
+  0 <= ev' -> 4 * P45 * ev' <= 3 * (P45 + E1) * ev + (P45 + E1) * es + E1 * (3 * V + Z.abs (S - 65536 * r)) + 4 * P45 * (65536 + 1) ->
+  tmpl 35184372088832 0 150994962 0 311159808483668262912 S' V' es' ev'.
+Proof. unfold tmpl, P45, E1. intros. lia. Qed.
+Lemma inv1ms_650ms_step_26 S V es ev r S' V' es' ev' :
+  65536000000 <= S <= 42598400000000 -> 0 <= V <= 42598400000000 ->
+
+  tmpl 35184372088832 0 150994962 0 311159808483668262912 S V es ev ->
+  tmpl 35184372088832 0 167772180 0 244907030504182710272 S V es ev ->
+  tmpl 35184372088832 0 184549398 0 194216237623767859200 S V es ev ->
+  1000000 <= r <= 650000000 -> 0 <= es -> 0 <= ev ->
+  8 * S' <= 7 * S + 65536 * r < 8 * S' + 8 ->
+  4 * V' <= 3 * V + Z.abs (S - 65536 * r) < 4 * V' + 4 ->
+  0 <= es' -> 8 * P45 * es' <= 7 * (P45 + E1) * es + E1 * (7 * S + 65536 * r) + 8 * P45 * (65536 + 1) ->
+  0 <= ev' -> 4 * P45 * ev' <= 3 * (P45 + E1) * ev + (P45 + E1) * es + E1 * (3 * V + Z.abs (S - 65536 * r)) + 4 * P45 * (65536 + 1) ->
+  tmpl 35184372088832 0 167772180 0 244907030504182710272 S' V' es' ev'.
+Proof. unfold tmpl, P45, E1. intros. lia. Qed.
+Lemma inv1ms_650ms_step_27 S V es ev r S' V' es' ev' :
+  65536000000 <= S <= 42598400000000 -> 0 <= V <= 42598400000000 ->
+
+  tmpl 35184372088832 0 167772180 0 244907030504182710272 S V es ev ->
+  tmpl 35184372088832 0 184549398 0 194216237623767859200 S V es ev ->
+  tmpl 35184372088832 0 201326616 0 156220244632019927040 S V es ev ->
+  1000000 <= r <= 650000000 -> 0 <= es -> 0 <= ev ->
+  8 * S' <= 7 * S + 65536 * r < 8 * S' + 8 ->
+  4 * V' <= 3 * V + Z.abs (S - 65536 * r) < 4 * V' + 4 ->
+  0 <= es' -> 8 * P45 * es' <= 7 * (P45 + E1) * es + E1 * (7 * S + 65536 * r) + 8 * P45 * (65536 + 1) ->
+  0 <= ev' -> 4 * P45 * ev' <= 3 * (P45 + E1) * ev + (P45 + E1) * es + E1 * (3 * V + Z.abs (S - 65536 * r)) + 4 * P45 * (65536 + 1) ->
+  tmpl 35184372088832 0 184549398 0 194216237623767859200 S' V' es' ev'.
+Proof. unfold tmpl, P45, E1. intros. lia. Qed.
+Lemma inv1ms_650ms_step_28 S V es ev r S' V' es' ev' :
+  65536000000 <= S <= 42598400000000 -> 0 <= V <= 42598400000000 ->
+
+  tmpl 35184372088832 0 184549398 0 194216237623767859200 S V es ev ->
+  tmpl 35184372088832 0 201326616 0 156220244632019927040 S V es ev ->
+  tmpl 35184372088832 0 218103834 0 128656189891172794368 S V es ev ->
+  tmpl 35184372088832 0 234881052 0 109549387852147228672 S V es ev ->
+  1000000 <= r <= 650000000 -> 0 <= es -> 0 <= ev ->
+  8 * S' <= 7 * S + 65536 * r < 8 * S' + 8 ->
+  4 * V' <= 3 * V + Z.abs (S - 65536 * r) < 4 * V' + 4 ->
+  0 <= es' -> 8 * P45 * es' <= 7 * (P45 + E1) * es + E1 * (7 * S + 65536 * r) + 8 * P45 * (65536 + 1) ->
+  0 <= ev' -> 4 * P45 * ev' <= 3 * (P45 + E1) * ev + (P45 + E1) * es + E1 * (3 * V + Z.abs (S - 65536 * r)) + 4 * P45 * (65536 + 1) ->
+  tmpl 35184372088832 0 201326616 0 156220244632019927040 S' V' es' ev'.
+Proof. unfold tmpl, P45, E1. intros. lia. Qed.
+Lemma inv1ms_650ms_step_29 S V es ev r S' V' es' ev' :
+  65536000000 <= S <= 42598400000000 -> 0 <= V <= 42598400000000 ->
+
+  tmpl 35184372088832 0 201326616 0 156220244632019927040 S V es ev ->
+  tmpl 35184372088832 0 218103834 0 128656189891172794368 S V es ev ->
+  tmpl 35184372088832 0 234881052 0 109549387852147228672 S V es ev ->
+  tmpl 35184372088832 0 251658270 0 97020472845708066816 S V es ev ->
+  1000000 <= r <= 650000000 -> 0 <= es -> 0 <= ev ->
+  8 * S' <= 7 * S + 65536 * r < 8 * S' + 8 ->
+  4 * V' <= 3 * V + Z.abs (S - 65536 * r) < 4 * V' + 4 ->
+  0 <= es' -> 8 * P45 * es' <= 7 * (P45 + E1) * es + E1 * (7 * S + 65536 * r) + 8 * P45 * (65536 + 1) ->
+  0 <= ev' -> 4 * P45 * ev' <= 3 * (P45 + E1) * ev + (P45 + E1) * es + E1 * (3 * V + Z.abs (S - 65536 * r)) + 4 * P45 * (65536 + 1) ->
+  tmpl 35184372088832 0 218103834 0 128656189891172794368 S' V' es' ev'.
+Proof. unfold tmpl, P45, E1. intros. lia. Qed.
+Lemma inv1ms_650ms_step_30 S V es ev r S' V' es' ev' :
+  65536000000 <= S <= 42598400000000 -> 0 <= V <= 42598400000000 ->
+
+  tmpl 35184372088832 0 218103834 0 128656189891172794368 S V es ev ->
+  tmpl 35184372088832 0 234881052 0 109549387852147228672 S V es ev ->
+  tmpl 35184372088832 0 251658270 0 97020472845708066816 S V es ev ->
+  tmpl 35184372088832 0 268435488 0 89264210019393830912 S V es ev ->
+  1000000 <= r <= 650000000 -> 0 <= es -> 0 <= ev ->
+  8 * S' <= 7 * S + 65536 * r < 8 * S' + 8 ->
+  4 * V' <= 3 * V + Z.abs (S - 65536 * r) < 4 * V' + 4 ->
+  0 <= es' -> 8 * P45 * es' <= 7 * (P45 + E1) * es + E1 * (7 * S + 65536 * r) + 8 * P45 * (65536 + 1) ->
+  0 <= ev' -> 4 * P45 * ev' <= 3 * (P45 + E1) * ev + (P45 + E1) * es + E1 * (3 * V + Z.abs (S - 65536 * r)) + 4 * P45 * (65536 + 1) ->
+  tmpl 35184372088832 0 234881052 0 109549387852147228672 S' V' es' ev'.
+Proof. unfold tmpl, P45, E1. intros. lia. Qed.
+Lemma inv1ms_650ms_step_31 S V es ev r S' V' es' ev' :
+  65536000000 <= S <= 42598400000000 -> 0 <= V <= 42598400000000 ->
+
+  tmpl 35184372088832 0 234881052 0 109549387852147228672 S V es ev ->
+  tmpl 35184372088832 0 251658270 0 97020472845708066816 S V es ev ->
+  tmpl 35184372088832 0 268435488 0 89264210019393830912 S V es ev ->
+  tmpl 35184372088832 0 285212706 0 84661829373195763712 S V es ev ->
+  1000000 <= r <= 650000000 -> 0 <= es -> 0 <= ev ->
+  8 * S' <= 7 * S + 65536 * r < 8 * S' + 8 ->
+  4 * V' <= 3 * V + Z.abs (S - 65536 * r) < 4 * V' + 4 ->
+  0 <= es' -> 8 * P45 * es' <= 7 * (P45 + E1) * es + E1 * (7 * S + 65536 * r) + 8 * P45 * (65536 + 1) ->
+  0 <= ev' -> 4 * P45 * ev' <= 3 * (P45 + E1) * ev + (P45 + E1) * es + E1 * (3 * V + Z.abs (S - 65536 * r)) + 4 * P45 * (65536 + 1) ->
+  tmpl 35184372088832 0 251658270 0 97020472845708066816 S' V' es' ev'.
+Proof. unfold tmpl, P45, E1. intros. lia. Qed.
+Lemma inv1ms_650ms_step_32 S V es ev r S' V' es' ev' :
+  65536000000 <= S <= 42598400000000 -> 0 <= V <= 42598400000000 ->
+
+  tmpl 35184372088832 0 251658270 0 97020472845708066816 S V es ev ->
+  tmpl 35184372088832 0 268435488 0 89264210019393830912 S V es ev ->
+  tmpl 35184372088832 0 285212706 0 84661829373195763712 S V es ev ->
+  tmpl 35184372088832 0 301989924 0 81921442140255387648 S V es ev ->
+  1000000 <= r <= 650000000 -> 0 <= es -> 0 <= ev ->
+  8 * S' <= 7 * S + 65536 * r < 8 * S' + 8 ->
+  4 * V' <= 3 * V + Z.abs (S - 65536 * r) < 4 * V' + 4 ->
+  0 <= es' -> 8 * P45 * es' <= 7 * (P45 + E1) * es + E1 * (7 * S + 65536 * r) + 8 * P45 * (65536 + 1) ->
+  0 <= ev' -> 4 * P45 * ev' <= 3 * (P45 + E1) * ev + (P45 + E1) * es + E1 * (3 * V + Z.abs (S - 65536 * r)) + 4 * P45 * (65536 + 1) ->
+  tmpl 35184372088832 0 268435488 0 89264210019393830912 S' V' es' ev'.
+Proof. unfold tmpl, P45, E1. intros. lia. Qed.
+Lemma inv1ms_650ms_step_33 S V es ev r S' V' es' ev' :
+  65536000000 <= S <= 42598400000000 -> 0 <= V <= 42598400000000 ->
+
+  tmpl 35184372088832 0 268435488 0 89264210019393830912 S V es ev ->
+  tmpl 35184372088832 0 285212706 0 84661829373195763712 S V es ev ->
+  tmpl 35184372088832 0 301989924 0 81921442140255387648 S V es ev ->
+  tmpl 35184372088832 0 318767142 0 80147688121855311872 S V es ev ->
+  1000000 <= r <= 650000000 -> 0 <= es -> 0 <= ev ->
+  8 * S' <= 7 * S + 65536 * r < 8 * S' + 8 ->
+  4 * V' <= 3 * V + Z.abs (S - 65536 * r) < 4 * V' + 4 ->
+  0 <= es' -> 8 * P45 * es' <= 7 * (P45 + E1) * es + E1 * (7 * S + 65536 * r) + 8 * P45 * (65536 + 1) ->
+  0 <= ev' -> 4 * P45 * ev' <= 3 * (P45 + E1) * ev + (P45 + E1) * es + E1 * (3 * V + Z.abs (S - 65536 * r)) + 4 * P45 * (65536 + 1) ->
+  tmpl 35184372088832 0 285212706 0 84661829373195763712 S' V' es' ev'.
+Proof. unfold tmpl, P45, E1. intros. lia. Qed.
+Lemma inv1ms_650ms_step_34 S V es ev r S' V' es' ev' :
+  65536000000 <= S <= 42598400000000 -> 0 <= V <= 42598400000000 ->
+
+  tmpl 35184372088832 0 285212706 0 84661829373195763712 S V es ev ->
+  tmpl 35184372088832 0 301989924 0 81921442140255387648 S V es ev ->
+  tmpl 35184372088832 0 318767142 0 80147688121855311872 S V es ev ->
+  tmpl 35184372088832 0 335544360 0 78808924128540590080 S V es ev ->
+  1000000 <= r <= 650000000 -> 0 <= es -> 0 <= ev ->
+  8 * S' <= 7 * S + 65536 * r < 8 * S' + 8 ->
+  4 * V' <= 3 * V + Z.abs (S - 65536 * r) < 4 * V' + 4 ->
+  0 <= es' -> 8 * P45 * es' <= 7 * (P45 + E1) * es + E1 * (7 * S + 65536 * r) + 8 * P45 * (65536 + 1) ->
+  0 <= ev' -> 4 * P45 * ev' <= 3 * (P45 + E1) * ev + (P45 + E1) * es + E1 * (3 * V + Z.abs (S - 65536 * r)) + 4 * P45 * (65536 + 1) ->
+  tmpl 35184372088832 0 301989924 0 81921442140255387648 S' V' es' ev'.
+Proof. unfold tmpl, P45, E1. intros. lia. Qed.
+Lemma inv1ms_650ms_step_35 S V es ev r S' V' es' ev' :
+  65536000000 <= S <= 42598400000000 -> 0 <= V <= 42598400000000 ->
+
+  tmpl 35184372088832 0 301989924 0 81921442140255387648 S V es ev ->
+  tmpl 35184372088832 0 318767142 0 80147688121855311872 S V es ev ->
+  tmpl 35184372088832 0 352321578 0 77637392062984503296 S V es ev ->
+  tmpl 35184372088832 0 369098796 0 76519886598574407680 S V es ev ->
+  1000000 <= r <= 650000000 -> 0 <= es -> 0 <= ev ->
+  8 * S' <= 7 * S + 65536 * r < 8 * S' + 8 ->
+  4 * V' <= 3 * V + Z.abs (S - 65536 * r) < 4 * V' + 4 ->
+  0 <= es' -> 8 * P45 * es' <= 7 * (P45 + E1) * es + E1 * (7 * S + 65536 * r) + 8 * P45 * (65536 + 1) ->
+  0 <= ev' -> 4 * P45 * ev' <= 3 * (P45 + E1) * ev + (P45 + E1) * es + E1 * (3 * V + Z.abs (S - 65536 * r)) + 4 * P45 * (65536 + 1) ->
+  tmpl 35184372088832 0 318767142 0 80147688121855311872 S' V' es' ev'.
+Proof. unfold tmpl, P45, E1. intros. lia. Qed.
+Lemma inv1ms_650ms_step_36 S V es ev r S' V' es' ev' :
+  65536000000 <= S <= 42598400000000 -> 0 <= V <= 42598400000000 ->
+
+  tmpl 35184372088832 0 318767142 0 80147688121855311872 S V es ev ->
+  tmpl 35184372088832 0 335544360 0 78808924128540590080 S V es ev ->
+  tmpl 35184372088832 0 369098796 0 76519886598574407680 S V es ev ->
+  tmpl 35184372088832 0 385876014 0 75416749541786271744 S V es ev ->
+  1000000 <= r <= 650000000 -> 0 <= es -> 0 <= ev ->
+  8 * S' <= 7 * S + 65536 * r < 8 * S' + 8 ->
+  4 * V' <= 3 * V + Z.abs (S - 65536 * r) < 4 * V' + 4 ->
+  0 <= es' -> 8 * P45 * es' <= 7 * (P45 + E1) * es + E1 * (7 * S + 65536 * r) + 8 * P45 * (65536 + 1) ->
+  0 <= ev' -> 4 * P45 * ev' <= 3 * (P45 + E1) * ev + (P45 + E1) * es + E1 * (3 * V + Z.abs (S - 65536 * r)) + 4 * P45 * (65536 + 1) ->
+  tmpl 35184372088832 0 335544360 0 78808924128540590080 S' V' es' ev'.
+Proof. unfold tmpl, P45, E1. intros. lia. Qed.
+Lemma inv1ms_650ms_step_37 S V es ev r S' V' es' ev' :
+  65536000000 <= S <= 42598400000000 -> 0 <= V <= 42598400000000 ->
+
+  tmpl 35184372088832 0 335544360 0 78808924128540590080 S V es ev ->
+  tmpl 35184372088832 0 352321578 0 77637392062984503296 S V es ev ->
+  tmpl 35184372088832 0 385876014 0 75416749541786271744 S V es ev ->
+  tmpl 35184372088832 0 402653232 0 74316672446288396288 S V es ev ->
+  1000000 <= r <= 650000000 -> 0 <= es -> 0 <= ev ->
+  8 * S' <= 7 * S + 65536 * r < 8 * S' + 8 ->
+  4 * V' <= 3 * V + Z.abs (S - 65536 * r) < 4 * V' + 4 ->
+  0 <= es' -> 8 * P45 * es' <= 7 * (P45 + E1) * es + E1 * (7 * S + 65536 * r) + 8 * P45 * (65536 + 1) ->
+  0 <= ev' -> 4 * P45 * ev' <= 3 * (P45 + E1) * ev + (P45 + E1) * es + E1 * (3 * V + Z.abs (S - 65536 * r)) + 4 * P45 * (65536 + 1) ->
+  tmpl 35184372088832 0 352321578 0 77637392062984503296 S' V' es' ev'.
+Proof. unfold tmpl, P45, E1. intros. lia. Qed.
+Lemma inv1ms_650ms_step_38 S V es ev r S' V' es' ev' :
+  65536000000 <= S <= 42598400000000 -> 0 <= V <= 42598400000000 ->
+
+  tmpl 35184372088832 0 352321578 0 77637392062984503296 S V es ev ->
+  tmpl 35184372088832 0 369098796 0 76519886598574407680 S V es ev ->
+  tmpl 35184372088832 0 402653232 0 74316672446288396288 S V es ev ->
+  tmpl 35184372088832 0 419430450 0 73217096710393970688 S V es ev ->
+  1000000 <= r <= 650000000 -> 0 <= es -> 0 <= ev ->
+  8 * S' <= 7 * S + 65536 * r < 8 * S' + 8 ->
+  4 * V' <= 3 * V + Z.abs (S - 65536 * r) < 4 * V' + 4 ->
+  0 <= es' -> 8 * P45 * es' <= 7 * (P45 + E1) * es + E1 * (7 * S + 65536 * r) + 8 * P45 * (65536 + 1) ->
+  0 <= ev' -> 4 * P45 * ev' <= 3 * (P45 + E1) * ev + (P45 + E1) * es + E1 * (3 * V + Z.abs (S - 65536 * r)) + 4 * P45 * (65536 + 1) ->
+  tmpl 35184372088832 0 369098796 0 76519886598574407680 S' V' es' ev'.
+Proof. unfold tmpl, P45, E1. intros. lia. Qed.
+Lemma inv1ms_650ms_step_39 S V es ev r S' V' es' ev' :
+  65536000000 <= S <= 42598400000000 -> 0 <= V <= 42598400000000 ->
+
+  tmpl 35184372088832 0 369098796 0 76519886598574407680 S V es ev ->
+  tmpl 35184372088832 0 385876014 0 75416749541786271744 S V es ev ->
+  tmpl 35184372088832 0 419430450 0 73217096710393970688 S V es ev ->
+  tmpl 35184372088832 0 436207668 0 72117580279886151680 S V es ev ->
+  1000000 <= r <= 650000000 -> 0 <= es -> 0 <= ev ->
+  8 * S' <= 7 * S + 65536 * r < 8 * S' + 8 ->
+  4 * V' <= 3 * V + Z.abs (S - 65536 * r) < 4 * V' + 4 ->
+  0 <= es' -> 8 * P45 * es' <= 7 * (P45 + E1) * es + E1 * (7 * S + 65536 * r) + 8 * P45 * (65536 + 1) ->
+  0 <= ev' -> 4 * P45 * ev' <= 3 * (P45 + E1) * ev + (P45 + E1) * es + E1 * (3 * V + Z.abs (S - 65536 * r)) + 4 * P45 * (65536 + 1) ->
+  tmpl 35184372088832 0 385876014 0 75416749541786271744 S' V' es' ev'.
+Proof. unfold tmpl, P45, E1. intros. lia. Qed.
+Lemma inv1ms_650ms_step_40 S V es ev r S' V' es' ev' :
+  65536000000 <= S <= 42598400000000 -> 0 <= V <= 42598400000000 ->
+
+  tmpl 35184372088832 0 385876014 0 75416749541786271744 S V es ev ->
+  tmpl 35184372088832 0 402653232 0 74316672446288396288 S V es ev ->
+  tmpl 35184372088832 0 436207668 0 72117580279886151680 S V es ev ->
+  tmpl 35184372088832 0 452984886 0 71018068355903430656 S V es ev ->
+  1000000 <= r <= 650000000 -> 0 <= es -> 0 <= ev ->
+  8 * S' <= 7 * S + 65536 * r < 8 * S' + 8 ->
+  4 * V' <= 3 * V + Z.abs (S - 65536 * r) < 4 * V' + 4 ->
+  0 <= es' -> 8 * P45 * es' <= 7 * (P45 + E1) * es + E1 * (7 * S + 65536 * r) + 8 * P45 * (65536 + 1) ->
+  0 <= ev' -> 4 * P45 * ev' <= 3 * (P45 + E1) * ev + (P45 + E1) * es + E1 * (3 * V + Z.abs (S - 65536 * r)) + 4 * P45 * (65536 + 1) ->
+  tmpl 35184372088832 0 402653232 0 74316672446288396288 S' V' es' ev'.
+Proof. unfold tmpl, P45, E1. intros. lia. Qed.
+Lemma inv1ms_650ms_step_41 S V es ev r S' V' es' ev' :
+  65536000000 <= S <= 42598400000000 -> 0 <= V <= 42598400000000 ->
+
+  tmpl 35184372088832 0 402653232 0 74316672446288396288 S V es ev ->
+  tmpl 35184372088832 0 419430450 0 73217096710393970688 S V es ev ->
+  tmpl 35184372088832 0 452984886 0 71018068355903430656 S V es ev ->
+  1000000 <= r <= 650000000 -> 0 <= es -> 0 <= ev ->
+  8 * S' <= 7 * S + 65536 * r < 8 * S' + 8 ->
+  4 * V' <= 3 * V + Z.abs (S - 65536 * r) < 4 * V' + 4 ->
+  0 <= es' -> 8 * P45 * es' <= 7 * (P45 + E1) * es + E1 * (7 * S + 65536 * r) + 8 * P45 * (65536 + 1) ->
+  0 <= ev' -> 4 * P45 * ev' <= 3 * (P45 + E1) * ev + (P45 + E1) * es + E1 * (3 * V + Z.abs (S - 65536 * r)) + 4 * P45 * (65536 + 1) ->
+  tmpl 35184372088832 0 419430450 0 73217096710393970688 S' V' es' ev'.
+Proof. unfold tmpl, P45, E1. intros. lia. Qed.
+Lemma inv1ms_650ms_step_42 S V es ev r S' V' es' ev' :
+  65536000000 <= S <= 42598400000000 -> 0 <= V <= 42598400000000 ->
+
+  tmpl 35184372088832 0 419430450 0 73217096710393970688 S V es ev ->
+  tmpl 35184372088832 0 436207668 0 72117580279886151680 S V es ev ->
+  tmpl 35184372088832 0 452984886 0 71018068355903430656 S V es ev ->
+  1000000 <= r <= 650000000 -> 0 <= es -> 0 <= ev ->
+  8 * S' <= 7 * S + 65536 * r < 8 * S' + 8 ->
+  4 * V' <= 3 * V + Z.abs (S - 65536 * r) < 4 * V' + 4 ->
+  0 <= es' -> 8 * P45 * es' <= 7 * (P45 + E1) * es + E1 * (7 * S + 65536 * r) + 8 * P45 * (65536 + 1) ->
+  0 <= ev' -> 4 * P45 * ev' <= 3 * (P45 + E1) * ev + (P45 + E1) * es + E1 * (3 * V + Z.abs (S - 65536 * r)) + 4 * P45 * (65536 + 1) ->
+  tmpl 35184372088832 0 436207668 0 72117580279886151680 S' V' es' ev'.
+Proof. unfold tmpl, P45, E1. intros. lia. Qed.
+Lemma inv1ms_650ms_step_43 S V es ev r S' V' es' ev' :
+  65536000000 <= S <= 42598400000000 -> 0 <= V <= 42598400000000 ->
+
+  tmpl 35184372088832 0 436207668 0 72117580279886151680 S V es ev ->
+  tmpl 35184372088832 0 452984886 0 71018068355903430656 S V es ev ->
+  1000000 <= r <= 650000000 -> 0 <= es -> 0 <= ev ->
+  8 * S' <= 7 * S + 65536 * r < 8 * S' + 8 ->
+  4 * V' <= 3 * V + Z.abs (S - 65536 * r) < 4 * V' + 4 ->
+  0 <= es' -> 8 * P45 * es' <= 7 * (P45 + E1) * es + E1 * (7 * S + 65536 * r) + 8 * P45 * (65536 + 1) ->
+  0 <= ev' -> 4 * P45 * ev' <= 3 * (P45 + E1) * ev + (P45 + E1) * es + E1 * (3 * V + Z.abs (S - 65536 * r)) + 4 * P45 * (65536 + 1) ->
+  tmpl 35184372088832 0 452984886 0 71018068355903430656 S' V' es' ev'.
+Proof. unfold tmpl, P45, E1. intros. lia. Qed.
+Lemma inv1ms_650ms_step_44 S V es ev r S' V' es' ev' :
+  65536000000 <= S <= 42598400000000 -> 0 <= V <= 42598400000000 ->
+
+  tmpl 35184372088832 0 0 0 2877466508466800033792 S V es ev ->
+  tmpl 35184372088832 0 16777218 0 2242070879954330976256 S V es ev ->
+  tmpl 0 35184372088832 0 0 4282236851683024437248 S V es ev ->
+  tmpl 35184372088832 140737521909764 0 0 19961800606591941083136 S V es ev ->
+  1000000 <= r <= 650000000 -> 0 <= es -> 0 <= ev ->
+  8 * S' <= 7 * S + 65536 * r < 8 * S' + 8 ->
+  4 * V' <= 3 * V + Z.abs (S - 65536 * r) < 4 * V' + 4 ->
+  0 <= es' -> 8 * P45 * es' <= 7 * (P45 + E1) * es + E1 * (7 * S + 65536 * r) + 8 * P45 * (65536 + 1) ->
+  0 <= ev' -> 4 * P45 * ev' <= 3 * (P45 + E1) * ev + (P45 + E1) * es + E1 * (3 * V + Z.abs (S - 65536 * r)) + 4 * P45 * (65536 + 1) ->
+  tmpl 0 35184372088832 0 0 4282236851683024437248 S' V' es' ev'.
+Proof. unfold tmpl, P45, E1. intros. lia. Qed.
+Lemma inv1ms_650ms_step_45 S V es ev r S' V' es' ev' :
+  65536000000 <= S <= 42598400000000 -> 0 <= V <= 42598400000000 ->
+
+  tmpl 35184372088832 0 50331654 33554436 884316247817185263616 S V es ev ->
+  tmpl 109951162777600000 439804755968012500 274877906944 419430450000 41013520526806443622400000 S V es ev ->
+  tmpl 109951162777600000 439804755968012500 549755813888 419430450000 33836225968747675648000000 S V es ev ->
+  tmpl 109951162777600000 439804755968012500 549755813888 838860900000 28834154544893611212800000 S V es ev ->
+  1000000 <= r <= 650000000 -> 0 <= es -> 0 <= ev ->
+  8 * S' <= 7 * S + 65536 * r < 8 * S' + 8 ->
+  4 * V' <= 3 * V + Z.abs (S - 65536 * r) < 4 * V' + 4 ->
+  0 <= es' -> 8 * P45 * es' <= 7 * (P45 + E1) * es + E1 * (7 * S + 65536 * r) + 8 * P45 * (65536 + 1) ->
+  0 <= ev' -> 4 * P45 * ev' <= 3 * (P45 + E1) * ev + (P45 + E1) * es + E1 * (3 * V + Z.abs (S - 65536 * r)) + 4 * P45 * (65536 + 1) ->
+  tmpl 0 35184372088832 33554436 67108872 1955129539045752307712 S' V' es' ev'.
+Proof. unfold tmpl, P45, E1. intros. lia. Qed.
+Lemma inv1ms_650ms_step_46 S V es ev r S' V' es' ev' :
+  65536000000 <= S <= 42598400000000 -> 0 <= V <= 42598400000000 ->
+
+  tmpl 0 0 8388609 (-8388609) 106665569490615615488 S V es ev ->
+  tmpl 35184372088832 0 50331654 0 1362820312732891873280 S V es ev ->
+  tmpl 0 35184372088832 67108872 0 2658854277084935618560 S V es ev ->
+  tmpl 109951162777600000 439804755968012500 549755813888 104857612500 43002903509903232204800000 S V es ev ->
+  tmpl 109951162777600000 439804755968012500 824633720832 0 40721307459685842944000000 S V es ev ->
+  1000000 <= r <= 650000000 -> 0 <= es -> 0 <= ev ->
+  8 * S' <= 7 * S + 65536 * r < 8 * S' + 8 ->
+  4 * V' <= 3 * V + Z.abs (S - 65536 * r) < 4 * V' + 4 ->
+  0 <= es' -> 8 * P45 * es' <= 7 * (P45 + E1) * es + E1 * (7 * S + 65536 * r) + 8 * P45 * (65536 + 1) ->
+  0 <= ev' -> 4 * P45 * ev' <= 3 * (P45 + E1) * ev + (P45 + E1) * es + E1 * (3 * V + Z.abs (S - 65536 * r)) + 4 * P45 * (65536 + 1) ->
+  tmpl 0 35184372088832 67108872 0 2658854277084935618560 S' V' es' ev'.
+Proof. unfold tmpl, P45, E1. intros. lia. Qed.
+Lemma inv1ms_650ms_step_47 S V es ev r S' V' es' ev' :
+  65536000000 <= S <= 42598400000000 -> 0 <= V <= 42598400000000 ->
+
+  tmpl 35184372088832 0 67108872 0 1063279915641196904448 S V es ev ->
+  tmpl 0 35184372088832 67108872 33554436 1784664598824412512256 S V es ev ->
+  tmpl 109951162777600000 439804755968012500 824633720832 419430450000 28816759000248129945600000 S V es ev ->
+  tmpl 109951162777600000 439804755968012500 1099511627776 209715225000 29849675298388167884800000 S V es ev ->
+  1000000 <= r <= 650000000 -> 0 <= es -> 0 <= ev ->
+  8 * S' <= 7 * S + 65536 * r < 8 * S' + 8 ->
+  4 * V' <= 3 * V + Z.abs (S - 65536 * r) < 4 * V' + 4 ->
+  0 <= es' -> 8 * P45 * es' <= 7 * (P45 + E1) * es + E1 * (7 * S + 65536 * r) + 8 * P45 * (65536 + 1) ->
+  0 <= ev' -> 4 * P45 * ev' <= 3 * (P45 + E1) * ev + (P45 + E1) * es + E1 * (3 * V + Z.abs (S - 65536 * r)) + 4 * P45 * (65536 + 1) ->
+  tmpl 0 35184372088832 67108872 33554436 1784664598824412512256 S' V' es' ev'.
+Proof. unfold tmpl, P45, E1. intros. lia. Qed.
+Lemma inv1ms_650ms_step_48 S V es ev r S' V' es' ev' :
+  65536000000 <= S <= 42598400000000 -> 0 <= V <= 42598400000000 ->
+
+  tmpl 35184372088832 0 67108872 33554436 543327771809921695744 S V es ev ->
+  tmpl 0 35184372088832 67108872 33554436 1784664598824412512256 S V es ev ->
+  tmpl 109951162777600000 439804755968012500 824633720832 419430450000 28816759000248129945600000 S V es ev ->
+  tmpl 109951162777600000 439804755968012500 1099511627776 838860900000 18743529067647379046400000 S V es ev ->
+  1000000 <= r <= 650000000 -> 0 <= es -> 0 <= ev ->
+  8 * S' <= 7 * S + 65536 * r < 8 * S' + 8 ->
+  4 * V' <= 3 * V + Z.abs (S - 65536 * r) < 4 * V' + 4 ->
+  0 <= es' -> 8 * P45 * es' <= 7 * (P45 + E1) * es + E1 * (7 * S + 65536 * r) + 8 * P45 * (65536 + 1) ->
+  0 <= ev' -> 4 * P45 * ev' <= 3 * (P45 + E1) * ev + (P45 + E1) * es + E1 * (3 * V + Z.abs (S - 65536 * r)) + 4 * P45 * (65536 + 1) ->
+  tmpl 0 35184372088832 67108872 67108872 1326611854677505474560 S' V' es' ev'.
+Proof. unfold tmpl, P45, E1. intros. lia. Qed.
+Lemma inv1ms_650ms_step_49 S V es ev r S' V' es' ev' :
+  65536000000 <= S <= 42598400000000 -> 0 <= V <= 42598400000000 ->
+
+  tmpl 35184372088832 0 67108872 33554436 543327771809921695744 S V es ev ->
+  tmpl 0 35184372088832 67108872 67108872 1326611854677505474560 S V es ev ->
+  tmpl 109951162777600000 439804755968012500 824633720832 1677721800000 17441674136722066636800000 S V es ev ->
+  tmpl 109951162777600000 439804755968012500 1099511627776 1677721800000 12725096578756435968000000 S V es ev ->
+  1000000 <= r <= 650000000 -> 0 <= es -> 0 <= ev ->
+  8 * S' <= 7 * S + 65536 * r < 8 * S' + 8 ->
+  4 * V' <= 3 * V + Z.abs (S - 65536 * r) < 4 * V' + 4 ->
+  0 <= es' -> 8 * P45 * es' <= 7 * (P45 + E1) * es + E1 * (7 * S + 65536 * r) + 8 * P45 * (65536 + 1) ->
+  0 <= ev' -> 4 * P45 * ev' <= 3 * (P45 + E1) * ev + (P45 + E1) * es + E1 * (3 * V + Z.abs (S - 65536 * r)) + 4 * P45 * (65536 + 1) ->
+  tmpl 0 35184372088832 67108872 134217744 906708345435608186880 S' V' es' ev'.
+Proof. unfold tmpl, P45, E1. intros. lia. Qed.
+Lemma inv1ms_650ms_step_50 S V es ev r S' V' es' ev' :
+  65536000000 <= S <= 42598400000000 -> 0 <= V <= 42598400000000 ->
+
+  tmpl 0 0 8388609 (-8388609) 106665569490615615488 S V es ev ->
+  tmpl 35184372088832 0 67108872 0 1063279915641196904448 S V es ev ->
+  tmpl 35184372088832 0 83886090 0 830061870981077401600 S V es ev ->
+  tmpl 0 35184372088832 100663308 0 2139639364575292293120 S V es ev ->
+  tmpl 109951162777600000 439804755968012500 1099511627776 104857612500 32667584955783308902400000 S V es ev ->
+  1000000 <= r <= 650000000 -> 0 <= es -> 0 <= ev ->
+  8 * S' <= 7 * S + 65536 * r < 8 * S' + 8 ->
+  4 * V' <= 3 * V + Z.abs (S - 65536 * r) < 4 * V' + 4 ->
+  0 <= es' -> 8 * P45 * es' <= 7 * (P45 + E1) * es + E1 * (7 * S + 65536 * r) + 8 * P45 * (65536 + 1) ->
+  0 <= ev' -> 4 * P45 * ev' <= 3 * (P45 + E1) * ev + (P45 + E1) * es + E1 * (3 * V + Z.abs (S - 65536 * r)) + 4 * P45 * (65536 + 1) ->
+  tmpl 0 35184372088832 100663308 0 2139639364575292293120 S' V' es' ev'.
+Proof. unfold tmpl, P45, E1. intros. lia. Qed.
+Lemma inv1ms_650ms_step_51 S V es ev r S' V' es' ev' :
+  65536000000 <= S <= 42598400000000 -> 0 <= V <= 42598400000000 ->
+
+  tmpl 35184372088832 0 100663308 0 648435995597280378880 S V es ev ->
+  tmpl 0 35184372088832 67108872 33554436 1784664598824412512256 S V es ev ->
+  tmpl 0 35184372088832 100663308 33554436 1426538923632010985472 S V es ev ->
+  tmpl 0 35184372088832 134217744 0 1737318176066754314240 S V es ev ->
+  1000000 <= r <= 650000000 -> 0 <= es -> 0 <= ev ->
+  8 * S' <= 7 * S + 65536 * r < 8 * S' + 8 ->
+  4 * V' <= 3 * V + Z.abs (S - 65536 * r) < 4 * V' + 4 ->
+  0 <= es' -> 8 * P45 * es' <= 7 * (P45 + E1) * es + E1 * (7 * S + 65536 * r) + 8 * P45 * (65536 + 1) ->
+  0 <= ev' -> 4 * P45 * ev' <= 3 * (P45 + E1) * ev + (P45 + E1) * es + E1 * (3 * V + Z.abs (S - 65536 * r)) + 4 * P45 * (65536 + 1) ->
+  tmpl 0 35184372088832 100663308 33554436 1426538923632010985472 S' V' es' ev'.
+Proof. unfold tmpl, P45, E1. intros. lia. Qed.
+Lemma inv1ms_650ms_step_52 S V es ev r S' V' es' ev' :
+  65536000000 <= S <= 42598400000000 -> 0 <= V <= 42598400000000 ->
+
+  tmpl 35184372088832 0 100663308 0 648435995597280378880 S V es ev ->
+  tmpl 0 35184372088832 100663308 33554436 1426538923632010985472 S V es ev ->
+  tmpl 0 35184372088832 100663308 67108872 987585203811506847744 S V es ev ->
+  tmpl 109951162777600000 439804755968012500 1099511627776 838860900000 18743529067647379046400000 S V es ev ->
+  1000000 <= r <= 650000000 -> 0 <= es -> 0 <= ev ->
+  8 * S' <= 7 * S + 65536 * r < 8 * S' + 8 ->
+  4 * V' <= 3 * V + Z.abs (S - 65536 * r) < 4 * V' + 4 ->
+  0 <= es' -> 8 * P45 * es' <= 7 * (P45 + E1) * es + E1 * (7 * S + 65536 * r) + 8 * P45 * (65536 + 1) ->
+  0 <= ev' -> 4 * P45 * ev' <= 3 * (P45 + E1) * ev + (P45 + E1) * es + E1 * (3 * V + Z.abs (S - 65536 * r)) + 4 * P45 * (65536 + 1) ->
+  tmpl 0 35184372088832 100663308 67108872 987585203811506847744 S' V' es' ev'.
+Proof. unfold tmpl, P45, E1. intros. lia. Qed.
+Lemma inv1ms_650ms_step_53 S V es ev r S' V' es' ev' :
+  65536000000 <= S <= 42598400000000 -> 0 <= V <= 42598400000000 ->
+
+  tmpl 35184372088832 0 83886090 33554436 377747762373070553088 S V es ev ->
+  tmpl 0 35184372088832 100663308 67108872 987585203811506847744 S V es ev ->
+  tmpl 0 35184372088832 100663308 134217744 607345837593670189056 S V es ev ->
+  tmpl 0 35184372088832 134217744 67108872 751017339520276234240 S V es ev ->
+  1000000 <= r <= 650000000 -> 0 <= es -> 0 <= ev ->
+  8 * S' <= 7 * S + 65536 * r < 8 * S' + 8 ->
+  4 * V' <= 3 * V + Z.abs (S - 65536 * r) < 4 * V' + 4 ->
+  0 <= es' -> 8 * P45 * es' <= 7 * (P45 + E1) * es + E1 * (7 * S + 65536 * r) + 8 * P45 * (65536 + 1) ->
+  0 <= ev' -> 4 * P45 * ev' <= 3 * (P45 + E1) * ev + (P45 + E1) * es + E1 * (3 * V + Z.abs (S - 65536 * r)) + 4 * P45 * (65536 + 1) ->
+  tmpl 0 35184372088832 100663308 134217744 607345837593670189056 S' V' es' ev'.
+Proof. unfold tmpl, P45, E1. intros. lia. Qed.
+Lemma inv1ms_650ms_step_54 S V es ev r S' V' es' ev' :
+  65536000000 <= S <= 42598400000000 -> 0 <= V <= 42598400000000 ->
+
+  tmpl 0 0 16777218 (-8388609) (-820022133117572608) S V es ev ->
+  tmpl 35184372088832 0 83886090 0 830061870981077401600 S V es ev ->
+  tmpl 0 35184372088832 100663308 0 2139639364575292293120 S V es ev ->
+  tmpl 0 35184372088832 134217744 0 1737318176066754314240 S V es ev ->
+  1000000 <= r <= 650000000 -> 0 <= es -> 0 <= ev ->
+  8 * S' <= 7 * S + 65536 * r < 8 * S' + 8 ->
+  4 * V' <= 3 * V + Z.abs (S - 65536 * r) < 4 * V' + 4 ->
+  0 <= es' -> 8 * P45 * es' <= 7 * (P45 + E1) * es + E1 * (7 * S + 65536 * r) + 8 * P45 * (65536 + 1) ->
+  0 <= ev' -> 4 * P45 * ev' <= 3 * (P45 + E1) * ev + (P45 + E1) * es + E1 * (3 * V + Z.abs (S - 65536 * r)) + 4 * P45 * (65536 + 1) ->
+  tmpl 0 35184372088832 134217744 0 1737318176066754314240 S' V' es' ev'.
+Proof. unfold tmpl, P45, E1. intros. lia. Qed.
+Lemma inv1ms_650ms_step_55 S V es ev r S' V' es' ev' :
+  65536000000 <= S <= 42598400000000 -> 0 <= V <= 42598400000000 ->
+
+  tmpl 35184372088832 0 100663308 0 648435995597280378880 S V es ev ->
+  tmpl 35184372088832 0 117440526 0 506965019255741546496 S V es ev ->
+  tmpl 0 35184372088832 100663308 33554436 1426538923632010985472 S V es ev ->
+  tmpl 0 35184372088832 134217744 33554436 1139588593549370982400 S V es ev ->
+  tmpl 0 35184372088832 167772180 0 1402604387814047744000 S V es ev ->
+  1000000 <= r <= 650000000 -> 0 <= es -> 0 <= ev ->
+  8 * S' <= 7 * S + 65536 * r < 8 * S' + 8 ->
+  4 * V' <= 3 * V + Z.abs (S - 65536 * r) < 4 * V' + 4 ->
+  0 <= es' -> 8 * P45 * es' <= 7 * (P45 + E1) * es + E1 * (7 * S + 65536 * r) + 8 * P45 * (65536 + 1) ->
+  0 <= ev' -> 4 * P45 * ev' <= 3 * (P45 + E1) * ev + (P45 + E1) * es + E1 * (3 * V + Z.abs (S - 65536 * r)) + 4 * P45 * (65536 + 1) ->
+  tmpl 0 35184372088832 134217744 33554436 1139588593549370982400 S' V' es' ev'.
+Proof. unfold tmpl, P45, E1. intros. lia. Qed.
+Lemma inv1ms_650ms_step_56 S V es ev r S' V' es' ev' :
+  65536000000 <= S <= 42598400000000 -> 0 <= V <= 42598400000000 ->
+
+  tmpl 35184372088832 0 117440526 0 506965019255741546496 S V es ev ->
+  tmpl 0 35184372088832 134217744 33554436 1139588593549370982400 S V es ev ->
+  tmpl 0 35184372088832 134217744 67108872 751017339520276234240 S V es ev ->
+  tmpl 0 35184372088832 167772180 33554436 908406956580349804544 S V es ev ->
+  1000000 <= r <= 650000000 -> 0 <= es -> 0 <= ev ->
+  8 * S' <= 7 * S + 65536 * r < 8 * S' + 8 ->
+  4 * V' <= 3 * V + Z.abs (S - 65536 * r) < 4 * V' + 4 ->
+  0 <= es' -> 8 * P45 * es' <= 7 * (P45 + E1) * es + E1 * (7 * S + 65536 * r) + 8 * P45 * (65536 + 1) ->
+  0 <= ev' -> 4 * P45 * ev' <= 3 * (P45 + E1) * ev + (P45 + E1) * es + E1 * (3 * V + Z.abs (S - 65536 * r)) + 4 * P45 * (65536 + 1) ->
+  tmpl 0 35184372088832 134217744 67108872 751017339520276234240 S' V' es' ev'.
+Proof. unfold tmpl, P45, E1. intros. lia. Qed.
+Lemma inv1ms_650ms_step_57 S V es ev r S' V' es' ev' :
+  65536000000 <= S <= 42598400000000 -> 0 <= V <= 42598400000000 ->
+
+  tmpl 0 0 16777218 (-8388609) (-820022133117572608) S V es ev ->
+  tmpl 35184372088832 0 100663308 0 648435995597280378880 S V es ev ->
+  tmpl 35184372088832 0 117440526 0 506965019255741546496 S V es ev ->
+  tmpl 0 35184372088832 134217744 0 1737318176066754314240 S V es ev ->
+  tmpl 0 35184372088832 167772180 0 1402604387814047744000 S V es ev ->
+  1000000 <= r <= 650000000 -> 0 <= es -> 0 <= ev ->
+  8 * S' <= 7 * S + 65536 * r < 8 * S' + 8 ->
+  4 * V' <= 3 * V + Z.abs (S - 65536 * r) < 4 * V' + 4 ->
+  0 <= es' -> 8 * P45 * es' <= 7 * (P45 + E1) * es + E1 * (7 * S + 65536 * r) + 8 * P45 * (65536 + 1) ->
+  0 <= ev' -> 4 * P45 * ev' <= 3 * (P45 + E1) * ev + (P45 + E1) * es + E1 * (3 * V + Z.abs (S - 65536 * r)) + 4 * P45 * (65536 + 1) ->
+  tmpl 0 35184372088832 167772180 0 1402604387814047744000 S' V' es' ev'.
+Proof. unfold tmpl, P45, E1. intros. lia. Qed.
+Lemma inv1ms_650ms_step_58 S V es ev r S' V' es' ev' :
+  65536000000 <= S <= 42598400000000 -> 0 <= V <= 42598400000000 ->
+
+  tmpl 35184372088832 0 117440526 0 506965019255741546496 S V es ev ->
+  tmpl 0 35184372088832 134217744 33554436 1139588593549370982400 S V es ev ->
+  tmpl 0 35184372088832 167772180 33554436 908406956580349804544 S V es ev ->
+  tmpl 0 35184372088832 201326616 0 1127104461815666180096 S V es ev ->
+  tmpl 0 35184372088832 234881052 0 901471410949965086720 S V es ev ->
+  1000000 <= r <= 650000000 -> 0 <= es -> 0 <= ev ->
+  8 * S' <= 7 * S + 65536 * r < 8 * S' + 8 ->
+  4 * V' <= 3 * V + Z.abs (S - 65536 * r) < 4 * V' + 4 ->
+  0 <= es' -> 8 * P45 * es' <= 7 * (P45 + E1) * es + E1 * (7 * S + 65536 * r) + 8 * P45 * (65536 + 1) ->
+  0 <= ev' -> 4 * P45 * ev' <= 3 * (P45 + E1) * ev + (P45 + E1) * es + E1 * (3 * V + Z.abs (S - 65536 * r)) + 4 * P45 * (65536 + 1) ->
+  tmpl 0 35184372088832 167772180 33554436 908406956580349804544 S' V' es' ev'.
+Proof. unfold tmpl, P45, E1. intros. lia. Qed.
+Lemma inv1ms_650ms_step_59 S V es ev r S' V' es' ev' :
+  65536000000 <= S <= 42598400000000 -> 0 <= V <= 42598400000000 ->
+
+  tmpl 0 0 16777218 (-8388609) (-820022133117572608) S V es ev ->
+  tmpl 35184372088832 0 117440526 0 506965019255741546496 S V es ev ->
+  tmpl 0 35184372088832 167772180 0 1402604387814047744000 S V es ev ->
+  tmpl 0 35184372088832 201326616 0 1127104461815666180096 S V es ev ->
+  tmpl 0 35184372088832 234881052 0 901471410949965086720 S V es ev ->
+  1000000 <= r <= 650000000 -> 0 <= es -> 0 <= ev ->
+  8 * S' <= 7 * S + 65536 * r < 8 * S' + 8 ->
+  4 * V' <= 3 * V + Z.abs (S - 65536 * r) < 4 * V' + 4 ->
+  0 <= es' -> 8 * P45 * es' <= 7 * (P45 + E1) * es + E1 * (7 * S + 65536 * r) + 8 * P45 * (65536 + 1) ->
+  0 <= ev' -> 4 * P45 * ev' <= 3 * (P45 + E1) * ev + (P45 + E1) * es + E1 * (3 * V + Z.abs (S - 65536 * r)) + 4 * P45 * (65536 + 1) ->
+  tmpl 0 35184372088832 201326616 0 1127104461815666180096 S' V' es' ev'.
+Proof. unfold tmpl, P45, E1. intros. lia. Qed.
+Lemma inv1ms_650ms_step_60 S V es ev r S' V' es' ev' :
+  65536000000 <= S <= 42598400000000 -> 0 <= V <= 42598400000000 ->
+
+  tmpl 35184372088832 0 134217744 0 396801676538495565824 S V es ev ->
+  tmpl 35184372088832 0 150994962 0 311159808483668262912 S V es ev ->
+  tmpl 0 35184372088832 167772180 33554436 908406956580349804544 S V es ev ->
+  tmpl 0 35184372088832 201326616 33554436 722638423548835921920 S V es ev ->
+  tmpl 0 35184372088832 234881052 0 901471410949965086720 S V es ev ->
+  tmpl 0 35184372088832 268435488 0 717737541419268571136 S V es ev ->
+  1000000 <= r <= 650000000 -> 0 <= es -> 0 <= ev ->
+  8 * S' <= 7 * S + 65536 * r < 8 * S' + 8 ->
+  4 * V' <= 3 * V + Z.abs (S - 65536 * r) < 4 * V' + 4 ->
+  0 <= es' -> 8 * P45 * es' <= 7 * (P45 + E1) * es + E1 * (7 * S + 65536 * r) + 8 * P45 * (65536 + 1) ->
+  0 <= ev' -> 4 * P45 * ev' <= 3 * (P45 + E1) * ev + (P45 + E1) * es + E1 * (3 * V + Z.abs (S - 65536 * r)) + 4 * P45 * (65536 + 1) ->
+  tmpl 0 35184372088832 201326616 33554436 722638423548835921920 S' V' es' ev'.
+Proof. unfold tmpl, P45, E1. intros. lia. Qed.
+Lemma inv1ms_650ms_step_61 S V es ev r S' V' es' ev' :
+  65536000000 <= S <= 42598400000000 -> 0 <= V <= 42598400000000 ->
+
+  tmpl 0 0 16777218 (-8388609) (-820022133117572608) S V es ev ->
+  tmpl 35184372088832 0 117440526 0 506965019255741546496 S V es ev ->
+  tmpl 35184372088832 0 134217744 0 396801676538495565824 S V es ev ->
+  tmpl 0 35184372088832 201326616 0 1127104461815666180096 S V es ev ->
+  tmpl 0 35184372088832 234881052 0 901471410949965086720 S V es ev ->
+  tmpl 0 35184372088832 268435488 0 717737541419268571136 S V es ev ->
+  1000000 <= r <= 650000000 -> 0 <= es -> 0 <= ev ->
+  8 * S' <= 7 * S + 65536 * r < 8 * S' + 8 ->
+  4 * V' <= 3 * V + Z.abs (S - 65536 * r) < 4 * V' + 4 ->
+  0 <= es' -> 8 * P45 * es' <= 7 * (P45 + E1) * es + E1 * (7 * S + 65536 * r) + 8 * P45 * (65536 + 1) ->
+  0 <= ev' -> 4 * P45 * ev' <= 3 * (P45 + E1) * ev + (P45 + E1) * es + E1 * (3 * V + Z.abs (S - 65536 * r)) + 4 * P45 * (65536 + 1) ->
+  tmpl 0 35184372088832 234881052 0 901471410949965086720 S' V' es' ev'.
+Proof. unfold tmpl, P45, E1. intros. lia. Qed.
+Lemma inv1ms_650ms_step_62 S V es ev r S' V' es' ev' :
+  65536000000 <= S <= 42598400000000 -> 0 <= V <= 42598400000000 ->
+
+  tmpl 35184372088832 0 150994962 0 311159808483668262912 S V es ev ->
+  tmpl 35184372088832 0 167772180 0 244907030504182710272 S V es ev ->
+  tmpl 0 35184372088832 201326616 33554436 722638423548835921920 S V es ev ->
+  tmpl 0 35184372088832 234881052 33554436 574028143779768369152 S V es ev ->
+  tmpl 0 35184372088832 268435488 0 717737541419268571136 S V es ev ->
+  tmpl 0 35184372088832 268435488 33554436 456299672223065178112 S V es ev ->
+  tmpl 0 35184372088832 301989924 0 569875734304903790592 S V es ev ->
+  1000000 <= r <= 650000000 -> 0 <= es -> 0 <= ev ->
+  8 * S' <= 7 * S + 65536 * r < 8 * S' + 8 ->
+  4 * V' <= 3 * V + Z.abs (S - 65536 * r) < 4 * V' + 4 ->
+  0 <= es' -> 8 * P45 * es' <= 7 * (P45 + E1) * es + E1 * (7 * S + 65536 * r) + 8 * P45 * (65536 + 1) ->
+  0 <= ev' -> 4 * P45 * ev' <= 3 * (P45 + E1) * ev + (P45 + E1) * es + E1 * (3 * V + Z.abs (S - 65536 * r)) + 4 * P45 * (65536 + 1) ->
+  tmpl 0 35184372088832 234881052 33554436 574028143779768369152 S' V' es' ev'.
+Proof. unfold tmpl, P45, E1. intros. lia. Qed.
+Lemma inv1ms_650ms_step_63 S V es ev r S' V' es' ev' :
+  65536000000 <= S <= 42598400000000 -> 0 <= V <= 42598400000000 ->
+
+  tmpl 0 0 16777218 (-8388609) (-820022133117572608) S V es ev ->
+  tmpl 35184372088832 0 134217744 0 396801676538495565824 S V es ev ->
+  tmpl 35184372088832 0 150994962 0 311159808483668262912 S V es ev ->
+  tmpl 0 35184372088832 234881052 0 901471410949965086720 S V es ev ->
+  tmpl 0 35184372088832 268435488 0 717737541419268571136 S V es ev ->
+  tmpl 0 35184372088832 301989924 0 569875734304903790592 S V es ev ->
+  1000000 <= r <= 650000000 -> 0 <= es -> 0 <= ev ->
+  8 * S' <= 7 * S + 65536 * r < 8 * S' + 8 ->
+  4 * V' <= 3 * V + Z.abs (S - 65536 * r) < 4 * V' + 4 ->
+  0 <= es' -> 8 * P45 * es' <= 7 * (P45 + E1) * es + E1 * (7 * S + 65536 * r) + 8 * P45 * (65536 + 1) ->
+  0 <= ev' -> 4 * P45 * ev' <= 3 * (P45 + E1) * ev + (P45 + E1) * es + E1 * (3 * V + Z.abs (S - 65536 * r)) + 4 * P45 * (65536 + 1) ->
+  tmpl 0 35184372088832 268435488 0 717737541419268571136 S' V' es' ev'.
+Proof. unfold tmpl, P45, E1. intros. lia. Qed.
+Lemma inv1ms_650ms_step_64 S V es ev r S' V' es' ev' :
+  65536000000 <= S <= 42598400000000 -> 0 <= V <= 42598400000000 ->
+
+  tmpl 35184372088832 0 167772180 0 244907030504182710272 S V es ev ->
+  tmpl 35184372088832 0 184549398 0 194216237623767859200 S V es ev ->
+  tmpl 0 35184372088832 234881052 33554436 574028143779768369152 S V es ev ->
+  tmpl 0 35184372088832 268435488 33554436 456299672223065178112 S V es ev ->
+  tmpl 0 35184372088832 301989924 0 569875734304903790592 S V es ev ->
+  tmpl 0 35184372088832 301989924 33554436 364552820924801351680 S V es ev ->
+  tmpl 0 35184372088832 335544360 0 452423358065647812608 S V es ev ->
+  1000000 <= r <= 650000000 -> 0 <= es -> 0 <= ev ->
+  8 * S' <= 7 * S + 65536 * r < 8 * S' + 8 ->
+  4 * V' <= 3 * V + Z.abs (S - 65536 * r) < 4 * V' + 4 ->
+  0 <= es' -> 8 * P45 * es' <= 7 * (P45 + E1) * es + E1 * (7 * S + 65536 * r) + 8 * P45 * (65536 + 1) ->
+  0 <= ev' -> 4 * P45 * ev' <= 3 * (P45 + E1) * ev + (P45 + E1) * es + E1 * (3 * V + Z.abs (S - 65536 * r)) + 4 * P45 * (65536 + 1) ->
+  tmpl 0 35184372088832 268435488 33554436 456299672223065178112 S' V' es' ev'.
+Proof. unfold tmpl, P45, E1. intros. lia. Qed.
+Lemma inv1ms_650ms_step_65 S V es ev r S' V' es' ev' :
+  65536000000 <= S <= 42598400000000 -> 0 <= V <= 42598400000000 ->
+
+  tmpl 0 0 16777218 (-8388609) (-820022133117572608) S V es ev ->
+  tmpl 35184372088832 0 150994962 0 311159808483668262912 S V es ev ->
+  tmpl 35184372088832 0 167772180 0 244907030504182710272 S V es ev ->
+  tmpl 0 35184372088832 268435488 0 717737541419268571136 S V es ev ->
+  tmpl 0 35184372088832 301989924 0 569875734304903790592 S V es ev ->
+  tmpl 0 35184372088832 335544360 0 452423358065647812608 S V es ev ->
+  1000000 <= r <= 650000000 -> 0 <= es -> 0 <= ev ->
+  8 * S' <= 7 * S + 65536 * r < 8 * S' + 8 ->
+  4 * V' <= 3 * V + Z.abs (S - 65536 * r) < 4 * V' + 4 ->
+  0 <= es' -> 8 * P45 * es' <= 7 * (P45 + E1) * es + E1 * (7 * S + 65536 * r) + 8 * P45 * (65536 + 1) ->
+  0 <= ev' -> 4 * P45 * ev' <= 3 * (P45 + E1) * ev + (P45 + E1) * es + E1 * (3 * V + Z.abs (S - 65536 * r)) + 4 * P45 * (65536 + 1) ->
+  tmpl 0 35184372088832 301989924 0 569875734304903790592 S' V' es' ev'.
+Proof. unfold tmpl, P45, E1. intros. lia. Qed.
+Lemma inv1ms_650ms_step_66 S V es ev r S' V' es' ev' :
+  65536000000 <= S <= 42598400000000 -> 0 <= V <= 42598400000000 ->
+
+  tmpl 35184372088832 0 184549398 0 194216237623767859200 S V es ev ->
+  tmpl 35184372088832 0 201326616 0 156220244632019927040 S V es ev ->
+  tmpl 0 35184372088832 268435488 33554436 456299672223065178112 S V es ev ->
+  tmpl 0 35184372088832 301989924 33554436 364552820924801351680 S V es ev ->
+  tmpl 0 35184372088832 335544360 0 452423358065647812608 S V es ev ->
+  tmpl 0 35184372088832 335544360 33554436 294874422449291460608 S V es ev ->
+  tmpl 0 35184372088832 369098796 0 360778367777643954176 S V es ev ->
+  1000000 <= r <= 650000000 -> 0 <= es -> 0 <= ev ->
+  8 * S' <= 7 * S + 65536 * r < 8 * S' + 8 ->
+  4 * V' <= 3 * V + Z.abs (S - 65536 * r) < 4 * V' + 4 ->
+  0 <= es' -> 8 * P45 * es' <= 7 * (P45 + E1) * es + E1 * (7 * S + 65536 * r) + 8 * P45 * (65536 + 1) ->
+  0 <= ev' -> 4 * P45 * ev' <= 3 * (P45 + E1) * ev + (P45 + E1) * es + E1 * (3 * V + Z.abs (S - 65536 * r)) + 4 * P45 * (65536 + 1) ->
+  tmpl 0 35184372088832 301989924 33554436 364552820924801351680 S' V' es' ev'.
+Proof. unfold tmpl, P45, E1. intros. lia. Qed.
+Lemma inv1ms_650ms_step_67 S V es ev r S' V' es' ev' :
+  65536000000 <= S <= 42598400000000 -> 0 <= V <= 42598400000000 ->
+
+  tmpl 0 0 16777218 (-8388609) (-820022133117572608) S V es ev ->
+  tmpl 35184372088832 0 167772180 0 244907030504182710272 S V es ev ->
+  tmpl 35184372088832 0 184549398 0 194216237623767859200 S V es ev ->
+  tmpl 0 35184372088832 301989924 0 569875734304903790592 S V es ev ->
+  tmpl 0 35184372088832 335544360 0 452423358065647812608 S V es ev ->
+  tmpl 0 35184372088832 369098796 0 360778367777643954176 S V es ev ->
+  1000000 <= r <= 650000000 -> 0 <= es -> 0 <= ev ->
+  8 * S' <= 7 * S + 65536 * r < 8 * S' + 8 ->
+  4 * V' <= 3 * V + Z.abs (S - 65536 * r) < 4 * V' + 4 ->
+  0 <= es' -> 8 * P45 * es' <= 7 * (P45 + E1) * es + E1 * (7 * S + 65536 * r) + 8 * P45 * (65536 + 1) ->
+  0 <= ev' -> 4 * P45 * ev' <= 3 * (P45 + E1) * ev + (P45 + E1) * es + E1 * (3 * V + Z.abs (S - 65536 * r)) + 4 * P45 * (65536 + 1) ->
+  tmpl 0 35184372088832 335544360 0 452423358065647812608 S' V' es' ev'.
+Proof. unfold tmpl, P45, E1. intros. lia. Qed.
+Lemma inv1ms_650ms_step_68 S V es ev r S' V' es' ev' :
+  65536000000 <= S <= 42598400000000 -> 0 <= V <= 42598400000000 ->
+
+  tmpl 35184372088832 0 201326616 0 156220244632019927040 S V es ev ->
+  tmpl 35184372088832 0 218103834 0 128656189891172794368 S V es ev ->
+  tmpl 0 35184372088832 301989924 33554436 364552820924801351680 S V es ev ->
+  tmpl 0 35184372088832 335544360 33554436 294874422449291460608 S V es ev ->
+  tmpl 0 35184372088832 369098796 0 360778367777643954176 S V es ev ->
+  tmpl 0 35184372088832 369098796 33554436 243907534057014951936 S V es ev ->
+  tmpl 0 35184372088832 402653232 0 291137308515245064192 S V es ev ->
+  1000000 <= r <= 650000000 -> 0 <= es -> 0 <= ev ->
+  8 * S' <= 7 * S + 65536 * r < 8 * S' + 8 ->
+  4 * V' <= 3 * V + Z.abs (S - 65536 * r) < 4 * V' + 4 ->
+  0 <= es' -> 8 * P45 * es' <= 7 * (P45 + E1) * es + E1 * (7 * S + 65536 * r) + 8 * P45 * (65536 + 1) ->
+  0 <= ev' -> 4 * P45 * ev' <= 3 * (P45 + E1) * ev + (P45 + E1) * es + E1 * (3 * V + Z.abs (S - 65536 * r)) + 4 * P45 * (65536 + 1) ->
+  tmpl 0 35184372088832 335544360 33554436 294874422449291460608 S' V' es' ev'.
+Proof. unfold tmpl, P45, E1. intros. lia. Qed.
+Lemma inv1ms_650ms_step_69 S V es ev r S' V' es' ev' :
+  65536000000 <= S <= 42598400000000 -> 0 <= V <= 42598400000000 ->
+
+  tmpl 0 0 16777218 (-8388609) (-820022133117572608) S V es ev ->
+  tmpl 35184372088832 0 184549398 0 194216237623767859200 S V es ev ->
+  tmpl 35184372088832 0 201326616 0 156220244632019927040 S V es ev ->
+  tmpl 35184372088832 0 218103834 0 128656189891172794368 S V es ev ->
+  tmpl 0 35184372088832 335544360 0 452423358065647812608 S V es ev ->
+  tmpl 0 35184372088832 369098796 0 360778367777643954176 S V es ev ->
+  tmpl 0 35184372088832 402653232 0 291137308515245064192 S V es ev ->
+  1000000 <= r <= 650000000 -> 0 <= es -> 0 <= ev ->
+  8 * S' <= 7 * S + 65536 * r < 8 * S' + 8 ->
+  4 * V' <= 3 * V + Z.abs (S - 65536 * r) < 4 * V' + 4 ->
+  0 <= es' -> 8 * P45 * es' <= 7 * (P45 + E1) * es + E1 * (7 * S + 65536 * r) + 8 * P45 * (65536 + 1) ->
+  0 <= ev' -> 4 * P45 * ev' <= 3 * (P45 + E1) * ev + (P45 + E1) * es + E1 * (3 * V + Z.abs (S - 65536 * r)) + 4 * P45 * (65536 + 1) ->
+  tmpl 0 35184372088832 369098796 0 360778367777643954176 S' V' es' ev'.
+Proof. unfold tmpl, P45, E1. intros. lia. Qed.
+Lemma inv1ms_650ms_step_70 S V es ev r S' V' es' ev' :
+  65536000000 <= S <= 42598400000000 -> 0 <= V <= 42598400000000 ->
+
+  tmpl 35184372088832 0 218103834 0 128656189891172794368 S V es ev ->
+  tmpl 35184372088832 0 234881052 0 109549387852147228672 S V es ev ->
+  tmpl 0 35184372088832 335544360 33554436 294874422449291460608 S V es ev ->
+  tmpl 0 35184372088832 369098796 33554436 243907534057014951936 S V es ev ->
+  tmpl 0 35184372088832 402653232 0 291137308515245064192 S V es ev ->
+  tmpl 0 35184372088832 402653232 33554436 208435982955420975104 S V es ev ->
+  tmpl 0 35184372088832 436207668 0 240183854349014925312 S V es ev ->
+  tmpl 0 35184372088832 469762104 0 204716958348242845696 S V es ev ->
+  1000000 <= r <= 650000000 -> 0 <= es -> 0 <= ev ->
+  8 * S' <= 7 * S + 65536 * r < 8 * S' + 8 ->
+  4 * V' <= 3 * V + Z.abs (S - 65536 * r) < 4 * V' + 4 ->
+  0 <= es' -> 8 * P45 * es' <= 7 * (P45 + E1) * es + E1 * (7 * S + 65536 * r) + 8 * P45 * (65536 + 1) ->
+  0 <= ev' -> 4 * P45 * ev' <= 3 * (P45 + E1) * ev + (P45 + E1) * es + E1 * (3 * V + Z.abs (S - 65536 * r)) + 4 * P45 * (65536 + 1) ->
+  tmpl 0 35184372088832 369098796 33554436 243907534057014951936 S' V' es' ev'.
+Proof. unfold tmpl, P45, E1. intros. lia. Qed.
+Lemma inv1ms_650ms_step_71 S V es ev r S' V' es' ev' :
+  65536000000 <= S <= 42598400000000 -> 0 <= V <= 42598400000000 ->
+
+  tmpl 0 0 16777218 (-8388609) (-820022133117572608) S V es ev ->
+  tmpl 35184372088832 0 201326616 0 156220244632019927040 S V es ev ->
+  tmpl 35184372088832 0 234881052 0 109549387852147228672 S V es ev ->
+  tmpl 0 35184372088832 369098796 0 360778367777643954176 S V es ev ->
+  tmpl 0 35184372088832 402653232 0 291137308515245064192 S V es ev ->
+  tmpl 0 35184372088832 436207668 0 240183854349014925312 S V es ev ->
+  tmpl 0 35184372088832 469762104 0 204716958348242845696 S V es ev ->
+  1000000 <= r <= 650000000 -> 0 <= es -> 0 <= ev ->
+  8 * S' <= 7 * S + 65536 * r < 8 * S' + 8 ->
+  4 * V' <= 3 * V + Z.abs (S - 65536 * r) < 4 * V' + 4 ->
+  0 <= es' -> 8 * P45 * es' <= 7 * (P45 + E1) * es + E1 * (7 * S + 65536 * r) + 8 * P45 * (65536 + 1) ->
+  0 <= ev' -> 4 * P45 * ev' <= 3 * (P45 + E1) * ev + (P45 + E1) * es + E1 * (3 * V + Z.abs (S - 65536 * r)) + 4 * P45 * (65536 + 1) ->
+  tmpl 0 35184372088832 402653232 0 291137308515245064192 S' V' es' ev'.
+Proof. unfold tmpl, P45, E1. intros. lia. Qed.
+Lemma inv1ms_650ms_step_72 S V es ev r S' V' es' ev' :
+  65536000000 <= S <= 42598400000000 -> 0 <= V <= 42598400000000 ->
+
+  tmpl 35184372088832 0 234881052 0 109549387852147228672 S V es ev ->
+  tmpl 35184372088832 0 251658270 0 97020472845708066816 S V es ev ->
+  tmpl 0 35184372088832 369098796 33554436 243907534057014951936 S V es ev ->
+  tmpl 0 35184372088832 402653232 33554436 208435982955420975104 S V es ev ->
+  tmpl 0 35184372088832 436207668 0 240183854349014925312 S V es ev ->
+  tmpl 0 35184372088832 436207668 33554436 185159205075422085120 S V es ev ->
+  tmpl 0 35184372088832 469762104 0 204716958348242845696 S V es ev ->
+  tmpl 0 35184372088832 503316540 0 181441695158893707264 S V es ev ->
+  1000000 <= r <= 650000000 -> 0 <= es -> 0 <= ev ->
+  8 * S' <= 7 * S + 65536 * r < 8 * S' + 8 ->
+  4 * V' <= 3 * V + Z.abs (S - 65536 * r) < 4 * V' + 4 ->
+  0 <= es' -> 8 * P45 * es' <= 7 * (P45 + E1) * es + E1 * (7 * S + 65536 * r) + 8 * P45 * (65536 + 1) ->
+  0 <= ev' -> 4 * P45 * ev' <= 3 * (P45 + E1) * ev + (P45 + E1) * es + E1 * (3 * V + Z.abs (S - 65536 * r)) + 4 * P45 * (65536 + 1) ->
+  tmpl 0 35184372088832 402653232 33554436 208435982955420975104 S' V' es' ev'.
+Proof. unfold tmpl, P45, E1. intros. lia. Qed.
+Lemma inv1ms_650ms_step_73 S V es ev r S' V' es' ev' :
+  65536000000 <= S <= 42598400000000 -> 0 <= V <= 42598400000000 ->
+
+  tmpl 0 0 16777218 (-8388609) (-820022133117572608) S V es ev ->
+  tmpl 35184372088832 0 218103834 0 128656189891172794368 S V es ev ->
+  tmpl 35184372088832 0 251658270 0 97020472845708066816 S V es ev ->
+  tmpl 0 35184372088832 402653232 0 291137308515245064192 S V es ev ->
+  tmpl 0 35184372088832 436207668 0 240183854349014925312 S V es ev ->
+  tmpl 0 35184372088832 469762104 0 204716958348242845696 S V es ev ->
+  tmpl 0 35184372088832 503316540 0 181441695158893707264 S V es ev ->
+  1000000 <= r <= 650000000 -> 0 <= es -> 0 <= ev ->
+  8 * S' <= 7 * S + 65536 * r < 8 * S' + 8 ->
+  4 * V' <= 3 * V + Z.abs (S - 65536 * r) < 4 * V' + 4 ->
+  0 <= es' -> 8 * P45 * es' <= 7 * (P45 + E1) * es + E1 * (7 * S + 65536 * r) + 8 * P45 * (65536 + 1) ->
+  0 <= ev' -> 4 * P45 * ev' <= 3 * (P45 + E1) * ev + (P45 + E1) * es + E1 * (3 * V + Z.abs (S - 65536 * r)) + 4 * P45 * (65536 + 1) ->
+  tmpl 0 35184372088832 436207668 0 240183854349014925312 S' V' es' ev'.
+Proof. unfold tmpl, P45, E1. intros. lia. Qed.
+Lemma inv1ms_650ms_step_74 S V es ev r S' V' es' ev' :
+  65536000000 <= S <= 42598400000000 -> 0 <= V <= 42598400000000 ->
+
+  tmpl 35184372088832 0 251658270 0 97020472845708066816 S V es ev ->
+  tmpl 35184372088832 0 268435488 0 89264210019393830912 S V es ev ->
+  tmpl 35184372088832 0 285212706 0 84661829373195763712 S V es ev ->
+  tmpl 0 35184372088832 402653232 33554436 208435982955420975104 S V es ev ->
+  tmpl 0 35184372088832 436207668 33554436 185159205075422085120 S V es ev ->
+  tmpl 0 35184372088832 469762104 0 204716958348242845696 S V es ev ->
+  tmpl 0 35184372088832 469762104 33554436 170763984455168884736 S V es ev ->
+  tmpl 0 35184372088832 536870976 0 167046923660688719872 S V es ev ->
+  1000000 <= r <= 650000000 -> 0 <= es -> 0 <= ev ->
+  8 * S' <= 7 * S + 65536 * r < 8 * S' + 8 ->
+  4 * V' <= 3 * V + Z.abs (S - 65536 * r) < 4 * V' + 4 ->
+  0 <= es' -> 8 * P45 * es' <= 7 * (P45 + E1) * es + E1 * (7 * S + 65536 * r) + 8 * P45 * (65536 + 1) ->
+  0 <= ev' -> 4 * P45 * ev' <= 3 * (P45 + E1) * ev + (P45 + E1) * es + E1 * (3 * V + Z.abs (S - 65536 * r)) + 4 * P45 * (65536 + 1) ->
+  tmpl 0 35184372088832 436207668 33554436 185159205075422085120 S' V' es' ev'.
+Proof. unfold tmpl, P45, E1. intros. lia. Qed.
+Lemma inv1ms_650ms_step_75 S V es ev r S' V' es' ev' :
+  65536000000 <= S <= 42598400000000 -> 0 <= V <= 42598400000000 ->
+
+  tmpl 0 0 16777218 (-8388609) (-820022133117572608) S V es ev ->
+  tmpl 35184372088832 0 234881052 0 109549387852147228672 S V es ev ->
+  tmpl 35184372088832 0 268435488 0 89264210019393830912 S V es ev ->
+  tmpl 0 35184372088832 436207668 0 240183854349014925312 S V es ev ->
+  tmpl 0 35184372088832 469762104 0 204716958348242845696 S V es ev ->
+  tmpl 0 35184372088832 503316540 0 181441695158893707264 S V es ev ->
+  tmpl 0 35184372088832 536870976 0 167046923660688719872 S V es ev ->
+  1000000 <= r <= 650000000 -> 0 <= es -> 0 <= ev ->
+  8 * S' <= 7 * S + 65536 * r < 8 * S' + 8 ->
+  4 * V' <= 3 * V + Z.abs (S - 65536 * r) < 4 * V' + 4 ->
+  0 <= es' -> 8 * P45 * es' <= 7 * (P45 + E1) * es + E1 * (7 * S + 65536 * r) + 8 * P45 * (65536 + 1) ->
+  0 <= ev' -> 4 * P45 * ev' <= 3 * (P45 + E1) * ev + (P45 + E1) * es + E1 * (3 * V + Z.abs (S - 65536 * r)) + 4 * P45 * (65536 + 1) ->
+  tmpl 0 35184372088832 469762104 0 204716958348242845696 S' V' es' ev'.
+Proof. unfold tmpl, P45, E1. intros. lia. Qed.
+Lemma inv1ms_650ms_step_76 S V es ev r S' V' es' ev' :
+  65536000000 <= S <= 42598400000000 -> 0 <= V <= 42598400000000 ->
+
+  tmpl 35184372088832 0 268435488 0 89264210019393830912 S V es ev ->
+  tmpl 35184372088832 0 301989924 0 81921442140255387648 S V es ev ->
+  tmpl 0 35184372088832 436207668 33554436 185159205075422085120 S V es ev ->
+  tmpl 0 35184372088832 469762104 33554436 170763984455168884736 S V es ev ->
+  tmpl 0 35184372088832 503316540 0 181441695158893707264 S V es ev ->
+  tmpl 0 35184372088832 503316540 33554436 162221201110067380224 S V es ev ->
+  tmpl 0 35184372088832 536870976 33554436 157103048667699937280 S V es ev ->
+  tmpl 0 35184372088832 570425412 0 158504257619315851264 S V es ev ->
+  1000000 <= r <= 650000000 -> 0 <= es -> 0 <= ev ->
+  8 * S' <= 7 * S + 65536 * r < 8 * S' + 8 ->
+  4 * V' <= 3 * V + Z.abs (S - 65536 * r) < 4 * V' + 4 ->
+  0 <= es' -> 8 * P45 * es' <= 7 * (P45 + E1) * es + E1 * (7 * S + 65536 * r) + 8 * P45 * (65536 + 1) ->
+  0 <= ev' -> 4 * P45 * ev' <= 3 * (P45 + E1) * ev + (P45 + E1) * es + E1 * (3 * V + Z.abs (S - 65536 * r)) + 4 * P45 * (65536 + 1) ->
+  tmpl 0 35184372088832 469762104 33554436 170763984455168884736 S' V' es' ev'.
+Proof. unfold tmpl, P45, E1. intros. lia. Qed.
+Lemma inv1ms_650ms_step_77 S V es ev r S' V' es' ev' :
+  65536000000 <= S <= 42598400000000 -> 0 <= V <= 42598400000000 ->
+
+  tmpl 0 0 16777218 (-8388609) (-820022133117572608) S V es ev ->
+  tmpl 35184372088832 0 251658270 0 97020472845708066816 S V es ev ->
+  tmpl 35184372088832 0 285212706 0 84661829373195763712 S V es ev ->
+  tmpl 0 35184372088832 469762104 0 204716958348242845696 S V es ev ->
+  tmpl 0 35184372088832 503316540 0 181441695158893707264 S V es ev ->
+  tmpl 0 35184372088832 536870976 0 167046923660688719872 S V es ev ->
+  tmpl 0 35184372088832 570425412 0 158504257619315851264 S V es ev ->
+  1000000 <= r <= 650000000 -> 0 <= es -> 0 <= ev ->
+  8 * S' <= 7 * S + 65536 * r < 8 * S' + 8 ->
+  4 * V' <= 3 * V + Z.abs (S - 65536 * r) < 4 * V' + 4 ->
+  0 <= es' -> 8 * P45 * es' <= 7 * (P45 + E1) * es + E1 * (7 * S + 65536 * r) + 8 * P45 * (65536 + 1) ->
+  0 <= ev' -> 4 * P45 * ev' <= 3 * (P45 + E1) * ev + (P45 + E1) * es + E1 * (3 * V + Z.abs (S - 65536 * r)) + 4 * P45 * (65536 + 1) ->
+  tmpl 0 35184372088832 503316540 0 181441695158893707264 S' V' es' ev'.
+Proof. unfold tmpl, P45, E1. intros. lia. Qed.
+Lemma inv1ms_650ms_step_78 S V es ev r S' V' es' ev' :
+  65536000000 <= S <= 42598400000000 -> 0 <= V <= 42598400000000 ->
+
+  tmpl 35184372088832 0 285212706 0 84661829373195763712 S V es ev ->
+  tmpl 35184372088832 0 318767142 0 80147688121855311872 S V es ev ->
+  tmpl 0 35184372088832 469762104 33554436 170763984455168884736 S V es ev ->
+  tmpl 0 35184372088832 503316540 33554436 162221201110067380224 S V es ev ->
+  tmpl 0 35184372088832 536870976 0 167046923660688719872 S V es ev ->
+  tmpl 0 35184372088832 536870976 33554436 157103048667699937280 S V es ev ->
+  tmpl 0 35184372088832 570425412 33554436 153735604770786869248 S V es ev ->
+  tmpl 0 35184372088832 603979848 0 153386130954277552128 S V es ev ->
+  1000000 <= r <= 650000000 -> 0 <= es -> 0 <= ev ->
+  8 * S' <= 7 * S + 65536 * r < 8 * S' + 8 ->
+  4 * V' <= 3 * V + Z.abs (S - 65536 * r) < 4 * V' + 4 ->
+  0 <= es' -> 8 * P45 * es' <= 7 * (P45 + E1) * es + E1 * (7 * S + 65536 * r) + 8 * P45 * (65536 + 1) ->
+  0 <= ev' -> 4 * P45 * ev' <= 3 * (P45 + E1) * ev + (P45 + E1) * es + E1 * (3 * V + Z.abs (S - 65536 * r)) + 4 * P45 * (65536 + 1) ->
+  tmpl 0 35184372088832 503316540 33554436 162221201110067380224 S' V' es' ev'.
+Proof. unfold tmpl, P45, E1. intros. lia. Qed.
+Lemma inv1ms_650ms_step_79 S V es ev r S' V' es' ev' :
+  65536000000 <= S <= 42598400000000 -> 0 <= V <= 42598400000000 ->
+
+  tmpl 0 0 16777218 (-8388609) (-820022133117572608) S V es ev ->
+  tmpl 35184372088832 0 268435488 0 89264210019393830912 S V es ev ->
+  tmpl 35184372088832 0 301989924 0 81921442140255387648 S V es ev ->
+  tmpl 0 35184372088832 503316540 0 181441695158893707264 S V es ev ->
+  tmpl 0 35184372088832 536870976 0 167046923660688719872 S V es ev ->
+  tmpl 0 35184372088832 570425412 0 158504257619315851264 S V es ev ->
+  tmpl 0 35184372088832 603979848 0 153386130954277552128 S V es ev ->
+  1000000 <= r <= 650000000 -> 0 <= es -> 0 <= ev ->
+  8 * S' <= 7 * S + 65536 * r < 8 * S' + 8 ->
+  4 * V' <= 3 * V + Z.abs (S - 65536 * r) < 4 * V' + 4 ->
+  0 <= es' -> 8 * P45 * es' <= 7 * (P45 + E1) * es + E1 * (7 * S + 65536 * r) + 8 * P45 * (65536 + 1) ->
+  0 <= ev' -> 4 * P45 * ev' <= 3 * (P45 + E1) * ev + (P45 + E1) * es + E1 * (3 * V + Z.abs (S - 65536 * r)) + 4 * P45 * (65536 + 1) ->
+  tmpl 0 35184372088832 536870976 0 167046923660688719872 S' V' es' ev'.
+Proof. unfold tmpl, P45, E1. intros. lia. Qed.
+Lemma inv1ms_650ms_step_80 S V es ev r S' V' es' ev' :
+  65536000000 <= S <= 42598400000000 -> 0 <= V <= 42598400000000 ->
+
+  tmpl 35184372088832 0 301989924 0 81921442140255387648 S V es ev ->
+  tmpl 35184372088832 0 335544360 0 78808924128540590080 S V es ev ->
+  tmpl 0 35184372088832 503316540 33554436 162221201110067380224 S V es ev ->
+  tmpl 0 35184372088832 536870976 33554436 157103048667699937280 S V es ev ->
+  tmpl 0 35184372088832 570425412 0 158504257619315851264 S V es ev ->
+  tmpl 0 35184372088832 570425412 33554436 153735604770786869248 S V es ev ->
+  tmpl 0 35184372088832 603979848 33554436 151137538017572749312 S V es ev ->
+  tmpl 0 35184372088832 637534284 0 150018691316956856320 S V es ev ->
+  1000000 <= r <= 650000000 -> 0 <= es -> 0 <= ev ->
+  8 * S' <= 7 * S + 65536 * r < 8 * S' + 8 ->
+  4 * V' <= 3 * V + Z.abs (S - 65536 * r) < 4 * V' + 4 ->
+  0 <= es' -> 8 * P45 * es' <= 7 * (P45 + E1) * es + E1 * (7 * S + 65536 * r) + 8 * P45 * (65536 + 1) ->
+  0 <= ev' -> 4 * P45 * ev' <= 3 * (P45 + E1) * ev + (P45 + E1) * es + E1 * (3 * V + Z.abs (S - 65536 * r)) + 4 * P45 * (65536 + 1) ->
+  tmpl 0 35184372088832 536870976 33554436 157103048667699937280 S' V' es' ev'.
+Proof. unfold tmpl, P45, E1. intros. lia. Qed.
+Lemma inv1ms_650ms_step_81 S V es ev r S' V' es' ev' :
+  65536000000 <= S <= 42598400000000 -> 0 <= V <= 42598400000000 ->
+
+  tmpl 0 0 16777218 (-8388609) (-820022133117572608) S V es ev ->
+  tmpl 35184372088832 0 285212706 0 84661829373195763712 S V es ev ->
+  tmpl 35184372088832 0 318767142 0 80147688121855311872 S V es ev ->
+  tmpl 0 35184372088832 536870976 0 167046923660688719872 S V es ev ->
+  tmpl 0 35184372088832 570425412 0 158504257619315851264 S V es ev ->
+  tmpl 0 35184372088832 603979848 0 153386130954277552128 S V es ev ->
+  tmpl 0 35184372088832 637534284 0 150018691316956856320 S V es ev ->
+  1000000 <= r <= 650000000 -> 0 <= es -> 0 <= ev ->
+  8 * S' <= 7 * S + 65536 * r < 8 * S' + 8 ->
+  4 * V' <= 3 * V + Z.abs (S - 65536 * r) < 4 * V' + 4 ->
+  0 <= es' -> 8 * P45 * es' <= 7 * (P45 + E1) * es + E1 * (7 * S + 65536 * r) + 8 * P45 * (65536 + 1) ->
+  0 <= ev' -> 4 * P45 * ev' <= 3 * (P45 + E1) * ev + (P45 + E1) * es + E1 * (3 * V + Z.abs (S - 65536 * r)) + 4 * P45 * (65536 + 1) ->
+  tmpl 0 35184372088832 570425412 0 158504257619315851264 S' V' es' ev'.
+Proof. unfold tmpl, P45, E1. intros. lia. Qed.
+Lemma inv1ms_650ms_step_82 S V es ev r S' V' es' ev' :
+  65536000000 <= S <= 42598400000000 -> 0 <= V <= 42598400000000 ->
+
+  tmpl 35184372088832 0 318767142 0 80147688121855311872 S V es ev ->
+  tmpl 35184372088832 0 352321578 0 77637392062984503296 S V es ev ->
+  tmpl 35184372088832 0 369098796 0 76519886598574407680 S V es ev ->
+  tmpl 0 35184372088832 536870976 33554436 157103048667699937280 S V es ev ->
+  tmpl 0 35184372088832 570425412 33554436 153735604770786869248 S V es ev ->
+  tmpl 0 35184372088832 603979848 0 153386130954277552128 S V es ev ->
+  tmpl 0 35184372088832 637534284 0 150018691316956856320 S V es ev ->
+  tmpl 0 35184372088832 637534284 33554436 148859164029440819200 S V es ev ->
+  1000000 <= r <= 650000000 -> 0 <= es -> 0 <= ev ->
+  8 * S' <= 7 * S + 65536 * r < 8 * S' + 8 ->
+  4 * V' <= 3 * V + Z.abs (S - 65536 * r) < 4 * V' + 4 ->
+  0 <= es' -> 8 * P45 * es' <= 7 * (P45 + E1) * es + E1 * (7 * S + 65536 * r) + 8 * P45 * (65536 + 1) ->
+  0 <= ev' -> 4 * P45 * ev' <= 3 * (P45 + E1) * ev + (P45 + E1) * es + E1 * (3 * V + Z.abs (S - 65536 * r)) + 4 * P45 * (65536 + 1) ->
+  tmpl 0 35184372088832 570425412 33554436 153735604770786869248 S' V' es' ev'.
+Proof. unfold tmpl, P45, E1. intros. lia. Qed.
+Lemma inv1ms_650ms_step_83 S V es ev r S' V' es' ev' :
+  65536000000 <= S <= 42598400000000 -> 0 <= V <= 42598400000000 ->
+
+  tmpl 0 0 16777218 (-8388609) (-820022133117572608) S V es ev ->
+  tmpl 35184372088832 0 301989924 0 81921442140255387648 S V es ev ->
+  tmpl 35184372088832 0 369098796 0 76519886598574407680 S V es ev ->
+  tmpl 0 35184372088832 570425412 0 158504257619315851264 S V es ev ->
+  tmpl 0 35184372088832 603979848 0 153386130954277552128 S V es ev ->
+  tmpl 0 35184372088832 637534284 0 150018691316956856320 S V es ev ->
+  tmpl 0 35184372088832 637534284 33554436 148859164029440819200 S V es ev ->
+  1000000 <= r <= 650000000 -> 0 <= es -> 0 <= ev ->
+  8 * S' <= 7 * S + 65536 * r < 8 * S' + 8 ->
+  4 * V' <= 3 * V + Z.abs (S - 65536 * r) < 4 * V' + 4 ->
+  0 <= es' -> 8 * P45 * es' <= 7 * (P45 + E1) * es + E1 * (7 * S + 65536 * r) + 8 * P45 * (65536 + 1) ->
+  0 <= ev' -> 4 * P45 * ev' <= 3 * (P45 + E1) * ev + (P45 + E1) * es + E1 * (3 * V + Z.abs (S - 65536 * r)) + 4 * P45 * (65536 + 1) ->
+  tmpl 0 35184372088832 603979848 0 153386130954277552128 S' V' es' ev'.
+Proof. unfold tmpl, P45, E1. intros. lia. Qed.
+Lemma inv1ms_650ms_step_84 S V es ev r S' V' es' ev' :
+  65536000000 <= S <= 42598400000000 -> 0 <= V <= 42598400000000 ->
+
+  tmpl 0 0 16777218 (-8388609) (-820022133117572608) S V es ev ->
+  tmpl 35184372088832 0 335544360 0 78808924128540590080 S V es ev ->
+  tmpl 35184372088832 0 436207668 0 72117580279886151680 S V es ev ->
+  tmpl 35184372088832 0 452984886 0 71018068355903430656 S V es ev ->
+  tmpl 0 35184372088832 570425412 33554436 153735604770786869248 S V es ev ->
+  tmpl 0 35184372088832 603979848 33554436 151137538017572749312 S V es ev ->
+  tmpl 0 35184372088832 637534284 0 150018691316956856320 S V es ev ->
+  tmpl 0 35184372088832 637534284 33554436 148859164029440819200 S V es ev ->
+  1000000 <= r <= 650000000 -> 0 <= es -> 0 <= ev ->
+  8 * S' <= 7 * S + 65536 * r < 8 * S' + 8 ->
+  4 * V' <= 3 * V + Z.abs (S - 65536 * r) < 4 * V' + 4 ->
+  0 <= es' -> 8 * P45 * es' <= 7 * (P45 + E1) * es + E1 * (7 * S + 65536 * r) + 8 * P45 * (65536 + 1) ->
+  0 <= ev' -> 4 * P45 * ev' <= 3 * (P45 + E1) * ev + (P45 + E1) * es + E1 * (3 * V + Z.abs (S - 65536 * r)) + 4 * P45 * (65536 + 1) ->
+  tmpl 0 35184372088832 603979848 33554436 151137538017572749312 S' V' es' ev'.
+Proof. unfold tmpl, P45, E1. intros. lia. Qed.
+Lemma inv1ms_650ms_step_85 S V es ev r S' V' es' ev' :
+  65536000000 <= S <= 42598400000000 -> 0 <= V <= 42598400000000 ->
+
+  tmpl 0 0 16777218 (-8388609) (-820022133117572608) S V es ev ->
+  tmpl 35184372088832 0 318767142 0 80147688121855311872 S V es ev ->
+  tmpl 35184372088832 0 369098796 0 76519886598574407680 S V es ev ->
+  tmpl 35184372088832 0 385876014 0 75416749541786271744 S V es ev ->
+  tmpl 0 35184372088832 603979848 0 153386130954277552128 S V es ev ->
+  tmpl 0 35184372088832 637534284 0 150018691316956856320 S V es ev ->
+  tmpl 0 35184372088832 637534284 33554436 148859164029440819200 S V es ev ->
+  1000000 <= r <= 650000000 -> 0 <= es -> 0 <= ev ->
+  8 * S' <= 7 * S + 65536 * r < 8 * S' + 8 ->
+  4 * V' <= 3 * V + Z.abs (S - 65536 * r) < 4 * V' + 4 ->
+  0 <= es' -> 8 * P45 * es' <= 7 * (P45 + E1) * es + E1 * (7 * S + 65536 * r) + 8 * P45 * (65536 + 1) ->
+  0 <= ev' -> 4 * P45 * ev' <= 3 * (P45 + E1) * ev + (P45 + E1) * es + E1 * (3 * V + Z.abs (S - 65536 * r)) + 4 * P45 * (65536 + 1) ->
+  tmpl 0 35184372088832 637534284 0 150018691316956856320 S' V' es' ev'.
+Proof. unfold tmpl, P45, E1. intros. lia. Qed.
+Lemma inv1ms_650ms_step_86 S V es ev r S' V' es' ev' :
+  65536000000 <= S <= 42598400000000 -> 0 <= V <= 42598400000000 ->
+
+  tmpl 0 0 16777218 (-8388609) (-820022133117572608) S V es ev ->
+  tmpl 35184372088832 0 352321578 0 77637392062984503296 S V es ev ->
+  tmpl 35184372088832 0 452984886 0 71018068355903430656 S V es ev ->
+  tmpl 0 35184372088832 603979848 33554436 151137538017572749312 S V es ev ->
+  tmpl 0 35184372088832 637534284 0 150018691316956856320 S V es ev ->
+  tmpl 0 35184372088832 637534284 33554436 148859164029440819200 S V es ev ->
+  1000000 <= r <= 650000000 -> 0 <= es -> 0 <= ev ->
+  8 * S' <= 7 * S + 65536 * r < 8 * S' + 8 ->
+  4 * V' <= 3 * V + Z.abs (S - 65536 * r) < 4 * V' + 4 ->
+  0 <= es' -> 8 * P45 * es' <= 7 * (P45 + E1) * es + E1 * (7 * S + 65536 * r) + 8 * P45 * (65536 + 1) ->
+  0 <= ev' -> 4 * P45 * ev' <= 3 * (P45 + E1) * ev + (P45 + E1) * es + E1 * (3 * V + Z.abs (S - 65536 * r)) + 4 * P45 * (65536 + 1) ->
+  tmpl 0 35184372088832 637534284 33554436 148859164029440819200 S' V' es' ev'.
+Proof. unfold tmpl, P45, E1. intros. lia. Qed.
+Lemma inv1ms_650ms_step_87 S V es ev r S' V' es' ev' :
+  65536000000 <= S <= 42598400000000 -> 0 <= V <= 42598400000000 ->
+
+  tmpl 35184372088832 0 0 0 2877466508466800033792 S V es ev ->
+  tmpl 35184372088832 0 16777218 0 2242070879954330976256 S V es ev ->
+  tmpl 35184372088832 140737521909764 0 0 19961800606591941083136 S V es ev ->
+  1000000 <= r <= 650000000 -> 0 <= es -> 0 <= ev ->
+  8 * S' <= 7 * S + 65536 * r < 8 * S' + 8 ->
+  4 * V' <= 3 * V + Z.abs (S - 65536 * r) < 4 * V' + 4 ->
+  0 <= es' -> 8 * P45 * es' <= 7 * (P45 + E1) * es + E1 * (7 * S + 65536 * r) + 8 * P45 * (65536 + 1) ->
+  0 <= ev' -> 4 * P45 * ev' <= 3 * (P45 + E1) * ev + (P45 + E1) * es + E1 * (3 * V + Z.abs (S - 65536 * r)) + 4 * P45 * (65536 + 1) ->
+  tmpl 35184372088832 140737521909764 0 0 19961800606591941083136 S' V' es' ev'.
+Proof. unfold tmpl, P45, E1. intros. lia. Qed.
+Lemma inv1ms_650ms_step_88 S V es ev r S' V' es' ev' :
+  65536000000 <= S <= 42598400000000 -> 0 <= V <= 42598400000000 ->
+
+  tmpl 35184372088832 0 0 0 2877466508466800033792 S V es ev ->
+  tmpl 35184372088832 140737521909764 0 0 19961800606591941083136 S V es ev ->
+  1000000 <= r <= 650000000 -> 0 <= es -> 0 <= ev ->
+  8 * S' <= 7 * S + 65536 * r < 8 * S' + 8 ->
+  4 * V' <= 3 * V + Z.abs (S - 65536 * r) < 4 * V' + 4 ->
+  0 <= es' -> 8 * P45 * es' <= 7 * (P45 + E1) * es + E1 * (7 * S + 65536 * r) + 8 * P45 * (65536 + 1) ->
+  0 <= ev' -> 4 * P45 * ev' <= 3 * (P45 + E1) * ev + (P45 + E1) * es + E1 * (3 * V + Z.abs (S - 65536 * r)) + 4 * P45 * (65536 + 1) ->
+  tmpl 35184372088832 140737521909764 0 33554436 18577583936621525336064 S' V' es' ev'.
+Proof. unfold tmpl, P45, E1. intros. lia. Qed.
+Lemma inv1ms_650ms_step_89 S V es ev r S' V' es' ev' :
+  65536000000 <= S <= 42598400000000 -> 0 <= V <= 42598400000000 ->
+
+  tmpl 35184372088832 0 0 0 2877466508466800033792 S V es ev ->
+  tmpl 35184372088832 140737521909764 0 0 19961800606591941083136 S V es ev ->
+  tmpl 35184372088832 140737521909764 0 33554436 18577583936621525336064 S V es ev ->
+  1000000 <= r <= 650000000 -> 0 <= es -> 0 <= ev ->
+  8 * S' <= 7 * S + 65536 * r < 8 * S' + 8 ->
+  4 * V' <= 3 * V + Z.abs (S - 65536 * r) < 4 * V' + 4 ->
+  0 <= es' -> 8 * P45 * es' <= 7 * (P45 + E1) * es + E1 * (7 * S + 65536 * r) + 8 * P45 * (65536 + 1) ->
+  0 <= ev' -> 4 * P45 * ev' <= 3 * (P45 + E1) * ev + (P45 + E1) * es + E1 * (3 * V + Z.abs (S - 65536 * r)) + 4 * P45 * (65536 + 1) ->
+  tmpl 35184372088832 140737521909764 0 67108872 17539421426070543400960 S' V' es' ev'.
+Proof. unfold tmpl, P45, E1. intros. lia. Qed.
+Lemma inv1ms_650ms_step_90 S V es ev r S' V' es' ev' :
+  65536000000 <= S <= 42598400000000 -> 0 <= V <= 42598400000000 ->
+
+  tmpl 0 0 8388609 (-16777218) 428274587473769332736 S V es ev ->
+  tmpl 35184372088832 0 16777218 0 2242070879954330976256 S V es ev ->
+  tmpl 0 35184372088832 0 0 4282236851683024437248 S V es ev ->
+  tmpl 109951162777600000 439804755968012500 274877906944 0 53663721722736790732800000 S V es ev ->
+  1000000 <= r <= 650000000 -> 0 <= es -> 0 <= ev ->
+  8 * S' <= 7 * S + 65536 * r < 8 * S' + 8 ->
+  4 * V' <= 3 * V + Z.abs (S - 65536 * r) < 4 * V' + 4 ->
+  0 <= es' -> 8 * P45 * es' <= 7 * (P45 + E1) * es + E1 * (7 * S + 65536 * r) + 8 * P45 * (65536 + 1) ->
+  0 <= ev' -> 4 * P45 * ev' <= 3 * (P45 + E1) * ev + (P45 + E1) * es + E1 * (3 * V + Z.abs (S - 65536 * r)) + 4 * P45 * (65536 + 1) ->
+  tmpl 109951162777600000 439804755968012500 274877906944 0 53663721722736790732800000 S' V' es' ev'.
+Proof. unfold tmpl, P45, E1. intros. lia. Qed.
+Lemma inv1ms_650ms_step_91 S V es ev r S' V' es' ev' :
+  65536000000 <= S <= 42598400000000 -> 0 <= V <= 42598400000000 ->
+
+  tmpl 0 0 8388609 (-16777218) 428274587473769332736 S V es ev ->
+  tmpl 35184372088832 0 16777218 0 2242070879954330976256 S V es ev ->
+  tmpl 0 35184372088832 0 0 4282236851683024437248 S V es ev ->
+  tmpl 109951162777600000 439804755968012500 274877906944 0 53663721722736790732800000 S V es ev ->
+  1000000 <= r <= 650000000 -> 0 <= es -> 0 <= ev ->
+  8 * S' <= 7 * S + 65536 * r < 8 * S' + 8 ->
+  4 * V' <= 3 * V + Z.abs (S - 65536 * r) < 4 * V' + 4 ->
+  0 <= es' -> 8 * P45 * es' <= 7 * (P45 + E1) * es + E1 * (7 * S + 65536 * r) + 8 * P45 * (65536 + 1) ->
+  0 <= ev' -> 4 * P45 * ev' <= 3 * (P45 + E1) * ev + (P45 + E1) * es + E1 * (3 * V + Z.abs (S - 65536 * r)) + 4 * P45 * (65536 + 1) ->
+  tmpl 109951162777600000 439804755968012500 274877906944 104857612500 49633710230215177011200000 S' V' es' ev'.
+Proof. unfold tmpl, P45, E1. intros. lia. Qed.
+Lemma inv1ms_650ms_step_92 S V es ev r S' V' es' ev' :
+  65536000000 <= S <= 42598400000000 -> 0 <= V <= 42598400000000 ->
+
+  tmpl 35184372088832 0 16777218 0 2242070879954330976256 S V es ev ->
+  tmpl 35184372088832 140737521909764 0 33554436 18577583936621525336064 S V es ev ->
+  tmpl 109951162777600000 439804755968012500 274877906944 0 53663721722736790732800000 S V es ev ->
+  tmpl 109951162777600000 439804755968012500 274877906944 104857612500 49633710230215177011200000 S V es ev ->
+  1000000 <= r <= 650000000 -> 0 <= es -> 0 <= ev ->
+  8 * S' <= 7 * S + 65536 * r < 8 * S' + 8 ->
+  4 * V' <= 3 * V + Z.abs (S - 65536 * r) < 4 * V' + 4 ->
+  0 <= es' -> 8 * P45 * es' <= 7 * (P45 + E1) * es + E1 * (7 * S + 65536 * r) + 8 * P45 * (65536 + 1) ->
+  0 <= ev' -> 4 * P45 * ev' <= 3 * (P45 + E1) * ev + (P45 + E1) * es + E1 * (3 * V + Z.abs (S - 65536 * r)) + 4 * P45 * (65536 + 1) ->
+  tmpl 109951162777600000 439804755968012500 274877906944 209715225000 45797896959514135756800000 S' V' es' ev'.
+Proof. unfold tmpl, P45, E1. intros. lia. Qed.
+Lemma inv1ms_650ms_step_93 S V es ev r S' V' es' ev' :
+  65536000000 <= S <= 42598400000000 -> 0 <= V <= 42598400000000 ->
+
+  tmpl 35184372088832 0 16777218 0 2242070879954330976256 S V es ev ->
+  tmpl 35184372088832 140737521909764 0 67108872 17539421426070543400960 S V es ev ->
+  tmpl 109951162777600000 439804755968012500 274877906944 209715225000 45797896959514135756800000 S V es ev ->
+  tmpl 109951162777600000 439804755968012500 274877906944 419430450000 41013520526806443622400000 S V es ev ->
+  1000000 <= r <= 650000000 -> 0 <= es -> 0 <= ev ->
+  8 * S' <= 7 * S + 65536 * r < 8 * S' + 8 ->
+  4 * V' <= 3 * V + Z.abs (S - 65536 * r) < 4 * V' + 4 ->
+  0 <= es' -> 8 * P45 * es' <= 7 * (P45 + E1) * es + E1 * (7 * S + 65536 * r) + 8 * P45 * (65536 + 1) ->
+  0 <= ev' -> 4 * P45 * ev' <= 3 * (P45 + E1) * ev + (P45 + E1) * es + E1 * (3 * V + Z.abs (S - 65536 * r)) + 4 * P45 * (65536 + 1) ->
+  tmpl 109951162777600000 439804755968012500 274877906944 419430450000 41013520526806443622400000 S' V' es' ev'.
+Proof. unfold tmpl, P45, E1. intros. lia. Qed.
+Lemma inv1ms_650ms_step_94 S V es ev r S' V' es' ev' :
+  65536000000 <= S <= 42598400000000 -> 0 <= V <= 42598400000000 ->
+
+  tmpl 0 0 8388609 (-16777218) 428274587473769332736 S V es ev ->
+  tmpl 0 0 8388609 (-8388609) 106665569490615615488 S V es ev ->
+  tmpl 35184372088832 0 33554436 0 1747629895245335887872 S V es ev ->
+  tmpl 109951162777600000 439804755968012500 274877906944 104857612500 49633710230215177011200000 S V es ev ->
+  tmpl 109951162777600000 439804755968012500 549755813888 0 46668960995399617740800000 S V es ev ->
+  1000000 <= r <= 650000000 -> 0 <= es -> 0 <= ev ->
+  8 * S' <= 7 * S + 65536 * r < 8 * S' + 8 ->
+  4 * V' <= 3 * V + Z.abs (S - 65536 * r) < 4 * V' + 4 ->
+  0 <= es' -> 8 * P45 * es' <= 7 * (P45 + E1) * es + E1 * (7 * S + 65536 * r) + 8 * P45 * (65536 + 1) ->
+  0 <= ev' -> 4 * P45 * ev' <= 3 * (P45 + E1) * ev + (P45 + E1) * es + E1 * (3 * V + Z.abs (S - 65536 * r)) + 4 * P45 * (65536 + 1) ->
+  tmpl 109951162777600000 439804755968012500 549755813888 0 46668960995399617740800000 S' V' es' ev'.
+Proof. unfold tmpl, P45, E1. intros. lia. Qed.
+Lemma inv1ms_650ms_step_95 S V es ev r S' V' es' ev' :
+  65536000000 <= S <= 42598400000000 -> 0 <= V <= 42598400000000 ->
+
+  tmpl 0 0 8388609 (-8388609) 106665569490615615488 S V es ev ->
+  tmpl 35184372088832 0 33554436 0 1747629895245335887872 S V es ev ->
+  tmpl 109951162777600000 439804755968012500 274877906944 104857612500 49633710230215177011200000 S V es ev ->
+  tmpl 109951162777600000 439804755968012500 549755813888 0 46668960995399617740800000 S V es ev ->
+  1000000 <= r <= 650000000 -> 0 <= es -> 0 <= ev ->
+  8 * S' <= 7 * S + 65536 * r < 8 * S' + 8 ->
+  4 * V' <= 3 * V + Z.abs (S - 65536 * r) < 4 * V' + 4 ->
+  0 <= es' -> 8 * P45 * es' <= 7 * (P45 + E1) * es + E1 * (7 * S + 65536 * r) + 8 * P45 * (65536 + 1) ->
+  0 <= ev' -> 4 * P45 * ev' <= 3 * (P45 + E1) * ev + (P45 + E1) * es + E1 * (3 * V + Z.abs (S - 65536 * r)) + 4 * P45 * (65536 + 1) ->
+  tmpl 109951162777600000 439804755968012500 549755813888 104857612500 43002903509903232204800000 S' V' es' ev'.
+Proof. unfold tmpl, P45, E1. intros. lia. Qed.
+Lemma inv1ms_650ms_step_96 S V es ev r S' V' es' ev' :
+  65536000000 <= S <= 42598400000000 -> 0 <= V <= 42598400000000 ->
+
+  tmpl 35184372088832 0 33554436 0 1747629895245335887872 S V es ev ->
+  tmpl 109951162777600000 439804755968012500 274877906944 209715225000 45797896959514135756800000 S V es ev ->
+  tmpl 109951162777600000 439804755968012500 549755813888 0 46668960995399617740800000 S V es ev ->
+  tmpl 109951162777600000 439804755968012500 549755813888 104857612500 43002903509903232204800000 S V es ev ->
+  1000000 <= r <= 650000000 -> 0 <= es -> 0 <= ev ->
+  8 * S' <= 7 * S + 65536 * r < 8 * S' + 8 ->
+  4 * V' <= 3 * V + Z.abs (S - 65536 * r) < 4 * V' + 4 ->
+  0 <= es' -> 8 * P45 * es' <= 7 * (P45 + E1) * es + E1 * (7 * S + 65536 * r) + 8 * P45 * (65536 + 1) ->
+  0 <= ev' -> 4 * P45 * ev' <= 3 * (P45 + E1) * ev + (P45 + E1) * es + E1 * (3 * V + Z.abs (S - 65536 * r)) + 4 * P45 * (65536 + 1) ->
+  tmpl 109951162777600000 439804755968012500 549755813888 209715225000 39510810225110614016000000 S' V' es' ev'.
+Proof. unfold tmpl, P45, E1. intros. lia. Qed.
+Lemma inv1ms_650ms_step_97 S V es ev r S' V' es' ev' :
+  65536000000 <= S <= 42598400000000 -> 0 <= V <= 42598400000000 ->
+
+  tmpl 35184372088832 0 50331654 0 1362820312732891873280 S V es ev ->
+  tmpl 109951162777600000 439804755968012500 274877906944 209715225000 45797896959514135756800000 S V es ev ->
+  tmpl 109951162777600000 439804755968012500 549755813888 209715225000 39510810225110614016000000 S V es ev ->
+  tmpl 109951162777600000 439804755968012500 549755813888 419430450000 33836225968747675648000000 S V es ev ->
+  1000000 <= r <= 650000000 -> 0 <= es -> 0 <= ev ->
+  8 * S' <= 7 * S + 65536 * r < 8 * S' + 8 ->
+  4 * V' <= 3 * V + Z.abs (S - 65536 * r) < 4 * V' + 4 ->
+  0 <= es' -> 8 * P45 * es' <= 7 * (P45 + E1) * es + E1 * (7 * S + 65536 * r) + 8 * P45 * (65536 + 1) ->
+  0 <= ev' -> 4 * P45 * ev' <= 3 * (P45 + E1) * ev + (P45 + E1) * es + E1 * (3 * V + Z.abs (S - 65536 * r)) + 4 * P45 * (65536 + 1) ->
+  tmpl 109951162777600000 439804755968012500 549755813888 419430450000 33836225968747675648000000 S' V' es' ev'.
+Proof. unfold tmpl, P45, E1. intros. lia. Qed.
+Lemma inv1ms_650ms_step_98 S V es ev r S' V' es' ev' :
+  65536000000 <= S <= 42598400000000 -> 0 <= V <= 42598400000000 ->
+
+  tmpl 35184372088832 0 50331654 33554436 884316247817185263616 S V es ev ->
+  tmpl 109951162777600000 439804755968012500 274877906944 419430450000 41013520526806443622400000 S V es ev ->
+  tmpl 109951162777600000 439804755968012500 549755813888 419430450000 33836225968747675648000000 S V es ev ->
+  tmpl 109951162777600000 439804755968012500 549755813888 838860900000 28834154544893611212800000 S V es ev ->
+  1000000 <= r <= 650000000 -> 0 <= es -> 0 <= ev ->
+  8 * S' <= 7 * S + 65536 * r < 8 * S' + 8 ->
+  4 * V' <= 3 * V + Z.abs (S - 65536 * r) < 4 * V' + 4 ->
+  0 <= es' -> 8 * P45 * es' <= 7 * (P45 + E1) * es + E1 * (7 * S + 65536 * r) + 8 * P45 * (65536 + 1) ->
+  0 <= ev' -> 4 * P45 * ev' <= 3 * (P45 + E1) * ev + (P45 + E1) * es + E1 * (3 * V + Z.abs (S - 65536 * r)) + 4 * P45 * (65536 + 1) ->
+  tmpl 109951162777600000 439804755968012500 549755813888 838860900000 28834154544893611212800000 S' V' es' ev'.
+Proof. unfold tmpl, P45, E1. intros. lia. Qed.
+Lemma inv1ms_650ms_step_99 S V es ev r S' V' es' ev' :
+  65536000000 <= S <= 42598400000000 -> 0 <= V <= 42598400000000 ->
+
+  tmpl 0 0 8388609 (-8388609) 106665569490615615488 S V es ev ->
+  tmpl 35184372088832 0 50331654 0 1362820312732891873280 S V es ev ->
+  tmpl 109951162777600000 439804755968012500 549755813888 0 46668960995399617740800000 S V es ev ->
+  tmpl 109951162777600000 439804755968012500 549755813888 104857612500 43002903509903232204800000 S V es ev ->
+  tmpl 109951162777600000 439804755968012500 824633720832 0 40721307459685842944000000 S V es ev ->
+  1000000 <= r <= 650000000 -> 0 <= es -> 0 <= ev ->
+  8 * S' <= 7 * S + 65536 * r < 8 * S' + 8 ->
+  4 * V' <= 3 * V + Z.abs (S - 65536 * r) < 4 * V' + 4 ->
+  0 <= es' -> 8 * P45 * es' <= 7 * (P45 + E1) * es + E1 * (7 * S + 65536 * r) + 8 * P45 * (65536 + 1) ->
+  0 <= ev' -> 4 * P45 * ev' <= 3 * (P45 + E1) * ev + (P45 + E1) * es + E1 * (3 * V + Z.abs (S - 65536 * r)) + 4 * P45 * (65536 + 1) ->
+  tmpl 109951162777600000 439804755968012500 824633720832 0 40721307459685842944000000 S' V' es' ev'.
+Proof. unfold tmpl, P45, E1. intros. lia. Qed.
+Lemma inv1ms_650ms_step_100 S V es ev r S' V' es' ev' :
+  65536000000 <= S <= 42598400000000 -> 0 <= V <= 42598400000000 ->
+
+  tmpl 0 0 8388609 (-8388609) 106665569490615615488 S V es ev ->
+  tmpl 35184372088832 0 50331654 0 1362820312732891873280 S V es ev ->
+  tmpl 0 35184372088832 67108872 0 2658854277084935618560 S V es ev ->
+  tmpl 109951162777600000 439804755968012500 549755813888 104857612500 43002903509903232204800000 S V es ev ->
+  tmpl 109951162777600000 439804755968012500 824633720832 0 40721307459685842944000000 S V es ev ->
+  1000000 <= r <= 650000000 -> 0 <= es -> 0 <= ev ->
+  8 * S' <= 7 * S + 65536 * r < 8 * S' + 8 ->
+  4 * V' <= 3 * V + Z.abs (S - 65536 * r) < 4 * V' + 4 ->
+  0 <= es' -> 8 * P45 * es' <= 7 * (P45 + E1) * es + E1 * (7 * S + 65536 * r) + 8 * P45 * (65536 + 1) ->
+  0 <= ev' -> 4 * P45 * ev' <= 3 * (P45 + E1) * ev + (P45 + E1) * es + E1 * (3 * V + Z.abs (S - 65536 * r)) + 4 * P45 * (65536 + 1) ->
+  tmpl 109951162777600000 439804755968012500 824633720832 104857612500 37420548261335747788800000 S' V' es' ev'.
+Proof. unfold tmpl, P45, E1. intros. lia. Qed.
+Lemma inv1ms_650ms_step_101 S V es ev r S' V' es' ev' :
+  65536000000 <= S <= 42598400000000 -> 0 <= V <= 42598400000000 ->
+
+  tmpl 35184372088832 0 50331654 0 1362820312732891873280 S V es ev ->
+  tmpl 109951162777600000 439804755968012500 549755813888 209715225000 39510810225110614016000000 S V es ev ->
+  tmpl 109951162777600000 439804755968012500 824633720832 0 40721307459685842944000000 S V es ev ->
+  tmpl 109951162777600000 439804755968012500 824633720832 104857612500 37420548261335747788800000 S V es ev ->
+  tmpl 109951162777600000 439804755968012500 824633720832 209715225000 34272912017916585574400000 S V es ev ->
+  tmpl 109951162777600000 439804755968012500 1099511627776 0 35627314248538954137600000 S V es ev ->
+  1000000 <= r <= 650000000 -> 0 <= es -> 0 <= ev ->
+  8 * S' <= 7 * S + 65536 * r < 8 * S' + 8 ->
+  4 * V' <= 3 * V + Z.abs (S - 65536 * r) < 4 * V' + 4 ->
+  0 <= es' -> 8 * P45 * es' <= 7 * (P45 + E1) * es + E1 * (7 * S + 65536 * r) + 8 * P45 * (65536 + 1) ->
+  0 <= ev' -> 4 * P45 * ev' <= 3 * (P45 + E1) * ev + (P45 + E1) * es + E1 * (3 * V + Z.abs (S - 65536 * r)) + 4 * P45 * (65536 + 1) ->
+  tmpl 109951162777600000 439804755968012500 824633720832 209715225000 34272912017916585574400000 S' V' es' ev'.
+Proof. unfold tmpl, P45, E1. intros. lia. Qed.
+Lemma inv1ms_650ms_step_102 S V es ev r S' V' es' ev' :
+  65536000000 <= S <= 42598400000000 -> 0 <= V <= 42598400000000 ->
+
+  tmpl 35184372088832 0 50331654 0 1362820312732891873280 S V es ev ->
+  tmpl 35184372088832 0 67108872 0 1063279915641196904448 S V es ev ->
+  tmpl 109951162777600000 439804755968012500 549755813888 419430450000 33836225968747675648000000 S V es ev ->
+  tmpl 109951162777600000 439804755968012500 824633720832 209715225000 34272912017916585574400000 S V es ev ->
+  tmpl 109951162777600000 439804755968012500 824633720832 419430450000 28816759000248129945600000 S V es ev ->
+  1000000 <= r <= 650000000 -> 0 <= es -> 0 <= ev ->
+  8 * S' <= 7 * S + 65536 * r < 8 * S' + 8 ->
+  4 * V' <= 3 * V + Z.abs (S - 65536 * r) < 4 * V' + 4 ->
+  0 <= es' -> 8 * P45 * es' <= 7 * (P45 + E1) * es + E1 * (7 * S + 65536 * r) + 8 * P45 * (65536 + 1) ->
+  0 <= ev' -> 4 * P45 * ev' <= 3 * (P45 + E1) * ev + (P45 + E1) * es + E1 * (3 * V + Z.abs (S - 65536 * r)) + 4 * P45 * (65536 + 1) ->
+  tmpl 109951162777600000 439804755968012500 824633720832 419430450000 28816759000248129945600000 S' V' es' ev'.
+Proof. unfold tmpl, P45, E1. intros. lia. Qed.
+Lemma inv1ms_650ms_step_103 S V es ev r S' V' es' ev' :
+  65536000000 <= S <= 42598400000000 -> 0 <= V <= 42598400000000 ->
+
+  tmpl 35184372088832 0 50331654 33554436 884316247817185263616 S V es ev ->
+  tmpl 35184372088832 0 67108872 33554436 543327771809921695744 S V es ev ->
+  tmpl 0 35184372088832 33554436 67108872 1955129539045752307712 S V es ev ->
+  tmpl 109951162777600000 439804755968012500 824633720832 1677721800000 17441674136722066636800000 S V es ev ->
+  1000000 <= r <= 650000000 -> 0 <= es -> 0 <= ev ->
+  8 * S' <= 7 * S + 65536 * r < 8 * S' + 8 ->
+  4 * V' <= 3 * V + Z.abs (S - 65536 * r) < 4 * V' + 4 ->
+  0 <= es' -> 8 * P45 * es' <= 7 * (P45 + E1) * es + E1 * (7 * S + 65536 * r) + 8 * P45 * (65536 + 1) ->
+  0 <= ev' -> 4 * P45 * ev' <= 3 * (P45 + E1) * ev + (P45 + E1) * es + E1 * (3 * V + Z.abs (S - 65536 * r)) + 4 * P45 * (65536 + 1) ->
+  tmpl 109951162777600000 439804755968012500 824633720832 1677721800000 17441674136722066636800000 S' V' es' ev'.
+Proof. unfold tmpl, P45, E1. intros. lia. Qed.
+Lemma inv1ms_650ms_step_104 S V es ev r S' V' es' ev' :
+  65536000000 <= S <= 42598400000000 -> 0 <= V <= 42598400000000 ->
+
+  tmpl 0 0 8388609 (-8388609) 106665569490615615488 S V es ev ->
+  tmpl 35184372088832 0 50331654 0 1362820312732891873280 S V es ev ->
+  tmpl 0 35184372088832 67108872 0 2658854277084935618560 S V es ev ->
+  tmpl 109951162777600000 439804755968012500 824633720832 0 40721307459685842944000000 S V es ev ->
+  tmpl 109951162777600000 439804755968012500 1099511627776 0 35627314248538954137600000 S V es ev ->
+  1000000 <= r <= 650000000 -> 0 <= es -> 0 <= ev ->
+  8 * S' <= 7 * S + 65536 * r < 8 * S' + 8 ->
+  4 * V' <= 3 * V + Z.abs (S - 65536 * r) < 4 * V' + 4 ->
+  0 <= es' -> 8 * P45 * es' <= 7 * (P45 + E1) * es + E1 * (7 * S + 65536 * r) + 8 * P45 * (65536 + 1) ->
+  0 <= ev' -> 4 * P45 * ev' <= 3 * (P45 + E1) * ev + (P45 + E1) * es + E1 * (3 * V + Z.abs (S - 65536 * r)) + 4 * P45 * (65536 + 1) ->
+  tmpl 109951162777600000 439804755968012500 1099511627776 0 35627314248538954137600000 S' V' es' ev'.
+Proof. unfold tmpl, P45, E1. intros. lia. Qed.
+Lemma inv1ms_650ms_step_105 S V es ev r S' V' es' ev' :
+  65536000000 <= S <= 42598400000000 -> 0 <= V <= 42598400000000 ->
+
+  tmpl 0 0 8388609 (-8388609) 106665569490615615488 S V es ev ->
+  tmpl 35184372088832 0 50331654 0 1362820312732891873280 S V es ev ->
+  tmpl 35184372088832 0 67108872 0 1063279915641196904448 S V es ev ->
+  tmpl 0 35184372088832 67108872 0 2658854277084935618560 S V es ev ->
+  tmpl 109951162777600000 439804755968012500 1099511627776 0 35627314248538954137600000 S V es ev ->
+  tmpl 109951162777600000 439804755968012500 1099511627776 104857612500 32667584955783308902400000 S V es ev ->
+  1000000 <= r <= 650000000 -> 0 <= es -> 0 <= ev ->
+  8 * S' <= 7 * S + 65536 * r < 8 * S' + 8 ->
+  4 * V' <= 3 * V + Z.abs (S - 65536 * r) < 4 * V' + 4 ->
+  0 <= es' -> 8 * P45 * es' <= 7 * (P45 + E1) * es + E1 * (7 * S + 65536 * r) + 8 * P45 * (65536 + 1) ->
+  0 <= ev' -> 4 * P45 * ev' <= 3 * (P45 + E1) * ev + (P45 + E1) * es + E1 * (3 * V + Z.abs (S - 65536 * r)) + 4 * P45 * (65536 + 1) ->
+  tmpl 109951162777600000 439804755968012500 1099511627776 104857612500 32667584955783308902400000 S' V' es' ev'.
+Proof. unfold tmpl, P45, E1. intros. lia. Qed.
+Lemma inv1ms_650ms_step_106 S V es ev r S' V' es' ev' :
+  65536000000 <= S <= 42598400000000 -> 0 <= V <= 42598400000000 ->
+
+  tmpl 35184372088832 0 67108872 0 1063279915641196904448 S V es ev ->
+  tmpl 0 35184372088832 100663308 0 2139639364575292293120 S V es ev ->
+  tmpl 109951162777600000 439804755968012500 824633720832 209715225000 34272912017916585574400000 S V es ev ->
+  tmpl 109951162777600000 439804755968012500 1099511627776 0 35627314248538954137600000 S V es ev ->
+  tmpl 109951162777600000 439804755968012500 1099511627776 104857612500 32667584955783308902400000 S V es ev ->
+  tmpl 109951162777600000 439804755968012500 1099511627776 209715225000 29849675298388167884800000 S V es ev ->
+  1000000 <= r <= 650000000 -> 0 <= es -> 0 <= ev ->
+  8 * S' <= 7 * S + 65536 * r < 8 * S' + 8 ->
+  4 * V' <= 3 * V + Z.abs (S - 65536 * r) < 4 * V' + 4 ->
+  0 <= es' -> 8 * P45 * es' <= 7 * (P45 + E1) * es + E1 * (7 * S + 65536 * r) + 8 * P45 * (65536 + 1) ->
+  0 <= ev' -> 4 * P45 * ev' <= 3 * (P45 + E1) * ev + (P45 + E1) * es + E1 * (3 * V + Z.abs (S - 65536 * r)) + 4 * P45 * (65536 + 1) ->
+  tmpl 109951162777600000 439804755968012500 1099511627776 209715225000 29849675298388167884800000 S' V' es' ev'.
+Proof. unfold tmpl, P45, E1. intros. lia. Qed.
+Lemma inv1ms_650ms_step_107 S V es ev r S' V' es' ev' :
+  65536000000 <= S <= 42598400000000 -> 0 <= V <= 42598400000000 ->
+
+  tmpl 35184372088832 0 67108872 0 1063279915641196904448 S V es ev ->
+  tmpl 35184372088832 0 83886090 0 830061870981077401600 S V es ev ->
+  tmpl 0 35184372088832 67108872 33554436 1784664598824412512256 S V es ev ->
+  tmpl 109951162777600000 439804755968012500 824633720832 419430450000 28816759000248129945600000 S V es ev ->
+  tmpl 109951162777600000 439804755968012500 1099511627776 209715225000 29849675298388167884800000 S V es ev ->
+  tmpl 109951162777600000 439804755968012500 1099511627776 419430450000 24913354653544303820800000 S V es ev ->
+  1000000 <= r <= 650000000 -> 0 <= es -> 0 <= ev ->
+  8 * S' <= 7 * S + 65536 * r < 8 * S' + 8 ->
+  4 * V' <= 3 * V + Z.abs (S - 65536 * r) < 4 * V' + 4 ->
+  0 <= es' -> 8 * P45 * es' <= 7 * (P45 + E1) * es + E1 * (7 * S + 65536 * r) + 8 * P45 * (65536 + 1) ->
+  0 <= ev' -> 4 * P45 * ev' <= 3 * (P45 + E1) * ev + (P45 + E1) * es + E1 * (3 * V + Z.abs (S - 65536 * r)) + 4 * P45 * (65536 + 1) ->
+  tmpl 109951162777600000 439804755968012500 1099511627776 419430450000 24913354653544303820800000 S' V' es' ev'.
+Proof. unfold tmpl, P45, E1. intros. lia. Qed.
+Lemma inv1ms_650ms_step_108 S V es ev r S' V' es' ev' :
+  65536000000 <= S <= 42598400000000 -> 0 <= V <= 42598400000000 ->
+
+  tmpl 35184372088832 0 67108872 33554436 543327771809921695744 S V es ev ->
+  tmpl 35184372088832 0 83886090 0 830061870981077401600 S V es ev ->
+  tmpl 109951162777600000 439804755968012500 1099511627776 419430450000 24913354653544303820800000 S V es ev ->
+  tmpl 109951162777600000 439804755968012500 1099511627776 838860900000 18743529067647379046400000 S V es ev ->
+  1000000 <= r <= 650000000 -> 0 <= es -> 0 <= ev ->
+  8 * S' <= 7 * S + 65536 * r < 8 * S' + 8 ->
+  4 * V' <= 3 * V + Z.abs (S - 65536 * r) < 4 * V' + 4 ->
+  0 <= es' -> 8 * P45 * es' <= 7 * (P45 + E1) * es + E1 * (7 * S + 65536 * r) + 8 * P45 * (65536 + 1) ->
+  0 <= ev' -> 4 * P45 * ev' <= 3 * (P45 + E1) * ev + (P45 + E1) * es + E1 * (3 * V + Z.abs (S - 65536 * r)) + 4 * P45 * (65536 + 1) ->
+  tmpl 109951162777600000 439804755968012500 1099511627776 838860900000 18743529067647379046400000 S' V' es' ev'.
+Proof. unfold tmpl, P45, E1. intros. lia. Qed.
+Lemma inv1ms_650ms_step_109 S V es ev r S' V' es' ev' :
+  65536000000 <= S <= 42598400000000 -> 0 <= V <= 42598400000000 ->
+
+  tmpl 35184372088832 0 67108872 33554436 543327771809921695744 S V es ev ->
+  tmpl 0 35184372088832 67108872 67108872 1326611854677505474560 S V es ev ->
+  tmpl 0 35184372088832 100663308 67108872 987585203811506847744 S V es ev ->
+  tmpl 109951162777600000 439804755968012500 1099511627776 1677721800000 12725096578756435968000000 S V es ev ->
+  1000000 <= r <= 650000000 -> 0 <= es -> 0 <= ev ->
+  8 * S' <= 7 * S + 65536 * r < 8 * S' + 8 ->
+  4 * V' <= 3 * V + Z.abs (S - 65536 * r) < 4 * V' + 4 ->
+  0 <= es' -> 8 * P45 * es' <= 7 * (P45 + E1) * es + E1 * (7 * S + 65536 * r) + 8 * P45 * (65536 + 1) ->
+  0 <= ev' -> 4 * P45 * ev' <= 3 * (P45 + E1) * ev + (P45 + E1) * es + E1 * (3 * V + Z.abs (S - 65536 * r)) + 4 * P45 * (65536 + 1) ->
+  tmpl 109951162777600000 439804755968012500 1099511627776 1677721800000 12725096578756435968000000 S' V' es' ev'.
+Proof. unfold tmpl, P45, E1. intros. lia. Qed.
+Lemma inv1ms_650ms_step_110 S V es ev r S' V' es' ev' :
+  65536000000 <= S <= 42598400000000 -> 0 <= V <= 42598400000000 ->
+
+  tmpl 35184372088832 0 67108872 67108872 371471404283206434816 S V es ev ->
+  tmpl 0 35184372088832 67108872 134217744 906708345435608186880 S V es ev ->
+  tmpl 0 35184372088832 100663308 134217744 607345837593670189056 S V es ev ->
+  tmpl 109951162777600000 439804755968012500 1099511627776 3355443600000 8282118462508079513600000 S V es ev ->
+  1000000 <= r <= 650000000 -> 0 <= es -> 0 <= ev ->
+  8 * S' <= 7 * S + 65536 * r < 8 * S' + 8 ->
+  4 * V' <= 3 * V + Z.abs (S - 65536 * r) < 4 * V' + 4 ->
+  0 <= es' -> 8 * P45 * es' <= 7 * (P45 + E1) * es + E1 * (7 * S + 65536 * r) + 8 * P45 * (65536 + 1) ->
+  0 <= ev' -> 4 * P45 * ev' <= 3 * (P45 + E1) * ev + (P45 + E1) * es + E1 * (3 * V + Z.abs (S - 65536 * r)) + 4 * P45 * (65536 + 1) ->
+  tmpl 109951162777600000 439804755968012500 1099511627776 3355443600000 8282118462508079513600000 S' V' es' ev'.
+Proof. unfold tmpl, P45, E1. intros. lia. Qed.
+Lemma inv1ms_650ms_step_111 S V es ev r S' V' es' ev' :
+  65536000000 <= S <= 42598400000000 -> 0 <= V <= 42598400000000 ->
+
+  tmpl 35184372088832 0 67108872 134217744 259344637613773324288 S V es ev ->
+  tmpl 35184372088832 0 83886090 67108872 231317784994332377088 S V es ev ->
+  tmpl 109951162777600000 439804755968012500 1099511627776 3355443600000 8282118462508079513600000 S V es ev ->
+  tmpl 109951162777600000 439804755968012500 1099511627776 4293188898604 6884438688374521856000000 S V es ev ->
+  1000000 <= r <= 650000000 -> 0 <= es -> 0 <= ev ->
+  8 * S' <= 7 * S + 65536 * r < 8 * S' + 8 ->
+  4 * V' <= 3 * V + Z.abs (S - 65536 * r) < 4 * V' + 4 ->
+  0 <= es' -> 8 * P45 * es' <= 7 * (P45 + E1) * es + E1 * (7 * S + 65536 * r) + 8 * P45 * (65536 + 1) ->
+  0 <= ev' -> 4 * P45 * ev' <= 3 * (P45 + E1) * ev + (P45 + E1) * es + E1 * (3 * V + Z.abs (S - 65536 * r)) + 4 * P45 * (65536 + 1) ->
+  tmpl 109951162777600000 439804755968012500 1099511627776 4293188898604 6884438688374521856000000 S' V' es' ev'.
+Proof. unfold tmpl, P45, E1. intros. lia. Qed.
+Lemma Inv1ms_650ms_step S V es ev r S' V' es' ev' : Inv1ms_650ms S V es ev ->
+  1000000 <= r <= 650000000 -> 0 <= es -> 0 <= ev ->
+  8 * S' <= 7 * S + 65536 * r < 8 * S' + 8 ->
+  4 * V' <= 3 * V + Z.abs (S - 65536 * r) < 4 * V' + 4 ->
+  0 <= es' -> 8 * P45 * es' <= 7 * (P45 + E1) * es + E1 * (7 * S + 65536 * r) + 8 * P45 * (65536 + 1) ->
+  0 <= ev' -> 4 * P45 * ev' <= 3 * (P45 + E1) * ev + (P45 + E1) * es + E1 * (3 * V + Z.abs (S - 65536 * r)) + 4 * P45 * (65536 + 1) ->
+  Inv1ms_650ms S' V' es' ev'.
+Proof.
+  intros [[[[[[B1 [B2 H4]] [H5 [H6 H7]]] [[H8 [H9 H10]] [[H11 H12] [H13 H14]]]] [[[H15 [H16 H17]] [[H18 H19] [H20 H21]]] [[H22 [H23 H24]] [[H25 H26] [H27 H28]]]]] [[[[H29 [H30 H31]] [[H32 H33] [H34 H35]]] [[H36 [H37 H38]] [[H39 H40] [H41 H42]]]] [[[H43 [H44 H45]] [[H46 H47] [H48 H49]]] [[H50 [H51 H52]] [[H53 H54] [H55 H56]]]]]] [[[[[H57 [H58 H59]] [H60 [H61 H62]]] [[H63 [H64 H65]] [[H66 H67] [H68 H69]]]] [[[H70 [H71 H72]] [[H73 H74] [H75 H76]]] [[H77 [H78 H79]] [[H80 H81] [H82 H83]]]]] [[[[H84 [H85 H86]] [[H87 H88] [H89 H90]]] [[H91 [H92 H93]] [[H94 H95] [H96 H97]]]] [[[H98 [H99 H100]] [[H101 H102] [H103 H104]]] [[H105 [H106 H107]] [[H108 H109] [H110 H111]]]]]]] Hr He Hv HS HV He' Re Hv' Rv.
+  unfold Inv1ms_650ms.
+  split; [split; [split; [split; [split; [split; [lia|split; [lia|apply (inv1ms_650ms_step_4 S V es ev r S' V' es' ev'); assumption]]|split; [apply (inv1ms_650ms_step_5 S V es ev r S' V' es' ev'); assumption|split; [apply (inv1ms_650ms_step_6 S V es ev r S' V' es' ev'); assumption|apply (inv1ms_650ms_step_7 S V es ev r S' V' es' ev'); assumption]]]|split; [split; [apply (inv1ms_650ms_step_8 S V es ev r S' V' es' ev'); assumption|split; [apply (inv1ms_650ms_step_9 S V es ev r S' V' es' ev'); assumption|apply (inv1ms_650ms_step_10 S V es ev r S' V' es' ev'); assumption]]|split; [split; [apply (inv1ms_650ms_step_11 S V es ev r S' V' es' ev'); assumption|apply (inv1ms_650ms_step_12 S V es ev r S' V' es' ev'); assumption]|split; [apply (inv1ms_650ms_step_13 S V es ev r S' V' es' ev'); assumption|apply (inv1ms_650ms_step_14 S V es ev r S' V' es' ev'); assumption]]]]|split; [split; [split; [apply (inv1ms_650ms_step_15 S V es ev r S' V' es' ev'); assumption|split; [apply (inv1ms_650ms_step_16 S V es ev r S' V' es' ev'); assumption|apply (inv1ms_650ms_step_17 S V es ev r S' V' es' ev'); assumption]]|split; [split; [apply (inv1ms_650ms_step_18 S V es ev r S' V' es' ev'); assumption|apply (inv1ms_650ms_step_19 S V es ev r S' V' es' ev'); assumption]|split; [apply (inv1ms_650ms_step_20 S V es ev r S' V' es' ev'); assumption|apply (inv1ms_650ms_step_21 S V es ev r S' V' es' ev'); assumption]]]|split; [split; [apply (inv1ms_650ms_step_22 S V es ev r S' V' es' ev'); assumption|split; [apply (inv1ms_650ms_step_23 S V es ev r S' V' es' ev'); assumption|apply (inv1ms_650ms_step_24 S V es ev r S' V' es' ev'); assumption]]|split; [split; [apply (inv1ms_650ms_step_25 S V es ev r S' V' es' ev'); assumption|apply (inv1ms_650ms_step_26 S V es ev r S' V' es' ev'); assumption]|split; [apply (inv1ms_650ms_step_27 S V es ev r S' V' es' ev'); assumption|apply (inv1ms_650ms_step_28 S V es ev r S' V' es' ev'); assumption]]]]]|split; [split; [split; [split; [apply (inv1ms_650ms_step_29 S V es ev r S' V' es' ev'); assumption|split; [apply (inv1ms_650ms_step_30 S V es ev r S' V' es' ev'); assumption|apply (inv1ms_650ms_step_31 S V es ev r S' V' es' ev'); assumption]]|split; [split; [apply (inv1ms_650ms_step_32 S V es ev r S' V' es' ev'); assumption|apply (inv1ms_650ms_step_33 S V es ev r S' V' es' ev'); assumption]|split; [apply (inv1ms_650ms_step_34 S V es ev r S' V' es' ev'); assumption|apply (inv1ms_650ms_step_35 S V es ev r S' V' es' ev'); assumption]]]|split; [split; [apply (inv1ms_650ms_step_36 S V es ev r S' V' es' ev'); assumption|split; [apply (inv1ms_650ms_step_37 S V es ev r S' V' es' ev'); assumption|apply (inv1ms_650ms_step_38 S V es ev r S' V' es' ev'); assumption]]|split; [split; [apply (inv1ms_650ms_step_39 S V es ev r S' V' es' ev'); assumption|apply (inv1ms_650ms_step_40 S V es ev r S' V' es' ev'); assumption]|split; [apply (inv1ms_650ms_step_41 S V es ev r S' V' es' ev'); assumption|apply (inv1ms_650ms_step_42 S V es ev r S' V' es' ev'); assumption]]]]|split; [split; [split; [apply (inv1ms_650ms_step_43 S V es ev r S' V' es' ev'); assumption|split; [apply (inv1ms_650ms_step_44 S V es ev r S' V' es' ev'); assumption|apply (inv1ms_650ms_step_45 S V es ev r S' V' es' ev'); assumption]]|split; [split; [apply (inv1ms_650ms_step_46 S V es ev r S' V' es' ev'); assumption|apply (inv1ms_650ms_step_47 S V es ev r S' V' es' ev'); assumption]|split; [apply (inv1ms_650ms_step_48 S V es ev r S' V' es' ev'); assumption|apply (inv1ms_650ms_step_49 S V es ev r S' V' es' ev'); assumption]]]|split; [split; [apply (inv1ms_650ms_step_50 S V es ev r S' V' es' ev'); assumption|split; [apply (inv1ms_650ms_step_51 S V es ev r S' V' es' ev'); assumption|apply (inv1ms_650ms_step_52 S V es ev r S' V' es' ev'); assumption]]|split; [split; [apply (inv1ms_650ms_step_53 S V es ev r S' V' es' ev'); assumption|apply (inv1ms_650ms_step_54 S V es ev r S' V' es' ev'); assumption]|split; [apply (inv1ms_650ms_step_55 S V es ev r S' V' es' ev'); assumption|apply (inv1ms_650ms_step_56 S V es ev r S' V' es' ev'); assumption]]]]]]|split; [split; [split; [split; [split; [apply (inv1ms_650ms_step_57 S V es ev r S' V' es' ev'); assumption|split; [apply (inv1ms_650ms_step_58 S V es ev r S' V' es' ev'); assumption|apply (inv1ms_650ms_step_59 S V es ev r S' V' es' ev'); assumption]]|split; [apply (inv1ms_650ms_step_60 S V es ev r S' V' es' ev'); assumption|split; [apply (inv1ms_650ms_step_61 S V es ev r S' V' es' ev'); assumption|apply (inv1ms_650ms_step_62 S V es ev r S' V' es' ev'); assumption]]]|split; [split; [apply (inv1ms_650ms_step_63 S V es ev r S' V' es' ev'); assumption|split; [apply (inv1ms_650ms_step_64 S V es ev r S' V' es' ev'); assumption|apply (inv1ms_650ms_step_65 S V es ev r S' V' es' ev'); assumption]]|split; [split; [apply (inv1ms_650ms_step_66 S V es ev r S' V' es' ev'); assumption|apply (inv1ms_650ms_step_67 S V es ev r S' V' es' ev'); assumption]|split; [apply (inv1ms_650ms_step_68 S V es ev r S' V' es' ev'); assumption|apply (inv1ms_650ms_step_69 S V es ev r S' V' es' ev'); assumption]]]]|split; [split; [split; [apply (inv1ms_650ms_step_70 S V es ev r S' V' es' ev'); assumption|split; [apply (inv1ms_650ms_step_71 S V es ev r S' V' es' ev'); assumption|apply (inv1ms_650ms_step_72 S V es ev r S' V' es' ev'); assumption]]|split; [split; [apply (inv1ms_650ms_step_73 S V es ev r S' V' es' ev'); assumption|apply (inv1ms_650ms_step_74 S V es ev r S' V' es' ev'); assumption]|split; [apply (inv1ms_650ms_step_75 S V es ev r S' V' es' ev'); assumption|apply (inv1ms_650ms_step_76 S V es ev r S' V' es' ev'); assumption]]]|split; [split; [apply (inv1ms_650ms_step_77 S V es ev r S' V' es' ev'); assumption|split; [apply (inv1ms_650ms_step_78 S V es ev r S' V' es' ev'); assumption|apply (inv1ms_650ms_step_79 S V es ev r S' V' es' ev'); assumption]]|split; [split; [apply (inv1ms_650ms_step_80 S V es ev r S' V' es' ev'); assumption|apply (inv1ms_650ms_step_81 S V es ev r S' V' es' ev'); assumption]|split; [apply (inv1ms_650ms_step_82 S V es ev r S' V' es' ev'); assumption|apply (inv1ms_650ms_step_83 S V es ev r S' V' es' ev'); assumption]]]]]|split; [split; [split; [split; [apply (inv1ms_650ms_step_84 S V es ev r S' V' es' ev'); assumption|split; [apply (inv1ms_650ms_step_85 S V es ev r S' V' es' ev'); assumption|apply (inv1ms_650ms_step_86 S V es ev r S' V' es' ev'); assumption]]|split; [split; [apply (inv1ms_650ms_step_87 S V es ev r S' V' es' ev'); assumption|apply (inv1ms_650ms_step_88 S V es ev r S' V' es' ev'); assumption]|split; [apply (inv1ms_650ms_step_89 S V es ev r S' V' es' ev'); assumption|apply (inv1ms_650ms_step_90 S V es ev r S' V' es' ev'); assumption]]]|split; [split; [apply (inv1ms_650ms_step_91 S V es ev r S' V' es' ev'); assumption|split; [apply (inv1ms_650ms_step_92 S V es ev r S' V' es' ev'); assumption|apply (inv1ms_650ms_step_93 S V es ev r S' V' es' ev'); assumption]]|split; [split; [apply (inv1ms_650ms_step_94 S V es ev r S' V' es' ev'); assumption|apply (inv1ms_650ms_step_95 S V es ev r S' V' es' ev'); assumption]|split; [apply (inv1ms_650ms_step_96 S V es ev r S' V' es' ev'); assumption|apply (inv1ms_650ms_step_97 S V es ev r S' V' es' ev'); assumption]]]]|split; [split; [split; [apply (inv1ms_650ms_step_98 S V es ev r S' V' es' ev'); assumption|split; [apply (inv1ms_650ms_step_99 S V es ev r S' V' es' ev'); assumption|apply (inv1ms_650ms_step_100 S V es ev r S' V' es' ev'); assumption]]|split; [split; [apply (inv1ms_650ms_step_101 S V es ev r S' V' es' ev'); assumption|apply (inv1ms_650ms_step_102 S V es ev r S' V' es' ev'); assumption]|split; [apply (inv1ms_650ms_step_103 S V es ev r S' V' es' ev'); assumption|apply (inv1ms_650ms_step_104 S V es ev r S' V' es' ev'); assumption]]]|split; [split; [apply (inv1ms_650ms_step_105 S V es ev r S' V' es' ev'); assumption|split; [apply (inv1ms_650ms_step_106 S V es ev r S' V' es' ev'); assumption|apply (inv1ms_650ms_step_107 S V es ev r S' V' es' ev'); assumption]]|split; [split; [apply (inv1ms_650ms_step_108 S V es ev r S' V' es' ev'); assumption|apply (inv1ms_650ms_step_109 S V es ev r S' V' es' ev'); assumption]|split; [apply (inv1ms_650ms_step_110 S V es ev r S' V' es' ev'); assumption|apply (inv1ms_650ms_step_111 S V es ev r S' V' es' ev'); assumption]]]]]]].
+Qed.
+Lemma Inv1ms_650ms_mono S V es ev es' ev' : Inv1ms_650ms S V es ev -> 0 <= es' <= es -> 0 <= ev' <= ev -> Inv1ms_650ms S V es' ev'.
+Proof.
+  intros [[[[[[B1 [B2 H4]] [H5 [H6 H7]]] [[H8 [H9 H10]] [[H11 H12] [H13 H14]]]] [[[H15 [H16 H17]] [[H18 H19] [H20 H21]]] [[H22 [H23 H24]] [[H25 H26] [H27 H28]]]]] [[[[H29 [H30 H31]] [[H32 H33] [H34 H35]]] [[H36 [H37 H38]] [[H39 H40] [H41 H42]]]] [[[H43 [H44 H45]] [[H46 H47] [H48 H49]]] [[H50 [H51 H52]] [[H53 H54] [H55 H56]]]]]] [[[[[H57 [H58 H59]] [H60 [H61 H62]]] [[H63 [H64 H65]] [[H66 H67] [H68 H69]]]] [[[H70 [H71 H72]] [[H73 H74] [H75 H76]]] [[H77 [H78 H79]] [[H80 H81] [H82 H83]]]]] [[[[H84 [H85 H86]] [[H87 H88] [H89 H90]]] [[H91 [H92 H93]] [[H94 H95] [H96 H97]]]] [[[H98 [H99 H100]] [[H101 H102] [H103 H104]]] [[H105 [H106 H107]] [[H108 H109] [H110 H111]]]]]]] He Hv.
+  unfold Inv1ms_650ms.
+  split; [split; [split; [split; [split; [split; [exact B1|split; [exact B2|apply (tmpl_mono _ _ _ _ _ S V es ev es' ev'); [lia|lia|exact H4|lia|lia]]]|split; [apply (tmpl_mono _ _ _ _ _ S V es ev es' ev'); [lia|lia|exact H5|lia|lia]|split; [apply (tmpl_mono _ _ _ _ _ S V es ev es' ev'); [lia|lia|exact H6|lia|lia]|apply (tmpl_mono _ _ _ _ _ S V es ev es' ev'); [lia|lia|exact H7|lia|lia]]]]|split; [split; [apply (tmpl_mono _ _ _ _ _ S V es ev es' ev'); [lia|lia|exact H8|lia|lia]|split; [apply (tmpl_mono _ _ _ _ _ S V es ev es' ev'); [lia|lia|exact H9|lia|lia]|apply (tmpl_mono _ _ _ _ _ S V es ev es' ev'); [lia|lia|exact H10|lia|lia]]]|split; [split; [apply (tmpl_mono _ _ _ _ _ S V es ev es' ev'); [lia|lia|exact H11|lia|lia]|apply (tmpl_mono _ _ _ _ _ S V es ev es' ev'); [lia|lia|exact H12|lia|lia]]|split; [apply (tmpl_mono _ _ _ _ _ S V es ev es' ev'); [lia|lia|exact H13|lia|lia]|apply (tmpl_mono _ _ _ _ _ S V es ev es' ev'); [lia|lia|exact H14|lia|lia]]]]]|split; [split; [split; [apply (tmpl_mono _ _ _ _ _ S V es ev es' ev'); [lia|lia|exact H15|lia|lia]|split; [apply (tmpl_mono _ _ _ _ _ S V es ev es' ev'); [lia|lia|exact H16|lia|lia]|apply (tmpl_mono _ _ _ _ _ S V es ev es' ev'); [lia|lia|exact H17|lia|lia]]]|split; [split; [apply (tmpl_mono _ _ _ _ _ S V es ev es' ev'); [lia|lia|exact H18|lia|lia]|apply (tmpl_mono _ _ _ _ _ S V es ev es' ev'); [lia|lia|exact H19|lia|lia]]|split; [apply (tmpl_mono _ _ _ _ _ S V es ev es' ev'); [lia|lia|exact H20|lia|lia]|apply (tmpl_mono _ _ _ _ _ S V es ev es' ev'); [lia|lia|exact H21|lia|lia]]]]|split; [split; [apply (tmpl_mono _ _ _ _ _ S V es ev es' ev'); [lia|lia|exact H22|lia|lia]|split; [apply (tmpl_mono _ _ _ _ _ S V es ev es' ev'); [lia|lia|exact H23|lia|lia]|apply (tmpl_mono _ _ _ _ _ S V es ev es' ev'); [lia|lia|exact H24|lia|lia]]]|split; [split; [apply (tmpl_mono _ _ _ _ _ S V es ev es' ev'); [lia|lia|exact H25|lia|lia]|apply (tmpl_mono _ _ _ _ _ S V es ev es' ev'); [lia|lia|exact H26|lia|lia]]|split; [apply (tmpl_mono _ _ _ _ _ S V es ev es' ev'); [lia|lia|exact H27|lia|lia]|apply (tmpl_mono _ _ _ _ _ S V es ev es' ev'); [lia|lia|exact H28|lia|lia]]]]]]|split; [split; [split; [split; [apply (tmpl_mono _ _ _ _ _ S V es ev es' ev'); [lia|lia|exact H29|lia|lia]|split; [apply (tmpl_mono _ _ _ _ _ S V es ev es' ev'); [lia|lia|exact H30|lia|lia]|apply (tmpl_mono _ _ _ _ _ S V es ev es' ev'); [lia|lia|exact H31|lia|lia]]]|split; [split; [apply (tmpl_mono _ _ _ _ _ S V es ev es' ev'); [lia|lia|exact H32|lia|lia]|apply (tmpl_mono _ _ _ _ _ S V es ev es' ev'); [lia|lia|exact H33|lia|lia]]|split; [apply (tmpl_mono _ _ _ _ _ S V es ev es' ev'); [lia|lia|exact H34|lia|lia]|apply (tmpl_mono _ _ _ _ _ S V es ev es' ev'); [lia|lia|exact H35|lia|lia]]]]|split; [split; [apply (tmpl_mono _ _ _ _ _ S V es ev es' ev'); [lia|lia|exact H36|lia|lia]|split; [apply (tmpl_mono _ _ _ _ _ S V es ev es' ev'); [lia|lia|exact H37|lia|lia]|apply (tmpl_mono _ _ _ _ _ S V es ev es' ev'); [lia|lia|exact H38|lia|lia]]]|split; [split; [apply (tmpl_mono _ _ _ _ _ S V es ev es' ev'); [lia|lia|exact H39|lia|lia]|apply (tmpl_mono _ _ _ _ _ S V es ev es' ev'); [lia|lia|exact H40|lia|lia]]|split; [apply (tmpl_mono _ _ _ _ _ S V es ev es' ev'); [lia|lia|exact H41|lia|lia]|apply (tmpl_mono _ _ _ _ _ S V es ev es' ev'); [lia|lia|exact H42|lia|lia]]]]]|split; [split; [split; [apply (tmpl_mono _ _ _ _ _ S V es ev es' ev'); [lia|lia|exact H43|lia|lia]|split; [apply (tmpl_mono _ _ _ _ _ S V es ev es' ev'); [lia|lia|exact H44|lia|lia]|apply (tmpl_mono _ _ _ _ _ S V es ev es' ev'); [lia|lia|exact H45|lia|lia]]]|split; [split; [apply (tmpl_mono _ _ _ _ _ S V es ev es' ev'); [lia|lia|exact H46|lia|lia]|apply (tmpl_mono _ _ _ _ _ S V es ev es' ev'); [lia|lia|exact H47|lia|lia]]|split; [apply (tmpl_mono _ _ _ _ _ S V es ev es' ev'); [lia|lia|exact H48|lia|lia]|apply (tmpl_mono _ _ _ _ _ S V es ev es' ev'); [lia|lia|exact H49|lia|lia]]]]|split; [split; [apply (tmpl_mono _ _ _ _ _ S V es ev es' ev'); [lia|lia|exact H50|lia|lia]|split; [apply (tmpl_mono _ _ _ _ _ S V es ev es' ev'); [lia|lia|exact H51|lia|lia]|apply (tmpl_mono _ _ _ _ _ S V es ev es' ev'); [lia|lia|exact H52|lia|lia]]]|split; [split; [apply (tmpl_mono _ _ _ _ _ S V es ev es' ev'); [lia|lia|exact H53|lia|lia]|apply (tmpl_mono _ _ _ _ _ S V es ev es' ev'); [lia|lia|exact H54|lia|lia]]|split; [apply (tmpl_mono _ _ _ _ _ S V es ev es' ev'); [lia|lia|exact H55|lia|lia]|apply (tmpl_mono _ _ _ _ _ S V es ev es' ev'); [lia|lia|exact H56|lia|lia]]]]]]]|split; [split; [split; [split; [split; [apply (tmpl_mono _ _ _ _ _ S V es ev es' ev'); [lia|lia|exact H57|lia|lia]|split; [apply (tmpl_mono _ _ _ _ _ S V es ev es' ev'); [lia|lia|exact H58|lia|lia]|apply (tmpl_mono _ _ _ _ _ S V es ev es' ev'); [lia|lia|exact H59|lia|lia]]]|split; [apply (tmpl_mono _ _ _ _ _ S V es ev es' ev'); [lia|lia|exact H60|lia|lia]|split; [apply (tmpl_mono _ _ _ _ _ S V es ev es' ev'); [lia|lia|exact H61|lia|lia]|apply (tmpl_mono _ _ _ _ _ S V es ev es' ev'); [lia|lia|exact H62|lia|lia]]]]|split; [split; [apply (tmpl_mono _ _ _ _ _ S V es ev es' ev'); [lia|lia|exact H63|lia|lia]|split; [apply (tmpl_mono _ _ _ _ _ S V es ev es' ev'); [lia|lia|exact H64|lia|lia]|apply (tmpl_mono _ _ _ _ _ S V es ev es' ev'); [lia|lia|exact H65|lia|lia]]]|split; [split; [apply (tmpl_mono _ _ _ _ _ S V es ev es' ev'); [lia|lia|exact H66|lia|lia]|apply (tmpl_mono _ _ _ _ _ S V es ev es' ev'); [lia|lia|exact H67|lia|lia]]|split; [apply (tmpl_mono _ _ _ _ _ S V es ev es' ev'); [lia|lia|exact H68|lia|lia]|apply (tmpl_mono _ _ _ _ _ S V es ev es' ev'); [lia|lia|exact H69|lia|lia]]]]]|split; [split; [split; [apply (tmpl_mono _ _ _ _ _ S V es ev es' ev'); [lia|lia|exact H70|lia|lia]|split; [apply (tmpl_mono _ _ _ _ _ S V es ev es' ev'); [lia|lia|exact H71|lia|lia]|apply (tmpl_mono _ _ _ _ _ S V es ev es' ev'); [lia|lia|exact H72|lia|lia]]]|split; [split; [apply (tmpl_mono _ _ _ _ _ S V es ev es' ev'); [lia|lia|exact H73|lia|lia]|apply (tmpl_mono _ _ _ _ _ S V es ev es' ev'); [lia|lia|exact H74|lia|lia]]|split; [apply (tmpl_mono _ _ _ _ _ S V es ev es' ev'); [lia|lia|exact H75|lia|lia]|apply (tmpl_mono _ _ _ _ _ S V es ev es' ev'); [lia|lia|exact H76|lia|lia]]]]|split; [split; [apply (tmpl_mono _ _ _ _ _ S V es ev es' ev'); [lia|lia|exact H77|lia|lia]|split; [apply (tmpl_mono _ _ _ _ _ S V es ev es' ev'); [lia|lia|exact H78|lia|lia]|apply (tmpl_mono _ _ _ _ _ S V es ev es' ev'); [lia|lia|exact H79|lia|lia]]]|split; [split; [apply (tmpl_mono _ _ _ _ _ S V es ev es' ev'); [lia|lia|exact H80|lia|lia]|apply (tmpl_mono _ _ _ _ _ S V es ev es' ev'); [lia|lia|exact H81|lia|lia]]|split; [apply (tmpl_mono _ _ _ _ _ S V es ev es' ev'); [lia|lia|exact H82|lia|lia]|apply (tmpl_mono _ _ _ _ _ S V es ev es' ev'); [lia|lia|exact H83|lia|lia]]]]]]|split; [split; [split; [split; [apply (tmpl_mono _ _ _ _ _ S V es ev es' ev'); [lia|lia|exact H84|lia|lia]|split; [apply (tmpl_mono _ _ _ _ _ S V es ev es' ev'); [lia|lia|exact H85|lia|lia]|apply (tmpl_mono _ _ _ _ _ S V es ev es' ev'); [lia|lia|exact H86|lia|lia]]]|split; [split; [apply (tmpl_mono _ _ _ _ _ S V es ev es' ev'); [lia|lia|exact H87|lia|lia]|apply (tmpl_mono _ _ _ _ _ S V es ev es' ev'); [lia|lia|exact H88|lia|lia]]|split; [apply (tmpl_mono _ _ _ _ _ S V es ev es' ev'); [lia|lia|exact H89|lia|lia]|apply (tmpl_mono _ _ _ _ _ S V es ev es' ev'); [lia|lia|exact H90|lia|lia]]]]|split; [split; [apply (tmpl_mono _ _ _ _ _ S V es ev es' ev'); [lia|lia|exact H91|lia|lia]|split; [apply (tmpl_mono _ _ _ _ _ S V es ev es' ev'); [lia|lia|exact H92|lia|lia]|apply (tmpl_mono _ _ _ _ _ S V es ev es' ev'); [lia|lia|exact H93|lia|lia]]]|split; [split; [apply (tmpl_mono _ _ _ _ _ S V es ev es' ev'); [lia|lia|exact H94|lia|lia]|apply (tmpl_mono _ _ _ _ _ S V es ev es' ev'); [lia|lia|exact H95|lia|lia]]|split; [apply (tmpl_mono _ _ _ _ _ S V es ev es' ev'); [lia|lia|exact H96|lia|lia]|apply (tmpl_mono _ _ _ _ _ S V es ev es' ev'); [lia|lia|exact H97|lia|lia]]]]]|split; [split; [split; [apply (tmpl_mono _ _ _ _ _ S V es ev es' ev'); [lia|lia|exact H98|lia|lia]|split; [apply (tmpl_mono _ _ _ _ _ S V es ev es' ev'); [lia|lia|exact H99|lia|lia]|apply (tmpl_mono _ _ _ _ _ S V es ev es' ev'); [lia|lia|exact H100|lia|lia]]]|split; [split; [apply (tmpl_mono _ _ _ _ _ S V es ev es' ev'); [lia|lia|exact H101|lia|lia]|apply (tmpl_mono _ _ _ _ _ S V es ev es' ev'); [lia|lia|exact H102|lia|lia]]|split; [apply (tmpl_mono _ _ _ _ _ S V es ev es' ev'); [lia|lia|exact H103|lia|lia]|apply (tmpl_mono _ _ _ _ _ S V es ev es' ev'); [lia|lia|exact H104|lia|lia]]]]|split; [split; [apply (tmpl_mono _ _ _ _ _ S V es ev es' ev'); [lia|lia|exact H105|lia|lia]|split; [apply (tmpl_mono _ _ _ _ _ S V es ev es' ev'); [lia|lia|exact H106|lia|lia]|apply (tmpl_mono _ _ _ _ _ S V es ev es' ev'); [lia|lia|exact H107|lia|lia]]]|split; [split; [apply (tmpl_mono _ _ _ _ _ S V es ev es' ev'); [lia|lia|exact H108|lia|lia]|apply (tmpl_mono _ _ _ _ _ S V es ev es' ev'); [lia|lia|exact H109|lia|lia]]|split; [apply (tmpl_mono _ _ _ _ _ S V es ev es' ev'); [lia|lia|exact H110|lia|lia]|apply (tmpl_mono _ _ _ _ _ S V es ev es' ev'); [lia|lia|exact H111|lia|lia]]]]]]]].
+Qed.
+Lemma Inv1ms_650ms_init r : 1000000 <= r <= 650000000 -> Inv1ms_650ms (65536 * r) (32768 * r) 0 32768.
+Proof. intros Hr. unfold Inv1ms_650ms, tmpl. repeat split; lia. Qed.
+Lemma Inv1ms_650ms_final S V es ev T : Inv1ms_650ms S V es ev -> 0 <= es -> 0 <= ev -> 0 <= S -> 0 <= V ->
+  ZN 100000 * T <= S + 4 * V < ZN 100000 * T + ZN 100000 ->
+  P45 * es + 4 * (P45 + E1) * ev + 4 * E1 * V + P45 * 32768 <= P45 * (T + 65536 * ZN 1000).
+Proof.
+  change (ZN 100000) with 100000. change (ZN 1000) with 1000.
+  intros [[[[[[B1 [B2 H4]] [H5 [H6 H7]]] [[H8 [H9 H10]] [[H11 H12] [H13 H14]]]] [[[H15 [H16 H17]] [[H18 H19] [H20 H21]]] [[H22 [H23 H24]] [[H25 H26] [H27 H28]]]]] [[[[H29 [H30 H31]] [[H32 H33] [H34 H35]]] [[H36 [H37 H38]] [[H39 H40] [H41 H42]]]] [[[H43 [H44 H45]] [[H46 H47] [H48 H49]]] [[H50 [H51 H52]] [[H53 H54] [H55 H56]]]]]] [[[[[H57 [H58 H59]] [H60 [H61 H62]]] [[H63 [H64 H65]] [[H66 H67] [H68 H69]]]] [[[H70 [H71 H72]] [[H73 H74] [H75 H76]]] [[H77 [H78 H79]] [[H80 H81] [H82 H83]]]]] [[[[H84 [H85 H86]] [[H87 H88] [H89 H90]]] [[H91 [H92 H93]] [[H94 H95] [H96 H97]]]] [[[H98 [H99 H100]] [[H101 H102] [H103 H104]]] [[H105 [H106 H107]] [[H108 H109] [H110 H111]]]]]]] He Hv HS HV HT.
+  clear - B1 B2 H111 He Hv HS HV HT. unfold tmpl, P45, E1 in *. lia.
+Qed.
+
+Theorem global_1ms_650ms c rto gran rs : cc_gran c = gran -> cc_rto c = rto ->
+  (forall r, In r rs -> (1000000 <= r <= 650000000)%N) ->
+  within_tolerance (fx (rc_rto (run (rtt_new rto gran) rs))) (rfc6298_rto c (ref_run None rs)) = true.
+Proof.
+  intros HG HR. rewrite within_tolerance_std. apply (global_generic 1000000 650000000 100000 1000 ltac:(lia) ltac:(lia) ltac:(lia) Inv1ms_650ms); try assumption.
+  - intros r Hr. apply Inv1ms_650ms_init. lia.
+  - apply Inv1ms_650ms_mono.
+  - intros. eapply Inv1ms_650ms_step; eauto; lia.
+  - apply Inv1ms_650ms_final.
+Qed.
+Print Assumptions global_1ms_650ms.
+(* the same with resets between the samples *)
+Theorem global_1ms_650ms_ops c rto gran os : cc_gran c = gran -> cc_rto c = rto ->
+  Forall (eop_ok 1000000 650000000) os ->
+  within_tolerance (fx (rc_rto (run_ops (rtt_new rto gran) os))) (rfc6298_rto c (ref_ops None os)) = true.
+Proof.
+  intros HG HR. rewrite within_tolerance_std. apply (global_generic_ops 1000000 650000000 100000 1000 ltac:(lia) ltac:(lia) ltac:(lia) Inv1ms_650ms); try assumption.
+  - intros r Hr. apply Inv1ms_650ms_init. lia.
+  - apply Inv1ms_650ms_mono.
+  - intros. eapply Inv1ms_650ms_step; eauto; lia.
+  - apply Inv1ms_650ms_final.
+Qed.
+Print Assumptions global_1ms_650ms_ops.
+(* ---- Stage 4, third instance: the whole range 1 ms .. 10 s with TWICE the tolerance (2e-5 relative + 2 us).
+   With the tolerance of the property itself the worst-case recurrences do not close on this range (see the witness
+   sequence at the end of the file); with 1.6 times the tolerance the template iteration converges above the bound. *)
+Definition Inv1ms_10s_x2 (S V es ev : Z) : Prop :=
+  ((((((((65536000000 <= S <= 655360000000000) /\ ((0 <= V <= 655360000000000) /\ (tmpl 0 0 8388609 (-16777218) 6596535554603892080640 S V es ev))) /\ ((tmpl 0 0 8388609 (-8388609) 1648730796089356582912 S V es ev) /\ ((tmpl 0 0 16777218 (-8388609) (-820022133117572608) S V es ev) /\ (tmpl 35184372088832 0 0 0 43999234116437669838848 S V es ev)))) /\ (((tmpl 35184372088832 0 16777218 0 34225674092040490582016 S V es ev) /\ ((tmpl 35184372088832 0 33554436 0 26623771154023886880768 S V es ev) /\ (tmpl 35184372088832 0 50331654 0 20710934392785520820224 S V es ev))) /\ (((tmpl 35184372088832 0 67108872 0 16111815576034815770624 S V es ev) /\ (tmpl 35184372088832 0 67108872 33554436 8068861388567014801408 S V es ev)) /\ ((tmpl 35184372088832 0 83886090 0 12534477450322265505792 S V es ev) /\ (tmpl 35184372088832 0 83886090 33554436 5525108433596286238720 S V es ev))))) /\ ((((tmpl 35184372088832 0 100663308 0 9751858405112184569856 S V es ev) /\ ((tmpl 35184372088832 0 100663308 33554436 4062165443242945937408 S V es ev) /\ (tmpl 35184372088832 0 100663308 67108872 2054198764160860553216 S V es ev))) /\ (((tmpl 35184372088832 0 100663308 134217744 971875858080610254848 S V es ev) /\ (tmpl 35184372088832 0 100663308 268435488 524880204234233085952 S V es ev)) /\ ((tmpl 35184372088832 0 117440526 0 7587357747373541425152 S V es ev) /\ (tmpl 35184372088832 0 117440526 33554436 3057196847105324875776 S V es ev)))) /\ (((tmpl 35184372088832 0 117440526 67108872 1392397500307826278400 S V es ev) /\ ((tmpl 35184372088832 0 117440526 134217744 638004304566461267968 S V es ev) /\ (tmpl 35184372088832 0 134217744 0 5903629511765034795008 S V es ev))) /\ (((tmpl 35184372088832 0 134217744 33554436 2323499913678736064512 S V es ev) /\ (tmpl 35184372088832 0 134217744 67108872 956553882589610246144 S V es ev)) /\ ((tmpl 35184372088832 0 134217744 134217744 503140616911589605376 S V es ev) /\ (tmpl 35184372088832 0 150994962 0 4593880170878093754368 S V es ev)))))) /\ (((((tmpl 35184372088832 0 150994962 33554436 1780830728266532519936 S V es ev) /\ ((tmpl 35184372088832 0 150994962 67108872 735349862692429103104 S V es ev) /\ (tmpl 35184372088832 0 150994962 134217744 452788200894424154112 S V es ev))) /\ ((tmpl 35184372088832 0 167772180 0 3575128462191098855424 S V es ev) /\ ((tmpl 35184372088832 0 167772180 33554436 1376752832968567291904 S V es ev) /\ (tmpl 35184372088832 0 167772180 67108872 603025293721173491712 S V es ev)))) /\ (((tmpl 35184372088832 0 167772180 134217744 430864850289764204544 S V es ev) /\ ((tmpl 35184372088832 0 184549398 0 2783008425064852881408 S V es ev) /\ (tmpl 35184372088832 0 184549398 33554436 1076261479053444775936 S V es ev))) /\ (((tmpl 35184372088832 0 184549398 67108872 521973376186056048640 S V es ev) /\ (tmpl 35184372088832 0 184549398 134217744 423707037134557872128 S V es ev)) /\ ((tmpl 35184372088832 0 201326616 0 2167778142442430398464 S V es ev) /\ (tmpl 35184372088832 0 201326616 33554436 855284050725237293056 S V es ev))))) /\ ((((tmpl 35184372088832 0 201326616 67108872 473208051071678021632 S V es ev) /\ ((tmpl 35184372088832 0 201326616 134217744 420943995444282654720 S V es ev) /\ (tmpl 35184372088832 0 218103834 0 1691237027911668858880 S V es ev))) /\ (((tmpl 35184372088832 0 218103834 33554436 696408726767139946496 S V es ev) /\ (tmpl 35184372088832 0 218103834 67108872 445095930282367057920 S V es ev)) /\ ((tmpl 35184372088832 0 218103834 134217744 419529804771080273920 S V es ev) /\ (tmpl 35184372088832 0 234881052 0 1324270201534905581568 S V es ev)))) /\ (((tmpl 35184372088832 0 234881052 33554436 586078435578727170048 S V es ev) /\ ((tmpl 35184372088832 0 234881052 67108872 429840386666673209344 S V es ev) /\ (tmpl 35184372088832 0 234881052 134217744 418379935959914643456 S V es ev))) /\ (((tmpl 35184372088832 0 251658270 0 1044768569007752609792 S V es ev) /\ (tmpl 35184372088832 0 251658270 33554436 512917489051729657856 S V es ev)) /\ ((tmpl 35184372088832 0 251658270 67108872 421949896361342402560 S V es ev) /\ (tmpl 35184372088832 0 251658270 134217744 417275306438022135808 S V es ev))))))) /\ ((((((tmpl 35184372088832 0 268435488 0 835760252043128864768 S V es ev) /\ ((tmpl 35184372088832 0 268435488 33554436 466908909921199849472 S V es ev) /\ (tmpl 35184372088832 0 268435488 67108872 417895734580347142144 S V es ev))) /\ ((tmpl 35184372088832 0 268435488 134217744 416175383427740925952 S V es ev) /\ ((tmpl 35184372088832 0 285212706 0 683736837848755732480 S V es ev) /\ (tmpl 35184372088832 0 285212706 33554436 439992468694080028672 S V es ev)))) /\ (((tmpl 35184372088832 0 285212706 67108872 415641293877169094656 S V es ev) /\ ((tmpl 35184372088832 0 285212706 134217744 415075856023292149760 S V es ev) /\ (tmpl 35184372088832 0 301989924 0 577303779024326361088 S V es ev))) /\ (((tmpl 35184372088832 0 301989924 33554436 425211489748926332928 S V es ev) /\ (tmpl 35184372088832 0 301989924 67108872 414140368914217566208 S V es ev)) /\ ((tmpl 35184372088832 0 301989924 134217744 413976343626229153792 S V es ev) /\ (tmpl 35184372088832 0 318767142 0 506330039654348357632 S V es ev))))) /\ ((((tmpl 35184372088832 0 318767142 33554436 417486294775779491840 S V es ev) /\ ((tmpl 35184372088832 0 318767142 67108872 412918247040003670016 S V es ev) /\ (tmpl 35184372088832 0 318767142 134217744 412876831851458330624 S V es ev))) /\ (((tmpl 35184372088832 0 335544360 0 461667282885208047616 S V es ev) /\ (tmpl 35184372088832 0 335544360 33554436 413481710993207328768 S V es ev)) /\ ((tmpl 35184372088832 0 335544360 67108872 411786269870280474624 S V es ev) /\ (tmpl 35184372088832 0 352321578 0 435312051427535486976 S V es ev)))) /\ (((tmpl 35184372088832 0 352321578 33554436 411239928976241721344 S V es ev) /\ ((tmpl 35184372088832 0 352321578 67108872 410679428585932193792 S V es ev) /\ (tmpl 35184372088832 0 369098796 0 420731280936727019520 S V es ev))) /\ (((tmpl 35184372088832 0 369098796 33554436 409741738396511764480 S V es ev) /\ (tmpl 35184372088832 0 369098796 67108872 409578535372004851712 S V es ev)) /\ ((tmpl 35184372088832 0 385876014 0 413067719134013358080 S V es ev) /\ (tmpl 35184372088832 0 385876014 33554436 408520113681586323456 S V es ev)))))) /\ (((((tmpl 35184372088832 0 385876014 67108872 408478812314553745408 S V es ev) /\ ((tmpl 35184372088832 0 402653232 0 409079293714468241408 S V es ev) /\ (tmpl 35184372088832 0 402653232 33554436 407388212170819764224 S V es ev))) /\ (((tmpl 35184372088832 0 402653232 67108872 407379275376215457792 S V es ev) /\ (tmpl 35184372088832 0 419430450 0 406841094355780763648 S V es ev)) /\ ((tmpl 35184372088832 0 419430450 33554436 406281380460686737408 S V es ev) /\ (tmpl 35184372088832 0 419430450 67108872 406279761425515282432 S V es ev)))) /\ (((tmpl 35184372088832 0 436207668 0 405343572022731079680 S V es ev) /\ ((tmpl 35184372088832 0 436207668 33554436 405180488245695741952 S V es ev) /\ (tmpl 35184372088832 0 436207668 67108872 405180249542652133376 S V es ev))) /\ (((tmpl 35184372088832 0 452984886 0 404122051557223038976 S V es ev) /\ (tmpl 35184372088832 0 452984886 33554436 404080765273416269824 S V es ev)) /\ ((tmpl 35184372088832 0 452984886 67108872 404080737780336558080 S V es ev) /\ (tmpl 35184372088832 0 469762104 0 402990163558223446016 S V es ev))))) /\ ((((tmpl 35184372088832 0 469762104 33554436 402981228340587069440 S V es ev) /\ ((tmpl 35184372088832 0 486539322 0 401883333290772660224 S V es ev) /\ (tmpl 35184372088832 0 486539322 33554436 401881714390011805696 S V es ev))) /\ (((tmpl 35184372088832 0 503316540 0 400782441201163960320 S V es ev) /\ (tmpl 35184372088832 0 503316540 33554436 400782202507264786432 S V es ev)) /\ ((tmpl 35184372088832 0 520093758 0 399682718237291184128 S V es ev) /\ (tmpl 35184372088832 0 520093758 33554436 399682690745030213632 S V es ev)))) /\ (((tmpl 35184372088832 0 536870976 0 398583181305200246784 S V es ev) /\ ((tmpl 35184372088832 0 553648194 0 397483667354709393408 S V es ev) /\ (tmpl 35184372088832 0 570425412 0 396384155471969583104 S V es ev))) /\ (((tmpl 35184372088832 0 587202630 0 395284643709735665664 S V es ev) /\ (tmpl 0 35184372088832 0 0 65483003519166450761728 S V es ev)) /\ ((tmpl 0 35184372088832 33554436 0 51856350919460565024768 S V es ev) /\ (tmpl 0 35184372088832 67108872 0 41117121641585139777536 S V es ev)))))))) /\ (((((((tmpl 0 35184372088832 67108872 33554436 27569976611144382545920 S V es ev) /\ ((tmpl 0 35184372088832 100663308 0 32880950580924523741184 S V es ev) /\ (tmpl 0 35184372088832 100663308 33554436 21626668937271157194752 S V es ev))) /\ ((tmpl 0 35184372088832 134217744 0 26459941626017174519808 S V es ev) /\ ((tmpl 0 35184372088832 134217744 33554436 17071037512916144226304 S V es ev) /\ (tmpl 0 35184372088832 134217744 67108872 10993953939810357870592 S V es ev)))) /\ (((tmpl 0 35184372088832 167772180 33554436 13515504633843921453056 S V es ev) /\ ((tmpl 0 35184372088832 167772180 67108872 8572064083350197895168 S V es ev) /\ (tmpl 0 35184372088832 167772180 134217744 4215169424604657090560 S V es ev))) /\ (((tmpl 0 35184372088832 167772180 268435488 1693521709208180883456 S V es ev) /\ (tmpl 0 35184372088832 167772180 536870976 923897766221642858496 S V es ev)) /\ ((tmpl 0 35184372088832 201326616 0 16968742878223288762368 S V es ev) /\ (tmpl 0 35184372088832 201326616 33554436 10748579327783280312320 S V es ev))))) /\ ((((tmpl 0 35184372088832 201326616 67108872 6741615387513599295488 S V es ev) /\ ((tmpl 0 35184372088832 201326616 134217744 3058891721611971919872 S V es ev) /\ (tmpl 0 35184372088832 201326616 268435488 1226431088791035052032 S V es ev))) /\ (((tmpl 0 35184372088832 234881052 0 13512093834172975546368 S V es ev) /\ (tmpl 0 35184372088832 234881052 33554436 8511381444373658992640 S V es ev)) /\ ((tmpl 0 35184372088832 234881052 67108872 5299191425168411983872 S V es ev) /\ (tmpl 0 35184372088832 234881052 134217744 2207448969058618703872 S V es ev)))) /\ (((tmpl 0 35184372088832 234881052 268435488 1006729719995359428608 S V es ev) /\ ((tmpl 0 35184372088832 268435488 0 10745156669513727475712 S V es ev) /\ (tmpl 0 35184372088832 268435488 33554436 6717307355331026747392 S V es ev))) /\ (((tmpl 0 35184372088832 268435488 67108872 4162739063649585856512 S V es ev) /\ (tmpl 0 35184372088832 268435488 134217744 1691416453083908538368 S V es ev)) /\ ((tmpl 0 35184372088832 301989924 0 8507952856795013185536 S V es ev) /\ (tmpl 0 35184372088832 301989924 33554436 5288128367431943979008 S V es ev)))))) /\ (((((tmpl 0 35184372088832 301989924 67108872 3270964748907857313792 S V es ev) /\ ((tmpl 0 35184372088832 301989924 134217744 1372503024337711792128 S V es ev) /\ (tmpl 0 35184372088832 335544360 0 6713875803092041072640 S V es ev))) /\ ((tmpl 0 35184372088832 335544360 33554436 4156503206407846756352 S V es ev) /\ ((tmpl 0 35184372088832 335544360 67108872 2576716378115269984256 S V es ev) /\ (tmpl 0 35184372088832 335544360 134217744 1157250093165089783808 S V es ev)))) /\ (((tmpl 0 35184372088832 369098796 0 5284695332859653652480 S V es ev) /\ ((tmpl 0 35184372088832 369098796 33554436 3266490901349830492160 S V es ev) /\ (tmpl 0 35184372088832 369098796 67108872 2043356610824652455936 S V es ev))) /\ (((tmpl 0 35184372088832 402653232 0 4153069430667144069120 S V es ev) /\ (tmpl 0 35184372088832 402653232 33554436 2572887351160434327552 S V es ev)) /\ ((tmpl 0 35184372088832 402653232 67108872 1641950594748472098816 S V es ev) /\ (tmpl 0 35184372088832 436207668 0 3263056755023946448896 S V es ev))))) /\ ((((tmpl 0 35184372088832 436207668 33554436 2039764515168200687616 S V es ev) /\ ((tmpl 0 35184372088832 436207668 67108872 1348719678551826628608 S V es ev) /\ (tmpl 0 35184372088832 469762104 0 2569453019541424046080 S V es ev))) /\ (((tmpl 0 35184372088832 469762104 33554436 1638446046081448935424 S V es ev) /\ (tmpl 0 35184372088832 469762104 67108872 1142934107786652024832 S V es ev)) /\ ((tmpl 0 35184372088832 503316540 0 2036330090902336569344 S V es ev) /\ (tmpl 0 35184372088832 503316540 33554436 1345247683212672237568 S V es ev)))) /\ (((tmpl 0 35184372088832 503316540 67108872 1005627011641852559360 S V es ev) /\ ((tmpl 0 35184372088832 536870976 0 1635011575492014505984 S V es ev) /\ (tmpl 0 35184372088832 536870976 33554436 1139474271035213611008 S V es ev))) /\ (((tmpl 0 35184372088832 536870976 67108872 919317398673313628160 S V es ev) /\ (tmpl 0 35184372088832 570425412 0 1341813189461365227520 S V es ev)) /\ ((tmpl 0 35184372088832 570425412 33554436 1002171708927130861568 S V es ev) /\ (tmpl 0 35184372088832 570425412 67108872 868524226007929978880 S V es ev))))))) /\ ((((((tmpl 0 35184372088832 603979848 0 1136039765702902677504 S V es ev) /\ ((tmpl 0 35184372088832 603979848 33554436 915863765843506888704 S V es ev) /\ (tmpl 0 35184372088832 603979848 67108872 840536072310487515136 S V es ev))) /\ ((tmpl 0 35184372088832 637534284 0 998737197804198297600 S V es ev) /\ ((tmpl 0 35184372088832 637534284 33554436 865071191426608267264 S V es ev) /\ (tmpl 0 35184372088832 637534284 67108872 825889073319237779456 S V es ev)))) /\ (((tmpl 0 35184372088832 671088720 0 912429251824725524480 S V es ev) /\ ((tmpl 0 35184372088832 671088720 33554436 837083242129642881024 S V es ev) /\ (tmpl 0 35184372088832 671088720 67108872 818279670959999025152 S V es ev))) /\ (((tmpl 0 35184372088832 704643156 0 861636675957596094464 S V es ev) /\ (tmpl 0 35184372088832 704643156 33554436 822436307799724916736 S V es ev)) /\ ((tmpl 0 35184372088832 704643156 67108872 813985414398976327680 S V es ev) /\ (tmpl 0 35184372088832 738197592 0 833648725927076429824 S V es ev))))) /\ ((((tmpl 0 35184372088832 738197592 33554436 814826923239641841664 S V es ev) /\ ((tmpl 0 35184372088832 738197592 67108872 811071882360405360640 S V es ev) /\ (tmpl 0 35184372088832 771752028 0 819001791204413800448 S V es ev))) /\ (((tmpl 0 35184372088832 771752028 33554436 810532670181204688896 S V es ev) /\ (tmpl 0 35184372088832 771752028 67108872 808661221188320100352 S V es ev)) /\ ((tmpl 0 35184372088832 805306464 0 811392406381010747392 S V es ev) /\ (tmpl 0 35184372088832 805306464 33554436 807619138085682806784 S V es ev)))) /\ (((tmpl 0 35184372088832 805306464 67108872 806408655863763042304 S V es ev) /\ ((tmpl 0 35184372088832 838860900 0 807098153047217537024 S V es ev) /\ (tmpl 0 35184372088832 838860900 33554436 805208475499687968768 S V es ev))) /\ (((tmpl 0 35184372088832 838860900 67108872 804198311164471934976 S V es ev) /\ (tmpl 0 35184372088832 872415336 0 804184620559863119872 S V es ev)) /\ ((tmpl 0 35184372088832 872415336 33554436 802955908075454332928 S V es ev) /\ (tmpl 0 35184372088832 872415336 67108872 801997633068815745024 S V es ev)))))) /\ (((((tmpl 0 35184372088832 905969772 0 801773957413605998592 S V es ev) /\ ((tmpl 0 35184372088832 905969772 33554436 800749595285052850176 S V es ev) /\ (tmpl 0 35184372088832 905969772 67108872 799798471680534642688 S V es ev))) /\ (((tmpl 35184372088832 140737521909764 0 0 305244166066025917317120 S V es ev) /\ (tmpl 35184372088832 140737521909764 0 33554436 283941605464151301292032 S V es ev)) /\ ((tmpl 35184372088832 140737521909764 0 67108872 267964684889779553173504 S V es ev) /\ (tmpl 109951162777600000 439804755968012500 549755813888 0 721275684630122463232000000 S V es ev)))) /\ (((tmpl 109951162777600000 439804755968012500 549755813888 104857612500 663741586352604341862400000 S V es ev) /\ ((tmpl 109951162777600000 439804755968012500 549755813888 209715225000 610134219416973449625600000 S V es ev) /\ (tmpl 109951162777600000 439804755968012500 549755813888 419430450000 520356152558334718771200000 S V es ev))) /\ (((tmpl 109951162777600000 439804755968012500 1099511627776 0 549874615207871800934400000 S V es ev) /\ (tmpl 109951162777600000 439804755968012500 1099511627776 104857612500 502651689723456126976000000 S V es ev)) /\ ((tmpl 109951162777600000 439804755968012500 1099511627776 209715225000 460010847367308456755200000 S V es ev) /\ (tmpl 109951162777600000 439804755968012500 1099511627776 419430450000 383248869666463888179200000 S V es ev))))) /\ ((((tmpl 109951162777600000 439804755968012500 1649267441664 0 423219155169629962240000000 S V es ev) /\ ((tmpl 109951162777600000 439804755968012500 1649267441664 104857612500 384939419637849102745600000 S V es ev) /\ (tmpl 109951162777600000 439804755968012500 1649267441664 209715225000 350388785952571575500800000 S V es ev))) /\ (((tmpl 109951162777600000 439804755968012500 1649267441664 419430450000 289023183573708963840000000 S V es ev) /\ (tmpl 109951162777600000 439804755968012500 1649267441664 838860900000 198452313444015354675200000 S V es ev)) /\ ((tmpl 109951162777600000 439804755968012500 2199023255552 0 327405141875354448691200000 S V es ev) /\ (tmpl 109951162777600000 439804755968012500 2199023255552 104857612500 296536192690772246528000000 S V es ev)))) /\ (((tmpl 109951162777600000 439804755968012500 2199023255552 209715225000 268379475142951829504000000 S V es ev) /\ ((tmpl 109951162777600000 439804755968012500 2199023255552 419430450000 219405188725302126182400000 S V es ev) /\ (tmpl 109951162777600000 439804755968012500 2199023255552 838860900000 147277324490028928204800000 S V es ev))) /\ (((tmpl 109951162777600000 439804755968012500 2199023255552 1677721800000 77077647401638572851200000 S V es ev) /\ (tmpl 109951162777600000 439804755968012500 2199023255552 3355443600000 33480816810973095526400000 S V es ev)) /\ ((tmpl 109951162777600000 439804755968012500 2199023255552 6710887200000 15280163592723192217600000 S V es ev) /\ (tmpl 109951162777600000 439804755968012500 2199023255552 8691235409708 13082718307439291596800000 S V es ev))))))))).
+Lemma inv1ms_10s_x2_step_4 S V es ev r S' V' es' ev' :
+  65536000000 <= S <= 655360000000000 -> 0 <= V <= 655360000000000 ->
+
+  tmpl 0 0 8388609 (-16777218) 6596535554603892080640 S V es ev ->
+  tmpl 0 0 8388609 (-8388609) 1648730796089356582912 S V es ev ->
+  1000000 <= r <= 10000000000 -> 0 <= es -> 0 <= ev ->
+  8 * S' <= 7 * S + 65536 * r < 8 * S' + 8 ->
+  4 * V' <= 3 * V + Z.abs (S - 65536 * r) < 4 * V' + 4 ->
+  0 <= es' -> 8 * P45 * es' <= 7 * (P45 + E1) * es + E1 * (7 * S + 65536 * r) + 8 * P45 * (65536 + 1) ->
+  0 <= ev' -> 4 * P45 * ev' <= 3 * (P45 + E1) * ev + (P45 + E1) * es + E1 * (3 * V + Z.abs (S - 65536 * r)) + 4 * P45 * (65536 + 1) ->
+  tmpl 0 0 8388609 (-16777218) 6596535554603892080640 S' V' es' ev'.
+Proof. unfold tmpl, P45, E1. intros. lia. Qed.
+Lemma inv1ms_10s_x2_step_5 S V es ev r S' V' es' ev' :
+  65536000000 <= S <= 655360000000000 -> 0 <= V <= 655360000000000 ->
+
+  tmpl 0 0 8388609 (-16777218) 6596535554603892080640 S V es ev ->
+  tmpl 0 0 8388609 (-8388609) 1648730796089356582912 S V es ev ->
+  tmpl 0 0 16777218 (-8388609) (-820022133117572608) S V es ev ->
+  1000000 <= r <= 10000000000 -> 0 <= es -> 0 <= ev ->
+  8 * S' <= 7 * S + 65536 * r < 8 * S' + 8 ->
+  4 * V' <= 3 * V + Z.abs (S - 65536 * r) < 4 * V' + 4 ->
+  0 <= es' -> 8 * P45 * es' <= 7 * (P45 + E1) * es + E1 * (7 * S + 65536 * r) + 8 * P45 * (65536 + 1) ->
+  0 <= ev' -> 4 * P45 * ev' <= 3 * (P45 + E1) * ev + (P45 + E1) * es + E1 * (3 * V + Z.abs (S - 65536 * r)) + 4 * P45 * (65536 + 1) ->
+  tmpl 0 0 8388609 (-8388609) 1648730796089356582912 S' V' es' ev'.
+Proof. unfold tmpl, P45, E1. intros. lia. Qed.
+Lemma inv1ms_10s_x2_step_6 S V es ev r S' V' es' ev' :
+  65536000000 <= S <= 655360000000000 -> 0 <= V <= 655360000000000 ->
+
+  tmpl 0 0 16777218 (-8388609) (-820022133117572608) S V es ev ->
+  1000000 <= r <= 10000000000 -> 0 <= es -> 0 <= ev ->
+  8 * S' <= 7 * S + 65536 * r < 8 * S' + 8 ->
+  4 * V' <= 3 * V + Z.abs (S - 65536 * r) < 4 * V' + 4 ->
+  0 <= es' -> 8 * P45 * es' <= 7 * (P45 + E1) * es + E1 * (7 * S + 65536 * r) + 8 * P45 * (65536 + 1) ->
+  0 <= ev' -> 4 * P45 * ev' <= 3 * (P45 + E1) * ev + (P45 + E1) * es + E1 * (3 * V + Z.abs (S - 65536 * r)) + 4 * P45 * (65536 + 1) ->
+  tmpl 0 0 16777218 (-8388609) (-820022133117572608) S' V' es' ev'.
+Proof. unfold tmpl, P45, E1. intros. lia. Qed.
+Lemma inv1ms_10s_x2_step_7 S V es ev r S' V' es' ev' :
+  65536000000 <= S <= 655360000000000 -> 0 <= V <= 655360000000000 ->
+
+  tmpl 35184372088832 0 0 0 43999234116437669838848 S V es ev ->
+  1000000 <= r <= 10000000000 -> 0 <= es -> 0 <= ev ->
+  8 * S' <= 7 * S + 65536 * r < 8 * S' + 8 ->
+  4 * V' <= 3 * V + Z.abs (S - 65536 * r) < 4 * V' + 4 ->
+  0 <= es' -> 8 * P45 * es' <= 7 * (P45 + E1) * es + E1 * (7 * S + 65536 * r) + 8 * P45 * (65536 + 1) ->
+  0 <= ev' -> 4 * P45 * ev' <= 3 * (P45 + E1) * ev + (P45 + E1) * es + E1 * (3 * V + Z.abs (S - 65536 * r)) + 4 * P45 * (65536 + 1) ->
+  tmpl 35184372088832 0 0 0 43999234116437669838848 S' V' es' ev'.
+Proof. unfold tmpl, P45, E1. intros. lia. Qed.
+Lemma inv1ms_10s_x2_step_8 S V es ev r S' V' es' ev' :
+  65536000000 <= S <= 655360000000000 -> 0 <= V <= 655360000000000 ->
+
+  tmpl 35184372088832 0 0 0 43999234116437669838848 S V es ev ->
+  tmpl 35184372088832 0 16777218 0 34225674092040490582016 S V es ev ->
+  1000000 <= r <= 10000000000 -> 0 <= es -> 0 <= ev ->
+  8 * S' <= 7 * S + 65536 * r < 8 * S' + 8 ->
+  4 * V' <= 3 * V + Z.abs (S - 65536 * r) < 4 * V' + 4 ->
+  0 <= es' -> 8 * P45 * es' <= 7 * (P45 + E1) * es + E1 * (7 * S + 65536 * r) + 8 * P45 * (65536 + 1) ->
+  0 <= ev' -> 4 * P45 * ev' <= 3 * (P45 + E1) * ev + (P45 + E1) * es + E1 * (3 * V + Z.abs (S - 65536 * r)) + 4 * P45 * (65536 + 1) ->
+  tmpl 35184372088832 0 16777218 0 34225674092040490582016 S' V' es' ev'.
+Proof. unfold tmpl, P45, E1. intros. lia. Qed.
+Lemma inv1ms_10s_x2_step_9 S V es ev r S' V' es' ev' :
+  65536000000 <= S <= 655360000000000 -> 0 <= V <= 655360000000000 ->
+
+  tmpl 35184372088832 0 16777218 0 34225674092040490582016 S V es ev ->
+  tmpl 35184372088832 0 33554436 0 26623771154023886880768 S V es ev ->
+  1000000 <= r <= 10000000000 -> 0 <= es -> 0 <= ev ->
+  8 * S' <= 7 * S + 65536 * r < 8 * S' + 8 ->
+  4 * V' <= 3 * V + Z.abs (S - 65536 * r) < 4 * V' + 4 ->
+  0 <= es' -> 8 * P45 * es' <= 7 * (P45 + E1) * es + E1 * (7 * S + 65536 * r) + 8 * P45 * (65536 + 1) ->
+  0 <= ev' -> 4 * P45 * ev' <= 3 * (P45 + E1) * ev + (P45 + E1) * es + E1 * (3 * V + Z.abs (S - 65536 * r)) + 4 * P45 * (65536 + 1) ->
+  tmpl 35184372088832 0 33554436 0 26623771154023886880768 S' V' es' ev'.
+Proof. unfold tmpl, P45, E1. intros. lia. Qed.
+Lemma inv1ms_10s_x2_step_10 S V es ev r S' V' es' ev' :
+  65536000000 <= S <= 655360000000000 -> 0 <= V <= 655360000000000 ->
+
+  tmpl 35184372088832 0 33554436 0 26623771154023886880768 S V es ev ->
+  tmpl 35184372088832 0 50331654 0 20710934392785520820224 S V es ev ->
+  1000000 <= r <= 10000000000 -> 0 <= es -> 0 <= ev ->
+  8 * S' <= 7 * S + 65536 * r < 8 * S' + 8 ->
+  4 * V' <= 3 * V + Z.abs (S - 65536 * r) < 4 * V' + 4 ->
+  0 <= es' -> 8 * P45 * es' <= 7 * (P45 + E1) * es + E1 * (7 * S + 65536 * r) + 8 * P45 * (65536 + 1) ->
+  0 <= ev' -> 4 * P45 * ev' <= 3 * (P45 + E1) * ev + (P45 + E1) * es + E1 * (3 * V + Z.abs (S - 65536 * r)) + 4 * P45 * (65536 + 1) ->
+  tmpl 35184372088832 0 50331654 0 20710934392785520820224 S' V' es' ev'.
+Proof. unfold tmpl, P45, E1. intros. lia. Qed.
+Lemma inv1ms_10s_x2_step_11 S V es ev r S' V' es' ev' :
+  65536000000 <= S <= 655360000000000 -> 0 <= V <= 655360000000000 ->
+
+  tmpl 35184372088832 0 50331654 0 20710934392785520820224 S V es ev ->
+  tmpl 35184372088832 0 67108872 0 16111815576034815770624 S V es ev ->
+  1000000 <= r <= 10000000000 -> 0 <= es -> 0 <= ev ->
+  8 * S' <= 7 * S + 65536 * r < 8 * S' + 8 ->
+  4 * V' <= 3 * V + Z.abs (S - 65536 * r) < 4 * V' + 4 ->
+  0 <= es' -> 8 * P45 * es' <= 7 * (P45 + E1) * es + E1 * (7 * S + 65536 * r) + 8 * P45 * (65536 + 1) ->
+  0 <= ev' -> 4 * P45 * ev' <= 3 * (P45 + E1) * ev + (P45 + E1) * es + E1 * (3 * V + Z.abs (S - 65536 * r)) + 4 * P45 * (65536 + 1) ->
+  tmpl 35184372088832 0 67108872 0 16111815576034815770624 S' V' es' ev'.
+Proof. unfold tmpl, P45, E1. intros. lia. Qed.
+Lemma inv1ms_10s_x2_step_12 S V es ev r S' V' es' ev' :
+  65536000000 <= S <= 655360000000000 -> 0 <= V <= 655360000000000 ->
+
+  tmpl 35184372088832 0 50331654 0 20710934392785520820224 S V es ev ->
+  tmpl 35184372088832 0 67108872 0 16111815576034815770624 S V es ev ->
+  tmpl 35184372088832 0 67108872 33554436 8068861388567014801408 S V es ev ->
+  1000000 <= r <= 10000000000 -> 0 <= es -> 0 <= ev ->
+  8 * S' <= 7 * S + 65536 * r < 8 * S' + 8 ->
+  4 * V' <= 3 * V + Z.abs (S - 65536 * r) < 4 * V' + 4 ->
+  0 <= es' -> 8 * P45 * es' <= 7 * (P45 + E1) * es + E1 * (7 * S + 65536 * r) + 8 * P45 * (65536 + 1) ->
+  0 <= ev' -> 4 * P45 * ev' <= 3 * (P45 + E1) * ev + (P45 + E1) * es + E1 * (3 * V + Z.abs (S - 65536 * r)) + 4 * P45 * (65536 + 1) ->
+  tmpl 35184372088832 0 67108872 33554436 8068861388567014801408 S' V' es' ev'.
+Proof. unfold tmpl, P45, E1. intros. lia. Qed.
+Lemma inv1ms_10s_x2_step_13 S V es ev r S' V' es' ev' :
+  65536000000 <= S <= 655360000000000 -> 0 <= V <= 655360000000000 ->
+
+  tmpl 35184372088832 0 67108872 0 16111815576034815770624 S V es ev ->
+  tmpl 35184372088832 0 83886090 0 12534477450322265505792 S V es ev ->
+  tmpl 35184372088832 0 100663308 0 9751858405112184569856 S V es ev ->
+  1000000 <= r <= 10000000000 -> 0 <= es -> 0 <= ev ->
+  8 * S' <= 7 * S + 65536 * r < 8 * S' + 8 ->
+  4 * V' <= 3 * V + Z.abs (S - 65536 * r) < 4 * V' + 4 ->
+  0 <= es' -> 8 * P45 * es' <= 7 * (P45 + E1) * es + E1 * (7 * S + 65536 * r) + 8 * P45 * (65536 + 1) ->
+  0 <= ev' -> 4 * P45 * ev' <= 3 * (P45 + E1) * ev + (P45 + E1) * es + E1 * (3 * V + Z.abs (S - 65536 * r)) + 4 * P45 * (65536 + 1) ->
+  tmpl 35184372088832 0 83886090 0 12534477450322265505792 S' V' es' ev'.
+Proof. unfold tmpl, P45, E1. intros. lia. Qed.
+Lemma inv1ms_10s_x2_step_14 S V es ev r S' V' es' ev' :
+  65536000000 <= S <= 655360000000000 -> 0 <= V <= 655360000000000 ->
+
+  tmpl 35184372088832 0 67108872 33554436 8068861388567014801408 S V es ev ->
+  tmpl 35184372088832 0 83886090 33554436 5525108433596286238720 S V es ev ->
+  tmpl 35184372088832 0 100663308 0 9751858405112184569856 S V es ev ->
+  1000000 <= r <= 10000000000 -> 0 <= es -> 0 <= ev ->
+  8 * S' <= 7 * S + 65536 * r < 8 * S' + 8 ->
+  4 * V' <= 3 * V + Z.abs (S - 65536 * r) < 4 * V' + 4 ->
+  0 <= es' -> 8 * P45 * es' <= 7 * (P45 + E1) * es + E1 * (7 * S + 65536 * r) + 8 * P45 * (65536 + 1) ->
+  0 <= ev' -> 4 * P45 * ev' <= 3 * (P45 + E1) * ev + (P45 + E1) * es + E1 * (3 * V + Z.abs (S - 65536 * r)) + 4 * P45 * (65536 + 1) ->
+  tmpl 35184372088832 0 83886090 33554436 5525108433596286238720 S' V' es' ev'.
+Proof. unfold tmpl, P45, E1. intros. lia. Qed.
+Lemma inv1ms_10s_x2_step_15 S V es ev r S' V' es' ev' :
+  65536000000 <= S <= 655360000000000 -> 0 <= V <= 655360000000000 ->
+
+  tmpl 35184372088832 0 83886090 0 12534477450322265505792 S V es ev ->
+  tmpl 35184372088832 0 100663308 0 9751858405112184569856 S V es ev ->
+  tmpl 35184372088832 0 117440526 0 7587357747373541425152 S V es ev ->
+  1000000 <= r <= 10000000000 -> 0 <= es -> 0 <= ev ->
+  8 * S' <= 7 * S + 65536 * r < 8 * S' + 8 ->
+  4 * V' <= 3 * V + Z.abs (S - 65536 * r) < 4 * V' + 4 ->
+  0 <= es' -> 8 * P45 * es' <= 7 * (P45 + E1) * es + E1 * (7 * S + 65536 * r) + 8 * P45 * (65536 + 1) ->
+  0 <= ev' -> 4 * P45 * ev' <= 3 * (P45 + E1) * ev + (P45 + E1) * es + E1 * (3 * V + Z.abs (S - 65536 * r)) + 4 * P45 * (65536 + 1) ->
+  tmpl 35184372088832 0 100663308 0 9751858405112184569856 S' V' es' ev'.
+Proof. unfold tmpl, P45, E1. intros. lia. Qed.
+Lemma inv1ms_10s_x2_step_16 S V es ev r S' V' es' ev' :
+  65536000000 <= S <= 655360000000000 -> 0 <= V <= 655360000000000 ->
+
+  tmpl 35184372088832 0 83886090 33554436 5525108433596286238720 S V es ev ->
+  tmpl 35184372088832 0 100663308 33554436 4062165443242945937408 S V es ev ->
+  tmpl 35184372088832 0 134217744 0 5903629511765034795008 S V es ev ->
+  1000000 <= r <= 10000000000 -> 0 <= es -> 0 <= ev ->
+  8 * S' <= 7 * S + 65536 * r < 8 * S' + 8 ->
+  4 * V' <= 3 * V + Z.abs (S - 65536 * r) < 4 * V' + 4 ->
+  0 <= es' -> 8 * P45 * es' <= 7 * (P45 + E1) * es + E1 * (7 * S + 65536 * r) + 8 * P45 * (65536 + 1) ->
+  0 <= ev' -> 4 * P45 * ev' <= 3 * (P45 + E1) * ev + (P45 + E1) * es + E1 * (3 * V + Z.abs (S - 65536 * r)) + 4 * P45 * (65536 + 1) ->
+  tmpl 35184372088832 0 100663308 33554436 4062165443242945937408 S' V' es' ev'.
+Proof. unfold tmpl, P45, E1. intros. lia. Qed.
+Lemma inv1ms_10s_x2_step_17 S V es ev r S' V' es' ev' :
+  65536000000 <= S <= 655360000000000 -> 0 <= V <= 655360000000000 ->
+
+  tmpl 35184372088832 0 100663308 33554436 4062165443242945937408 S V es ev ->
+  tmpl 35184372088832 0 100663308 67108872 2054198764160860553216 S V es ev ->
+  tmpl 35184372088832 0 117440526 33554436 3057196847105324875776 S V es ev ->
+  1000000 <= r <= 10000000000 -> 0 <= es -> 0 <= ev ->
+  8 * S' <= 7 * S + 65536 * r < 8 * S' + 8 ->
+  4 * V' <= 3 * V + Z.abs (S - 65536 * r) < 4 * V' + 4 ->
+  0 <= es' -> 8 * P45 * es' <= 7 * (P45 + E1) * es + E1 * (7 * S + 65536 * r) + 8 * P45 * (65536 + 1) ->
+  0 <= ev' -> 4 * P45 * ev' <= 3 * (P45 + E1) * ev + (P45 + E1) * es + E1 * (3 * V + Z.abs (S - 65536 * r)) + 4 * P45 * (65536 + 1) ->
+  tmpl 35184372088832 0 100663308 67108872 2054198764160860553216 S' V' es' ev'.
+Proof. unfold tmpl, P45, E1. intros. lia. Qed.
+Lemma inv1ms_10s_x2_step_18 S V es ev r S' V' es' ev' :
+  65536000000 <= S <= 655360000000000 -> 0 <= V <= 655360000000000 ->
+
+  tmpl 35184372088832 0 100663308 67108872 2054198764160860553216 S V es ev ->
+  tmpl 35184372088832 0 100663308 134217744 971875858080610254848 S V es ev ->
+  tmpl 35184372088832 0 117440526 67108872 1392397500307826278400 S V es ev ->
+  1000000 <= r <= 10000000000 -> 0 <= es -> 0 <= ev ->
+  8 * S' <= 7 * S + 65536 * r < 8 * S' + 8 ->
+  4 * V' <= 3 * V + Z.abs (S - 65536 * r) < 4 * V' + 4 ->
+  0 <= es' -> 8 * P45 * es' <= 7 * (P45 + E1) * es + E1 * (7 * S + 65536 * r) + 8 * P45 * (65536 + 1) ->
+  0 <= ev' -> 4 * P45 * ev' <= 3 * (P45 + E1) * ev + (P45 + E1) * es + E1 * (3 * V + Z.abs (S - 65536 * r)) + 4 * P45 * (65536 + 1) ->
+  tmpl 35184372088832 0 100663308 134217744 971875858080610254848 S' V' es' ev'.
+Proof. unfold tmpl, P45, E1. intros. lia. Qed.
+Lemma inv1ms_10s_x2_step_19 S V es ev r S' V' es' ev' :
+  65536000000 <= S <= 655360000000000 -> 0 <= V <= 655360000000000 ->
+
+  tmpl 35184372088832 0 100663308 134217744 971875858080610254848 S V es ev ->
+  tmpl 35184372088832 0 100663308 268435488 524880204234233085952 S V es ev ->
+  tmpl 35184372088832 0 117440526 134217744 638004304566461267968 S V es ev ->
+  1000000 <= r <= 10000000000 -> 0 <= es -> 0 <= ev ->
+  8 * S' <= 7 * S + 65536 * r < 8 * S' + 8 ->
+  4 * V' <= 3 * V + Z.abs (S - 65536 * r) < 4 * V' + 4 ->
+  0 <= es' -> 8 * P45 * es' <= 7 * (P45 + E1) * es + E1 * (7 * S + 65536 * r) + 8 * P45 * (65536 + 1) ->
+  0 <= ev' -> 4 * P45 * ev' <= 3 * (P45 + E1) * ev + (P45 + E1) * es + E1 * (3 * V + Z.abs (S - 65536 * r)) + 4 * P45 * (65536 + 1) ->
+  tmpl 35184372088832 0 100663308 268435488 524880204234233085952 S' V' es' ev'.
+Proof. unfold tmpl, P45, E1. intros. lia. Qed.
+Lemma inv1ms_10s_x2_step_20 S V es ev r S' V' es' ev' :
+  65536000000 <= S <= 655360000000000 -> 0 <= V <= 655360000000000 ->
+
+  tmpl 35184372088832 0 100663308 0 9751858405112184569856 S V es ev ->
+  tmpl 35184372088832 0 117440526 0 7587357747373541425152 S V es ev ->
+  tmpl 35184372088832 0 134217744 0 5903629511765034795008 S V es ev ->
+  1000000 <= r <= 10000000000 -> 0 <= es -> 0 <= ev ->
+  8 * S' <= 7 * S + 65536 * r < 8 * S' + 8 ->
+  4 * V' <= 3 * V + Z.abs (S - 65536 * r) < 4 * V' + 4 ->
+  0 <= es' -> 8 * P45 * es' <= 7 * (P45 + E1) * es + E1 * (7 * S + 65536 * r) + 8 * P45 * (65536 + 1) ->
+  0 <= ev' -> 4 * P45 * ev' <= 3 * (P45 + E1) * ev + (P45 + E1) * es + E1 * (3 * V + Z.abs (S - 65536 * r)) + 4 * P45 * (65536 + 1) ->
+  tmpl 35184372088832 0 117440526 0 7587357747373541425152 S' V' es' ev'.
+Proof. unfold tmpl, P45, E1. intros. lia. Qed.
+Lemma inv1ms_10s_x2_step_21 S V es ev r S' V' es' ev' :
+  65536000000 <= S <= 655360000000000 -> 0 <= V <= 655360000000000 ->
+
+  tmpl 35184372088832 0 100663308 33554436 4062165443242945937408 S V es ev ->
+  tmpl 35184372088832 0 117440526 33554436 3057196847105324875776 S V es ev ->
+  tmpl 35184372088832 0 167772180 0 3575128462191098855424 S V es ev ->
+  1000000 <= r <= 10000000000 -> 0 <= es -> 0 <= ev ->
+  8 * S' <= 7 * S + 65536 * r < 8 * S' + 8 ->
+  4 * V' <= 3 * V + Z.abs (S - 65536 * r) < 4 * V' + 4 ->
+  0 <= es' -> 8 * P45 * es' <= 7 * (P45 + E1) * es + E1 * (7 * S + 65536 * r) + 8 * P45 * (65536 + 1) ->
+  0 <= ev' -> 4 * P45 * ev' <= 3 * (P45 + E1) * ev + (P45 + E1) * es + E1 * (3 * V + Z.abs (S - 65536 * r)) + 4 * P45 * (65536 + 1) ->
+  tmpl 35184372088832 0 117440526 33554436 3057196847105324875776 S' V' es' ev'.
+Proof. unfold tmpl, P45, E1. intros. lia. Qed.
+Lemma inv1ms_10s_x2_step_22 S V es ev r S' V' es' ev' :
+  65536000000 <= S <= 655360000000000 -> 0 <= V <= 655360000000000 ->
+
+  tmpl 35184372088832 0 117440526 67108872 1392397500307826278400 S V es ev ->
+  tmpl 35184372088832 0 134217744 33554436 2323499913678736064512 S V es ev ->
+  tmpl 35184372088832 0 150994962 33554436 1780830728266532519936 S V es ev ->
+  1000000 <= r <= 10000000000 -> 0 <= es -> 0 <= ev ->
+  8 * S' <= 7 * S + 65536 * r < 8 * S' + 8 ->
+  4 * V' <= 3 * V + Z.abs (S - 65536 * r) < 4 * V' + 4 ->
+  0 <= es' -> 8 * P45 * es' <= 7 * (P45 + E1) * es + E1 * (7 * S + 65536 * r) + 8 * P45 * (65536 + 1) ->
+  0 <= ev' -> 4 * P45 * ev' <= 3 * (P45 + E1) * ev + (P45 + E1) * es + E1 * (3 * V + Z.abs (S - 65536 * r)) + 4 * P45 * (65536 + 1) ->
+  tmpl 35184372088832 0 117440526 67108872 1392397500307826278400 S' V' es' ev'.
+Proof. unfold tmpl, P45, E1. intros. lia. Qed.
+Lemma inv1ms_10s_x2_step_23 S V es ev r S' V' es' ev' :
+  65536000000 <= S <= 655360000000000 -> 0 <= V <= 655360000000000 ->
+
+  tmpl 35184372088832 0 117440526 134217744 638004304566461267968 S V es ev ->
+  tmpl 35184372088832 0 134217744 67108872 956553882589610246144 S V es ev ->
+  tmpl 35184372088832 0 150994962 67108872 735349862692429103104 S V es ev ->
+  1000000 <= r <= 10000000000 -> 0 <= es -> 0 <= ev ->
+  8 * S' <= 7 * S + 65536 * r < 8 * S' + 8 ->
+  4 * V' <= 3 * V + Z.abs (S - 65536 * r) < 4 * V' + 4 ->
+  0 <= es' -> 8 * P45 * es' <= 7 * (P45 + E1) * es + E1 * (7 * S + 65536 * r) + 8 * P45 * (65536 + 1) ->
+  0 <= ev' -> 4 * P45 * ev' <= 3 * (P45 + E1) * ev + (P45 + E1) * es + E1 * (3 * V + Z.abs (S - 65536 * r)) + 4 * P45 * (65536 + 1) ->
+  tmpl 35184372088832 0 117440526 134217744 638004304566461267968 S' V' es' ev'.
+Proof. unfold tmpl, P45, E1. intros. lia. Qed.
+Lemma inv1ms_10s_x2_step_24 S V es ev r S' V' es' ev' :
+  65536000000 <= S <= 655360000000000 -> 0 <= V <= 655360000000000 ->
+
+  tmpl 35184372088832 0 117440526 0 7587357747373541425152 S V es ev ->
+  tmpl 35184372088832 0 134217744 0 5903629511765034795008 S V es ev ->
+  tmpl 35184372088832 0 150994962 0 4593880170878093754368 S V es ev ->
+  1000000 <= r <= 10000000000 -> 0 <= es -> 0 <= ev ->
+  8 * S' <= 7 * S + 65536 * r < 8 * S' + 8 ->
+  4 * V' <= 3 * V + Z.abs (S - 65536 * r) < 4 * V' + 4 ->
+  0 <= es' -> 8 * P45 * es' <= 7 * (P45 + E1) * es + E1 * (7 * S + 65536 * r) + 8 * P45 * (65536 + 1) ->
+  0 <= ev' -> 4 * P45 * ev' <= 3 * (P45 + E1) * ev + (P45 + E1) * es + E1 * (3 * V + Z.abs (S - 65536 * r)) + 4 * P45 * (65536 + 1) ->
+  tmpl 35184372088832 0 134217744 0 5903629511765034795008 S' V' es' ev'.
+Proof. unfold tmpl, P45, E1. intros. lia. Qed.
+Lemma inv1ms_10s_x2_step_25 S V es ev r S' V' es' ev' :
+  65536000000 <= S <= 655360000000000 -> 0 <= V <= 655360000000000 ->
+
+  tmpl 35184372088832 0 117440526 33554436 3057196847105324875776 S V es ev ->
+  tmpl 35184372088832 0 134217744 33554436 2323499913678736064512 S V es ev ->
+  tmpl 35184372088832 0 184549398 0 2783008425064852881408 S V es ev ->
+  tmpl 35184372088832 0 201326616 0 2167778142442430398464 S V es ev ->
+  1000000 <= r <= 10000000000 -> 0 <= es -> 0 <= ev ->
+  8 * S' <= 7 * S + 65536 * r < 8 * S' + 8 ->
+  4 * V' <= 3 * V + Z.abs (S - 65536 * r) < 4 * V' + 4 ->
+  0 <= es' -> 8 * P45 * es' <= 7 * (P45 + E1) * es + E1 * (7 * S + 65536 * r) + 8 * P45 * (65536 + 1) ->
+  0 <= ev' -> 4 * P45 * ev' <= 3 * (P45 + E1) * ev + (P45 + E1) * es + E1 * (3 * V + Z.abs (S - 65536 * r)) + 4 * P45 * (65536 + 1) ->
+  tmpl 35184372088832 0 134217744 33554436 2323499913678736064512 S' V' es' ev'.
+Proof. unfold tmpl, P45, E1. intros. lia. Qed.
+Lemma inv1ms_10s_x2_step_26 S V es ev r S' V' es' ev' :
+  65536000000 <= S <= 655360000000000 -> 0 <= V <= 655360000000000 ->
+
+  tmpl 35184372088832 0 134217744 67108872 956553882589610246144 S V es ev ->
+  tmpl 35184372088832 0 150994962 33554436 1780830728266532519936 S V es ev ->
+  tmpl 35184372088832 0 167772180 33554436 1376752832968567291904 S V es ev ->
+  1000000 <= r <= 10000000000 -> 0 <= es -> 0 <= ev ->
+  8 * S' <= 7 * S + 65536 * r < 8 * S' + 8 ->
+  4 * V' <= 3 * V + Z.abs (S - 65536 * r) < 4 * V' + 4 ->
+  0 <= es' -> 8 * P45 * es' <= 7 * (P45 + E1) * es + E1 * (7 * S + 65536 * r) + 8 * P45 * (65536 + 1) ->
+  0 <= ev' -> 4 * P45 * ev' <= 3 * (P45 + E1) * ev + (P45 + E1) * es + E1 * (3 * V + Z.abs (S - 65536 * r)) + 4 * P45 * (65536 + 1) ->
+  tmpl 35184372088832 0 134217744 67108872 956553882589610246144 S' V' es' ev'.
+Proof. unfold tmpl, P45, E1. intros. lia. Qed.
+Lemma inv1ms_10s_x2_step_27 S V es ev r S' V' es' ev' :
+  65536000000 <= S <= 655360000000000 -> 0 <= V <= 655360000000000 ->
+
+  tmpl 35184372088832 0 134217744 134217744 503140616911589605376 S V es ev ->
+  tmpl 35184372088832 0 150994962 67108872 735349862692429103104 S V es ev ->
+  tmpl 35184372088832 0 167772180 67108872 603025293721173491712 S V es ev ->
+  1000000 <= r <= 10000000000 -> 0 <= es -> 0 <= ev ->
+  8 * S' <= 7 * S + 65536 * r < 8 * S' + 8 ->
+  4 * V' <= 3 * V + Z.abs (S - 65536 * r) < 4 * V' + 4 ->
+  0 <= es' -> 8 * P45 * es' <= 7 * (P45 + E1) * es + E1 * (7 * S + 65536 * r) + 8 * P45 * (65536 + 1) ->
+  0 <= ev' -> 4 * P45 * ev' <= 3 * (P45 + E1) * ev + (P45 + E1) * es + E1 * (3 * V + Z.abs (S - 65536 * r)) + 4 * P45 * (65536 + 1) ->
+  tmpl 35184372088832 0 134217744 134217744 503140616911589605376 S' V' es' ev'.
+Proof. unfold tmpl, P45, E1. intros. lia. Qed.
+Lemma inv1ms_10s_x2_step_28 S V es ev r S' V' es' ev' :
+  65536000000 <= S <= 655360000000000 -> 0 <= V <= 655360000000000 ->
+
+  tmpl 35184372088832 0 134217744 0 5903629511765034795008 S V es ev ->
+  tmpl 35184372088832 0 150994962 0 4593880170878093754368 S V es ev ->
+  tmpl 35184372088832 0 167772180 0 3575128462191098855424 S V es ev ->
+  1000000 <= r <= 10000000000 -> 0 <= es -> 0 <= ev ->
+  8 * S' <= 7 * S + 65536 * r < 8 * S' + 8 ->
+  4 * V' <= 3 * V + Z.abs (S - 65536 * r) < 4 * V' + 4 ->
+  0 <= es' -> 8 * P45 * es' <= 7 * (P45 + E1) * es + E1 * (7 * S + 65536 * r) + 8 * P45 * (65536 + 1) ->
+  0 <= ev' -> 4 * P45 * ev' <= 3 * (P45 + E1) * ev + (P45 + E1) * es + E1 * (3 * V + Z.abs (S - 65536 * r)) + 4 * P45 * (65536 + 1) ->
+  tmpl 35184372088832 0 150994962 0 4593880170878093754368 S' V' es' ev'.
+Proof. unfold tmpl, P45, E1. intros. lia. Qed.
+Lemma inv1ms_10s_x2_step_29 S V es ev r S' V' es' ev' :
+  65536000000 <= S <= 655360000000000 -> 0 <= V <= 655360000000000 ->
+
+  tmpl 35184372088832 0 134217744 33554436 2323499913678736064512 S V es ev ->
+  tmpl 35184372088832 0 150994962 33554436 1780830728266532519936 S V es ev ->
+  tmpl 35184372088832 0 167772180 33554436 1376752832968567291904 S V es ev ->
+  tmpl 35184372088832 0 201326616 0 2167778142442430398464 S V es ev ->
+  tmpl 35184372088832 0 218103834 0 1691237027911668858880 S V es ev ->
+  1000000 <= r <= 10000000000 -> 0 <= es -> 0 <= ev ->
+  8 * S' <= 7 * S + 65536 * r < 8 * S' + 8 ->
+  4 * V' <= 3 * V + Z.abs (S - 65536 * r) < 4 * V' + 4 ->
+  0 <= es' -> 8 * P45 * es' <= 7 * (P45 + E1) * es + E1 * (7 * S + 65536 * r) + 8 * P45 * (65536 + 1) ->
+  0 <= ev' -> 4 * P45 * ev' <= 3 * (P45 + E1) * ev + (P45 + E1) * es + E1 * (3 * V + Z.abs (S - 65536 * r)) + 4 * P45 * (65536 + 1) ->
+  tmpl 35184372088832 0 150994962 33554436 1780830728266532519936 S' V' es' ev'.
+Proof. unfold tmpl, P45, E1. intros. lia. Qed.
+Lemma inv1ms_10s_x2_step_30 S V es ev r S' V' es' ev' :
+  65536000000 <= S <= 655360000000000 -> 0 <= V <= 655360000000000 ->
+
+  tmpl 35184372088832 0 150994962 67108872 735349862692429103104 S V es ev ->
+  tmpl 35184372088832 0 184549398 33554436 1076261479053444775936 S V es ev ->
+  tmpl 35184372088832 0 201326616 33554436 855284050725237293056 S V es ev ->
+  1000000 <= r <= 10000000000 -> 0 <= es -> 0 <= ev ->
+  8 * S' <= 7 * S + 65536 * r < 8 * S' + 8 ->
+  4 * V' <= 3 * V + Z.abs (S - 65536 * r) < 4 * V' + 4 ->
+  0 <= es' -> 8 * P45 * es' <= 7 * (P45 + E1) * es + E1 * (7 * S + 65536 * r) + 8 * P45 * (65536 + 1) ->
+  0 <= ev' -> 4 * P45 * ev' <= 3 * (P45 + E1) * ev + (P45 + E1) * es + E1 * (3 * V + Z.abs (S - 65536 * r)) + 4 * P45 * (65536 + 1) ->
+  tmpl 35184372088832 0 150994962 67108872 735349862692429103104 S' V' es' ev'.
+Proof. unfold tmpl, P45, E1. intros. lia. Qed.
+Lemma inv1ms_10s_x2_step_31 S V es ev r S' V' es' ev' :
+  65536000000 <= S <= 655360000000000 -> 0 <= V <= 655360000000000 ->
+
+  tmpl 35184372088832 0 150994962 134217744 452788200894424154112 S V es ev ->
+  tmpl 35184372088832 0 184549398 67108872 521973376186056048640 S V es ev ->
+  tmpl 35184372088832 0 201326616 67108872 473208051071678021632 S V es ev ->
+  1000000 <= r <= 10000000000 -> 0 <= es -> 0 <= ev ->
+  8 * S' <= 7 * S + 65536 * r < 8 * S' + 8 ->
+  4 * V' <= 3 * V + Z.abs (S - 65536 * r) < 4 * V' + 4 ->
+  0 <= es' -> 8 * P45 * es' <= 7 * (P45 + E1) * es + E1 * (7 * S + 65536 * r) + 8 * P45 * (65536 + 1) ->
+  0 <= ev' -> 4 * P45 * ev' <= 3 * (P45 + E1) * ev + (P45 + E1) * es + E1 * (3 * V + Z.abs (S - 65536 * r)) + 4 * P45 * (65536 + 1) ->
+  tmpl 35184372088832 0 150994962 134217744 452788200894424154112 S' V' es' ev'.
+Proof. unfold tmpl, P45, E1. intros. lia. Qed.
+Lemma inv1ms_10s_x2_step_32 S V es ev r S' V' es' ev' :
+  65536000000 <= S <= 655360000000000 -> 0 <= V <= 655360000000000 ->
+
+  tmpl 35184372088832 0 150994962 0 4593880170878093754368 S V es ev ->
+  tmpl 35184372088832 0 167772180 0 3575128462191098855424 S V es ev ->
+  tmpl 35184372088832 0 184549398 0 2783008425064852881408 S V es ev ->
+  1000000 <= r <= 10000000000 -> 0 <= es -> 0 <= ev ->
+  8 * S' <= 7 * S + 65536 * r < 8 * S' + 8 ->
+  4 * V' <= 3 * V + Z.abs (S - 65536 * r) < 4 * V' + 4 ->
+  0 <= es' -> 8 * P45 * es' <= 7 * (P45 + E1) * es + E1 * (7 * S + 65536 * r) + 8 * P45 * (65536 + 1) ->
+  0 <= ev' -> 4 * P45 * ev' <= 3 * (P45 + E1) * ev + (P45 + E1) * es + E1 * (3 * V + Z.abs (S - 65536 * r)) + 4 * P45 * (65536 + 1) ->
+  tmpl 35184372088832 0 167772180 0 3575128462191098855424 S' V' es' ev'.
+Proof. unfold tmpl, P45, E1. intros. lia. Qed.
+Lemma inv1ms_10s_x2_step_33 S V es ev r S' V' es' ev' :
+  65536000000 <= S <= 655360000000000 -> 0 <= V <= 655360000000000 ->
+
+  tmpl 35184372088832 0 150994962 33554436 1780830728266532519936 S V es ev ->
+  tmpl 35184372088832 0 167772180 33554436 1376752832968567291904 S V es ev ->
+  tmpl 35184372088832 0 184549398 33554436 1076261479053444775936 S V es ev ->
+  tmpl 35184372088832 0 218103834 0 1691237027911668858880 S V es ev ->
+  tmpl 35184372088832 0 234881052 0 1324270201534905581568 S V es ev ->
+  1000000 <= r <= 10000000000 -> 0 <= es -> 0 <= ev ->
+  8 * S' <= 7 * S + 65536 * r < 8 * S' + 8 ->
+  4 * V' <= 3 * V + Z.abs (S - 65536 * r) < 4 * V' + 4 ->
+  0 <= es' -> 8 * P45 * es' <= 7 * (P45 + E1) * es + E1 * (7 * S + 65536 * r) + 8 * P45 * (65536 + 1) ->
+  0 <= ev' -> 4 * P45 * ev' <= 3 * (P45 + E1) * ev + (P45 + E1) * es + E1 * (3 * V + Z.abs (S - 65536 * r)) + 4 * P45 * (65536 + 1) ->
+  tmpl 35184372088832 0 167772180 33554436 1376752832968567291904 S' V' es' ev'.
+Proof. unfold tmpl, P45, E1. intros. lia. Qed.
+Lemma inv1ms_10s_x2_step_34 S V es ev r S' V' es' ev' :
+  65536000000 <= S <= 655360000000000 -> 0 <= V <= 655360000000000 ->
+
+  tmpl 35184372088832 0 150994962 67108872 735349862692429103104 S V es ev ->
+  tmpl 35184372088832 0 167772180 67108872 603025293721173491712 S V es ev ->
+  tmpl 35184372088832 0 218103834 33554436 696408726767139946496 S V es ev ->
+  1000000 <= r <= 10000000000 -> 0 <= es -> 0 <= ev ->
+  8 * S' <= 7 * S + 65536 * r < 8 * S' + 8 ->
+  4 * V' <= 3 * V + Z.abs (S - 65536 * r) < 4 * V' + 4 ->
+  0 <= es' -> 8 * P45 * es' <= 7 * (P45 + E1) * es + E1 * (7 * S + 65536 * r) + 8 * P45 * (65536 + 1) ->
+  0 <= ev' -> 4 * P45 * ev' <= 3 * (P45 + E1) * ev + (P45 + E1) * es + E1 * (3 * V + Z.abs (S - 65536 * r)) + 4 * P45 * (65536 + 1) ->
+  tmpl 35184372088832 0 167772180 67108872 603025293721173491712 S' V' es' ev'.
+Proof. unfold tmpl, P45, E1. intros. lia. Qed.
+Lemma inv1ms_10s_x2_step_35 S V es ev r S' V' es' ev' :
+  65536000000 <= S <= 655360000000000 -> 0 <= V <= 655360000000000 ->
+
+  tmpl 35184372088832 0 150994962 134217744 452788200894424154112 S V es ev ->
+  tmpl 35184372088832 0 167772180 134217744 430864850289764204544 S V es ev ->
+  tmpl 35184372088832 0 218103834 67108872 445095930282367057920 S V es ev ->
+  1000000 <= r <= 10000000000 -> 0 <= es -> 0 <= ev ->
+  8 * S' <= 7 * S + 65536 * r < 8 * S' + 8 ->
+  4 * V' <= 3 * V + Z.abs (S - 65536 * r) < 4 * V' + 4 ->
+  0 <= es' -> 8 * P45 * es' <= 7 * (P45 + E1) * es + E1 * (7 * S + 65536 * r) + 8 * P45 * (65536 + 1) ->
+  0 <= ev' -> 4 * P45 * ev' <= 3 * (P45 + E1) * ev + (P45 + E1) * es + E1 * (3 * V + Z.abs (S - 65536 * r)) + 4 * P45 * (65536 + 1) ->
+  tmpl 35184372088832 0 167772180 134217744 430864850289764204544 S' V' es' ev'.
+Proof. unfold tmpl, P45, E1. intros. lia. Qed.
+Lemma inv1ms_10s_x2_step_36 S V es ev r S' V' es' ev' :
+  65536000000 <= S <= 655360000000000 -> 0 <= V <= 655360000000000 ->
+
+  tmpl 35184372088832 0 167772180 0 3575128462191098855424 S V es ev ->
+  tmpl 35184372088832 0 184549398 0 2783008425064852881408 S V es ev ->
+  tmpl 35184372088832 0 201326616 0 2167778142442430398464 S V es ev ->
+  1000000 <= r <= 10000000000 -> 0 <= es -> 0 <= ev ->
+  8 * S' <= 7 * S + 65536 * r < 8 * S' + 8 ->
+  4 * V' <= 3 * V + Z.abs (S - 65536 * r) < 4 * V' + 4 ->
+  0 <= es' -> 8 * P45 * es' <= 7 * (P45 + E1) * es + E1 * (7 * S + 65536 * r) + 8 * P45 * (65536 + 1) ->
+  0 <= ev' -> 4 * P45 * ev' <= 3 * (P45 + E1) * ev + (P45 + E1) * es + E1 * (3 * V + Z.abs (S - 65536 * r)) + 4 * P45 * (65536 + 1) ->
+  tmpl 35184372088832 0 184549398 0 2783008425064852881408 S' V' es' ev'.
+Proof. unfold tmpl, P45, E1. intros. lia. Qed.
+Lemma inv1ms_10s_x2_step_37 S V es ev r S' V' es' ev' :
+  65536000000 <= S <= 655360000000000 -> 0 <= V <= 655360000000000 ->
+
+  tmpl 35184372088832 0 167772180 33554436 1376752832968567291904 S V es ev ->
+  tmpl 35184372088832 0 184549398 33554436 1076261479053444775936 S V es ev ->
+  tmpl 35184372088832 0 201326616 33554436 855284050725237293056 S V es ev ->
+  tmpl 35184372088832 0 234881052 0 1324270201534905581568 S V es ev ->
+  tmpl 35184372088832 0 251658270 0 1044768569007752609792 S V es ev ->
+  1000000 <= r <= 10000000000 -> 0 <= es -> 0 <= ev ->
+  8 * S' <= 7 * S + 65536 * r < 8 * S' + 8 ->
+  4 * V' <= 3 * V + Z.abs (S - 65536 * r) < 4 * V' + 4 ->
+  0 <= es' -> 8 * P45 * es' <= 7 * (P45 + E1) * es + E1 * (7 * S + 65536 * r) + 8 * P45 * (65536 + 1) ->
+  0 <= ev' -> 4 * P45 * ev' <= 3 * (P45 + E1) * ev + (P45 + E1) * es + E1 * (3 * V + Z.abs (S - 65536 * r)) + 4 * P45 * (65536 + 1) ->
+  tmpl 35184372088832 0 184549398 33554436 1076261479053444775936 S' V' es' ev'.
+Proof. unfold tmpl, P45, E1. intros. lia. Qed.
+Lemma inv1ms_10s_x2_step_38 S V es ev r S' V' es' ev' :
+  65536000000 <= S <= 655360000000000 -> 0 <= V <= 655360000000000 ->
+
+  tmpl 35184372088832 0 167772180 67108872 603025293721173491712 S V es ev ->
+  tmpl 35184372088832 0 184549398 67108872 521973376186056048640 S V es ev ->
+  tmpl 35184372088832 0 234881052 33554436 586078435578727170048 S V es ev ->
+  tmpl 35184372088832 0 251658270 33554436 512917489051729657856 S V es ev ->
+  1000000 <= r <= 10000000000 -> 0 <= es -> 0 <= ev ->
+  8 * S' <= 7 * S + 65536 * r < 8 * S' + 8 ->
+  4 * V' <= 3 * V + Z.abs (S - 65536 * r) < 4 * V' + 4 ->
+  0 <= es' -> 8 * P45 * es' <= 7 * (P45 + E1) * es + E1 * (7 * S + 65536 * r) + 8 * P45 * (65536 + 1) ->
+  0 <= ev' -> 4 * P45 * ev' <= 3 * (P45 + E1) * ev + (P45 + E1) * es + E1 * (3 * V + Z.abs (S - 65536 * r)) + 4 * P45 * (65536 + 1) ->
+  tmpl 35184372088832 0 184549398 67108872 521973376186056048640 S' V' es' ev'.
+Proof. unfold tmpl, P45, E1. intros. lia. Qed.
+Lemma inv1ms_10s_x2_step_39 S V es ev r S' V' es' ev' :
+  65536000000 <= S <= 655360000000000 -> 0 <= V <= 655360000000000 ->
+
+  tmpl 35184372088832 0 167772180 134217744 430864850289764204544 S V es ev ->
+  tmpl 35184372088832 0 184549398 134217744 423707037134557872128 S V es ev ->
+  tmpl 35184372088832 0 251658270 67108872 421949896361342402560 S V es ev ->
+  1000000 <= r <= 10000000000 -> 0 <= es -> 0 <= ev ->
+  8 * S' <= 7 * S + 65536 * r < 8 * S' + 8 ->
+  4 * V' <= 3 * V + Z.abs (S - 65536 * r) < 4 * V' + 4 ->
+  0 <= es' -> 8 * P45 * es' <= 7 * (P45 + E1) * es + E1 * (7 * S + 65536 * r) + 8 * P45 * (65536 + 1) ->
+  0 <= ev' -> 4 * P45 * ev' <= 3 * (P45 + E1) * ev + (P45 + E1) * es + E1 * (3 * V + Z.abs (S - 65536 * r)) + 4 * P45 * (65536 + 1) ->
+  tmpl 35184372088832 0 184549398 134217744 423707037134557872128 S' V' es' ev'.
+Proof. unfold tmpl, P45, E1. intros. lia. Qed.
+Lemma inv1ms_10s_x2_step_40 S V es ev r S' V' es' ev' :
+  65536000000 <= S <= 655360000000000 -> 0 <= V <= 655360000000000 ->
+
+  tmpl 35184372088832 0 184549398 0 2783008425064852881408 S V es ev ->
+  tmpl 35184372088832 0 201326616 0 2167778142442430398464 S V es ev ->
+  tmpl 35184372088832 0 218103834 0 1691237027911668858880 S V es ev ->
+  tmpl 35184372088832 0 234881052 0 1324270201534905581568 S V es ev ->
+  1000000 <= r <= 10000000000 -> 0 <= es -> 0 <= ev ->
+  8 * S' <= 7 * S + 65536 * r < 8 * S' + 8 ->
+  4 * V' <= 3 * V + Z.abs (S - 65536 * r) < 4 * V' + 4 ->
+  0 <= es' -> 8 * P45 * es' <= 7 * (P45 + E1) * es + E1 * (7 * S + 65536 * r) + 8 * P45 * (65536 + 1) ->
+  0 <= ev' -> 4 * P45 * ev' <= 3 * (P45 + E1) * ev + (P45 + E1) * es + E1 * (3 * V + Z.abs (S - 65536 * r)) + 4 * P45 * (65536 + 1) ->
+  tmpl 35184372088832 0 201326616 0 2167778142442430398464 S' V' es' ev'.
+Proof. unfold tmpl, P45, E1. intros. lia. Qed.
+Lemma inv1ms_10s_x2_step_41 S V es ev r S' V' es' ev' :
+  65536000000 <= S <= 655360000000000 -> 0 <= V <= 655360000000000 ->
+
+  tmpl 35184372088832 0 184549398 33554436 1076261479053444775936 S V es ev ->
+  tmpl 35184372088832 0 201326616 33554436 855284050725237293056 S V es ev ->
+  tmpl 35184372088832 0 218103834 33554436 696408726767139946496 S V es ev ->
+  tmpl 35184372088832 0 251658270 0 1044768569007752609792 S V es ev ->
+  tmpl 35184372088832 0 268435488 0 835760252043128864768 S V es ev ->
+  1000000 <= r <= 10000000000 -> 0 <= es -> 0 <= ev ->
+  8 * S' <= 7 * S + 65536 * r < 8 * S' + 8 ->
+  4 * V' <= 3 * V + Z.abs (S - 65536 * r) < 4 * V' + 4 ->
+  0 <= es' -> 8 * P45 * es' <= 7 * (P45 + E1) * es + E1 * (7 * S + 65536 * r) + 8 * P45 * (65536 + 1) ->
+  0 <= ev' -> 4 * P45 * ev' <= 3 * (P45 + E1) * ev + (P45 + E1) * es + E1 * (3 * V + Z.abs (S - 65536 * r)) + 4 * P45 * (65536 + 1) ->
+  tmpl 35184372088832 0 201326616 33554436 855284050725237293056 S' V' es' ev'.
+Proof. unfold tmpl, P45, E1. intros. lia. Qed.
+Lemma inv1ms_10s_x2_step_42 S V es ev r S' V' es' ev' :
+  65536000000 <= S <= 655360000000000 -> 0 <= V <= 655360000000000 ->
+
+  tmpl 35184372088832 0 184549398 67108872 521973376186056048640 S V es ev ->
+  tmpl 35184372088832 0 201326616 67108872 473208051071678021632 S V es ev ->
+  tmpl 35184372088832 0 251658270 33554436 512917489051729657856 S V es ev ->
+  tmpl 35184372088832 0 268435488 33554436 466908909921199849472 S V es ev ->
+  tmpl 35184372088832 0 318767142 0 506330039654348357632 S V es ev ->
+  1000000 <= r <= 10000000000 -> 0 <= es -> 0 <= ev ->
+  8 * S' <= 7 * S + 65536 * r < 8 * S' + 8 ->
+  4 * V' <= 3 * V + Z.abs (S - 65536 * r) < 4 * V' + 4 ->
+  0 <= es' -> 8 * P45 * es' <= 7 * (P45 + E1) * es + E1 * (7 * S + 65536 * r) + 8 * P45 * (65536 + 1) ->
+  0 <= ev' -> 4 * P45 * ev' <= 3 * (P45 + E1) * ev + (P45 + E1) * es + E1 * (3 * V + Z.abs (S - 65536 * r)) + 4 * P45 * (65536 + 1) ->
+  tmpl 35184372088832 0 201326616 67108872 473208051071678021632 S' V' es' ev'.
+Proof. unfold tmpl, P45, E1. intros. lia. Qed.
+Lemma inv1ms_10s_x2_step_43 S V es ev r S' V' es' ev' :
+  65536000000 <= S <= 655360000000000 -> 0 <= V <= 655360000000000 ->
+
+  tmpl 35184372088832 0 184549398 134217744 423707037134557872128 S V es ev ->
+  tmpl 35184372088832 0 201326616 134217744 420943995444282654720 S V es ev ->
+  tmpl 35184372088832 0 268435488 67108872 417895734580347142144 S V es ev ->
+  1000000 <= r <= 10000000000 -> 0 <= es -> 0 <= ev ->
+  8 * S' <= 7 * S + 65536 * r < 8 * S' + 8 ->
+  4 * V' <= 3 * V + Z.abs (S - 65536 * r) < 4 * V' + 4 ->
+  0 <= es' -> 8 * P45 * es' <= 7 * (P45 + E1) * es + E1 * (7 * S + 65536 * r) + 8 * P45 * (65536 + 1) ->
+  0 <= ev' -> 4 * P45 * ev' <= 3 * (P45 + E1) * ev + (P45 + E1) * es + E1 * (3 * V + Z.abs (S - 65536 * r)) + 4 * P45 * (65536 + 1) ->
+  tmpl 35184372088832 0 201326616 134217744 420943995444282654720 S' V' es' ev'.
+Proof. unfold tmpl, P45, E1. intros. lia. Qed.
+Lemma inv1ms_10s_x2_step_44 S V es ev r S' V' es' ev' :
+  65536000000 <= S <= 655360000000000 -> 0 <= V <= 655360000000000 ->
+
+  tmpl 35184372088832 0 201326616 0 2167778142442430398464 S V es ev ->
+  tmpl 35184372088832 0 218103834 0 1691237027911668858880 S V es ev ->
+  tmpl 35184372088832 0 234881052 0 1324270201534905581568 S V es ev ->
+  tmpl 35184372088832 0 251658270 0 1044768569007752609792 S V es ev ->
+  1000000 <= r <= 10000000000 -> 0 <= es -> 0 <= ev ->
+  8 * S' <= 7 * S + 65536 * r < 8 * S' + 8 ->
+  4 * V' <= 3 * V + Z.abs (S - 65536 * r) < 4 * V' + 4 ->
+  0 <= es' -> 8 * P45 * es' <= 7 * (P45 + E1) * es + E1 * (7 * S + 65536 * r) + 8 * P45 * (65536 + 1) ->
+  0 <= ev' -> 4 * P45 * ev' <= 3 * (P45 + E1) * ev + (P45 + E1) * es + E1 * (3 * V + Z.abs (S - 65536 * r)) + 4 * P45 * (65536 + 1) ->
+  tmpl 35184372088832 0 218103834 0 1691237027911668858880 S' V' es' ev'.
+Proof. unfold tmpl, P45, E1. intros. lia. Qed.
+Lemma inv1ms_10s_x2_step_45 S V es ev r S' V' es' ev' :
+  65536000000 <= S <= 655360000000000 -> 0 <= V <= 655360000000000 ->
+
+  tmpl 35184372088832 0 201326616 33554436 855284050725237293056 S V es ev ->
+  tmpl 35184372088832 0 218103834 33554436 696408726767139946496 S V es ev ->
+  tmpl 35184372088832 0 234881052 33554436 586078435578727170048 S V es ev ->
+  tmpl 35184372088832 0 268435488 0 835760252043128864768 S V es ev ->
+  tmpl 35184372088832 0 285212706 0 683736837848755732480 S V es ev ->
+  1000000 <= r <= 10000000000 -> 0 <= es -> 0 <= ev ->
+  8 * S' <= 7 * S + 65536 * r < 8 * S' + 8 ->
+  4 * V' <= 3 * V + Z.abs (S - 65536 * r) < 4 * V' + 4 ->
+  0 <= es' -> 8 * P45 * es' <= 7 * (P45 + E1) * es + E1 * (7 * S + 65536 * r) + 8 * P45 * (65536 + 1) ->
+  0 <= ev' -> 4 * P45 * ev' <= 3 * (P45 + E1) * ev + (P45 + E1) * es + E1 * (3 * V + Z.abs (S - 65536 * r)) + 4 * P45 * (65536 + 1) ->
+  tmpl 35184372088832 0 218103834 33554436 696408726767139946496 S' V' es' ev'.
+Proof. unfold tmpl, P45, E1. intros. lia. Qed.
+Lemma inv1ms_10s_x2_step_46 S V es ev r S' V' es' ev' :
+  65536000000 <= S <= 655360000000000 -> 0 <= V <= 655360000000000 ->
+
+  tmpl 35184372088832 0 201326616 67108872 473208051071678021632 S V es ev ->
+  tmpl 35184372088832 0 218103834 67108872 445095930282367057920 S V es ev ->
+  tmpl 35184372088832 0 234881052 67108872 429840386666673209344 S V es ev ->
+  tmpl 35184372088832 0 268435488 33554436 466908909921199849472 S V es ev ->
+  tmpl 35184372088832 0 285212706 33554436 439992468694080028672 S V es ev ->
+  1000000 <= r <= 10000000000 -> 0 <= es -> 0 <= ev ->
+  8 * S' <= 7 * S + 65536 * r < 8 * S' + 8 ->
+  4 * V' <= 3 * V + Z.abs (S - 65536 * r) < 4 * V' + 4 ->
+  0 <= es' -> 8 * P45 * es' <= 7 * (P45 + E1) * es + E1 * (7 * S + 65536 * r) + 8 * P45 * (65536 + 1) ->
+  0 <= ev' -> 4 * P45 * ev' <= 3 * (P45 + E1) * ev + (P45 + E1) * es + E1 * (3 * V + Z.abs (S - 65536 * r)) + 4 * P45 * (65536 + 1) ->
+  tmpl 35184372088832 0 218103834 67108872 445095930282367057920 S' V' es' ev'.
+Proof. unfold tmpl, P45, E1. intros. lia. Qed.
+Lemma inv1ms_10s_x2_step_47 S V es ev r S' V' es' ev' :
+  65536000000 <= S <= 655360000000000 -> 0 <= V <= 655360000000000 ->
+
+  tmpl 35184372088832 0 201326616 134217744 420943995444282654720 S V es ev ->
+  tmpl 35184372088832 0 218103834 134217744 419529804771080273920 S V es ev ->
+  tmpl 35184372088832 0 301989924 67108872 414140368914217566208 S V es ev ->
+  1000000 <= r <= 10000000000 -> 0 <= es -> 0 <= ev ->
+  8 * S' <= 7 * S + 65536 * r < 8 * S' + 8 ->
+  4 * V' <= 3 * V + Z.abs (S - 65536 * r) < 4 * V' + 4 ->
+  0 <= es' -> 8 * P45 * es' <= 7 * (P45 + E1) * es + E1 * (7 * S + 65536 * r) + 8 * P45 * (65536 + 1) ->
+  0 <= ev' -> 4 * P45 * ev' <= 3 * (P45 + E1) * ev + (P45 + E1) * es + E1 * (3 * V + Z.abs (S - 65536 * r)) + 4 * P45 * (65536 + 1) ->
+  tmpl 35184372088832 0 218103834 134217744 419529804771080273920 S' V' es' ev'.
+Proof. unfold tmpl, P45, E1. intros. lia. Qed.
+Lemma inv1ms_10s_x2_step_48 S V es ev r S' V' es' ev' :
+  65536000000 <= S <= 655360000000000 -> 0 <= V <= 655360000000000 ->
+
+  tmpl 35184372088832 0 218103834 0 1691237027911668858880 S V es ev ->
+  tmpl 35184372088832 0 234881052 0 1324270201534905581568 S V es ev ->
+  tmpl 35184372088832 0 251658270 0 1044768569007752609792 S V es ev ->
+  tmpl 35184372088832 0 268435488 0 835760252043128864768 S V es ev ->
+  1000000 <= r <= 10000000000 -> 0 <= es -> 0 <= ev ->
+  8 * S' <= 7 * S + 65536 * r < 8 * S' + 8 ->
+  4 * V' <= 3 * V + Z.abs (S - 65536 * r) < 4 * V' + 4 ->
+  0 <= es' -> 8 * P45 * es' <= 7 * (P45 + E1) * es + E1 * (7 * S + 65536 * r) + 8 * P45 * (65536 + 1) ->
+  0 <= ev' -> 4 * P45 * ev' <= 3 * (P45 + E1) * ev + (P45 + E1) * es + E1 * (3 * V + Z.abs (S - 65536 * r)) + 4 * P45 * (65536 + 1) ->
+  tmpl 35184372088832 0 234881052 0 1324270201534905581568 S' V' es' ev'.
+Proof. unfold tmpl, P45, E1. intros. lia. Qed.
+Lemma inv1ms_10s_x2_step_49 S V es ev r S' V' es' ev' :
+  65536000000 <= S <= 655360000000000 -> 0 <= V <= 655360000000000 ->
+
+  tmpl 35184372088832 0 218103834 33554436 696408726767139946496 S V es ev ->
+  tmpl 35184372088832 0 234881052 33554436 586078435578727170048 S V es ev ->
+  tmpl 35184372088832 0 251658270 33554436 512917489051729657856 S V es ev ->
+  tmpl 35184372088832 0 285212706 0 683736837848755732480 S V es ev ->
+  tmpl 35184372088832 0 301989924 0 577303779024326361088 S V es ev ->
+  1000000 <= r <= 10000000000 -> 0 <= es -> 0 <= ev ->
+  8 * S' <= 7 * S + 65536 * r < 8 * S' + 8 ->
+  4 * V' <= 3 * V + Z.abs (S - 65536 * r) < 4 * V' + 4 ->
+  0 <= es' -> 8 * P45 * es' <= 7 * (P45 + E1) * es + E1 * (7 * S + 65536 * r) + 8 * P45 * (65536 + 1) ->
+  0 <= ev' -> 4 * P45 * ev' <= 3 * (P45 + E1) * ev + (P45 + E1) * es + E1 * (3 * V + Z.abs (S - 65536 * r)) + 4 * P45 * (65536 + 1) ->
+  tmpl 35184372088832 0 234881052 33554436 586078435578727170048 S' V' es' ev'.
+Proof. unfold tmpl, P45, E1. intros. lia. Qed.
+Lemma inv1ms_10s_x2_step_50 S V es ev r S' V' es' ev' :
+  65536000000 <= S <= 655360000000000 -> 0 <= V <= 655360000000000 ->
+
+  tmpl 35184372088832 0 218103834 67108872 445095930282367057920 S V es ev ->
+  tmpl 35184372088832 0 234881052 67108872 429840386666673209344 S V es ev ->
+  tmpl 35184372088832 0 251658270 67108872 421949896361342402560 S V es ev ->
+  tmpl 35184372088832 0 285212706 33554436 439992468694080028672 S V es ev ->
+  tmpl 35184372088832 0 301989924 33554436 425211489748926332928 S V es ev ->
+  1000000 <= r <= 10000000000 -> 0 <= es -> 0 <= ev ->
+  8 * S' <= 7 * S + 65536 * r < 8 * S' + 8 ->
+  4 * V' <= 3 * V + Z.abs (S - 65536 * r) < 4 * V' + 4 ->
+  0 <= es' -> 8 * P45 * es' <= 7 * (P45 + E1) * es + E1 * (7 * S + 65536 * r) + 8 * P45 * (65536 + 1) ->
+  0 <= ev' -> 4 * P45 * ev' <= 3 * (P45 + E1) * ev + (P45 + E1) * es + E1 * (3 * V + Z.abs (S - 65536 * r)) + 4 * P45 * (65536 + 1) ->
+  tmpl 35184372088832 0 234881052 67108872 429840386666673209344 S' V' es' ev'.
+Proof. unfold tmpl, P45, E1. intros. lia. Qed.
+Lemma inv1ms_10s_x2_step_51 S V es ev r S' V' es' ev' :
+  65536000000 <= S <= 655360000000000 -> 0 <= V <= 655360000000000 ->
+
+  tmpl 35184372088832 0 218103834 134217744 419529804771080273920 S V es ev ->
+  tmpl 35184372088832 0 234881052 134217744 418379935959914643456 S V es ev ->
+  tmpl 35184372088832 0 318767142 67108872 412918247040003670016 S V es ev ->
+  1000000 <= r <= 10000000000 -> 0 <= es -> 0 <= ev ->
+  8 * S' <= 7 * S + 65536 * r < 8 * S' + 8 ->
+  4 * V' <= 3 * V + Z.abs (S - 65536 * r) < 4 * V' + 4 ->
+  0 <= es' -> 8 * P45 * es' <= 7 * (P45 + E1) * es + E1 * (7 * S + 65536 * r) + 8 * P45 * (65536 + 1) ->
+  0 <= ev' -> 4 * P45 * ev' <= 3 * (P45 + E1) * ev + (P45 + E1) * es + E1 * (3 * V + Z.abs (S - 65536 * r)) + 4 * P45 * (65536 + 1) ->
+  tmpl 35184372088832 0 234881052 134217744 418379935959914643456 S' V' es' ev'.
+Proof. unfold tmpl, P45, E1. intros. lia. Qed.
+Lemma inv1ms_10s_x2_step_52 S V es ev r S' V' es' ev' :
+  65536000000 <= S <= 655360000000000 -> 0 <= V <= 655360000000000 ->
+
+  tmpl 35184372088832 0 234881052 0 1324270201534905581568 S V es ev ->
+  tmpl 35184372088832 0 251658270 0 1044768569007752609792 S V es ev ->
+  tmpl 35184372088832 0 268435488 0 835760252043128864768 S V es ev ->
+  tmpl 35184372088832 0 285212706 0 683736837848755732480 S V es ev ->
+  1000000 <= r <= 10000000000 -> 0 <= es -> 0 <= ev ->
+  8 * S' <= 7 * S + 65536 * r < 8 * S' + 8 ->
+  4 * V' <= 3 * V + Z.abs (S - 65536 * r) < 4 * V' + 4 ->
+  0 <= es' -> 8 * P45 * es' <= 7 * (P45 + E1) * es + E1 * (7 * S + 65536 * r) + 8 * P45 * (65536 + 1) ->
+  0 <= ev' -> 4 * P45 * ev' <= 3 * (P45 + E1) * ev + (P45 + E1) * es + E1 * (3 * V + Z.abs (S - 65536 * r)) + 4 * P45 * (65536 + 1) ->
+  tmpl 35184372088832 0 251658270 0 1044768569007752609792 S' V' es' ev'.
+Proof. unfold tmpl, P45, E1. intros. lia. Qed.
+Lemma inv1ms_10s_x2_step_53 S V es ev r S' V' es' ev' :
+  65536000000 <= S <= 655360000000000 -> 0 <= V <= 655360000000000 ->
+
+  tmpl 35184372088832 0 234881052 33554436 586078435578727170048 S V es ev ->
+  tmpl 35184372088832 0 251658270 33554436 512917489051729657856 S V es ev ->
+  tmpl 35184372088832 0 268435488 33554436 466908909921199849472 S V es ev ->
+  tmpl 35184372088832 0 301989924 0 577303779024326361088 S V es ev ->
+  tmpl 35184372088832 0 318767142 0 506330039654348357632 S V es ev ->
+  tmpl 35184372088832 0 335544360 0 461667282885208047616 S V es ev ->
+  1000000 <= r <= 10000000000 -> 0 <= es -> 0 <= ev ->
+  8 * S' <= 7 * S + 65536 * r < 8 * S' + 8 ->
+  4 * V' <= 3 * V + Z.abs (S - 65536 * r) < 4 * V' + 4 ->
+  0 <= es' -> 8 * P45 * es' <= 7 * (P45 + E1) * es + E1 * (7 * S + 65536 * r) + 8 * P45 * (65536 + 1) ->
+  0 <= ev' -> 4 * P45 * ev' <= 3 * (P45 + E1) * ev + (P45 + E1) * es + E1 * (3 * V + Z.abs (S - 65536 * r)) + 4 * P45 * (65536 + 1) ->
+  tmpl 35184372088832 0 251658270 33554436 512917489051729657856 S' V' es' ev'.
+Proof. unfold tmpl, P45, E1. intros. lia. Qed.
+Lemma inv1ms_10s_x2_step_54 S V es ev r S' V' es' ev' :
+  65536000000 <= S <= 655360000000000 -> 0 <= V <= 655360000000000 ->
+
+  tmpl 35184372088832 0 234881052 67108872 429840386666673209344 S V es ev ->
+  tmpl 35184372088832 0 251658270 67108872 421949896361342402560 S V es ev ->
+  tmpl 35184372088832 0 268435488 67108872 417895734580347142144 S V es ev ->
+  tmpl 35184372088832 0 301989924 33554436 425211489748926332928 S V es ev ->
+  tmpl 35184372088832 0 318767142 33554436 417486294775779491840 S V es ev ->
+  1000000 <= r <= 10000000000 -> 0 <= es -> 0 <= ev ->
+  8 * S' <= 7 * S + 65536 * r < 8 * S' + 8 ->
+  4 * V' <= 3 * V + Z.abs (S - 65536 * r) < 4 * V' + 4 ->
+  0 <= es' -> 8 * P45 * es' <= 7 * (P45 + E1) * es + E1 * (7 * S + 65536 * r) + 8 * P45 * (65536 + 1) ->
+  0 <= ev' -> 4 * P45 * ev' <= 3 * (P45 + E1) * ev + (P45 + E1) * es + E1 * (3 * V + Z.abs (S - 65536 * r)) + 4 * P45 * (65536 + 1) ->
+  tmpl 35184372088832 0 251658270 67108872 421949896361342402560 S' V' es' ev'.
+Proof. unfold tmpl, P45, E1. intros. lia. Qed.
+Lemma inv1ms_10s_x2_step_55 S V es ev r S' V' es' ev' :
+  65536000000 <= S <= 655360000000000 -> 0 <= V <= 655360000000000 ->
+
+  tmpl 35184372088832 0 234881052 134217744 418379935959914643456 S V es ev ->
+  tmpl 35184372088832 0 251658270 134217744 417275306438022135808 S V es ev ->
+  tmpl 35184372088832 0 352321578 67108872 410679428585932193792 S V es ev ->
+  1000000 <= r <= 10000000000 -> 0 <= es -> 0 <= ev ->
+  8 * S' <= 7 * S + 65536 * r < 8 * S' + 8 ->
+  4 * V' <= 3 * V + Z.abs (S - 65536 * r) < 4 * V' + 4 ->
+  0 <= es' -> 8 * P45 * es' <= 7 * (P45 + E1) * es + E1 * (7 * S + 65536 * r) + 8 * P45 * (65536 + 1) ->
+  0 <= ev' -> 4 * P45 * ev' <= 3 * (P45 + E1) * ev + (P45 + E1) * es + E1 * (3 * V + Z.abs (S - 65536 * r)) + 4 * P45 * (65536 + 1) ->
+  tmpl 35184372088832 0 251658270 134217744 417275306438022135808 S' V' es' ev'.
+Proof. unfold tmpl, P45, E1. intros. lia. Qed.
+Lemma inv1ms_10s_x2_step_56 S V es ev r S' V' es' ev' :
+  65536000000 <= S <= 655360000000000 -> 0 <= V <= 655360000000000 ->
+
+  tmpl 35184372088832 0 251658270 0 1044768569007752609792 S V es ev ->
+  tmpl 35184372088832 0 268435488 0 835760252043128864768 S V es ev ->
+  tmpl 35184372088832 0 285212706 0 683736837848755732480 S V es ev ->
+  tmpl 35184372088832 0 301989924 0 577303779024326361088 S V es ev ->
+  1000000 <= r <= 10000000000 -> 0 <= es -> 0 <= ev ->
+  8 * S' <= 7 * S + 65536 * r < 8 * S' + 8 ->
+  4 * V' <= 3 * V + Z.abs (S - 65536 * r) < 4 * V' + 4 ->
+  0 <= es' -> 8 * P45 * es' <= 7 * (P45 + E1) * es + E1 * (7 * S + 65536 * r) + 8 * P45 * (65536 + 1) ->
+  0 <= ev' -> 4 * P45 * ev' <= 3 * (P45 + E1) * ev + (P45 + E1) * es + E1 * (3 * V + Z.abs (S - 65536 * r)) + 4 * P45 * (65536 + 1) ->
+  tmpl 35184372088832 0 268435488 0 835760252043128864768 S' V' es' ev'.
+Proof. unfold tmpl, P45, E1. intros. lia. Qed.
+Lemma inv1ms_10s_x2_step_57 S V es ev r S' V' es' ev' :
+  65536000000 <= S <= 655360000000000 -> 0 <= V <= 655360000000000 ->
+
+  tmpl 35184372088832 0 201326616 67108872 473208051071678021632 S V es ev ->
+  tmpl 35184372088832 0 234881052 67108872 429840386666673209344 S V es ev ->
+  tmpl 35184372088832 0 268435488 33554436 466908909921199849472 S V es ev ->
+  tmpl 35184372088832 0 285212706 33554436 439992468694080028672 S V es ev ->
+  tmpl 35184372088832 0 318767142 0 506330039654348357632 S V es ev ->
+  tmpl 35184372088832 0 352321578 0 435312051427535486976 S V es ev ->
+  1000000 <= r <= 10000000000 -> 0 <= es -> 0 <= ev ->
+  8 * S' <= 7 * S + 65536 * r < 8 * S' + 8 ->
+  4 * V' <= 3 * V + Z.abs (S - 65536 * r) < 4 * V' + 4 ->
+  0 <= es' -> 8 * P45 * es' <= 7 * (P45 + E1) * es + E1 * (7 * S + 65536 * r) + 8 * P45 * (65536 + 1) ->
+  0 <= ev' -> 4 * P45 * ev' <= 3 * (P45 + E1) * ev + (P45 + E1) * es + E1 * (3 * V + Z.abs (S - 65536 * r)) + 4 * P45 * (65536 + 1) ->
+  tmpl 35184372088832 0 268435488 33554436 466908909921199849472 S' V' es' ev'.
+Proof. unfold tmpl, P45, E1. intros. lia. Qed.
+Lemma inv1ms_10s_x2_step_58 S V es ev r S' V' es' ev' :
+  65536000000 <= S <= 655360000000000 -> 0 <= V <= 655360000000000 ->
+
+  tmpl 35184372088832 0 251658270 67108872 421949896361342402560 S V es ev ->
+  tmpl 35184372088832 0 268435488 67108872 417895734580347142144 S V es ev ->
+  tmpl 35184372088832 0 285212706 67108872 415641293877169094656 S V es ev ->
+  tmpl 35184372088832 0 318767142 33554436 417486294775779491840 S V es ev ->
+  tmpl 35184372088832 0 335544360 33554436 413481710993207328768 S V es ev ->
+  1000000 <= r <= 10000000000 -> 0 <= es -> 0 <= ev ->
+  8 * S' <= 7 * S + 65536 * r < 8 * S' + 8 ->
+  4 * V' <= 3 * V + Z.abs (S - 65536 * r) < 4 * V' + 4 ->
+  0 <= es' -> 8 * P45 * es' <= 7 * (P45 + E1) * es + E1 * (7 * S + 65536 * r) + 8 * P45 * (65536 + 1) ->
+  0 <= ev' -> 4 * P45 * ev' <= 3 * (P45 + E1) * ev + (P45 + E1) * es + E1 * (3 * V + Z.abs (S - 65536 * r)) + 4 * P45 * (65536 + 1) ->
+  tmpl 35184372088832 0 268435488 67108872 417895734580347142144 S' V' es' ev'.
+Proof. unfold tmpl, P45, E1. intros. lia. Qed.
+Lemma inv1ms_10s_x2_step_59 S V es ev r S' V' es' ev' :
+  65536000000 <= S <= 655360000000000 -> 0 <= V <= 655360000000000 ->
+
+  tmpl 35184372088832 0 251658270 134217744 417275306438022135808 S V es ev ->
+  tmpl 35184372088832 0 268435488 134217744 416175383427740925952 S V es ev ->
+  tmpl 35184372088832 0 369098796 67108872 409578535372004851712 S V es ev ->
+  1000000 <= r <= 10000000000 -> 0 <= es -> 0 <= ev ->
+  8 * S' <= 7 * S + 65536 * r < 8 * S' + 8 ->
+  4 * V' <= 3 * V + Z.abs (S - 65536 * r) < 4 * V' + 4 ->
+  0 <= es' -> 8 * P45 * es' <= 7 * (P45 + E1) * es + E1 * (7 * S + 65536 * r) + 8 * P45 * (65536 + 1) ->
+  0 <= ev' -> 4 * P45 * ev' <= 3 * (P45 + E1) * ev + (P45 + E1) * es + E1 * (3 * V + Z.abs (S - 65536 * r)) + 4 * P45 * (65536 + 1) ->
+  tmpl 35184372088832 0 268435488 134217744 416175383427740925952 S' V' es' ev'.
+Proof. unfold tmpl, P45, E1. intros. lia. Qed.
+Lemma inv1ms_10s_x2_step_60 S V es ev r S' V' es' ev' :
+  65536000000 <= S <= 655360000000000 -> 0 <= V <= 655360000000000 ->
+
+  tmpl 35184372088832 0 268435488 0 835760252043128864768 S V es ev ->
+  tmpl 35184372088832 0 285212706 0 683736837848755732480 S V es ev ->
+  tmpl 35184372088832 0 301989924 0 577303779024326361088 S V es ev ->
+  tmpl 35184372088832 0 318767142 0 506330039654348357632 S V es ev ->
+  1000000 <= r <= 10000000000 -> 0 <= es -> 0 <= ev ->
+  8 * S' <= 7 * S + 65536 * r < 8 * S' + 8 ->
+  4 * V' <= 3 * V + Z.abs (S - 65536 * r) < 4 * V' + 4 ->
+  0 <= es' -> 8 * P45 * es' <= 7 * (P45 + E1) * es + E1 * (7 * S + 65536 * r) + 8 * P45 * (65536 + 1) ->
+  0 <= ev' -> 4 * P45 * ev' <= 3 * (P45 + E1) * ev + (P45 + E1) * es + E1 * (3 * V + Z.abs (S - 65536 * r)) + 4 * P45 * (65536 + 1) ->
+  tmpl 35184372088832 0 285212706 0 683736837848755732480 S' V' es' ev'.
+Proof. unfold tmpl, P45, E1. intros. lia. Qed.
+Lemma inv1ms_10s_x2_step_61 S V es ev r S' V' es' ev' :
+  65536000000 <= S <= 655360000000000 -> 0 <= V <= 655360000000000 ->
+
+  tmpl 35184372088832 0 218103834 67108872 445095930282367057920 S V es ev ->
+  tmpl 35184372088832 0 251658270 67108872 421949896361342402560 S V es ev ->
+  tmpl 35184372088832 0 285212706 33554436 439992468694080028672 S V es ev ->
+  tmpl 35184372088832 0 301989924 33554436 425211489748926332928 S V es ev ->
+  tmpl 35184372088832 0 335544360 0 461667282885208047616 S V es ev ->
+  tmpl 35184372088832 0 369098796 0 420731280936727019520 S V es ev ->
+  1000000 <= r <= 10000000000 -> 0 <= es -> 0 <= ev ->
+  8 * S' <= 7 * S + 65536 * r < 8 * S' + 8 ->
+  4 * V' <= 3 * V + Z.abs (S - 65536 * r) < 4 * V' + 4 ->
+  0 <= es' -> 8 * P45 * es' <= 7 * (P45 + E1) * es + E1 * (7 * S + 65536 * r) + 8 * P45 * (65536 + 1) ->
+  0 <= ev' -> 4 * P45 * ev' <= 3 * (P45 + E1) * ev + (P45 + E1) * es + E1 * (3 * V + Z.abs (S - 65536 * r)) + 4 * P45 * (65536 + 1) ->
+  tmpl 35184372088832 0 285212706 33554436 439992468694080028672 S' V' es' ev'.
+Proof. unfold tmpl, P45, E1. intros. lia. Qed.
+Lemma inv1ms_10s_x2_step_62 S V es ev r S' V' es' ev' :
+  65536000000 <= S <= 655360000000000 -> 0 <= V <= 655360000000000 ->
+
+  tmpl 35184372088832 0 268435488 67108872 417895734580347142144 S V es ev ->
+  tmpl 35184372088832 0 285212706 67108872 415641293877169094656 S V es ev ->
+  tmpl 35184372088832 0 301989924 67108872 414140368914217566208 S V es ev ->
+  tmpl 35184372088832 0 335544360 33554436 413481710993207328768 S V es ev ->
+  tmpl 35184372088832 0 352321578 33554436 411239928976241721344 S V es ev ->
+  1000000 <= r <= 10000000000 -> 0 <= es -> 0 <= ev ->
+  8 * S' <= 7 * S + 65536 * r < 8 * S' + 8 ->
+  4 * V' <= 3 * V + Z.abs (S - 65536 * r) < 4 * V' + 4 ->
+  0 <= es' -> 8 * P45 * es' <= 7 * (P45 + E1) * es + E1 * (7 * S + 65536 * r) + 8 * P45 * (65536 + 1) ->
+  0 <= ev' -> 4 * P45 * ev' <= 3 * (P45 + E1) * ev + (P45 + E1) * es + E1 * (3 * V + Z.abs (S - 65536 * r)) + 4 * P45 * (65536 + 1) ->
+  tmpl 35184372088832 0 285212706 67108872 415641293877169094656 S' V' es' ev'.
+Proof. unfold tmpl, P45, E1. intros. lia. Qed.
+Lemma inv1ms_10s_x2_step_63 S V es ev r S' V' es' ev' :
+  65536000000 <= S <= 655360000000000 -> 0 <= V <= 655360000000000 ->
+
+  tmpl 35184372088832 0 268435488 134217744 416175383427740925952 S V es ev ->
+  tmpl 35184372088832 0 285212706 134217744 415075856023292149760 S V es ev ->
+  tmpl 35184372088832 0 402653232 67108872 407379275376215457792 S V es ev ->
+  1000000 <= r <= 10000000000 -> 0 <= es -> 0 <= ev ->
+  8 * S' <= 7 * S + 65536 * r < 8 * S' + 8 ->
+  4 * V' <= 3 * V + Z.abs (S - 65536 * r) < 4 * V' + 4 ->
+  0 <= es' -> 8 * P45 * es' <= 7 * (P45 + E1) * es + E1 * (7 * S + 65536 * r) + 8 * P45 * (65536 + 1) ->
+  0 <= ev' -> 4 * P45 * ev' <= 3 * (P45 + E1) * ev + (P45 + E1) * es + E1 * (3 * V + Z.abs (S - 65536 * r)) + 4 * P45 * (65536 + 1) ->
+  tmpl 35184372088832 0 285212706 134217744 415075856023292149760 S' V' es' ev'.
+Proof. unfold tmpl, P45, E1. intros. lia. Qed.
+Lemma inv1ms_10s_x2_step_64 S V es ev r S' V' es' ev' :
+  65536000000 <= S <= 655360000000000 -> 0 <= V <= 655360000000000 ->
+
+  tmpl 35184372088832 0 285212706 0 683736837848755732480 S V es ev ->
+  tmpl 35184372088832 0 301989924 0 577303779024326361088 S V es ev ->
+  tmpl 35184372088832 0 318767142 0 506330039654348357632 S V es ev ->
+  tmpl 35184372088832 0 335544360 0 461667282885208047616 S V es ev ->
+  1000000 <= r <= 10000000000 -> 0 <= es -> 0 <= ev ->
+  8 * S' <= 7 * S + 65536 * r < 8 * S' + 8 ->
+  4 * V' <= 3 * V + Z.abs (S - 65536 * r) < 4 * V' + 4 ->
+  0 <= es' -> 8 * P45 * es' <= 7 * (P45 + E1) * es + E1 * (7 * S + 65536 * r) + 8 * P45 * (65536 + 1) ->
+  0 <= ev' -> 4 * P45 * ev' <= 3 * (P45 + E1) * ev + (P45 + E1) * es + E1 * (3 * V + Z.abs (S - 65536 * r)) + 4 * P45 * (65536 + 1) ->
+  tmpl 35184372088832 0 301989924 0 577303779024326361088 S' V' es' ev'.
+Proof. unfold tmpl, P45, E1. intros. lia. Qed.
+Lemma inv1ms_10s_x2_step_65 S V es ev r S' V' es' ev' :
+  65536000000 <= S <= 655360000000000 -> 0 <= V <= 655360000000000 ->
+
+  tmpl 35184372088832 0 234881052 67108872 429840386666673209344 S V es ev ->
+  tmpl 35184372088832 0 268435488 67108872 417895734580347142144 S V es ev ->
+  tmpl 35184372088832 0 301989924 33554436 425211489748926332928 S V es ev ->
+  tmpl 35184372088832 0 318767142 33554436 417486294775779491840 S V es ev ->
+  tmpl 35184372088832 0 352321578 0 435312051427535486976 S V es ev ->
+  tmpl 35184372088832 0 385876014 0 413067719134013358080 S V es ev ->
+  1000000 <= r <= 10000000000 -> 0 <= es -> 0 <= ev ->
+  8 * S' <= 7 * S + 65536 * r < 8 * S' + 8 ->
+  4 * V' <= 3 * V + Z.abs (S - 65536 * r) < 4 * V' + 4 ->
+  0 <= es' -> 8 * P45 * es' <= 7 * (P45 + E1) * es + E1 * (7 * S + 65536 * r) + 8 * P45 * (65536 + 1) ->
+  0 <= ev' -> 4 * P45 * ev' <= 3 * (P45 + E1) * ev + (P45 + E1) * es + E1 * (3 * V + Z.abs (S - 65536 * r)) + 4 * P45 * (65536 + 1) ->
+  tmpl 35184372088832 0 301989924 33554436 425211489748926332928 S' V' es' ev'.
+Proof. unfold tmpl, P45, E1. intros. lia. Qed.
+Lemma inv1ms_10s_x2_step_66 S V es ev r S' V' es' ev' :
+  65536000000 <= S <= 655360000000000 -> 0 <= V <= 655360000000000 ->
+
+  tmpl 35184372088832 0 285212706 67108872 415641293877169094656 S V es ev ->
+  tmpl 35184372088832 0 301989924 67108872 414140368914217566208 S V es ev ->
+  tmpl 35184372088832 0 318767142 67108872 412918247040003670016 S V es ev ->
+  tmpl 35184372088832 0 352321578 33554436 411239928976241721344 S V es ev ->
+  tmpl 35184372088832 0 369098796 33554436 409741738396511764480 S V es ev ->
+  tmpl 35184372088832 0 436207668 0 405343572022731079680 S V es ev ->
+  1000000 <= r <= 10000000000 -> 0 <= es -> 0 <= ev ->
+  8 * S' <= 7 * S + 65536 * r < 8 * S' + 8 ->
+  4 * V' <= 3 * V + Z.abs (S - 65536 * r) < 4 * V' + 4 ->
+  0 <= es' -> 8 * P45 * es' <= 7 * (P45 + E1) * es + E1 * (7 * S + 65536 * r) + 8 * P45 * (65536 + 1) ->
+  0 <= ev' -> 4 * P45 * ev' <= 3 * (P45 + E1) * ev + (P45 + E1) * es + E1 * (3 * V + Z.abs (S - 65536 * r)) + 4 * P45 * (65536 + 1) ->
+  tmpl 35184372088832 0 301989924 67108872 414140368914217566208 S' V' es' ev'.
+Proof. unfold tmpl, P45, E1. intros. lia. Qed.
+Lemma inv1ms_10s_x2_step_67 S V es ev r S' V' es' ev' :
+  65536000000 <= S <= 655360000000000 -> 0 <= V <= 655360000000000 ->
+
+  tmpl 35184372088832 0 285212706 134217744 415075856023292149760 S V es ev ->
+  tmpl 35184372088832 0 301989924 134217744 413976343626229153792 S V es ev ->
+  tmpl 35184372088832 0 419430450 67108872 406279761425515282432 S V es ev ->
+  1000000 <= r <= 10000000000 -> 0 <= es -> 0 <= ev ->
+  8 * S' <= 7 * S + 65536 * r < 8 * S' + 8 ->
+  4 * V' <= 3 * V + Z.abs (S - 65536 * r) < 4 * V' + 4 ->
+  0 <= es' -> 8 * P45 * es' <= 7 * (P45 + E1) * es + E1 * (7 * S + 65536 * r) + 8 * P45 * (65536 + 1) ->
+  0 <= ev' -> 4 * P45 * ev' <= 3 * (P45 + E1) * ev + (P45 + E1) * es + E1 * (3 * V + Z.abs (S - 65536 * r)) + 4 * P45 * (65536 + 1) ->
+  tmpl 35184372088832 0 301989924 134217744 413976343626229153792 S' V' es' ev'.
+Proof. unfold tmpl, P45, E1. intros. lia. Qed.
+Lemma inv1ms_10s_x2_step_68 S V es ev r S' V' es' ev' :
+  65536000000 <= S <= 655360000000000 -> 0 <= V <= 655360000000000 ->
+
+  tmpl 35184372088832 0 301989924 0 577303779024326361088 S V es ev ->
+  tmpl 35184372088832 0 318767142 0 506330039654348357632 S V es ev ->
+  tmpl 35184372088832 0 352321578 0 435312051427535486976 S V es ev ->
+  tmpl 35184372088832 0 369098796 0 420731280936727019520 S V es ev ->
+  1000000 <= r <= 10000000000 -> 0 <= es -> 0 <= ev ->
+  8 * S' <= 7 * S + 65536 * r < 8 * S' + 8 ->
+  4 * V' <= 3 * V + Z.abs (S - 65536 * r) < 4 * V' + 4 ->
+  0 <= es' -> 8 * P45 * es' <= 7 * (P45 + E1) * es + E1 * (7 * S + 65536 * r) + 8 * P45 * (65536 + 1) ->
+  0 <= ev' -> 4 * P45 * ev' <= 3 * (P45 + E1) * ev + (P45 + E1) * es + E1 * (3 * V + Z.abs (S - 65536 * r)) + 4 * P45 * (65536 + 1) ->
+  tmpl 35184372088832 0 318767142 0 506330039654348357632 S' V' es' ev'.
+Proof. unfold tmpl, P45, E1. intros. lia. Qed.
+Lemma inv1ms_10s_x2_step_69 S V es ev r S' V' es' ev' :
+  65536000000 <= S <= 655360000000000 -> 0 <= V <= 655360000000000 ->
+
+  tmpl 35184372088832 0 251658270 67108872 421949896361342402560 S V es ev ->
+  tmpl 35184372088832 0 285212706 67108872 415641293877169094656 S V es ev ->
+  tmpl 35184372088832 0 318767142 33554436 417486294775779491840 S V es ev ->
+  tmpl 35184372088832 0 352321578 33554436 411239928976241721344 S V es ev ->
+  tmpl 35184372088832 0 369098796 0 420731280936727019520 S V es ev ->
+  tmpl 35184372088832 0 402653232 0 409079293714468241408 S V es ev ->
+  1000000 <= r <= 10000000000 -> 0 <= es -> 0 <= ev ->
+  8 * S' <= 7 * S + 65536 * r < 8 * S' + 8 ->
+  4 * V' <= 3 * V + Z.abs (S - 65536 * r) < 4 * V' + 4 ->
+  0 <= es' -> 8 * P45 * es' <= 7 * (P45 + E1) * es + E1 * (7 * S + 65536 * r) + 8 * P45 * (65536 + 1) ->
+  0 <= ev' -> 4 * P45 * ev' <= 3 * (P45 + E1) * ev + (P45 + E1) * es + E1 * (3 * V + Z.abs (S - 65536 * r)) + 4 * P45 * (65536 + 1) ->
+  tmpl 35184372088832 0 318767142 33554436 417486294775779491840 S' V' es' ev'.
+Proof. unfold tmpl, P45, E1. intros. lia. Qed.
+Lemma inv1ms_10s_x2_step_70 S V es ev r S' V' es' ev' :
+  65536000000 <= S <= 655360000000000 -> 0 <= V <= 655360000000000 ->
+
+  tmpl 35184372088832 0 301989924 67108872 414140368914217566208 S V es ev ->
+  tmpl 35184372088832 0 318767142 67108872 412918247040003670016 S V es ev ->
+  tmpl 35184372088832 0 335544360 67108872 411786269870280474624 S V es ev ->
+  tmpl 35184372088832 0 369098796 33554436 409741738396511764480 S V es ev ->
+  tmpl 35184372088832 0 402653232 33554436 407388212170819764224 S V es ev ->
+  tmpl 35184372088832 0 452984886 0 404122051557223038976 S V es ev ->
+  1000000 <= r <= 10000000000 -> 0 <= es -> 0 <= ev ->
+  8 * S' <= 7 * S + 65536 * r < 8 * S' + 8 ->
+  4 * V' <= 3 * V + Z.abs (S - 65536 * r) < 4 * V' + 4 ->
+  0 <= es' -> 8 * P45 * es' <= 7 * (P45 + E1) * es + E1 * (7 * S + 65536 * r) + 8 * P45 * (65536 + 1) ->
+  0 <= ev' -> 4 * P45 * ev' <= 3 * (P45 + E1) * ev + (P45 + E1) * es + E1 * (3 * V + Z.abs (S - 65536 * r)) + 4 * P45 * (65536 + 1) ->
+  tmpl 35184372088832 0 318767142 67108872 412918247040003670016 S' V' es' ev'.
+Proof. unfold tmpl, P45, E1. intros. lia. Qed.
+Lemma inv1ms_10s_x2_step_71 S V es ev r S' V' es' ev' :
+  65536000000 <= S <= 655360000000000 -> 0 <= V <= 655360000000000 ->
+
+  tmpl 35184372088832 0 301989924 134217744 413976343626229153792 S V es ev ->
+  tmpl 35184372088832 0 318767142 134217744 412876831851458330624 S V es ev ->
+  tmpl 35184372088832 0 436207668 67108872 405180249542652133376 S V es ev ->
+  tmpl 35184372088832 0 452984886 67108872 404080737780336558080 S V es ev ->
+  1000000 <= r <= 10000000000 -> 0 <= es -> 0 <= ev ->
+  8 * S' <= 7 * S + 65536 * r < 8 * S' + 8 ->
+  4 * V' <= 3 * V + Z.abs (S - 65536 * r) < 4 * V' + 4 ->
+  0 <= es' -> 8 * P45 * es' <= 7 * (P45 + E1) * es + E1 * (7 * S + 65536 * r) + 8 * P45 * (65536 + 1) ->
+  0 <= ev' -> 4 * P45 * ev' <= 3 * (P45 + E1) * ev + (P45 + E1) * es + E1 * (3 * V + Z.abs (S - 65536 * r)) + 4 * P45 * (65536 + 1) ->
+  tmpl 35184372088832 0 318767142 134217744 412876831851458330624 S' V' es' ev'.
+Proof. unfold tmpl, P45, E1. intros. lia. Qed.
+Lemma inv1ms_10s_x2_step_72 S V es ev r S' V' es' ev' :
+  65536000000 <= S <= 655360000000000 -> 0 <= V <= 655360000000000 ->
+
+  tmpl 35184372088832 0 318767142 0 506330039654348357632 S V es ev ->
+  tmpl 35184372088832 0 335544360 0 461667282885208047616 S V es ev ->
+  tmpl 35184372088832 0 369098796 0 420731280936727019520 S V es ev ->
+  tmpl 35184372088832 0 385876014 0 413067719134013358080 S V es ev ->
+  1000000 <= r <= 10000000000 -> 0 <= es -> 0 <= ev ->
+  8 * S' <= 7 * S + 65536 * r < 8 * S' + 8 ->
+  4 * V' <= 3 * V + Z.abs (S - 65536 * r) < 4 * V' + 4 ->
+  0 <= es' -> 8 * P45 * es' <= 7 * (P45 + E1) * es + E1 * (7 * S + 65536 * r) + 8 * P45 * (65536 + 1) ->
+  0 <= ev' -> 4 * P45 * ev' <= 3 * (P45 + E1) * ev + (P45 + E1) * es + E1 * (3 * V + Z.abs (S - 65536 * r)) + 4 * P45 * (65536 + 1) ->
+  tmpl 35184372088832 0 335544360 0 461667282885208047616 S' V' es' ev'.
+Proof. unfold tmpl, P45, E1. intros. lia. Qed.
+Lemma inv1ms_10s_x2_step_73 S V es ev r S' V' es' ev' :
+  65536000000 <= S <= 655360000000000 -> 0 <= V <= 655360000000000 ->
+
+  tmpl 35184372088832 0 268435488 67108872 417895734580347142144 S V es ev ->
+  tmpl 35184372088832 0 301989924 67108872 414140368914217566208 S V es ev ->
+  tmpl 35184372088832 0 335544360 33554436 413481710993207328768 S V es ev ->
+  tmpl 35184372088832 0 369098796 33554436 409741738396511764480 S V es ev ->
+  tmpl 35184372088832 0 385876014 0 413067719134013358080 S V es ev ->
+  tmpl 35184372088832 0 419430450 0 406841094355780763648 S V es ev ->
+  1000000 <= r <= 10000000000 -> 0 <= es -> 0 <= ev ->
+  8 * S' <= 7 * S + 65536 * r < 8 * S' + 8 ->
+  4 * V' <= 3 * V + Z.abs (S - 65536 * r) < 4 * V' + 4 ->
+  0 <= es' -> 8 * P45 * es' <= 7 * (P45 + E1) * es + E1 * (7 * S + 65536 * r) + 8 * P45 * (65536 + 1) ->
+  0 <= ev' -> 4 * P45 * ev' <= 3 * (P45 + E1) * ev + (P45 + E1) * es + E1 * (3 * V + Z.abs (S - 65536 * r)) + 4 * P45 * (65536 + 1) ->
+  tmpl 35184372088832 0 335544360 33554436 413481710993207328768 S' V' es' ev'.
+Proof. unfold tmpl, P45, E1. intros. lia. Qed.
+Lemma inv1ms_10s_x2_step_74 S V es ev r S' V' es' ev' :
+  65536000000 <= S <= 655360000000000 -> 0 <= V <= 655360000000000 ->
+
+  tmpl 35184372088832 0 318767142 67108872 412918247040003670016 S V es ev ->
+  tmpl 35184372088832 0 335544360 67108872 411786269870280474624 S V es ev ->
+  tmpl 35184372088832 0 352321578 67108872 410679428585932193792 S V es ev ->
+  tmpl 35184372088832 0 369098796 67108872 409578535372004851712 S V es ev ->
+  tmpl 35184372088832 0 385876014 33554436 408520113681586323456 S V es ev ->
+  tmpl 35184372088832 0 419430450 33554436 406281380460686737408 S V es ev ->
+  1000000 <= r <= 10000000000 -> 0 <= es -> 0 <= ev ->
+  8 * S' <= 7 * S + 65536 * r < 8 * S' + 8 ->
+  4 * V' <= 3 * V + Z.abs (S - 65536 * r) < 4 * V' + 4 ->
+  0 <= es' -> 8 * P45 * es' <= 7 * (P45 + E1) * es + E1 * (7 * S + 65536 * r) + 8 * P45 * (65536 + 1) ->
+  0 <= ev' -> 4 * P45 * ev' <= 3 * (P45 + E1) * ev + (P45 + E1) * es + E1 * (3 * V + Z.abs (S - 65536 * r)) + 4 * P45 * (65536 + 1) ->
+  tmpl 35184372088832 0 335544360 67108872 411786269870280474624 S' V' es' ev'.
+Proof. unfold tmpl, P45, E1. intros. lia. Qed.
+Lemma inv1ms_10s_x2_step_75 S V es ev r S' V' es' ev' :
+  65536000000 <= S <= 655360000000000 -> 0 <= V <= 655360000000000 ->
+
+  tmpl 35184372088832 0 335544360 0 461667282885208047616 S V es ev ->
+  tmpl 35184372088832 0 352321578 0 435312051427535486976 S V es ev ->
+  tmpl 35184372088832 0 385876014 0 413067719134013358080 S V es ev ->
+  tmpl 35184372088832 0 402653232 0 409079293714468241408 S V es ev ->
+  1000000 <= r <= 10000000000 -> 0 <= es -> 0 <= ev ->
+  8 * S' <= 7 * S + 65536 * r < 8 * S' + 8 ->
+  4 * V' <= 3 * V + Z.abs (S - 65536 * r) < 4 * V' + 4 ->
+  0 <= es' -> 8 * P45 * es' <= 7 * (P45 + E1) * es + E1 * (7 * S + 65536 * r) + 8 * P45 * (65536 + 1) ->
+  0 <= ev' -> 4 * P45 * ev' <= 3 * (P45 + E1) * ev + (P45 + E1) * es + E1 * (3 * V + Z.abs (S - 65536 * r)) + 4 * P45 * (65536 + 1) ->
+  tmpl 35184372088832 0 352321578 0 435312051427535486976 S' V' es' ev'.
+Proof. unfold tmpl, P45, E1. intros. lia. Qed.
+Lemma inv1ms_10s_x2_step_76 S V es ev r S' V' es' ev' :
+  65536000000 <= S <= 655360000000000 -> 0 <= V <= 655360000000000 ->
+
+  tmpl 35184372088832 0 285212706 67108872 415641293877169094656 S V es ev ->
+  tmpl 35184372088832 0 318767142 67108872 412918247040003670016 S V es ev ->
+  tmpl 35184372088832 0 352321578 33554436 411239928976241721344 S V es ev ->
+  tmpl 35184372088832 0 385876014 33554436 408520113681586323456 S V es ev ->
+  tmpl 35184372088832 0 402653232 0 409079293714468241408 S V es ev ->
+  tmpl 35184372088832 0 436207668 0 405343572022731079680 S V es ev ->
+  1000000 <= r <= 10000000000 -> 0 <= es -> 0 <= ev ->
+  8 * S' <= 7 * S + 65536 * r < 8 * S' + 8 ->
+  4 * V' <= 3 * V + Z.abs (S - 65536 * r) < 4 * V' + 4 ->
+  0 <= es' -> 8 * P45 * es' <= 7 * (P45 + E1) * es + E1 * (7 * S + 65536 * r) + 8 * P45 * (65536 + 1) ->
+  0 <= ev' -> 4 * P45 * ev' <= 3 * (P45 + E1) * ev + (P45 + E1) * es + E1 * (3 * V + Z.abs (S - 65536 * r)) + 4 * P45 * (65536 + 1) ->
+  tmpl 35184372088832 0 352321578 33554436 411239928976241721344 S' V' es' ev'.
+Proof. unfold tmpl, P45, E1. intros. lia. Qed.
+Lemma inv1ms_10s_x2_step_77 S V es ev r S' V' es' ev' :
+  65536000000 <= S <= 655360000000000 -> 0 <= V <= 655360000000000 ->
+
+  tmpl 35184372088832 0 335544360 67108872 411786269870280474624 S V es ev ->
+  tmpl 35184372088832 0 352321578 67108872 410679428585932193792 S V es ev ->
+  tmpl 35184372088832 0 369098796 67108872 409578535372004851712 S V es ev ->
+  tmpl 35184372088832 0 385876014 67108872 408478812314553745408 S V es ev ->
+  tmpl 35184372088832 0 402653232 33554436 407388212170819764224 S V es ev ->
+  tmpl 35184372088832 0 436207668 33554436 405180488245695741952 S V es ev ->
+  1000000 <= r <= 10000000000 -> 0 <= es -> 0 <= ev ->
+  8 * S' <= 7 * S + 65536 * r < 8 * S' + 8 ->
+  4 * V' <= 3 * V + Z.abs (S - 65536 * r) < 4 * V' + 4 ->
+  0 <= es' -> 8 * P45 * es' <= 7 * (P45 + E1) * es + E1 * (7 * S + 65536 * r) + 8 * P45 * (65536 + 1) ->
+  0 <= ev' -> 4 * P45 * ev' <= 3 * (P45 + E1) * ev + (P45 + E1) * es + E1 * (3 * V + Z.abs (S - 65536 * r)) + 4 * P45 * (65536 + 1) ->
+  tmpl 35184372088832 0 352321578 67108872 410679428585932193792 S' V' es' ev'.
+Proof. unfold tmpl, P45, E1. intros. lia. Qed.
+Lemma inv1ms_10s_x2_step_78 S V es ev r S' V' es' ev' :
+  65536000000 <= S <= 655360000000000 -> 0 <= V <= 655360000000000 ->
+
+  tmpl 35184372088832 0 352321578 0 435312051427535486976 S V es ev ->
+  tmpl 35184372088832 0 369098796 0 420731280936727019520 S V es ev ->
+  tmpl 35184372088832 0 402653232 0 409079293714468241408 S V es ev ->
+  tmpl 35184372088832 0 419430450 0 406841094355780763648 S V es ev ->
+  1000000 <= r <= 10000000000 -> 0 <= es -> 0 <= ev ->
+  8 * S' <= 7 * S + 65536 * r < 8 * S' + 8 ->
+  4 * V' <= 3 * V + Z.abs (S - 65536 * r) < 4 * V' + 4 ->
+  0 <= es' -> 8 * P45 * es' <= 7 * (P45 + E1) * es + E1 * (7 * S + 65536 * r) + 8 * P45 * (65536 + 1) ->
+  0 <= ev' -> 4 * P45 * ev' <= 3 * (P45 + E1) * ev + (P45 + E1) * es + E1 * (3 * V + Z.abs (S - 65536 * r)) + 4 * P45 * (65536 + 1) ->
+  tmpl 35184372088832 0 369098796 0 420731280936727019520 S' V' es' ev'.
+Proof. unfold tmpl, P45, E1. intros. lia. Qed.
+Lemma inv1ms_10s_x2_step_79 S V es ev r S' V' es' ev' :
+  65536000000 <= S <= 655360000000000 -> 0 <= V <= 655360000000000 ->
+
+  tmpl 35184372088832 0 301989924 67108872 414140368914217566208 S V es ev ->
+  tmpl 35184372088832 0 369098796 33554436 409741738396511764480 S V es ev ->
+  tmpl 35184372088832 0 402653232 33554436 407388212170819764224 S V es ev ->
+  tmpl 35184372088832 0 419430450 0 406841094355780763648 S V es ev ->
+  tmpl 35184372088832 0 452984886 0 404122051557223038976 S V es ev ->
+  tmpl 35184372088832 0 469762104 0 402990163558223446016 S V es ev ->
+  1000000 <= r <= 10000000000 -> 0 <= es -> 0 <= ev ->
+  8 * S' <= 7 * S + 65536 * r < 8 * S' + 8 ->
+  4 * V' <= 3 * V + Z.abs (S - 65536 * r) < 4 * V' + 4 ->
+  0 <= es' -> 8 * P45 * es' <= 7 * (P45 + E1) * es + E1 * (7 * S + 65536 * r) + 8 * P45 * (65536 + 1) ->
+  0 <= ev' -> 4 * P45 * ev' <= 3 * (P45 + E1) * ev + (P45 + E1) * es + E1 * (3 * V + Z.abs (S - 65536 * r)) + 4 * P45 * (65536 + 1) ->
+  tmpl 35184372088832 0 369098796 33554436 409741738396511764480 S' V' es' ev'.
+Proof. unfold tmpl, P45, E1. intros. lia. Qed.
+Lemma inv1ms_10s_x2_step_80 S V es ev r S' V' es' ev' :
+  65536000000 <= S <= 655360000000000 -> 0 <= V <= 655360000000000 ->
+
+  tmpl 35184372088832 0 352321578 67108872 410679428585932193792 S V es ev ->
+  tmpl 35184372088832 0 369098796 67108872 409578535372004851712 S V es ev ->
+  tmpl 35184372088832 0 385876014 67108872 408478812314553745408 S V es ev ->
+  tmpl 35184372088832 0 402653232 67108872 407379275376215457792 S V es ev ->
+  tmpl 35184372088832 0 419430450 33554436 406281380460686737408 S V es ev ->
+  tmpl 35184372088832 0 452984886 33554436 404080765273416269824 S V es ev ->
+  1000000 <= r <= 10000000000 -> 0 <= es -> 0 <= ev ->
+  8 * S' <= 7 * S + 65536 * r < 8 * S' + 8 ->
+  4 * V' <= 3 * V + Z.abs (S - 65536 * r) < 4 * V' + 4 ->
+  0 <= es' -> 8 * P45 * es' <= 7 * (P45 + E1) * es + E1 * (7 * S + 65536 * r) + 8 * P45 * (65536 + 1) ->
+  0 <= ev' -> 4 * P45 * ev' <= 3 * (P45 + E1) * ev + (P45 + E1) * es + E1 * (3 * V + Z.abs (S - 65536 * r)) + 4 * P45 * (65536 + 1) ->
+  tmpl 35184372088832 0 369098796 67108872 409578535372004851712 S' V' es' ev'.
+Proof. unfold tmpl, P45, E1. intros. lia. Qed.
+Lemma inv1ms_10s_x2_step_81 S V es ev r S' V' es' ev' :
+  65536000000 <= S <= 655360000000000 -> 0 <= V <= 655360000000000 ->
+
+  tmpl 35184372088832 0 369098796 0 420731280936727019520 S V es ev ->
+  tmpl 35184372088832 0 385876014 0 413067719134013358080 S V es ev ->
+  tmpl 35184372088832 0 419430450 0 406841094355780763648 S V es ev ->
+  tmpl 35184372088832 0 436207668 0 405343572022731079680 S V es ev ->
+  1000000 <= r <= 10000000000 -> 0 <= es -> 0 <= ev ->
+  8 * S' <= 7 * S + 65536 * r < 8 * S' + 8 ->
+  4 * V' <= 3 * V + Z.abs (S - 65536 * r) < 4 * V' + 4 ->
+  0 <= es' -> 8 * P45 * es' <= 7 * (P45 + E1) * es + E1 * (7 * S + 65536 * r) + 8 * P45 * (65536 + 1) ->
+  0 <= ev' -> 4 * P45 * ev' <= 3 * (P45 + E1) * ev + (P45 + E1) * es + E1 * (3 * V + Z.abs (S - 65536 * r)) + 4 * P45 * (65536 + 1) ->
+  tmpl 35184372088832 0 385876014 0 413067719134013358080 S' V' es' ev'.
+Proof. unfold tmpl, P45, E1. intros. lia. Qed.
+Lemma inv1ms_10s_x2_step_82 S V es ev r S' V' es' ev' :
+  65536000000 <= S <= 655360000000000 -> 0 <= V <= 655360000000000 ->
+
+  tmpl 35184372088832 0 318767142 67108872 412918247040003670016 S V es ev ->
+  tmpl 35184372088832 0 369098796 67108872 409578535372004851712 S V es ev ->
+  tmpl 35184372088832 0 385876014 33554436 408520113681586323456 S V es ev ->
+  tmpl 35184372088832 0 419430450 33554436 406281380460686737408 S V es ev ->
+  tmpl 35184372088832 0 436207668 0 405343572022731079680 S V es ev ->
+  tmpl 35184372088832 0 486539322 0 401883333290772660224 S V es ev ->
+  1000000 <= r <= 10000000000 -> 0 <= es -> 0 <= ev ->
+  8 * S' <= 7 * S + 65536 * r < 8 * S' + 8 ->
+  4 * V' <= 3 * V + Z.abs (S - 65536 * r) < 4 * V' + 4 ->
+  0 <= es' -> 8 * P45 * es' <= 7 * (P45 + E1) * es + E1 * (7 * S + 65536 * r) + 8 * P45 * (65536 + 1) ->
+  0 <= ev' -> 4 * P45 * ev' <= 3 * (P45 + E1) * ev + (P45 + E1) * es + E1 * (3 * V + Z.abs (S - 65536 * r)) + 4 * P45 * (65536 + 1) ->
+  tmpl 35184372088832 0 385876014 33554436 408520113681586323456 S' V' es' ev'.
+Proof. unfold tmpl, P45, E1. intros. lia. Qed.
+Lemma inv1ms_10s_x2_step_83 S V es ev r S' V' es' ev' :
+  65536000000 <= S <= 655360000000000 -> 0 <= V <= 655360000000000 ->
+
+  tmpl 35184372088832 0 369098796 67108872 409578535372004851712 S V es ev ->
+  tmpl 35184372088832 0 385876014 67108872 408478812314553745408 S V es ev ->
+  tmpl 35184372088832 0 402653232 67108872 407379275376215457792 S V es ev ->
+  tmpl 35184372088832 0 419430450 67108872 406279761425515282432 S V es ev ->
+  tmpl 35184372088832 0 436207668 33554436 405180488245695741952 S V es ev ->
+  tmpl 35184372088832 0 469762104 33554436 402981228340587069440 S V es ev ->
+  1000000 <= r <= 10000000000 -> 0 <= es -> 0 <= ev ->
+  8 * S' <= 7 * S + 65536 * r < 8 * S' + 8 ->
+  4 * V' <= 3 * V + Z.abs (S - 65536 * r) < 4 * V' + 4 ->
+  0 <= es' -> 8 * P45 * es' <= 7 * (P45 + E1) * es + E1 * (7 * S + 65536 * r) + 8 * P45 * (65536 + 1) ->
+  0 <= ev' -> 4 * P45 * ev' <= 3 * (P45 + E1) * ev + (P45 + E1) * es + E1 * (3 * V + Z.abs (S - 65536 * r)) + 4 * P45 * (65536 + 1) ->
+  tmpl 35184372088832 0 385876014 67108872 408478812314553745408 S' V' es' ev'.
+Proof. unfold tmpl, P45, E1. intros. lia. Qed.
+Lemma inv1ms_10s_x2_step_84 S V es ev r S' V' es' ev' :
+  65536000000 <= S <= 655360000000000 -> 0 <= V <= 655360000000000 ->
+
+  tmpl 35184372088832 0 385876014 0 413067719134013358080 S V es ev ->
+  tmpl 35184372088832 0 402653232 0 409079293714468241408 S V es ev ->
+  tmpl 35184372088832 0 436207668 0 405343572022731079680 S V es ev ->
+  tmpl 35184372088832 0 452984886 0 404122051557223038976 S V es ev ->
+  1000000 <= r <= 10000000000 -> 0 <= es -> 0 <= ev ->
+  8 * S' <= 7 * S + 65536 * r < 8 * S' + 8 ->
+  4 * V' <= 3 * V + Z.abs (S - 65536 * r) < 4 * V' + 4 ->
+  0 <= es' -> 8 * P45 * es' <= 7 * (P45 + E1) * es + E1 * (7 * S + 65536 * r) + 8 * P45 * (65536 + 1) ->
+  0 <= ev' -> 4 * P45 * ev' <= 3 * (P45 + E1) * ev + (P45 + E1) * es + E1 * (3 * V + Z.abs (S - 65536 * r)) + 4 * P45 * (65536 + 1) ->
+  tmpl 35184372088832 0 402653232 0 409079293714468241408 S' V' es' ev'.
+Proof. unfold tmpl, P45, E1. intros. lia. Qed.
+Lemma inv1ms_10s_x2_step_85 S V es ev r S' V' es' ev' :
+  65536000000 <= S <= 655360000000000 -> 0 <= V <= 655360000000000 ->
+
+  tmpl 35184372088832 0 335544360 67108872 411786269870280474624 S V es ev ->
+  tmpl 35184372088832 0 385876014 67108872 408478812314553745408 S V es ev ->
+  tmpl 35184372088832 0 402653232 33554436 407388212170819764224 S V es ev ->
+  tmpl 35184372088832 0 436207668 33554436 405180488245695741952 S V es ev ->
+  tmpl 35184372088832 0 452984886 0 404122051557223038976 S V es ev ->
+  tmpl 35184372088832 0 503316540 0 400782441201163960320 S V es ev ->
+  1000000 <= r <= 10000000000 -> 0 <= es -> 0 <= ev ->
+  8 * S' <= 7 * S + 65536 * r < 8 * S' + 8 ->
+  4 * V' <= 3 * V + Z.abs (S - 65536 * r) < 4 * V' + 4 ->
+  0 <= es' -> 8 * P45 * es' <= 7 * (P45 + E1) * es + E1 * (7 * S + 65536 * r) + 8 * P45 * (65536 + 1) ->
+  0 <= ev' -> 4 * P45 * ev' <= 3 * (P45 + E1) * ev + (P45 + E1) * es + E1 * (3 * V + Z.abs (S - 65536 * r)) + 4 * P45 * (65536 + 1) ->
+  tmpl 35184372088832 0 402653232 33554436 407388212170819764224 S' V' es' ev'.
+Proof. unfold tmpl, P45, E1. intros. lia. Qed.
+Lemma inv1ms_10s_x2_step_86 S V es ev r S' V' es' ev' :
+  65536000000 <= S <= 655360000000000 -> 0 <= V <= 655360000000000 ->
+
+  tmpl 35184372088832 0 385876014 67108872 408478812314553745408 S V es ev ->
+  tmpl 35184372088832 0 402653232 67108872 407379275376215457792 S V es ev ->
+  tmpl 35184372088832 0 419430450 67108872 406279761425515282432 S V es ev ->
+  tmpl 35184372088832 0 436207668 67108872 405180249542652133376 S V es ev ->
+  tmpl 35184372088832 0 452984886 33554436 404080765273416269824 S V es ev ->
+  tmpl 35184372088832 0 486539322 33554436 401881714390011805696 S V es ev ->
+  1000000 <= r <= 10000000000 -> 0 <= es -> 0 <= ev ->
+  8 * S' <= 7 * S + 65536 * r < 8 * S' + 8 ->
+  4 * V' <= 3 * V + Z.abs (S - 65536 * r) < 4 * V' + 4 ->
+  0 <= es' -> 8 * P45 * es' <= 7 * (P45 + E1) * es + E1 * (7 * S + 65536 * r) + 8 * P45 * (65536 + 1) ->
+  0 <= ev' -> 4 * P45 * ev' <= 3 * (P45 + E1) * ev + (P45 + E1) * es + E1 * (3 * V + Z.abs (S - 65536 * r)) + 4 * P45 * (65536 + 1) ->
+  tmpl 35184372088832 0 402653232 67108872 407379275376215457792 S' V' es' ev'.
+Proof. unfold tmpl, P45, E1. intros. lia. Qed.
+Lemma inv1ms_10s_x2_step_87 S V es ev r S' V' es' ev' :
+  65536000000 <= S <= 655360000000000 -> 0 <= V <= 655360000000000 ->
+
+  tmpl 35184372088832 0 402653232 0 409079293714468241408 S V es ev ->
+  tmpl 35184372088832 0 419430450 0 406841094355780763648 S V es ev ->
+  tmpl 35184372088832 0 452984886 0 404122051557223038976 S V es ev ->
+  tmpl 35184372088832 0 469762104 0 402990163558223446016 S V es ev ->
+  1000000 <= r <= 10000000000 -> 0 <= es -> 0 <= ev ->
+  8 * S' <= 7 * S + 65536 * r < 8 * S' + 8 ->
+  4 * V' <= 3 * V + Z.abs (S - 65536 * r) < 4 * V' + 4 ->
+  0 <= es' -> 8 * P45 * es' <= 7 * (P45 + E1) * es + E1 * (7 * S + 65536 * r) + 8 * P45 * (65536 + 1) ->
+  0 <= ev' -> 4 * P45 * ev' <= 3 * (P45 + E1) * ev + (P45 + E1) * es + E1 * (3 * V + Z.abs (S - 65536 * r)) + 4 * P45 * (65536 + 1) ->
+  tmpl 35184372088832 0 419430450 0 406841094355780763648 S' V' es' ev'.
+Proof. unfold tmpl, P45, E1. intros. lia. Qed.
+Lemma inv1ms_10s_x2_step_88 S V es ev r S' V' es' ev' :
+  65536000000 <= S <= 655360000000000 -> 0 <= V <= 655360000000000 ->
+
+  tmpl 35184372088832 0 352321578 67108872 410679428585932193792 S V es ev ->
+  tmpl 35184372088832 0 419430450 33554436 406281380460686737408 S V es ev ->
+  tmpl 35184372088832 0 452984886 33554436 404080765273416269824 S V es ev ->
+  tmpl 35184372088832 0 469762104 0 402990163558223446016 S V es ev ->
+  tmpl 35184372088832 0 469762104 33554436 402981228340587069440 S V es ev ->
+  tmpl 35184372088832 0 520093758 0 399682718237291184128 S V es ev ->
+  1000000 <= r <= 10000000000 -> 0 <= es -> 0 <= ev ->
+  8 * S' <= 7 * S + 65536 * r < 8 * S' + 8 ->
+  4 * V' <= 3 * V + Z.abs (S - 65536 * r) < 4 * V' + 4 ->
+  0 <= es' -> 8 * P45 * es' <= 7 * (P45 + E1) * es + E1 * (7 * S + 65536 * r) + 8 * P45 * (65536 + 1) ->
+  0 <= ev' -> 4 * P45 * ev' <= 3 * (P45 + E1) * ev + (P45 + E1) * es + E1 * (3 * V + Z.abs (S - 65536 * r)) + 4 * P45 * (65536 + 1) ->
+  tmpl 35184372088832 0 419430450 33554436 406281380460686737408 S' V' es' ev'.
+Proof. unfold tmpl, P45, E1. intros. lia. Qed.
+Lemma inv1ms_10s_x2_step_89 S V es ev r S' V' es' ev' :
+  65536000000 <= S <= 655360000000000 -> 0 <= V <= 655360000000000 ->
+
+  tmpl 35184372088832 0 402653232 67108872 407379275376215457792 S V es ev ->
+  tmpl 35184372088832 0 419430450 67108872 406279761425515282432 S V es ev ->
+  tmpl 35184372088832 0 452984886 67108872 404080737780336558080 S V es ev ->
+  tmpl 35184372088832 0 469762104 33554436 402981228340587069440 S V es ev ->
+  tmpl 35184372088832 0 503316540 33554436 400782202507264786432 S V es ev ->
+  tmpl 35184372088832 0 520093758 33554436 399682690745030213632 S V es ev ->
+  1000000 <= r <= 10000000000 -> 0 <= es -> 0 <= ev ->
+  8 * S' <= 7 * S + 65536 * r < 8 * S' + 8 ->
+  4 * V' <= 3 * V + Z.abs (S - 65536 * r) < 4 * V' + 4 ->
+  0 <= es' -> 8 * P45 * es' <= 7 * (P45 + E1) * es + E1 * (7 * S + 65536 * r) + 8 * P45 * (65536 + 1) ->
+  0 <= ev' -> 4 * P45 * ev' <= 3 * (P45 + E1) * ev + (P45 + E1) * es + E1 * (3 * V + Z.abs (S - 65536 * r)) + 4 * P45 * (65536 + 1) ->
+  tmpl 35184372088832 0 419430450 67108872 406279761425515282432 S' V' es' ev'.
+Proof. unfold tmpl, P45, E1. intros. lia. Qed.
+Lemma inv1ms_10s_x2_step_90 S V es ev r S' V' es' ev' :
+  65536000000 <= S <= 655360000000000 -> 0 <= V <= 655360000000000 ->
+
+  tmpl 35184372088832 0 419430450 0 406841094355780763648 S V es ev ->
+  tmpl 35184372088832 0 436207668 0 405343572022731079680 S V es ev ->
+  tmpl 35184372088832 0 486539322 0 401883333290772660224 S V es ev ->
+  tmpl 35184372088832 0 503316540 0 400782441201163960320 S V es ev ->
+  1000000 <= r <= 10000000000 -> 0 <= es -> 0 <= ev ->
+  8 * S' <= 7 * S + 65536 * r < 8 * S' + 8 ->
+  4 * V' <= 3 * V + Z.abs (S - 65536 * r) < 4 * V' + 4 ->
+  0 <= es' -> 8 * P45 * es' <= 7 * (P45 + E1) * es + E1 * (7 * S + 65536 * r) + 8 * P45 * (65536 + 1) ->
+  0 <= ev' -> 4 * P45 * ev' <= 3 * (P45 + E1) * ev + (P45 + E1) * es + E1 * (3 * V + Z.abs (S - 65536 * r)) + 4 * P45 * (65536 + 1) ->
+  tmpl 35184372088832 0 436207668 0 405343572022731079680 S' V' es' ev'.
+Proof. unfold tmpl, P45, E1. intros. lia. Qed.
+Lemma inv1ms_10s_x2_step_91 S V es ev r S' V' es' ev' :
+  65536000000 <= S <= 655360000000000 -> 0 <= V <= 655360000000000 ->
+
+  tmpl 35184372088832 0 369098796 67108872 409578535372004851712 S V es ev ->
+  tmpl 35184372088832 0 436207668 33554436 405180488245695741952 S V es ev ->
+  tmpl 35184372088832 0 469762104 33554436 402981228340587069440 S V es ev ->
+  tmpl 35184372088832 0 486539322 0 401883333290772660224 S V es ev ->
+  tmpl 35184372088832 0 486539322 33554436 401881714390011805696 S V es ev ->
+  tmpl 35184372088832 0 536870976 0 398583181305200246784 S V es ev ->
+  1000000 <= r <= 10000000000 -> 0 <= es -> 0 <= ev ->
+  8 * S' <= 7 * S + 65536 * r < 8 * S' + 8 ->
+  4 * V' <= 3 * V + Z.abs (S - 65536 * r) < 4 * V' + 4 ->
+  0 <= es' -> 8 * P45 * es' <= 7 * (P45 + E1) * es + E1 * (7 * S + 65536 * r) + 8 * P45 * (65536 + 1) ->
+  0 <= ev' -> 4 * P45 * ev' <= 3 * (P45 + E1) * ev + (P45 + E1) * es + E1 * (3 * V + Z.abs (S - 65536 * r)) + 4 * P45 * (65536 + 1) ->
+  tmpl 35184372088832 0 436207668 33554436 405180488245695741952 S' V' es' ev'.
+Proof. unfold tmpl, P45, E1. intros. lia. Qed.
+Lemma inv1ms_10s_x2_step_92 S V es ev r S' V' es' ev' :
+  65536000000 <= S <= 655360000000000 -> 0 <= V <= 655360000000000 ->
+
+  tmpl 35184372088832 0 419430450 67108872 406279761425515282432 S V es ev ->
+  tmpl 35184372088832 0 436207668 67108872 405180249542652133376 S V es ev ->
+  tmpl 35184372088832 0 452984886 67108872 404080737780336558080 S V es ev ->
+  tmpl 35184372088832 0 486539322 33554436 401881714390011805696 S V es ev ->
+  tmpl 35184372088832 0 520093758 33554436 399682690745030213632 S V es ev ->
+  1000000 <= r <= 10000000000 -> 0 <= es -> 0 <= ev ->
+  8 * S' <= 7 * S + 65536 * r < 8 * S' + 8 ->
+  4 * V' <= 3 * V + Z.abs (S - 65536 * r) < 4 * V' + 4 ->
+  0 <= es' -> 8 * P45 * es' <= 7 * (P45 + E1) * es + E1 * (7 * S + 65536 * r) + 8 * P45 * (65536 + 1) ->
+  0 <= ev' -> 4 * P45 * ev' <= 3 * (P45 + E1) * ev + (P45 + E1) * es + E1 * (3 * V + Z.abs (S - 65536 * r)) + 4 * P45 * (65536 + 1) ->
+  tmpl 35184372088832 0 436207668 67108872 405180249542652133376 S' V' es' ev'.
+Proof. unfold tmpl, P45, E1. intros. lia. Qed.
+Lemma inv1ms_10s_x2_step_93 S V es ev r S' V' es' ev' :
+  65536000000 <= S <= 655360000000000 -> 0 <= V <= 655360000000000 ->
+
+  tmpl 35184372088832 0 436207668 0 405343572022731079680 S V es ev ->
+  tmpl 35184372088832 0 452984886 0 404122051557223038976 S V es ev ->
+  tmpl 35184372088832 0 503316540 0 400782441201163960320 S V es ev ->
+  tmpl 35184372088832 0 520093758 0 399682718237291184128 S V es ev ->
+  1000000 <= r <= 10000000000 -> 0 <= es -> 0 <= ev ->
+  8 * S' <= 7 * S + 65536 * r < 8 * S' + 8 ->
+  4 * V' <= 3 * V + Z.abs (S - 65536 * r) < 4 * V' + 4 ->
+  0 <= es' -> 8 * P45 * es' <= 7 * (P45 + E1) * es + E1 * (7 * S + 65536 * r) + 8 * P45 * (65536 + 1) ->
+  0 <= ev' -> 4 * P45 * ev' <= 3 * (P45 + E1) * ev + (P45 + E1) * es + E1 * (3 * V + Z.abs (S - 65536 * r)) + 4 * P45 * (65536 + 1) ->
+  tmpl 35184372088832 0 452984886 0 404122051557223038976 S' V' es' ev'.
+Proof. unfold tmpl, P45, E1. intros. lia. Qed.
+Lemma inv1ms_10s_x2_step_94 S V es ev r S' V' es' ev' :
+  65536000000 <= S <= 655360000000000 -> 0 <= V <= 655360000000000 ->
+
+  tmpl 35184372088832 0 385876014 67108872 408478812314553745408 S V es ev ->
+  tmpl 35184372088832 0 452984886 33554436 404080765273416269824 S V es ev ->
+  tmpl 35184372088832 0 486539322 33554436 401881714390011805696 S V es ev ->
+  tmpl 35184372088832 0 503316540 0 400782441201163960320 S V es ev ->
+  tmpl 35184372088832 0 503316540 33554436 400782202507264786432 S V es ev ->
+  tmpl 35184372088832 0 553648194 0 397483667354709393408 S V es ev ->
+  1000000 <= r <= 10000000000 -> 0 <= es -> 0 <= ev ->
+  8 * S' <= 7 * S + 65536 * r < 8 * S' + 8 ->
+  4 * V' <= 3 * V + Z.abs (S - 65536 * r) < 4 * V' + 4 ->
+  0 <= es' -> 8 * P45 * es' <= 7 * (P45 + E1) * es + E1 * (7 * S + 65536 * r) + 8 * P45 * (65536 + 1) ->
+  0 <= ev' -> 4 * P45 * ev' <= 3 * (P45 + E1) * ev + (P45 + E1) * es + E1 * (3 * V + Z.abs (S - 65536 * r)) + 4 * P45 * (65536 + 1) ->
+  tmpl 35184372088832 0 452984886 33554436 404080765273416269824 S' V' es' ev'.
+Proof. unfold tmpl, P45, E1. intros. lia. Qed.
+Lemma inv1ms_10s_x2_step_95 S V es ev r S' V' es' ev' :
+  65536000000 <= S <= 655360000000000 -> 0 <= V <= 655360000000000 ->
+
+  tmpl 35184372088832 0 318767142 134217744 412876831851458330624 S V es ev ->
+  tmpl 35184372088832 0 452984886 67108872 404080737780336558080 S V es ev ->
+  tmpl 35184372088832 0 503316540 33554436 400782202507264786432 S V es ev ->
+  tmpl 35184372088832 0 520093758 33554436 399682690745030213632 S V es ev ->
+  1000000 <= r <= 10000000000 -> 0 <= es -> 0 <= ev ->
+  8 * S' <= 7 * S + 65536 * r < 8 * S' + 8 ->
+  4 * V' <= 3 * V + Z.abs (S - 65536 * r) < 4 * V' + 4 ->
+  0 <= es' -> 8 * P45 * es' <= 7 * (P45 + E1) * es + E1 * (7 * S + 65536 * r) + 8 * P45 * (65536 + 1) ->
+  0 <= ev' -> 4 * P45 * ev' <= 3 * (P45 + E1) * ev + (P45 + E1) * es + E1 * (3 * V + Z.abs (S - 65536 * r)) + 4 * P45 * (65536 + 1) ->
+  tmpl 35184372088832 0 452984886 67108872 404080737780336558080 S' V' es' ev'.
+Proof. unfold tmpl, P45, E1. intros. lia. Qed.
+Lemma inv1ms_10s_x2_step_96 S V es ev r S' V' es' ev' :
+  65536000000 <= S <= 655360000000000 -> 0 <= V <= 655360000000000 ->
+
+  tmpl 35184372088832 0 452984886 0 404122051557223038976 S V es ev ->
+  tmpl 35184372088832 0 469762104 0 402990163558223446016 S V es ev ->
+  tmpl 35184372088832 0 520093758 0 399682718237291184128 S V es ev ->
+  tmpl 35184372088832 0 536870976 0 398583181305200246784 S V es ev ->
+  1000000 <= r <= 10000000000 -> 0 <= es -> 0 <= ev ->
+  8 * S' <= 7 * S + 65536 * r < 8 * S' + 8 ->
+  4 * V' <= 3 * V + Z.abs (S - 65536 * r) < 4 * V' + 4 ->
+  0 <= es' -> 8 * P45 * es' <= 7 * (P45 + E1) * es + E1 * (7 * S + 65536 * r) + 8 * P45 * (65536 + 1) ->
+  0 <= ev' -> 4 * P45 * ev' <= 3 * (P45 + E1) * ev + (P45 + E1) * es + E1 * (3 * V + Z.abs (S - 65536 * r)) + 4 * P45 * (65536 + 1) ->
+  tmpl 35184372088832 0 469762104 0 402990163558223446016 S' V' es' ev'.
+Proof. unfold tmpl, P45, E1. intros. lia. Qed.
+Lemma inv1ms_10s_x2_step_97 S V es ev r S' V' es' ev' :
+  65536000000 <= S <= 655360000000000 -> 0 <= V <= 655360000000000 ->
+
+  tmpl 35184372088832 0 318767142 134217744 412876831851458330624 S V es ev ->
+  tmpl 35184372088832 0 452984886 33554436 404080765273416269824 S V es ev ->
+  tmpl 35184372088832 0 469762104 33554436 402981228340587069440 S V es ev ->
+  tmpl 35184372088832 0 520093758 0 399682718237291184128 S V es ev ->
+  tmpl 35184372088832 0 520093758 33554436 399682690745030213632 S V es ev ->
+  tmpl 35184372088832 0 570425412 0 396384155471969583104 S V es ev ->
+  1000000 <= r <= 10000000000 -> 0 <= es -> 0 <= ev ->
+  8 * S' <= 7 * S + 65536 * r < 8 * S' + 8 ->
+  4 * V' <= 3 * V + Z.abs (S - 65536 * r) < 4 * V' + 4 ->
+  0 <= es' -> 8 * P45 * es' <= 7 * (P45 + E1) * es + E1 * (7 * S + 65536 * r) + 8 * P45 * (65536 + 1) ->
+  0 <= ev' -> 4 * P45 * ev' <= 3 * (P45 + E1) * ev + (P45 + E1) * es + E1 * (3 * V + Z.abs (S - 65536 * r)) + 4 * P45 * (65536 + 1) ->
+  tmpl 35184372088832 0 469762104 33554436 402981228340587069440 S' V' es' ev'.
+Proof. unfold tmpl, P45, E1. intros. lia. Qed.
+Lemma inv1ms_10s_x2_step_98 S V es ev r S' V' es' ev' :
+  65536000000 <= S <= 655360000000000 -> 0 <= V <= 655360000000000 ->
+
+  tmpl 35184372088832 0 469762104 0 402990163558223446016 S V es ev ->
+  tmpl 35184372088832 0 486539322 0 401883333290772660224 S V es ev ->
+  tmpl 35184372088832 0 536870976 0 398583181305200246784 S V es ev ->
+  tmpl 35184372088832 0 553648194 0 397483667354709393408 S V es ev ->
+  1000000 <= r <= 10000000000 -> 0 <= es -> 0 <= ev ->
+  8 * S' <= 7 * S + 65536 * r < 8 * S' + 8 ->
+  4 * V' <= 3 * V + Z.abs (S - 65536 * r) < 4 * V' + 4 ->
+  0 <= es' -> 8 * P45 * es' <= 7 * (P45 + E1) * es + E1 * (7 * S + 65536 * r) + 8 * P45 * (65536 + 1) ->
+  0 <= ev' -> 4 * P45 * ev' <= 3 * (P45 + E1) * ev + (P45 + E1) * es + E1 * (3 * V + Z.abs (S - 65536 * r)) + 4 * P45 * (65536 + 1) ->
+  tmpl 35184372088832 0 486539322 0 401883333290772660224 S' V' es' ev'.
+Proof. unfold tmpl, P45, E1. intros. lia. Qed.
+Lemma inv1ms_10s_x2_step_99 S V es ev r S' V' es' ev' :
+  65536000000 <= S <= 655360000000000 -> 0 <= V <= 655360000000000 ->
+
+  tmpl 35184372088832 0 469762104 33554436 402981228340587069440 S V es ev ->
+  tmpl 35184372088832 0 486539322 33554436 401881714390011805696 S V es ev ->
+  tmpl 35184372088832 0 520093758 33554436 399682690745030213632 S V es ev ->
+  tmpl 35184372088832 0 536870976 0 398583181305200246784 S V es ev ->
+  tmpl 35184372088832 0 587202630 0 395284643709735665664 S V es ev ->
+  1000000 <= r <= 10000000000 -> 0 <= es -> 0 <= ev ->
+  8 * S' <= 7 * S + 65536 * r < 8 * S' + 8 ->
+  4 * V' <= 3 * V + Z.abs (S - 65536 * r) < 4 * V' + 4 ->
+  0 <= es' -> 8 * P45 * es' <= 7 * (P45 + E1) * es + E1 * (7 * S + 65536 * r) + 8 * P45 * (65536 + 1) ->
+  0 <= ev' -> 4 * P45 * ev' <= 3 * (P45 + E1) * ev + (P45 + E1) * es + E1 * (3 * V + Z.abs (S - 65536 * r)) + 4 * P45 * (65536 + 1) ->
+  tmpl 35184372088832 0 486539322 33554436 401881714390011805696 S' V' es' ev'.
+Proof. unfold tmpl, P45, E1. intros. lia. Qed.
+Lemma inv1ms_10s_x2_step_100 S V es ev r S' V' es' ev' :
+  65536000000 <= S <= 655360000000000 -> 0 <= V <= 655360000000000 ->
+
+  tmpl 35184372088832 0 486539322 0 401883333290772660224 S V es ev ->
+  tmpl 35184372088832 0 503316540 0 400782441201163960320 S V es ev ->
+  tmpl 35184372088832 0 553648194 0 397483667354709393408 S V es ev ->
+  tmpl 35184372088832 0 570425412 0 396384155471969583104 S V es ev ->
+  1000000 <= r <= 10000000000 -> 0 <= es -> 0 <= ev ->
+  8 * S' <= 7 * S + 65536 * r < 8 * S' + 8 ->
+  4 * V' <= 3 * V + Z.abs (S - 65536 * r) < 4 * V' + 4 ->
+  0 <= es' -> 8 * P45 * es' <= 7 * (P45 + E1) * es + E1 * (7 * S + 65536 * r) + 8 * P45 * (65536 + 1) ->
+  0 <= ev' -> 4 * P45 * ev' <= 3 * (P45 + E1) * ev + (P45 + E1) * es + E1 * (3 * V + Z.abs (S - 65536 * r)) + 4 * P45 * (65536 + 1) ->
+  tmpl 35184372088832 0 503316540 0 400782441201163960320 S' V' es' ev'.
+Proof. unfold tmpl, P45, E1. intros. lia. Qed.
+Lemma inv1ms_10s_x2_step_101 S V es ev r S' V' es' ev' :
+  65536000000 <= S <= 655360000000000 -> 0 <= V <= 655360000000000 ->
+
+  tmpl 35184372088832 0 486539322 33554436 401881714390011805696 S V es ev ->
+  tmpl 35184372088832 0 503316540 33554436 400782202507264786432 S V es ev ->
+  tmpl 35184372088832 0 520093758 33554436 399682690745030213632 S V es ev ->
+  tmpl 35184372088832 0 553648194 0 397483667354709393408 S V es ev ->
+  tmpl 35184372088832 0 587202630 0 395284643709735665664 S V es ev ->
+  1000000 <= r <= 10000000000 -> 0 <= es -> 0 <= ev ->
+  8 * S' <= 7 * S + 65536 * r < 8 * S' + 8 ->
+  4 * V' <= 3 * V + Z.abs (S - 65536 * r) < 4 * V' + 4 ->
+  0 <= es' -> 8 * P45 * es' <= 7 * (P45 + E1) * es + E1 * (7 * S + 65536 * r) + 8 * P45 * (65536 + 1) ->
+  0 <= ev' -> 4 * P45 * ev' <= 3 * (P45 + E1) * ev + (P45 + E1) * es + E1 * (3 * V + Z.abs (S - 65536 * r)) + 4 * P45 * (65536 + 1) ->
+  tmpl 35184372088832 0 503316540 33554436 400782202507264786432 S' V' es' ev'.
+Proof. unfold tmpl, P45, E1. intros. lia. Qed.
+Lemma inv1ms_10s_x2_step_102 S V es ev r S' V' es' ev' :
+  65536000000 <= S <= 655360000000000 -> 0 <= V <= 655360000000000 ->
+
+  tmpl 35184372088832 0 503316540 0 400782441201163960320 S V es ev ->
+  tmpl 35184372088832 0 520093758 0 399682718237291184128 S V es ev ->
+  tmpl 35184372088832 0 570425412 0 396384155471969583104 S V es ev ->
+  tmpl 35184372088832 0 587202630 0 395284643709735665664 S V es ev ->
+  1000000 <= r <= 10000000000 -> 0 <= es -> 0 <= ev ->
+  8 * S' <= 7 * S + 65536 * r < 8 * S' + 8 ->
+  4 * V' <= 3 * V + Z.abs (S - 65536 * r) < 4 * V' + 4 ->
+  0 <= es' -> 8 * P45 * es' <= 7 * (P45 + E1) * es + E1 * (7 * S + 65536 * r) + 8 * P45 * (65536 + 1) ->
+  0 <= ev' -> 4 * P45 * ev' <= 3 * (P45 + E1) * ev + (P45 + E1) * es + E1 * (3 * V + Z.abs (S - 65536 * r)) + 4 * P45 * (65536 + 1) ->
+  tmpl 35184372088832 0 520093758 0 399682718237291184128 S' V' es' ev'.
+Proof. unfold tmpl, P45, E1. intros. lia. Qed.
+Lemma inv1ms_10s_x2_step_103 S V es ev r S' V' es' ev' :
+  65536000000 <= S <= 655360000000000 -> 0 <= V <= 655360000000000 ->
+
+  tmpl 35184372088832 0 503316540 33554436 400782202507264786432 S V es ev ->
+  tmpl 35184372088832 0 520093758 33554436 399682690745030213632 S V es ev ->
+  tmpl 35184372088832 0 570425412 0 396384155471969583104 S V es ev ->
+  tmpl 35184372088832 0 587202630 0 395284643709735665664 S V es ev ->
+  1000000 <= r <= 10000000000 -> 0 <= es -> 0 <= ev ->
+  8 * S' <= 7 * S + 65536 * r < 8 * S' + 8 ->
+  4 * V' <= 3 * V + Z.abs (S - 65536 * r) < 4 * V' + 4 ->
+  0 <= es' -> 8 * P45 * es' <= 7 * (P45 + E1) * es + E1 * (7 * S + 65536 * r) + 8 * P45 * (65536 + 1) ->
+  0 <= ev' -> 4 * P45 * ev' <= 3 * (P45 + E1) * ev + (P45 + E1) * es + E1 * (3 * V + Z.abs (S - 65536 * r)) + 4 * P45 * (65536 + 1) ->
+  tmpl 35184372088832 0 520093758 33554436 399682690745030213632 S' V' es' ev'.
+Proof. unfold tmpl, P45, E1. intros. lia. Qed.
+Lemma inv1ms_10s_x2_step_104 S V es ev r S' V' es' ev' :
+  65536000000 <= S <= 655360000000000 -> 0 <= V <= 655360000000000 ->
+
+  tmpl 35184372088832 0 520093758 0 399682718237291184128 S V es ev ->
+  tmpl 35184372088832 0 536870976 0 398583181305200246784 S V es ev ->
+  tmpl 35184372088832 0 587202630 0 395284643709735665664 S V es ev ->
+  1000000 <= r <= 10000000000 -> 0 <= es -> 0 <= ev ->
+  8 * S' <= 7 * S + 65536 * r < 8 * S' + 8 ->
+  4 * V' <= 3 * V + Z.abs (S - 65536 * r) < 4 * V' + 4 ->
+  0 <= es' -> 8 * P45 * es' <= 7 * (P45 + E1) * es + E1 * (7 * S + 65536 * r) + 8 * P45 * (65536 + 1) ->
+  0 <= ev' -> 4 * P45 * ev' <= 3 * (P45 + E1) * ev + (P45 + E1) * es + E1 * (3 * V + Z.abs (S - 65536 * r)) + 4 * P45 * (65536 + 1) ->
+  tmpl 35184372088832 0 536870976 0 398583181305200246784 S' V' es' ev'.
+Proof. unfold tmpl, P45, E1. intros. lia. Qed.
+Lemma inv1ms_10s_x2_step_105 S V es ev r S' V' es' ev' :
+  65536000000 <= S <= 655360000000000 -> 0 <= V <= 655360000000000 ->
+
+  tmpl 35184372088832 0 536870976 0 398583181305200246784 S V es ev ->
+  tmpl 35184372088832 0 553648194 0 397483667354709393408 S V es ev ->
+  tmpl 35184372088832 0 587202630 0 395284643709735665664 S V es ev ->
+  1000000 <= r <= 10000000000 -> 0 <= es -> 0 <= ev ->
+  8 * S' <= 7 * S + 65536 * r < 8 * S' + 8 ->
+  4 * V' <= 3 * V + Z.abs (S - 65536 * r) < 4 * V' + 4 ->
+  0 <= es' -> 8 * P45 * es' <= 7 * (P45 + E1) * es + E1 * (7 * S + 65536 * r) + 8 * P45 * (65536 + 1) ->
+  0 <= ev' -> 4 * P45 * ev' <= 3 * (P45 + E1) * ev + (P45 + E1) * es + E1 * (3 * V + Z.abs (S - 65536 * r)) + 4 * P45 * (65536 + 1) ->
+  tmpl 35184372088832 0 553648194 0 397483667354709393408 S' V' es' ev'.
+Proof. unfold tmpl, P45, E1. intros. lia. Qed.
+Lemma inv1ms_10s_x2_step_106 S V es ev r S' V' es' ev' :
+  65536000000 <= S <= 655360000000000 -> 0 <= V <= 655360000000000 ->
+
+  tmpl 35184372088832 0 553648194 0 397483667354709393408 S V es ev ->
+  tmpl 35184372088832 0 570425412 0 396384155471969583104 S V es ev ->
+  tmpl 35184372088832 0 587202630 0 395284643709735665664 S V es ev ->
+  1000000 <= r <= 10000000000 -> 0 <= es -> 0 <= ev ->
+  8 * S' <= 7 * S + 65536 * r < 8 * S' + 8 ->
+  4 * V' <= 3 * V + Z.abs (S - 65536 * r) < 4 * V' + 4 ->
+  0 <= es' -> 8 * P45 * es' <= 7 * (P45 + E1) * es + E1 * (7 * S + 65536 * r) + 8 * P45 * (65536 + 1) ->
+  0 <= ev' -> 4 * P45 * ev' <= 3 * (P45 + E1) * ev + (P45 + E1) * es + E1 * (3 * V + Z.abs (S - 65536 * r)) + 4 * P45 * (65536 + 1) ->
+  tmpl 35184372088832 0 570425412 0 396384155471969583104 S' V' es' ev'.
+Proof. unfold tmpl, P45, E1. intros. lia. Qed.
+Lemma inv1ms_10s_x2_step_107 S V es ev r S' V' es' ev' :
+  65536000000 <= S <= 655360000000000 -> 0 <= V <= 655360000000000 ->
+
+  tmpl 35184372088832 0 570425412 0 396384155471969583104 S V es ev ->
+  tmpl 35184372088832 0 587202630 0 395284643709735665664 S V es ev ->
+  1000000 <= r <= 10000000000 -> 0 <= es -> 0 <= ev ->
+  8 * S' <= 7 * S + 65536 * r < 8 * S' + 8 ->
+  4 * V' <= 3 * V + Z.abs (S - 65536 * r) < 4 * V' + 4 ->
+  0 <= es' -> 8 * P45 * es' <= 7 * (P45 + E1) * es + E1 * (7 * S + 65536 * r) + 8 * P45 * (65536 + 1) ->
+  0 <= ev' -> 4 * P45 * ev' <= 3 * (P45 + E1) * ev + (P45 + E1) * es + E1 * (3 * V + Z.abs (S - 65536 * r)) + 4 * P45 * (65536 + 1) ->
+  tmpl 35184372088832 0 587202630 0 395284643709735665664 S' V' es' ev'.
+Proof. unfold tmpl, P45, E1. intros. lia. Qed.
+Lemma inv1ms_10s_x2_step_108 S V es ev r S' V' es' ev' :
+  65536000000 <= S <= 655360000000000 -> 0 <= V <= 655360000000000 ->
+
+  tmpl 35184372088832 0 0 0 43999234116437669838848 S V es ev ->
+  tmpl 35184372088832 0 16777218 0 34225674092040490582016 S V es ev ->
+  tmpl 0 35184372088832 0 0 65483003519166450761728 S V es ev ->
+  tmpl 35184372088832 140737521909764 0 0 305244166066025917317120 S V es ev ->
+  1000000 <= r <= 10000000000 -> 0 <= es -> 0 <= ev ->
+  8 * S' <= 7 * S + 65536 * r < 8 * S' + 8 ->
+  4 * V' <= 3 * V + Z.abs (S - 65536 * r) < 4 * V' + 4 ->
+  0 <= es' -> 8 * P45 * es' <= 7 * (P45 + E1) * es + E1 * (7 * S + 65536 * r) + 8 * P45 * (65536 + 1) ->
+  0 <= ev' -> 4 * P45 * ev' <= 3 * (P45 + E1) * ev + (P45 + E1) * es + E1 * (3 * V + Z.abs (S - 65536 * r)) + 4 * P45 * (65536 + 1) ->
+  tmpl 0 35184372088832 0 0 65483003519166450761728 S' V' es' ev'.
+Proof. unfold tmpl, P45, E1. intros. lia. Qed.
+Lemma inv1ms_10s_x2_step_109 S V es ev r S' V' es' ev' :
+  65536000000 <= S <= 655360000000000 -> 0 <= V <= 655360000000000 ->
+
+  tmpl 0 0 8388609 (-16777218) 6596535554603892080640 S V es ev ->
+  tmpl 35184372088832 0 33554436 0 26623771154023886880768 S V es ev ->
+  tmpl 0 35184372088832 0 0 65483003519166450761728 S V es ev ->
+  tmpl 0 35184372088832 33554436 0 51856350919460565024768 S V es ev ->
+  1000000 <= r <= 10000000000 -> 0 <= es -> 0 <= ev ->
+  8 * S' <= 7 * S + 65536 * r < 8 * S' + 8 ->
+  4 * V' <= 3 * V + Z.abs (S - 65536 * r) < 4 * V' + 4 ->
+  0 <= es' -> 8 * P45 * es' <= 7 * (P45 + E1) * es + E1 * (7 * S + 65536 * r) + 8 * P45 * (65536 + 1) ->
+  0 <= ev' -> 4 * P45 * ev' <= 3 * (P45 + E1) * ev + (P45 + E1) * es + E1 * (3 * V + Z.abs (S - 65536 * r)) + 4 * P45 * (65536 + 1) ->
+  tmpl 0 35184372088832 33554436 0 51856350919460565024768 S' V' es' ev'.
+Proof. unfold tmpl, P45, E1. intros. lia. Qed.
+Lemma inv1ms_10s_x2_step_110 S V es ev r S' V' es' ev' :
+  65536000000 <= S <= 655360000000000 -> 0 <= V <= 655360000000000 ->
+
+  tmpl 0 0 8388609 (-8388609) 1648730796089356582912 S V es ev ->
+  tmpl 35184372088832 0 50331654 0 20710934392785520820224 S V es ev ->
+  tmpl 0 35184372088832 67108872 0 41117121641585139777536 S V es ev ->
+  tmpl 109951162777600000 439804755968012500 549755813888 209715225000 610134219416973449625600000 S V es ev ->
+  1000000 <= r <= 10000000000 -> 0 <= es -> 0 <= ev ->
+  8 * S' <= 7 * S + 65536 * r < 8 * S' + 8 ->
+  4 * V' <= 3 * V + Z.abs (S - 65536 * r) < 4 * V' + 4 ->
+  0 <= es' -> 8 * P45 * es' <= 7 * (P45 + E1) * es + E1 * (7 * S + 65536 * r) + 8 * P45 * (65536 + 1) ->
+  0 <= ev' -> 4 * P45 * ev' <= 3 * (P45 + E1) * ev + (P45 + E1) * es + E1 * (3 * V + Z.abs (S - 65536 * r)) + 4 * P45 * (65536 + 1) ->
+  tmpl 0 35184372088832 67108872 0 41117121641585139777536 S' V' es' ev'.
+Proof. unfold tmpl, P45, E1. intros. lia. Qed.
+Lemma inv1ms_10s_x2_step_111 S V es ev r S' V' es' ev' :
+  65536000000 <= S <= 655360000000000 -> 0 <= V <= 655360000000000 ->
+
+  tmpl 35184372088832 0 67108872 0 16111815576034815770624 S V es ev ->
+  tmpl 0 35184372088832 67108872 33554436 27569976611144382545920 S V es ev ->
+  tmpl 109951162777600000 439804755968012500 549755813888 419430450000 520356152558334718771200000 S V es ev ->
+  tmpl 109951162777600000 439804755968012500 1099511627776 209715225000 460010847367308456755200000 S V es ev ->
+  1000000 <= r <= 10000000000 -> 0 <= es -> 0 <= ev ->
+  8 * S' <= 7 * S + 65536 * r < 8 * S' + 8 ->
+  4 * V' <= 3 * V + Z.abs (S - 65536 * r) < 4 * V' + 4 ->
+  0 <= es' -> 8 * P45 * es' <= 7 * (P45 + E1) * es + E1 * (7 * S + 65536 * r) + 8 * P45 * (65536 + 1) ->
+  0 <= ev' -> 4 * P45 * ev' <= 3 * (P45 + E1) * ev + (P45 + E1) * es + E1 * (3 * V + Z.abs (S - 65536 * r)) + 4 * P45 * (65536 + 1) ->
+  tmpl 0 35184372088832 67108872 33554436 27569976611144382545920 S' V' es' ev'.
+Proof. unfold tmpl, P45, E1. intros. lia. Qed.
+Lemma inv1ms_10s_x2_step_112 S V es ev r S' V' es' ev' :
+  65536000000 <= S <= 655360000000000 -> 0 <= V <= 655360000000000 ->
+
+  tmpl 0 0 8388609 (-8388609) 1648730796089356582912 S V es ev ->
+  tmpl 35184372088832 0 67108872 0 16111815576034815770624 S V es ev ->
+  tmpl 35184372088832 0 83886090 0 12534477450322265505792 S V es ev ->
+  tmpl 0 35184372088832 100663308 0 32880950580924523741184 S V es ev ->
+  tmpl 109951162777600000 439804755968012500 1099511627776 104857612500 502651689723456126976000000 S V es ev ->
+  1000000 <= r <= 10000000000 -> 0 <= es -> 0 <= ev ->
+  8 * S' <= 7 * S + 65536 * r < 8 * S' + 8 ->
+  4 * V' <= 3 * V + Z.abs (S - 65536 * r) < 4 * V' + 4 ->
+  0 <= es' -> 8 * P45 * es' <= 7 * (P45 + E1) * es + E1 * (7 * S + 65536 * r) + 8 * P45 * (65536 + 1) ->
+  0 <= ev' -> 4 * P45 * ev' <= 3 * (P45 + E1) * ev + (P45 + E1) * es + E1 * (3 * V + Z.abs (S - 65536 * r)) + 4 * P45 * (65536 + 1) ->
+  tmpl 0 35184372088832 100663308 0 32880950580924523741184 S' V' es' ev'.
+Proof. unfold tmpl, P45, E1. intros. lia. Qed.
+Lemma inv1ms_10s_x2_step_113 S V es ev r S' V' es' ev' :
+  65536000000 <= S <= 655360000000000 -> 0 <= V <= 655360000000000 ->
+
+  tmpl 35184372088832 0 83886090 0 12534477450322265505792 S V es ev ->
+  tmpl 35184372088832 0 100663308 0 9751858405112184569856 S V es ev ->
+  tmpl 0 35184372088832 100663308 33554436 21626668937271157194752 S V es ev ->
+  tmpl 109951162777600000 439804755968012500 1099511627776 419430450000 383248869666463888179200000 S V es ev ->
+  tmpl 109951162777600000 439804755968012500 1649267441664 209715225000 350388785952571575500800000 S V es ev ->
+  1000000 <= r <= 10000000000 -> 0 <= es -> 0 <= ev ->
+  8 * S' <= 7 * S + 65536 * r < 8 * S' + 8 ->
+  4 * V' <= 3 * V + Z.abs (S - 65536 * r) < 4 * V' + 4 ->
+  0 <= es' -> 8 * P45 * es' <= 7 * (P45 + E1) * es + E1 * (7 * S + 65536 * r) + 8 * P45 * (65536 + 1) ->
+  0 <= ev' -> 4 * P45 * ev' <= 3 * (P45 + E1) * ev + (P45 + E1) * es + E1 * (3 * V + Z.abs (S - 65536 * r)) + 4 * P45 * (65536 + 1) ->
+  tmpl 0 35184372088832 100663308 33554436 21626668937271157194752 S' V' es' ev'.
+Proof. unfold tmpl, P45, E1. intros. lia. Qed.
+Lemma inv1ms_10s_x2_step_114 S V es ev r S' V' es' ev' :
+  65536000000 <= S <= 655360000000000 -> 0 <= V <= 655360000000000 ->
+
+  tmpl 0 0 8388609 (-8388609) 1648730796089356582912 S V es ev ->
+  tmpl 0 0 16777218 (-8388609) (-820022133117572608) S V es ev ->
+  tmpl 35184372088832 0 83886090 0 12534477450322265505792 S V es ev ->
+  tmpl 0 35184372088832 134217744 0 26459941626017174519808 S V es ev ->
+  tmpl 109951162777600000 439804755968012500 1649267441664 0 423219155169629962240000000 S V es ev ->
+  1000000 <= r <= 10000000000 -> 0 <= es -> 0 <= ev ->
+  8 * S' <= 7 * S + 65536 * r < 8 * S' + 8 ->
+  4 * V' <= 3 * V + Z.abs (S - 65536 * r) < 4 * V' + 4 ->
+  0 <= es' -> 8 * P45 * es' <= 7 * (P45 + E1) * es + E1 * (7 * S + 65536 * r) + 8 * P45 * (65536 + 1) ->
+  0 <= ev' -> 4 * P45 * ev' <= 3 * (P45 + E1) * ev + (P45 + E1) * es + E1 * (3 * V + Z.abs (S - 65536 * r)) + 4 * P45 * (65536 + 1) ->
+  tmpl 0 35184372088832 134217744 0 26459941626017174519808 S' V' es' ev'.
+Proof. unfold tmpl, P45, E1. intros. lia. Qed.
+Lemma inv1ms_10s_x2_step_115 S V es ev r S' V' es' ev' :
+  65536000000 <= S <= 655360000000000 -> 0 <= V <= 655360000000000 ->
+
+  tmpl 35184372088832 0 100663308 0 9751858405112184569856 S V es ev ->
+  tmpl 35184372088832 0 117440526 0 7587357747373541425152 S V es ev ->
+  tmpl 0 35184372088832 134217744 33554436 17071037512916144226304 S V es ev ->
+  tmpl 109951162777600000 439804755968012500 1649267441664 419430450000 289023183573708963840000000 S V es ev ->
+  tmpl 109951162777600000 439804755968012500 2199023255552 209715225000 268379475142951829504000000 S V es ev ->
+  1000000 <= r <= 10000000000 -> 0 <= es -> 0 <= ev ->
+  8 * S' <= 7 * S + 65536 * r < 8 * S' + 8 ->
+  4 * V' <= 3 * V + Z.abs (S - 65536 * r) < 4 * V' + 4 ->
+  0 <= es' -> 8 * P45 * es' <= 7 * (P45 + E1) * es + E1 * (7 * S + 65536 * r) + 8 * P45 * (65536 + 1) ->
+  0 <= ev' -> 4 * P45 * ev' <= 3 * (P45 + E1) * ev + (P45 + E1) * es + E1 * (3 * V + Z.abs (S - 65536 * r)) + 4 * P45 * (65536 + 1) ->
+  tmpl 0 35184372088832 134217744 33554436 17071037512916144226304 S' V' es' ev'.
+Proof. unfold tmpl, P45, E1. intros. lia. Qed.
+Lemma inv1ms_10s_x2_step_116 S V es ev r S' V' es' ev' :
+  65536000000 <= S <= 655360000000000 -> 0 <= V <= 655360000000000 ->
+
+  tmpl 35184372088832 0 134217744 0 5903629511765034795008 S V es ev ->
+  tmpl 0 35184372088832 134217744 67108872 10993953939810357870592 S V es ev ->
+  tmpl 0 35184372088832 167772180 33554436 13515504633843921453056 S V es ev ->
+  tmpl 109951162777600000 439804755968012500 1649267441664 838860900000 198452313444015354675200000 S V es ev ->
+  1000000 <= r <= 10000000000 -> 0 <= es -> 0 <= ev ->
+  8 * S' <= 7 * S + 65536 * r < 8 * S' + 8 ->
+  4 * V' <= 3 * V + Z.abs (S - 65536 * r) < 4 * V' + 4 ->
+  0 <= es' -> 8 * P45 * es' <= 7 * (P45 + E1) * es + E1 * (7 * S + 65536 * r) + 8 * P45 * (65536 + 1) ->
+  0 <= ev' -> 4 * P45 * ev' <= 3 * (P45 + E1) * ev + (P45 + E1) * es + E1 * (3 * V + Z.abs (S - 65536 * r)) + 4 * P45 * (65536 + 1) ->
+  tmpl 0 35184372088832 134217744 67108872 10993953939810357870592 S' V' es' ev'.
+Proof. unfold tmpl, P45, E1. intros. lia. Qed.
+Lemma inv1ms_10s_x2_step_117 S V es ev r S' V' es' ev' :
+  65536000000 <= S <= 655360000000000 -> 0 <= V <= 655360000000000 ->
+
+  tmpl 0 0 16777218 (-8388609) (-820022133117572608) S V es ev ->
+  tmpl 35184372088832 0 117440526 0 7587357747373541425152 S V es ev ->
+  tmpl 0 35184372088832 167772180 33554436 13515504633843921453056 S V es ev ->
+  tmpl 0 35184372088832 234881052 0 13512093834172975546368 S V es ev ->
+  tmpl 109951162777600000 439804755968012500 2199023255552 419430450000 219405188725302126182400000 S V es ev ->
+  1000000 <= r <= 10000000000 -> 0 <= es -> 0 <= ev ->
+  8 * S' <= 7 * S + 65536 * r < 8 * S' + 8 ->
+  4 * V' <= 3 * V + Z.abs (S - 65536 * r) < 4 * V' + 4 ->
+  0 <= es' -> 8 * P45 * es' <= 7 * (P45 + E1) * es + E1 * (7 * S + 65536 * r) + 8 * P45 * (65536 + 1) ->
+  0 <= ev' -> 4 * P45 * ev' <= 3 * (P45 + E1) * ev + (P45 + E1) * es + E1 * (3 * V + Z.abs (S - 65536 * r)) + 4 * P45 * (65536 + 1) ->
+  tmpl 0 35184372088832 167772180 33554436 13515504633843921453056 S' V' es' ev'.
+Proof. unfold tmpl, P45, E1. intros. lia. Qed.
+Lemma inv1ms_10s_x2_step_118 S V es ev r S' V' es' ev' :
+  65536000000 <= S <= 655360000000000 -> 0 <= V <= 655360000000000 ->
+
+  tmpl 35184372088832 0 150994962 0 4593880170878093754368 S V es ev ->
+  tmpl 0 35184372088832 167772180 67108872 8572064083350197895168 S V es ev ->
+  tmpl 0 35184372088832 201326616 33554436 10748579327783280312320 S V es ev ->
+  tmpl 109951162777600000 439804755968012500 2199023255552 838860900000 147277324490028928204800000 S V es ev ->
+  1000000 <= r <= 10000000000 -> 0 <= es -> 0 <= ev ->
+  8 * S' <= 7 * S + 65536 * r < 8 * S' + 8 ->
+  4 * V' <= 3 * V + Z.abs (S - 65536 * r) < 4 * V' + 4 ->
+  0 <= es' -> 8 * P45 * es' <= 7 * (P45 + E1) * es + E1 * (7 * S + 65536 * r) + 8 * P45 * (65536 + 1) ->
+  0 <= ev' -> 4 * P45 * ev' <= 3 * (P45 + E1) * ev + (P45 + E1) * es + E1 * (3 * V + Z.abs (S - 65536 * r)) + 4 * P45 * (65536 + 1) ->
+  tmpl 0 35184372088832 167772180 67108872 8572064083350197895168 S' V' es' ev'.
+Proof. unfold tmpl, P45, E1. intros. lia. Qed.
+Lemma inv1ms_10s_x2_step_119 S V es ev r S' V' es' ev' :
+  65536000000 <= S <= 655360000000000 -> 0 <= V <= 655360000000000 ->
+
+  tmpl 35184372088832 0 134217744 33554436 2323499913678736064512 S V es ev ->
+  tmpl 0 35184372088832 167772180 134217744 4215169424604657090560 S V es ev ->
+  tmpl 0 35184372088832 234881052 67108872 5299191425168411983872 S V es ev ->
+  tmpl 109951162777600000 439804755968012500 2199023255552 1677721800000 77077647401638572851200000 S V es ev ->
+  1000000 <= r <= 10000000000 -> 0 <= es -> 0 <= ev ->
+  8 * S' <= 7 * S + 65536 * r < 8 * S' + 8 ->
+  4 * V' <= 3 * V + Z.abs (S - 65536 * r) < 4 * V' + 4 ->
+  0 <= es' -> 8 * P45 * es' <= 7 * (P45 + E1) * es + E1 * (7 * S + 65536 * r) + 8 * P45 * (65536 + 1) ->
+  0 <= ev' -> 4 * P45 * ev' <= 3 * (P45 + E1) * ev + (P45 + E1) * es + E1 * (3 * V + Z.abs (S - 65536 * r)) + 4 * P45 * (65536 + 1) ->
+  tmpl 0 35184372088832 167772180 134217744 4215169424604657090560 S' V' es' ev'.
+Proof. unfold tmpl, P45, E1. intros. lia. Qed.
+Lemma inv1ms_10s_x2_step_120 S V es ev r S' V' es' ev' :
+  65536000000 <= S <= 655360000000000 -> 0 <= V <= 655360000000000 ->
+
+  tmpl 35184372088832 0 134217744 67108872 956553882589610246144 S V es ev ->
+  tmpl 0 35184372088832 167772180 268435488 1693521709208180883456 S V es ev ->
+  tmpl 0 35184372088832 234881052 134217744 2207448969058618703872 S V es ev ->
+  tmpl 109951162777600000 439804755968012500 2199023255552 3355443600000 33480816810973095526400000 S V es ev ->
+  1000000 <= r <= 10000000000 -> 0 <= es -> 0 <= ev ->
+  8 * S' <= 7 * S + 65536 * r < 8 * S' + 8 ->
+  4 * V' <= 3 * V + Z.abs (S - 65536 * r) < 4 * V' + 4 ->
+  0 <= es' -> 8 * P45 * es' <= 7 * (P45 + E1) * es + E1 * (7 * S + 65536 * r) + 8 * P45 * (65536 + 1) ->
+  0 <= ev' -> 4 * P45 * ev' <= 3 * (P45 + E1) * ev + (P45 + E1) * es + E1 * (3 * V + Z.abs (S - 65536 * r)) + 4 * P45 * (65536 + 1) ->
+  tmpl 0 35184372088832 167772180 268435488 1693521709208180883456 S' V' es' ev'.
+Proof. unfold tmpl, P45, E1. intros. lia. Qed.
+Lemma inv1ms_10s_x2_step_121 S V es ev r S' V' es' ev' :
+  65536000000 <= S <= 655360000000000 -> 0 <= V <= 655360000000000 ->
+
+  tmpl 35184372088832 0 134217744 134217744 503140616911589605376 S V es ev ->
+  tmpl 0 35184372088832 167772180 536870976 923897766221642858496 S V es ev ->
+  tmpl 0 35184372088832 234881052 268435488 1006729719995359428608 S V es ev ->
+  tmpl 109951162777600000 439804755968012500 2199023255552 6710887200000 15280163592723192217600000 S V es ev ->
+  1000000 <= r <= 10000000000 -> 0 <= es -> 0 <= ev ->
+  8 * S' <= 7 * S + 65536 * r < 8 * S' + 8 ->
+  4 * V' <= 3 * V + Z.abs (S - 65536 * r) < 4 * V' + 4 ->
+  0 <= es' -> 8 * P45 * es' <= 7 * (P45 + E1) * es + E1 * (7 * S + 65536 * r) + 8 * P45 * (65536 + 1) ->
+  0 <= ev' -> 4 * P45 * ev' <= 3 * (P45 + E1) * ev + (P45 + E1) * es + E1 * (3 * V + Z.abs (S - 65536 * r)) + 4 * P45 * (65536 + 1) ->
+  tmpl 0 35184372088832 167772180 536870976 923897766221642858496 S' V' es' ev'.
+Proof. unfold tmpl, P45, E1. intros. lia. Qed.
+Lemma inv1ms_10s_x2_step_122 S V es ev r S' V' es' ev' :
+  65536000000 <= S <= 655360000000000 -> 0 <= V <= 655360000000000 ->
+
+  tmpl 0 0 16777218 (-8388609) (-820022133117572608) S V es ev ->
+  tmpl 35184372088832 0 100663308 0 9751858405112184569856 S V es ev ->
+  tmpl 35184372088832 0 117440526 0 7587357747373541425152 S V es ev ->
+  tmpl 0 35184372088832 201326616 0 16968742878223288762368 S V es ev ->
+  tmpl 109951162777600000 439804755968012500 2199023255552 104857612500 296536192690772246528000000 S V es ev ->
+  tmpl 109951162777600000 439804755968012500 2199023255552 209715225000 268379475142951829504000000 S V es ev ->
+  tmpl 109951162777600000 439804755968012500 2199023255552 419430450000 219405188725302126182400000 S V es ev ->
+  1000000 <= r <= 10000000000 -> 0 <= es -> 0 <= ev ->
+  8 * S' <= 7 * S + 65536 * r < 8 * S' + 8 ->
+  4 * V' <= 3 * V + Z.abs (S - 65536 * r) < 4 * V' + 4 ->
+  0 <= es' -> 8 * P45 * es' <= 7 * (P45 + E1) * es + E1 * (7 * S + 65536 * r) + 8 * P45 * (65536 + 1) ->
+  0 <= ev' -> 4 * P45 * ev' <= 3 * (P45 + E1) * ev + (P45 + E1) * es + E1 * (3 * V + Z.abs (S - 65536 * r)) + 4 * P45 * (65536 + 1) ->
+  tmpl 0 35184372088832 201326616 0 16968742878223288762368 S' V' es' ev'.
+Proof. unfold tmpl, P45, E1. intros. lia. Qed.
+Lemma inv1ms_10s_x2_step_123 S V es ev r S' V' es' ev' :
+  65536000000 <= S <= 655360000000000 -> 0 <= V <= 655360000000000 ->
+
+  tmpl 35184372088832 0 134217744 0 5903629511765034795008 S V es ev ->
+  tmpl 35184372088832 0 150994962 0 4593880170878093754368 S V es ev ->
+  tmpl 0 35184372088832 167772180 33554436 13515504633843921453056 S V es ev ->
+  tmpl 0 35184372088832 201326616 33554436 10748579327783280312320 S V es ev ->
+  tmpl 0 35184372088832 268435488 0 10745156669513727475712 S V es ev ->
+  1000000 <= r <= 10000000000 -> 0 <= es -> 0 <= ev ->
+  8 * S' <= 7 * S + 65536 * r < 8 * S' + 8 ->
+  4 * V' <= 3 * V + Z.abs (S - 65536 * r) < 4 * V' + 4 ->
+  0 <= es' -> 8 * P45 * es' <= 7 * (P45 + E1) * es + E1 * (7 * S + 65536 * r) + 8 * P45 * (65536 + 1) ->
+  0 <= ev' -> 4 * P45 * ev' <= 3 * (P45 + E1) * ev + (P45 + E1) * es + E1 * (3 * V + Z.abs (S - 65536 * r)) + 4 * P45 * (65536 + 1) ->
+  tmpl 0 35184372088832 201326616 33554436 10748579327783280312320 S' V' es' ev'.
+Proof. unfold tmpl, P45, E1. intros. lia. Qed.
+Lemma inv1ms_10s_x2_step_124 S V es ev r S' V' es' ev' :
+  65536000000 <= S <= 655360000000000 -> 0 <= V <= 655360000000000 ->
+
+  tmpl 35184372088832 0 167772180 0 3575128462191098855424 S V es ev ->
+  tmpl 0 35184372088832 167772180 67108872 8572064083350197895168 S V es ev ->
+  tmpl 0 35184372088832 201326616 67108872 6741615387513599295488 S V es ev ->
+  tmpl 0 35184372088832 234881052 33554436 8511381444373658992640 S V es ev ->
+  tmpl 0 35184372088832 268435488 33554436 6717307355331026747392 S V es ev ->
+  1000000 <= r <= 10000000000 -> 0 <= es -> 0 <= ev ->
+  8 * S' <= 7 * S + 65536 * r < 8 * S' + 8 ->
+  4 * V' <= 3 * V + Z.abs (S - 65536 * r) < 4 * V' + 4 ->
+  0 <= es' -> 8 * P45 * es' <= 7 * (P45 + E1) * es + E1 * (7 * S + 65536 * r) + 8 * P45 * (65536 + 1) ->
+  0 <= ev' -> 4 * P45 * ev' <= 3 * (P45 + E1) * ev + (P45 + E1) * es + E1 * (3 * V + Z.abs (S - 65536 * r)) + 4 * P45 * (65536 + 1) ->
+  tmpl 0 35184372088832 201326616 67108872 6741615387513599295488 S' V' es' ev'.
+Proof. unfold tmpl, P45, E1. intros. lia. Qed.
+Lemma inv1ms_10s_x2_step_125 S V es ev r S' V' es' ev' :
+  65536000000 <= S <= 655360000000000 -> 0 <= V <= 655360000000000 ->
+
+  tmpl 35184372088832 0 134217744 33554436 2323499913678736064512 S V es ev ->
+  tmpl 35184372088832 0 150994962 33554436 1780830728266532519936 S V es ev ->
+  tmpl 0 35184372088832 201326616 134217744 3058891721611971919872 S V es ev ->
+  tmpl 0 35184372088832 268435488 67108872 4162739063649585856512 S V es ev ->
+  1000000 <= r <= 10000000000 -> 0 <= es -> 0 <= ev ->
+  8 * S' <= 7 * S + 65536 * r < 8 * S' + 8 ->
+  4 * V' <= 3 * V + Z.abs (S - 65536 * r) < 4 * V' + 4 ->
+  0 <= es' -> 8 * P45 * es' <= 7 * (P45 + E1) * es + E1 * (7 * S + 65536 * r) + 8 * P45 * (65536 + 1) ->
+  0 <= ev' -> 4 * P45 * ev' <= 3 * (P45 + E1) * ev + (P45 + E1) * es + E1 * (3 * V + Z.abs (S - 65536 * r)) + 4 * P45 * (65536 + 1) ->
+  tmpl 0 35184372088832 201326616 134217744 3058891721611971919872 S' V' es' ev'.
+Proof. unfold tmpl, P45, E1. intros. lia. Qed.
+Lemma inv1ms_10s_x2_step_126 S V es ev r S' V' es' ev' :
+  65536000000 <= S <= 655360000000000 -> 0 <= V <= 655360000000000 ->
+
+  tmpl 35184372088832 0 150994962 67108872 735349862692429103104 S V es ev ->
+  tmpl 0 35184372088832 201326616 268435488 1226431088791035052032 S V es ev ->
+  tmpl 0 35184372088832 268435488 134217744 1691416453083908538368 S V es ev ->
+  tmpl 0 35184372088832 301989924 134217744 1372503024337711792128 S V es ev ->
+  1000000 <= r <= 10000000000 -> 0 <= es -> 0 <= ev ->
+  8 * S' <= 7 * S + 65536 * r < 8 * S' + 8 ->
+  4 * V' <= 3 * V + Z.abs (S - 65536 * r) < 4 * V' + 4 ->
+  0 <= es' -> 8 * P45 * es' <= 7 * (P45 + E1) * es + E1 * (7 * S + 65536 * r) + 8 * P45 * (65536 + 1) ->
+  0 <= ev' -> 4 * P45 * ev' <= 3 * (P45 + E1) * ev + (P45 + E1) * es + E1 * (3 * V + Z.abs (S - 65536 * r)) + 4 * P45 * (65536 + 1) ->
+  tmpl 0 35184372088832 201326616 268435488 1226431088791035052032 S' V' es' ev'.
+Proof. unfold tmpl, P45, E1. intros. lia. Qed.
+Lemma inv1ms_10s_x2_step_127 S V es ev r S' V' es' ev' :
+  65536000000 <= S <= 655360000000000 -> 0 <= V <= 655360000000000 ->
+
+  tmpl 0 0 16777218 (-8388609) (-820022133117572608) S V es ev ->
+  tmpl 35184372088832 0 117440526 0 7587357747373541425152 S V es ev ->
+  tmpl 35184372088832 0 134217744 0 5903629511765034795008 S V es ev ->
+  tmpl 0 35184372088832 234881052 0 13512093834172975546368 S V es ev ->
+  tmpl 0 35184372088832 268435488 0 10745156669513727475712 S V es ev ->
+  tmpl 109951162777600000 439804755968012500 2199023255552 419430450000 219405188725302126182400000 S V es ev ->
+  1000000 <= r <= 10000000000 -> 0 <= es -> 0 <= ev ->
+  8 * S' <= 7 * S + 65536 * r < 8 * S' + 8 ->
+  4 * V' <= 3 * V + Z.abs (S - 65536 * r) < 4 * V' + 4 ->
+  0 <= es' -> 8 * P45 * es' <= 7 * (P45 + E1) * es + E1 * (7 * S + 65536 * r) + 8 * P45 * (65536 + 1) ->
+  0 <= ev' -> 4 * P45 * ev' <= 3 * (P45 + E1) * ev + (P45 + E1) * es + E1 * (3 * V + Z.abs (S - 65536 * r)) + 4 * P45 * (65536 + 1) ->
+  tmpl 0 35184372088832 234881052 0 13512093834172975546368 S' V' es' ev'.
+Proof. unfold tmpl, P45, E1. intros. lia. Qed.
+Lemma inv1ms_10s_x2_step_128 S V es ev r S' V' es' ev' :
+  65536000000 <= S <= 655360000000000 -> 0 <= V <= 655360000000000 ->
+
+  tmpl 35184372088832 0 150994962 0 4593880170878093754368 S V es ev ->
+  tmpl 35184372088832 0 167772180 0 3575128462191098855424 S V es ev ->
+  tmpl 0 35184372088832 201326616 33554436 10748579327783280312320 S V es ev ->
+  tmpl 0 35184372088832 234881052 33554436 8511381444373658992640 S V es ev ->
+  tmpl 0 35184372088832 301989924 0 8507952856795013185536 S V es ev ->
+  tmpl 0 35184372088832 335544360 0 6713875803092041072640 S V es ev ->
+  1000000 <= r <= 10000000000 -> 0 <= es -> 0 <= ev ->
+  8 * S' <= 7 * S + 65536 * r < 8 * S' + 8 ->
+  4 * V' <= 3 * V + Z.abs (S - 65536 * r) < 4 * V' + 4 ->
+  0 <= es' -> 8 * P45 * es' <= 7 * (P45 + E1) * es + E1 * (7 * S + 65536 * r) + 8 * P45 * (65536 + 1) ->
+  0 <= ev' -> 4 * P45 * ev' <= 3 * (P45 + E1) * ev + (P45 + E1) * es + E1 * (3 * V + Z.abs (S - 65536 * r)) + 4 * P45 * (65536 + 1) ->
+  tmpl 0 35184372088832 234881052 33554436 8511381444373658992640 S' V' es' ev'.
+Proof. unfold tmpl, P45, E1. intros. lia. Qed.
+Lemma inv1ms_10s_x2_step_129 S V es ev r S' V' es' ev' :
+  65536000000 <= S <= 655360000000000 -> 0 <= V <= 655360000000000 ->
+
+  tmpl 35184372088832 0 184549398 0 2783008425064852881408 S V es ev ->
+  tmpl 0 35184372088832 201326616 67108872 6741615387513599295488 S V es ev ->
+  tmpl 0 35184372088832 234881052 67108872 5299191425168411983872 S V es ev ->
+  tmpl 0 35184372088832 268435488 33554436 6717307355331026747392 S V es ev ->
+  tmpl 0 35184372088832 301989924 33554436 5288128367431943979008 S V es ev ->
+  1000000 <= r <= 10000000000 -> 0 <= es -> 0 <= ev ->
+  8 * S' <= 7 * S + 65536 * r < 8 * S' + 8 ->
+  4 * V' <= 3 * V + Z.abs (S - 65536 * r) < 4 * V' + 4 ->
+  0 <= es' -> 8 * P45 * es' <= 7 * (P45 + E1) * es + E1 * (7 * S + 65536 * r) + 8 * P45 * (65536 + 1) ->
+  0 <= ev' -> 4 * P45 * ev' <= 3 * (P45 + E1) * ev + (P45 + E1) * es + E1 * (3 * V + Z.abs (S - 65536 * r)) + 4 * P45 * (65536 + 1) ->
+  tmpl 0 35184372088832 234881052 67108872 5299191425168411983872 S' V' es' ev'.
+Proof. unfold tmpl, P45, E1. intros. lia. Qed.
+Lemma inv1ms_10s_x2_step_130 S V es ev r S' V' es' ev' :
+  65536000000 <= S <= 655360000000000 -> 0 <= V <= 655360000000000 ->
+
+  tmpl 35184372088832 0 167772180 33554436 1376752832968567291904 S V es ev ->
+  tmpl 0 35184372088832 234881052 134217744 2207448969058618703872 S V es ev ->
+  tmpl 0 35184372088832 301989924 67108872 3270964748907857313792 S V es ev ->
+  tmpl 0 35184372088832 335544360 67108872 2576716378115269984256 S V es ev ->
+  1000000 <= r <= 10000000000 -> 0 <= es -> 0 <= ev ->
+  8 * S' <= 7 * S + 65536 * r < 8 * S' + 8 ->
+  4 * V' <= 3 * V + Z.abs (S - 65536 * r) < 4 * V' + 4 ->
+  0 <= es' -> 8 * P45 * es' <= 7 * (P45 + E1) * es + E1 * (7 * S + 65536 * r) + 8 * P45 * (65536 + 1) ->
+  0 <= ev' -> 4 * P45 * ev' <= 3 * (P45 + E1) * ev + (P45 + E1) * es + E1 * (3 * V + Z.abs (S - 65536 * r)) + 4 * P45 * (65536 + 1) ->
+  tmpl 0 35184372088832 234881052 134217744 2207448969058618703872 S' V' es' ev'.
+Proof. unfold tmpl, P45, E1. intros. lia. Qed.
+Lemma inv1ms_10s_x2_step_131 S V es ev r S' V' es' ev' :
+  65536000000 <= S <= 655360000000000 -> 0 <= V <= 655360000000000 ->
+
+  tmpl 35184372088832 0 167772180 67108872 603025293721173491712 S V es ev ->
+  tmpl 0 35184372088832 234881052 268435488 1006729719995359428608 S V es ev ->
+  tmpl 0 35184372088832 301989924 134217744 1372503024337711792128 S V es ev ->
+  tmpl 0 35184372088832 335544360 134217744 1157250093165089783808 S V es ev ->
+  1000000 <= r <= 10000000000 -> 0 <= es -> 0 <= ev ->
+  8 * S' <= 7 * S + 65536 * r < 8 * S' + 8 ->
+  4 * V' <= 3 * V + Z.abs (S - 65536 * r) < 4 * V' + 4 ->
+  0 <= es' -> 8 * P45 * es' <= 7 * (P45 + E1) * es + E1 * (7 * S + 65536 * r) + 8 * P45 * (65536 + 1) ->
+  0 <= ev' -> 4 * P45 * ev' <= 3 * (P45 + E1) * ev + (P45 + E1) * es + E1 * (3 * V + Z.abs (S - 65536 * r)) + 4 * P45 * (65536 + 1) ->
+  tmpl 0 35184372088832 234881052 268435488 1006729719995359428608 S' V' es' ev'.
+Proof. unfold tmpl, P45, E1. intros. lia. Qed.
+Lemma inv1ms_10s_x2_step_132 S V es ev r S' V' es' ev' :
+  65536000000 <= S <= 655360000000000 -> 0 <= V <= 655360000000000 ->
+
+  tmpl 0 0 16777218 (-8388609) (-820022133117572608) S V es ev ->
+  tmpl 35184372088832 0 134217744 0 5903629511765034795008 S V es ev ->
+  tmpl 35184372088832 0 150994962 0 4593880170878093754368 S V es ev ->
+  tmpl 0 35184372088832 234881052 0 13512093834172975546368 S V es ev ->
+  tmpl 0 35184372088832 268435488 0 10745156669513727475712 S V es ev ->
+  tmpl 0 35184372088832 301989924 0 8507952856795013185536 S V es ev ->
+  1000000 <= r <= 10000000000 -> 0 <= es -> 0 <= ev ->
+  8 * S' <= 7 * S + 65536 * r < 8 * S' + 8 ->
+  4 * V' <= 3 * V + Z.abs (S - 65536 * r) < 4 * V' + 4 ->
+  0 <= es' -> 8 * P45 * es' <= 7 * (P45 + E1) * es + E1 * (7 * S + 65536 * r) + 8 * P45 * (65536 + 1) ->
+  0 <= ev' -> 4 * P45 * ev' <= 3 * (P45 + E1) * ev + (P45 + E1) * es + E1 * (3 * V + Z.abs (S - 65536 * r)) + 4 * P45 * (65536 + 1) ->
+  tmpl 0 35184372088832 268435488 0 10745156669513727475712 S' V' es' ev'.
+Proof. unfold tmpl, P45, E1. intros. lia. Qed.
+Lemma inv1ms_10s_x2_step_133 S V es ev r S' V' es' ev' :
+  65536000000 <= S <= 655360000000000 -> 0 <= V <= 655360000000000 ->
+
+  tmpl 35184372088832 0 167772180 0 3575128462191098855424 S V es ev ->
+  tmpl 35184372088832 0 184549398 0 2783008425064852881408 S V es ev ->
+  tmpl 0 35184372088832 234881052 33554436 8511381444373658992640 S V es ev ->
+  tmpl 0 35184372088832 268435488 33554436 6717307355331026747392 S V es ev ->
+  tmpl 0 35184372088832 301989924 33554436 5288128367431943979008 S V es ev ->
+  tmpl 0 35184372088832 335544360 0 6713875803092041072640 S V es ev ->
+  tmpl 0 35184372088832 369098796 0 5284695332859653652480 S V es ev ->
+  1000000 <= r <= 10000000000 -> 0 <= es -> 0 <= ev ->
+  8 * S' <= 7 * S + 65536 * r < 8 * S' + 8 ->
+  4 * V' <= 3 * V + Z.abs (S - 65536 * r) < 4 * V' + 4 ->
+  0 <= es' -> 8 * P45 * es' <= 7 * (P45 + E1) * es + E1 * (7 * S + 65536 * r) + 8 * P45 * (65536 + 1) ->
+  0 <= ev' -> 4 * P45 * ev' <= 3 * (P45 + E1) * ev + (P45 + E1) * es + E1 * (3 * V + Z.abs (S - 65536 * r)) + 4 * P45 * (65536 + 1) ->
+  tmpl 0 35184372088832 268435488 33554436 6717307355331026747392 S' V' es' ev'.
+Proof. unfold tmpl, P45, E1. intros. lia. Qed.
+Lemma inv1ms_10s_x2_step_134 S V es ev r S' V' es' ev' :
+  65536000000 <= S <= 655360000000000 -> 0 <= V <= 655360000000000 ->
+
+  tmpl 35184372088832 0 201326616 0 2167778142442430398464 S V es ev ->
+  tmpl 35184372088832 0 218103834 0 1691237027911668858880 S V es ev ->
+  tmpl 0 35184372088832 234881052 67108872 5299191425168411983872 S V es ev ->
+  tmpl 0 35184372088832 268435488 67108872 4162739063649585856512 S V es ev ->
+  tmpl 0 35184372088832 301989924 33554436 5288128367431943979008 S V es ev ->
+  tmpl 0 35184372088832 335544360 33554436 4156503206407846756352 S V es ev ->
+  1000000 <= r <= 10000000000 -> 0 <= es -> 0 <= ev ->
+  8 * S' <= 7 * S + 65536 * r < 8 * S' + 8 ->
+  4 * V' <= 3 * V + Z.abs (S - 65536 * r) < 4 * V' + 4 ->
+  0 <= es' -> 8 * P45 * es' <= 7 * (P45 + E1) * es + E1 * (7 * S + 65536 * r) + 8 * P45 * (65536 + 1) ->
+  0 <= ev' -> 4 * P45 * ev' <= 3 * (P45 + E1) * ev + (P45 + E1) * es + E1 * (3 * V + Z.abs (S - 65536 * r)) + 4 * P45 * (65536 + 1) ->
+  tmpl 0 35184372088832 268435488 67108872 4162739063649585856512 S' V' es' ev'.
+Proof. unfold tmpl, P45, E1. intros. lia. Qed.
+Lemma inv1ms_10s_x2_step_135 S V es ev r S' V' es' ev' :
+  65536000000 <= S <= 655360000000000 -> 0 <= V <= 655360000000000 ->
+
+  tmpl 35184372088832 0 184549398 33554436 1076261479053444775936 S V es ev ->
+  tmpl 0 35184372088832 234881052 134217744 2207448969058618703872 S V es ev ->
+  tmpl 0 35184372088832 268435488 134217744 1691416453083908538368 S V es ev ->
+  tmpl 0 35184372088832 369098796 67108872 2043356610824652455936 S V es ev ->
+  1000000 <= r <= 10000000000 -> 0 <= es -> 0 <= ev ->
+  8 * S' <= 7 * S + 65536 * r < 8 * S' + 8 ->
+  4 * V' <= 3 * V + Z.abs (S - 65536 * r) < 4 * V' + 4 ->
+  0 <= es' -> 8 * P45 * es' <= 7 * (P45 + E1) * es + E1 * (7 * S + 65536 * r) + 8 * P45 * (65536 + 1) ->
+  0 <= ev' -> 4 * P45 * ev' <= 3 * (P45 + E1) * ev + (P45 + E1) * es + E1 * (3 * V + Z.abs (S - 65536 * r)) + 4 * P45 * (65536 + 1) ->
+  tmpl 0 35184372088832 268435488 134217744 1691416453083908538368 S' V' es' ev'.
+Proof. unfold tmpl, P45, E1. intros. lia. Qed.
+Lemma inv1ms_10s_x2_step_136 S V es ev r S' V' es' ev' :
+  65536000000 <= S <= 655360000000000 -> 0 <= V <= 655360000000000 ->
+
+  tmpl 0 0 16777218 (-8388609) (-820022133117572608) S V es ev ->
+  tmpl 35184372088832 0 150994962 0 4593880170878093754368 S V es ev ->
+  tmpl 35184372088832 0 167772180 0 3575128462191098855424 S V es ev ->
+  tmpl 0 35184372088832 268435488 0 10745156669513727475712 S V es ev ->
+  tmpl 0 35184372088832 301989924 0 8507952856795013185536 S V es ev ->
+  tmpl 0 35184372088832 335544360 0 6713875803092041072640 S V es ev ->
+  1000000 <= r <= 10000000000 -> 0 <= es -> 0 <= ev ->
+  8 * S' <= 7 * S + 65536 * r < 8 * S' + 8 ->
+  4 * V' <= 3 * V + Z.abs (S - 65536 * r) < 4 * V' + 4 ->
+  0 <= es' -> 8 * P45 * es' <= 7 * (P45 + E1) * es + E1 * (7 * S + 65536 * r) + 8 * P45 * (65536 + 1) ->
+  0 <= ev' -> 4 * P45 * ev' <= 3 * (P45 + E1) * ev + (P45 + E1) * es + E1 * (3 * V + Z.abs (S - 65536 * r)) + 4 * P45 * (65536 + 1) ->
+  tmpl 0 35184372088832 301989924 0 8507952856795013185536 S' V' es' ev'.
+Proof. unfold tmpl, P45, E1. intros. lia. Qed.
+Lemma inv1ms_10s_x2_step_137 S V es ev r S' V' es' ev' :
+  65536000000 <= S <= 655360000000000 -> 0 <= V <= 655360000000000 ->
+
+  tmpl 35184372088832 0 184549398 0 2783008425064852881408 S V es ev ->
+  tmpl 35184372088832 0 201326616 0 2167778142442430398464 S V es ev ->
+  tmpl 0 35184372088832 268435488 33554436 6717307355331026747392 S V es ev ->
+  tmpl 0 35184372088832 301989924 33554436 5288128367431943979008 S V es ev ->
+  tmpl 0 35184372088832 335544360 33554436 4156503206407846756352 S V es ev ->
+  tmpl 0 35184372088832 369098796 0 5284695332859653652480 S V es ev ->
+  tmpl 0 35184372088832 402653232 0 4153069430667144069120 S V es ev ->
+  1000000 <= r <= 10000000000 -> 0 <= es -> 0 <= ev ->
+  8 * S' <= 7 * S + 65536 * r < 8 * S' + 8 ->
+  4 * V' <= 3 * V + Z.abs (S - 65536 * r) < 4 * V' + 4 ->
+  0 <= es' -> 8 * P45 * es' <= 7 * (P45 + E1) * es + E1 * (7 * S + 65536 * r) + 8 * P45 * (65536 + 1) ->
+  0 <= ev' -> 4 * P45 * ev' <= 3 * (P45 + E1) * ev + (P45 + E1) * es + E1 * (3 * V + Z.abs (S - 65536 * r)) + 4 * P45 * (65536 + 1) ->
+  tmpl 0 35184372088832 301989924 33554436 5288128367431943979008 S' V' es' ev'.
+Proof. unfold tmpl, P45, E1. intros. lia. Qed.
+Lemma inv1ms_10s_x2_step_138 S V es ev r S' V' es' ev' :
+  65536000000 <= S <= 655360000000000 -> 0 <= V <= 655360000000000 ->
+
+  tmpl 35184372088832 0 218103834 0 1691237027911668858880 S V es ev ->
+  tmpl 35184372088832 0 234881052 0 1324270201534905581568 S V es ev ->
+  tmpl 0 35184372088832 268435488 67108872 4162739063649585856512 S V es ev ->
+  tmpl 0 35184372088832 301989924 67108872 3270964748907857313792 S V es ev ->
+  tmpl 0 35184372088832 335544360 33554436 4156503206407846756352 S V es ev ->
+  tmpl 0 35184372088832 335544360 67108872 2576716378115269984256 S V es ev ->
+  tmpl 0 35184372088832 369098796 33554436 3266490901349830492160 S V es ev ->
+  1000000 <= r <= 10000000000 -> 0 <= es -> 0 <= ev ->
+  8 * S' <= 7 * S + 65536 * r < 8 * S' + 8 ->
+  4 * V' <= 3 * V + Z.abs (S - 65536 * r) < 4 * V' + 4 ->
+  0 <= es' -> 8 * P45 * es' <= 7 * (P45 + E1) * es + E1 * (7 * S + 65536 * r) + 8 * P45 * (65536 + 1) ->
+  0 <= ev' -> 4 * P45 * ev' <= 3 * (P45 + E1) * ev + (P45 + E1) * es + E1 * (3 * V + Z.abs (S - 65536 * r)) + 4 * P45 * (65536 + 1) ->
+  tmpl 0 35184372088832 301989924 67108872 3270964748907857313792 S' V' es' ev'.
+Proof. unfold tmpl, P45, E1. intros. lia. Qed.
+Lemma inv1ms_10s_x2_step_139 S V es ev r S' V' es' ev' :
+  65536000000 <= S <= 655360000000000 -> 0 <= V <= 655360000000000 ->
+
+  tmpl 35184372088832 0 201326616 33554436 855284050725237293056 S V es ev ->
+  tmpl 35184372088832 0 218103834 33554436 696408726767139946496 S V es ev ->
+  tmpl 0 35184372088832 268435488 134217744 1691416453083908538368 S V es ev ->
+  tmpl 0 35184372088832 301989924 134217744 1372503024337711792128 S V es ev ->
+  tmpl 0 35184372088832 402653232 67108872 1641950594748472098816 S V es ev ->
+  1000000 <= r <= 10000000000 -> 0 <= es -> 0 <= ev ->
+  8 * S' <= 7 * S + 65536 * r < 8 * S' + 8 ->
+  4 * V' <= 3 * V + Z.abs (S - 65536 * r) < 4 * V' + 4 ->
+  0 <= es' -> 8 * P45 * es' <= 7 * (P45 + E1) * es + E1 * (7 * S + 65536 * r) + 8 * P45 * (65536 + 1) ->
+  0 <= ev' -> 4 * P45 * ev' <= 3 * (P45 + E1) * ev + (P45 + E1) * es + E1 * (3 * V + Z.abs (S - 65536 * r)) + 4 * P45 * (65536 + 1) ->
+  tmpl 0 35184372088832 301989924 134217744 1372503024337711792128 S' V' es' ev'.
+Proof. unfold tmpl, P45, E1. intros. lia. Qed.
+Lemma inv1ms_10s_x2_step_140 S V es ev r S' V' es' ev' :
+  65536000000 <= S <= 655360000000000 -> 0 <= V <= 655360000000000 ->
+
+  tmpl 0 0 16777218 (-8388609) (-820022133117572608) S V es ev ->
+  tmpl 35184372088832 0 167772180 0 3575128462191098855424 S V es ev ->
+  tmpl 35184372088832 0 184549398 0 2783008425064852881408 S V es ev ->
+  tmpl 0 35184372088832 301989924 0 8507952856795013185536 S V es ev ->
+  tmpl 0 35184372088832 335544360 0 6713875803092041072640 S V es ev ->
+  tmpl 0 35184372088832 369098796 0 5284695332859653652480 S V es ev ->
+  1000000 <= r <= 10000000000 -> 0 <= es -> 0 <= ev ->
+  8 * S' <= 7 * S + 65536 * r < 8 * S' + 8 ->
+  4 * V' <= 3 * V + Z.abs (S - 65536 * r) < 4 * V' + 4 ->
+  0 <= es' -> 8 * P45 * es' <= 7 * (P45 + E1) * es + E1 * (7 * S + 65536 * r) + 8 * P45 * (65536 + 1) ->
+  0 <= ev' -> 4 * P45 * ev' <= 3 * (P45 + E1) * ev + (P45 + E1) * es + E1 * (3 * V + Z.abs (S - 65536 * r)) + 4 * P45 * (65536 + 1) ->
+  tmpl 0 35184372088832 335544360 0 6713875803092041072640 S' V' es' ev'.
+Proof. unfold tmpl, P45, E1. intros. lia. Qed.
+Lemma inv1ms_10s_x2_step_141 S V es ev r S' V' es' ev' :
+  65536000000 <= S <= 655360000000000 -> 0 <= V <= 655360000000000 ->
+
+  tmpl 35184372088832 0 201326616 0 2167778142442430398464 S V es ev ->
+  tmpl 35184372088832 0 218103834 0 1691237027911668858880 S V es ev ->
+  tmpl 0 35184372088832 301989924 33554436 5288128367431943979008 S V es ev ->
+  tmpl 0 35184372088832 335544360 33554436 4156503206407846756352 S V es ev ->
+  tmpl 0 35184372088832 369098796 33554436 3266490901349830492160 S V es ev ->
+  tmpl 0 35184372088832 402653232 0 4153069430667144069120 S V es ev ->
+  tmpl 0 35184372088832 436207668 0 3263056755023946448896 S V es ev ->
+  1000000 <= r <= 10000000000 -> 0 <= es -> 0 <= ev ->
+  8 * S' <= 7 * S + 65536 * r < 8 * S' + 8 ->
+  4 * V' <= 3 * V + Z.abs (S - 65536 * r) < 4 * V' + 4 ->
+  0 <= es' -> 8 * P45 * es' <= 7 * (P45 + E1) * es + E1 * (7 * S + 65536 * r) + 8 * P45 * (65536 + 1) ->
+  0 <= ev' -> 4 * P45 * ev' <= 3 * (P45 + E1) * ev + (P45 + E1) * es + E1 * (3 * V + Z.abs (S - 65536 * r)) + 4 * P45 * (65536 + 1) ->
+  tmpl 0 35184372088832 335544360 33554436 4156503206407846756352 S' V' es' ev'.
+Proof. unfold tmpl, P45, E1. intros. lia. Qed.
+Lemma inv1ms_10s_x2_step_142 S V es ev r S' V' es' ev' :
+  65536000000 <= S <= 655360000000000 -> 0 <= V <= 655360000000000 ->
+
+  tmpl 35184372088832 0 234881052 0 1324270201534905581568 S V es ev ->
+  tmpl 35184372088832 0 251658270 0 1044768569007752609792 S V es ev ->
+  tmpl 0 35184372088832 301989924 67108872 3270964748907857313792 S V es ev ->
+  tmpl 0 35184372088832 335544360 67108872 2576716378115269984256 S V es ev ->
+  tmpl 0 35184372088832 369098796 33554436 3266490901349830492160 S V es ev ->
+  tmpl 0 35184372088832 369098796 67108872 2043356610824652455936 S V es ev ->
+  tmpl 0 35184372088832 402653232 33554436 2572887351160434327552 S V es ev ->
+  1000000 <= r <= 10000000000 -> 0 <= es -> 0 <= ev ->
+  8 * S' <= 7 * S + 65536 * r < 8 * S' + 8 ->
+  4 * V' <= 3 * V + Z.abs (S - 65536 * r) < 4 * V' + 4 ->
+  0 <= es' -> 8 * P45 * es' <= 7 * (P45 + E1) * es + E1 * (7 * S + 65536 * r) + 8 * P45 * (65536 + 1) ->
+  0 <= ev' -> 4 * P45 * ev' <= 3 * (P45 + E1) * ev + (P45 + E1) * es + E1 * (3 * V + Z.abs (S - 65536 * r)) + 4 * P45 * (65536 + 1) ->
+  tmpl 0 35184372088832 335544360 67108872 2576716378115269984256 S' V' es' ev'.
+Proof. unfold tmpl, P45, E1. intros. lia. Qed.
+Lemma inv1ms_10s_x2_step_143 S V es ev r S' V' es' ev' :
+  65536000000 <= S <= 655360000000000 -> 0 <= V <= 655360000000000 ->
+
+  tmpl 35184372088832 0 234881052 33554436 586078435578727170048 S V es ev ->
+  tmpl 35184372088832 0 301989924 0 577303779024326361088 S V es ev ->
+  tmpl 0 35184372088832 301989924 134217744 1372503024337711792128 S V es ev ->
+  tmpl 0 35184372088832 335544360 134217744 1157250093165089783808 S V es ev ->
+  tmpl 0 35184372088832 436207668 67108872 1348719678551826628608 S V es ev ->
+  1000000 <= r <= 10000000000 -> 0 <= es -> 0 <= ev ->
+  8 * S' <= 7 * S + 65536 * r < 8 * S' + 8 ->
+  4 * V' <= 3 * V + Z.abs (S - 65536 * r) < 4 * V' + 4 ->
+  0 <= es' -> 8 * P45 * es' <= 7 * (P45 + E1) * es + E1 * (7 * S + 65536 * r) + 8 * P45 * (65536 + 1) ->
+  0 <= ev' -> 4 * P45 * ev' <= 3 * (P45 + E1) * ev + (P45 + E1) * es + E1 * (3 * V + Z.abs (S - 65536 * r)) + 4 * P45 * (65536 + 1) ->
+  tmpl 0 35184372088832 335544360 134217744 1157250093165089783808 S' V' es' ev'.
+Proof. unfold tmpl, P45, E1. intros. lia. Qed.
+Lemma inv1ms_10s_x2_step_144 S V es ev r S' V' es' ev' :
+  65536000000 <= S <= 655360000000000 -> 0 <= V <= 655360000000000 ->
+
+  tmpl 0 0 16777218 (-8388609) (-820022133117572608) S V es ev ->
+  tmpl 35184372088832 0 184549398 0 2783008425064852881408 S V es ev ->
+  tmpl 35184372088832 0 201326616 0 2167778142442430398464 S V es ev ->
+  tmpl 35184372088832 0 218103834 0 1691237027911668858880 S V es ev ->
+  tmpl 0 35184372088832 335544360 0 6713875803092041072640 S V es ev ->
+  tmpl 0 35184372088832 369098796 0 5284695332859653652480 S V es ev ->
+  tmpl 0 35184372088832 402653232 0 4153069430667144069120 S V es ev ->
+  1000000 <= r <= 10000000000 -> 0 <= es -> 0 <= ev ->
+  8 * S' <= 7 * S + 65536 * r < 8 * S' + 8 ->
+  4 * V' <= 3 * V + Z.abs (S - 65536 * r) < 4 * V' + 4 ->
+  0 <= es' -> 8 * P45 * es' <= 7 * (P45 + E1) * es + E1 * (7 * S + 65536 * r) + 8 * P45 * (65536 + 1) ->
+  0 <= ev' -> 4 * P45 * ev' <= 3 * (P45 + E1) * ev + (P45 + E1) * es + E1 * (3 * V + Z.abs (S - 65536 * r)) + 4 * P45 * (65536 + 1) ->
+  tmpl 0 35184372088832 369098796 0 5284695332859653652480 S' V' es' ev'.
+Proof. unfold tmpl, P45, E1. intros. lia. Qed.
+Lemma inv1ms_10s_x2_step_145 S V es ev r S' V' es' ev' :
+  65536000000 <= S <= 655360000000000 -> 0 <= V <= 655360000000000 ->
+
+  tmpl 35184372088832 0 218103834 0 1691237027911668858880 S V es ev ->
+  tmpl 35184372088832 0 234881052 0 1324270201534905581568 S V es ev ->
+  tmpl 0 35184372088832 335544360 33554436 4156503206407846756352 S V es ev ->
+  tmpl 0 35184372088832 369098796 33554436 3266490901349830492160 S V es ev ->
+  tmpl 0 35184372088832 402653232 33554436 2572887351160434327552 S V es ev ->
+  tmpl 0 35184372088832 436207668 0 3263056755023946448896 S V es ev ->
+  tmpl 0 35184372088832 469762104 0 2569453019541424046080 S V es ev ->
+  1000000 <= r <= 10000000000 -> 0 <= es -> 0 <= ev ->
+  8 * S' <= 7 * S + 65536 * r < 8 * S' + 8 ->
+  4 * V' <= 3 * V + Z.abs (S - 65536 * r) < 4 * V' + 4 ->
+  0 <= es' -> 8 * P45 * es' <= 7 * (P45 + E1) * es + E1 * (7 * S + 65536 * r) + 8 * P45 * (65536 + 1) ->
+  0 <= ev' -> 4 * P45 * ev' <= 3 * (P45 + E1) * ev + (P45 + E1) * es + E1 * (3 * V + Z.abs (S - 65536 * r)) + 4 * P45 * (65536 + 1) ->
+  tmpl 0 35184372088832 369098796 33554436 3266490901349830492160 S' V' es' ev'.
+Proof. unfold tmpl, P45, E1. intros. lia. Qed.
+Lemma inv1ms_10s_x2_step_146 S V es ev r S' V' es' ev' :
+  65536000000 <= S <= 655360000000000 -> 0 <= V <= 655360000000000 ->
+
+  tmpl 35184372088832 0 251658270 0 1044768569007752609792 S V es ev ->
+  tmpl 35184372088832 0 268435488 0 835760252043128864768 S V es ev ->
+  tmpl 0 35184372088832 335544360 67108872 2576716378115269984256 S V es ev ->
+  tmpl 0 35184372088832 369098796 67108872 2043356610824652455936 S V es ev ->
+  tmpl 0 35184372088832 402653232 33554436 2572887351160434327552 S V es ev ->
+  tmpl 0 35184372088832 402653232 67108872 1641950594748472098816 S V es ev ->
+  tmpl 0 35184372088832 436207668 33554436 2039764515168200687616 S V es ev ->
+  1000000 <= r <= 10000000000 -> 0 <= es -> 0 <= ev ->
+  8 * S' <= 7 * S + 65536 * r < 8 * S' + 8 ->
+  4 * V' <= 3 * V + Z.abs (S - 65536 * r) < 4 * V' + 4 ->
+  0 <= es' -> 8 * P45 * es' <= 7 * (P45 + E1) * es + E1 * (7 * S + 65536 * r) + 8 * P45 * (65536 + 1) ->
+  0 <= ev' -> 4 * P45 * ev' <= 3 * (P45 + E1) * ev + (P45 + E1) * es + E1 * (3 * V + Z.abs (S - 65536 * r)) + 4 * P45 * (65536 + 1) ->
+  tmpl 0 35184372088832 369098796 67108872 2043356610824652455936 S' V' es' ev'.
+Proof. unfold tmpl, P45, E1. intros. lia. Qed.
+Lemma inv1ms_10s_x2_step_147 S V es ev r S' V' es' ev' :
+  65536000000 <= S <= 655360000000000 -> 0 <= V <= 655360000000000 ->
+
+  tmpl 0 0 16777218 (-8388609) (-820022133117572608) S V es ev ->
+  tmpl 35184372088832 0 201326616 0 2167778142442430398464 S V es ev ->
+  tmpl 35184372088832 0 234881052 0 1324270201534905581568 S V es ev ->
+  tmpl 0 35184372088832 369098796 0 5284695332859653652480 S V es ev ->
+  tmpl 0 35184372088832 402653232 0 4153069430667144069120 S V es ev ->
+  tmpl 0 35184372088832 436207668 0 3263056755023946448896 S V es ev ->
+  tmpl 0 35184372088832 469762104 0 2569453019541424046080 S V es ev ->
+  1000000 <= r <= 10000000000 -> 0 <= es -> 0 <= ev ->
+  8 * S' <= 7 * S + 65536 * r < 8 * S' + 8 ->
+  4 * V' <= 3 * V + Z.abs (S - 65536 * r) < 4 * V' + 4 ->
+  0 <= es' -> 8 * P45 * es' <= 7 * (P45 + E1) * es + E1 * (7 * S + 65536 * r) + 8 * P45 * (65536 + 1) ->
+  0 <= ev' -> 4 * P45 * ev' <= 3 * (P45 + E1) * ev + (P45 + E1) * es + E1 * (3 * V + Z.abs (S - 65536 * r)) + 4 * P45 * (65536 + 1) ->
+  tmpl 0 35184372088832 402653232 0 4153069430667144069120 S' V' es' ev'.
+Proof. unfold tmpl, P45, E1. intros. lia. Qed.
+Lemma inv1ms_10s_x2_step_148 S V es ev r S' V' es' ev' :
+  65536000000 <= S <= 655360000000000 -> 0 <= V <= 655360000000000 ->
+
+  tmpl 35184372088832 0 234881052 0 1324270201534905581568 S V es ev ->
+  tmpl 35184372088832 0 251658270 0 1044768569007752609792 S V es ev ->
+  tmpl 0 35184372088832 369098796 33554436 3266490901349830492160 S V es ev ->
+  tmpl 0 35184372088832 402653232 33554436 2572887351160434327552 S V es ev ->
+  tmpl 0 35184372088832 436207668 33554436 2039764515168200687616 S V es ev ->
+  tmpl 0 35184372088832 469762104 0 2569453019541424046080 S V es ev ->
+  tmpl 0 35184372088832 503316540 0 2036330090902336569344 S V es ev ->
+  1000000 <= r <= 10000000000 -> 0 <= es -> 0 <= ev ->
+  8 * S' <= 7 * S + 65536 * r < 8 * S' + 8 ->
+  4 * V' <= 3 * V + Z.abs (S - 65536 * r) < 4 * V' + 4 ->
+  0 <= es' -> 8 * P45 * es' <= 7 * (P45 + E1) * es + E1 * (7 * S + 65536 * r) + 8 * P45 * (65536 + 1) ->
+  0 <= ev' -> 4 * P45 * ev' <= 3 * (P45 + E1) * ev + (P45 + E1) * es + E1 * (3 * V + Z.abs (S - 65536 * r)) + 4 * P45 * (65536 + 1) ->
+  tmpl 0 35184372088832 402653232 33554436 2572887351160434327552 S' V' es' ev'.
+Proof. unfold tmpl, P45, E1. intros. lia. Qed.
+Lemma inv1ms_10s_x2_step_149 S V es ev r S' V' es' ev' :
+  65536000000 <= S <= 655360000000000 -> 0 <= V <= 655360000000000 ->
+
+  tmpl 35184372088832 0 268435488 0 835760252043128864768 S V es ev ->
+  tmpl 35184372088832 0 285212706 0 683736837848755732480 S V es ev ->
+  tmpl 0 35184372088832 369098796 67108872 2043356610824652455936 S V es ev ->
+  tmpl 0 35184372088832 402653232 67108872 1641950594748472098816 S V es ev ->
+  tmpl 0 35184372088832 436207668 33554436 2039764515168200687616 S V es ev ->
+  tmpl 0 35184372088832 436207668 67108872 1348719678551826628608 S V es ev ->
+  tmpl 0 35184372088832 469762104 33554436 1638446046081448935424 S V es ev ->
+  1000000 <= r <= 10000000000 -> 0 <= es -> 0 <= ev ->
+  8 * S' <= 7 * S + 65536 * r < 8 * S' + 8 ->
+  4 * V' <= 3 * V + Z.abs (S - 65536 * r) < 4 * V' + 4 ->
+  0 <= es' -> 8 * P45 * es' <= 7 * (P45 + E1) * es + E1 * (7 * S + 65536 * r) + 8 * P45 * (65536 + 1) ->
+  0 <= ev' -> 4 * P45 * ev' <= 3 * (P45 + E1) * ev + (P45 + E1) * es + E1 * (3 * V + Z.abs (S - 65536 * r)) + 4 * P45 * (65536 + 1) ->
+  tmpl 0 35184372088832 402653232 67108872 1641950594748472098816 S' V' es' ev'.
+Proof. unfold tmpl, P45, E1. intros. lia. Qed.
+Lemma inv1ms_10s_x2_step_150 S V es ev r S' V' es' ev' :
+  65536000000 <= S <= 655360000000000 -> 0 <= V <= 655360000000000 ->
+
+  tmpl 0 0 16777218 (-8388609) (-820022133117572608) S V es ev ->
+  tmpl 35184372088832 0 218103834 0 1691237027911668858880 S V es ev ->
+  tmpl 35184372088832 0 251658270 0 1044768569007752609792 S V es ev ->
+  tmpl 0 35184372088832 402653232 0 4153069430667144069120 S V es ev ->
+  tmpl 0 35184372088832 436207668 0 3263056755023946448896 S V es ev ->
+  tmpl 0 35184372088832 469762104 0 2569453019541424046080 S V es ev ->
+  tmpl 0 35184372088832 503316540 0 2036330090902336569344 S V es ev ->
+  1000000 <= r <= 10000000000 -> 0 <= es -> 0 <= ev ->
+  8 * S' <= 7 * S + 65536 * r < 8 * S' + 8 ->
+  4 * V' <= 3 * V + Z.abs (S - 65536 * r) < 4 * V' + 4 ->
+  0 <= es' -> 8 * P45 * es' <= 7 * (P45 + E1) * es + E1 * (7 * S + 65536 * r) + 8 * P45 * (65536 + 1) ->
+  0 <= ev' -> 4 * P45 * ev' <= 3 * (P45 + E1) * ev + (P45 + E1) * es + E1 * (3 * V + Z.abs (S - 65536 * r)) + 4 * P45 * (65536 + 1) ->
+  tmpl 0 35184372088832 436207668 0 3263056755023946448896 S' V' es' ev'.
+Proof. unfold tmpl, P45, E1. intros. lia. Qed.
+Lemma inv1ms_10s_x2_step_151 S V es ev r S' V' es' ev' :
+  65536000000 <= S <= 655360000000000 -> 0 <= V <= 655360000000000 ->
+
+  tmpl 35184372088832 0 251658270 0 1044768569007752609792 S V es ev ->
+  tmpl 35184372088832 0 268435488 0 835760252043128864768 S V es ev ->
+  tmpl 35184372088832 0 285212706 0 683736837848755732480 S V es ev ->
+  tmpl 0 35184372088832 402653232 33554436 2572887351160434327552 S V es ev ->
+  tmpl 0 35184372088832 436207668 33554436 2039764515168200687616 S V es ev ->
+  tmpl 0 35184372088832 469762104 33554436 1638446046081448935424 S V es ev ->
+  tmpl 0 35184372088832 503316540 0 2036330090902336569344 S V es ev ->
+  tmpl 0 35184372088832 536870976 0 1635011575492014505984 S V es ev ->
+  1000000 <= r <= 10000000000 -> 0 <= es -> 0 <= ev ->
+  8 * S' <= 7 * S + 65536 * r < 8 * S' + 8 ->
+  4 * V' <= 3 * V + Z.abs (S - 65536 * r) < 4 * V' + 4 ->
+  0 <= es' -> 8 * P45 * es' <= 7 * (P45 + E1) * es + E1 * (7 * S + 65536 * r) + 8 * P45 * (65536 + 1) ->
+  0 <= ev' -> 4 * P45 * ev' <= 3 * (P45 + E1) * ev + (P45 + E1) * es + E1 * (3 * V + Z.abs (S - 65536 * r)) + 4 * P45 * (65536 + 1) ->
+  tmpl 0 35184372088832 436207668 33554436 2039764515168200687616 S' V' es' ev'.
+Proof. unfold tmpl, P45, E1. intros. lia. Qed.
+Lemma inv1ms_10s_x2_step_152 S V es ev r S' V' es' ev' :
+  65536000000 <= S <= 655360000000000 -> 0 <= V <= 655360000000000 ->
+
+  tmpl 35184372088832 0 285212706 0 683736837848755732480 S V es ev ->
+  tmpl 35184372088832 0 301989924 0 577303779024326361088 S V es ev ->
+  tmpl 0 35184372088832 402653232 67108872 1641950594748472098816 S V es ev ->
+  tmpl 0 35184372088832 436207668 67108872 1348719678551826628608 S V es ev ->
+  tmpl 0 35184372088832 469762104 33554436 1638446046081448935424 S V es ev ->
+  tmpl 0 35184372088832 469762104 67108872 1142934107786652024832 S V es ev ->
+  tmpl 0 35184372088832 503316540 33554436 1345247683212672237568 S V es ev ->
+  tmpl 0 35184372088832 536870976 33554436 1139474271035213611008 S V es ev ->
+  1000000 <= r <= 10000000000 -> 0 <= es -> 0 <= ev ->
+  8 * S' <= 7 * S + 65536 * r < 8 * S' + 8 ->
+  4 * V' <= 3 * V + Z.abs (S - 65536 * r) < 4 * V' + 4 ->
+  0 <= es' -> 8 * P45 * es' <= 7 * (P45 + E1) * es + E1 * (7 * S + 65536 * r) + 8 * P45 * (65536 + 1) ->
+  0 <= ev' -> 4 * P45 * ev' <= 3 * (P45 + E1) * ev + (P45 + E1) * es + E1 * (3 * V + Z.abs (S - 65536 * r)) + 4 * P45 * (65536 + 1) ->
+  tmpl 0 35184372088832 436207668 67108872 1348719678551826628608 S' V' es' ev'.
+Proof. unfold tmpl, P45, E1. intros. lia. Qed.
+Lemma inv1ms_10s_x2_step_153 S V es ev r S' V' es' ev' :
+  65536000000 <= S <= 655360000000000 -> 0 <= V <= 655360000000000 ->
+
+  tmpl 0 0 16777218 (-8388609) (-820022133117572608) S V es ev ->
+  tmpl 35184372088832 0 234881052 0 1324270201534905581568 S V es ev ->
+  tmpl 35184372088832 0 268435488 0 835760252043128864768 S V es ev ->
+  tmpl 0 35184372088832 436207668 0 3263056755023946448896 S V es ev ->
+  tmpl 0 35184372088832 469762104 0 2569453019541424046080 S V es ev ->
+  tmpl 0 35184372088832 503316540 0 2036330090902336569344 S V es ev ->
+  tmpl 0 35184372088832 536870976 0 1635011575492014505984 S V es ev ->
+  1000000 <= r <= 10000000000 -> 0 <= es -> 0 <= ev ->
+  8 * S' <= 7 * S + 65536 * r < 8 * S' + 8 ->
+  4 * V' <= 3 * V + Z.abs (S - 65536 * r) < 4 * V' + 4 ->
+  0 <= es' -> 8 * P45 * es' <= 7 * (P45 + E1) * es + E1 * (7 * S + 65536 * r) + 8 * P45 * (65536 + 1) ->
+  0 <= ev' -> 4 * P45 * ev' <= 3 * (P45 + E1) * ev + (P45 + E1) * es + E1 * (3 * V + Z.abs (S - 65536 * r)) + 4 * P45 * (65536 + 1) ->
+  tmpl 0 35184372088832 469762104 0 2569453019541424046080 S' V' es' ev'.
+Proof. unfold tmpl, P45, E1. intros. lia. Qed.
+Lemma inv1ms_10s_x2_step_154 S V es ev r S' V' es' ev' :
+  65536000000 <= S <= 655360000000000 -> 0 <= V <= 655360000000000 ->
+
+  tmpl 35184372088832 0 268435488 0 835760252043128864768 S V es ev ->
+  tmpl 35184372088832 0 301989924 0 577303779024326361088 S V es ev ->
+  tmpl 0 35184372088832 436207668 33554436 2039764515168200687616 S V es ev ->
+  tmpl 0 35184372088832 469762104 33554436 1638446046081448935424 S V es ev ->
+  tmpl 0 35184372088832 503316540 33554436 1345247683212672237568 S V es ev ->
+  tmpl 0 35184372088832 536870976 0 1635011575492014505984 S V es ev ->
+  tmpl 0 35184372088832 570425412 0 1341813189461365227520 S V es ev ->
+  tmpl 0 35184372088832 603979848 0 1136039765702902677504 S V es ev ->
+  1000000 <= r <= 10000000000 -> 0 <= es -> 0 <= ev ->
+  8 * S' <= 7 * S + 65536 * r < 8 * S' + 8 ->
+  4 * V' <= 3 * V + Z.abs (S - 65536 * r) < 4 * V' + 4 ->
+  0 <= es' -> 8 * P45 * es' <= 7 * (P45 + E1) * es + E1 * (7 * S + 65536 * r) + 8 * P45 * (65536 + 1) ->
+  0 <= ev' -> 4 * P45 * ev' <= 3 * (P45 + E1) * ev + (P45 + E1) * es + E1 * (3 * V + Z.abs (S - 65536 * r)) + 4 * P45 * (65536 + 1) ->
+  tmpl 0 35184372088832 469762104 33554436 1638446046081448935424 S' V' es' ev'.
+Proof. unfold tmpl, P45, E1. intros. lia. Qed.
+Lemma inv1ms_10s_x2_step_155 S V es ev r S' V' es' ev' :
+  65536000000 <= S <= 655360000000000 -> 0 <= V <= 655360000000000 ->
+
+  tmpl 35184372088832 0 301989924 0 577303779024326361088 S V es ev ->
+  tmpl 35184372088832 0 318767142 0 506330039654348357632 S V es ev ->
+  tmpl 0 35184372088832 436207668 67108872 1348719678551826628608 S V es ev ->
+  tmpl 0 35184372088832 469762104 67108872 1142934107786652024832 S V es ev ->
+  tmpl 0 35184372088832 503316540 33554436 1345247683212672237568 S V es ev ->
+  tmpl 0 35184372088832 503316540 67108872 1005627011641852559360 S V es ev ->
+  tmpl 0 35184372088832 536870976 33554436 1139474271035213611008 S V es ev ->
+  tmpl 0 35184372088832 570425412 33554436 1002171708927130861568 S V es ev ->
+  1000000 <= r <= 10000000000 -> 0 <= es -> 0 <= ev ->
+  8 * S' <= 7 * S + 65536 * r < 8 * S' + 8 ->
+  4 * V' <= 3 * V + Z.abs (S - 65536 * r) < 4 * V' + 4 ->
+  0 <= es' -> 8 * P45 * es' <= 7 * (P45 + E1) * es + E1 * (7 * S + 65536 * r) + 8 * P45 * (65536 + 1) ->
+  0 <= ev' -> 4 * P45 * ev' <= 3 * (P45 + E1) * ev + (P45 + E1) * es + E1 * (3 * V + Z.abs (S - 65536 * r)) + 4 * P45 * (65536 + 1) ->
+  tmpl 0 35184372088832 469762104 67108872 1142934107786652024832 S' V' es' ev'.
+Proof. unfold tmpl, P45, E1. intros. lia. Qed.
+Lemma inv1ms_10s_x2_step_156 S V es ev r S' V' es' ev' :
+  65536000000 <= S <= 655360000000000 -> 0 <= V <= 655360000000000 ->
+
+  tmpl 0 0 16777218 (-8388609) (-820022133117572608) S V es ev ->
+  tmpl 35184372088832 0 251658270 0 1044768569007752609792 S V es ev ->
+  tmpl 35184372088832 0 285212706 0 683736837848755732480 S V es ev ->
+  tmpl 0 35184372088832 469762104 0 2569453019541424046080 S V es ev ->
+  tmpl 0 35184372088832 503316540 0 2036330090902336569344 S V es ev ->
+  tmpl 0 35184372088832 536870976 0 1635011575492014505984 S V es ev ->
+  tmpl 0 35184372088832 570425412 0 1341813189461365227520 S V es ev ->
+  1000000 <= r <= 10000000000 -> 0 <= es -> 0 <= ev ->
+  8 * S' <= 7 * S + 65536 * r < 8 * S' + 8 ->
+  4 * V' <= 3 * V + Z.abs (S - 65536 * r) < 4 * V' + 4 ->
+  0 <= es' -> 8 * P45 * es' <= 7 * (P45 + E1) * es + E1 * (7 * S + 65536 * r) + 8 * P45 * (65536 + 1) ->
+  0 <= ev' -> 4 * P45 * ev' <= 3 * (P45 + E1) * ev + (P45 + E1) * es + E1 * (3 * V + Z.abs (S - 65536 * r)) + 4 * P45 * (65536 + 1) ->
+  tmpl 0 35184372088832 503316540 0 2036330090902336569344 S' V' es' ev'.
+Proof. unfold tmpl, P45, E1. intros. lia. Qed.
+Lemma inv1ms_10s_x2_step_157 S V es ev r S' V' es' ev' :
+  65536000000 <= S <= 655360000000000 -> 0 <= V <= 655360000000000 ->
+
+  tmpl 35184372088832 0 285212706 0 683736837848755732480 S V es ev ->
+  tmpl 35184372088832 0 318767142 0 506330039654348357632 S V es ev ->
+  tmpl 0 35184372088832 469762104 33554436 1638446046081448935424 S V es ev ->
+  tmpl 0 35184372088832 503316540 33554436 1345247683212672237568 S V es ev ->
+  tmpl 0 35184372088832 536870976 33554436 1139474271035213611008 S V es ev ->
+  tmpl 0 35184372088832 570425412 0 1341813189461365227520 S V es ev ->
+  tmpl 0 35184372088832 570425412 33554436 1002171708927130861568 S V es ev ->
+  tmpl 0 35184372088832 637534284 0 998737197804198297600 S V es ev ->
+  1000000 <= r <= 10000000000 -> 0 <= es -> 0 <= ev ->
+  8 * S' <= 7 * S + 65536 * r < 8 * S' + 8 ->
+  4 * V' <= 3 * V + Z.abs (S - 65536 * r) < 4 * V' + 4 ->
+  0 <= es' -> 8 * P45 * es' <= 7 * (P45 + E1) * es + E1 * (7 * S + 65536 * r) + 8 * P45 * (65536 + 1) ->
+  0 <= ev' -> 4 * P45 * ev' <= 3 * (P45 + E1) * ev + (P45 + E1) * es + E1 * (3 * V + Z.abs (S - 65536 * r)) + 4 * P45 * (65536 + 1) ->
+  tmpl 0 35184372088832 503316540 33554436 1345247683212672237568 S' V' es' ev'.
+Proof. unfold tmpl, P45, E1. intros. lia. Qed.
+Lemma inv1ms_10s_x2_step_158 S V es ev r S' V' es' ev' :
+  65536000000 <= S <= 655360000000000 -> 0 <= V <= 655360000000000 ->
+
+  tmpl 35184372088832 0 318767142 0 506330039654348357632 S V es ev ->
+  tmpl 35184372088832 0 335544360 0 461667282885208047616 S V es ev ->
+  tmpl 35184372088832 0 352321578 0 435312051427535486976 S V es ev ->
+  tmpl 0 35184372088832 469762104 67108872 1142934107786652024832 S V es ev ->
+  tmpl 0 35184372088832 503316540 67108872 1005627011641852559360 S V es ev ->
+  tmpl 0 35184372088832 536870976 33554436 1139474271035213611008 S V es ev ->
+  tmpl 0 35184372088832 536870976 67108872 919317398673313628160 S V es ev ->
+  tmpl 0 35184372088832 603979848 33554436 915863765843506888704 S V es ev ->
+  1000000 <= r <= 10000000000 -> 0 <= es -> 0 <= ev ->
+  8 * S' <= 7 * S + 65536 * r < 8 * S' + 8 ->
+  4 * V' <= 3 * V + Z.abs (S - 65536 * r) < 4 * V' + 4 ->
+  0 <= es' -> 8 * P45 * es' <= 7 * (P45 + E1) * es + E1 * (7 * S + 65536 * r) + 8 * P45 * (65536 + 1) ->
+  0 <= ev' -> 4 * P45 * ev' <= 3 * (P45 + E1) * ev + (P45 + E1) * es + E1 * (3 * V + Z.abs (S - 65536 * r)) + 4 * P45 * (65536 + 1) ->
+  tmpl 0 35184372088832 503316540 67108872 1005627011641852559360 S' V' es' ev'.
+Proof. unfold tmpl, P45, E1. intros. lia. Qed.
+Lemma inv1ms_10s_x2_step_159 S V es ev r S' V' es' ev' :
+  65536000000 <= S <= 655360000000000 -> 0 <= V <= 655360000000000 ->
+
+  tmpl 0 0 16777218 (-8388609) (-820022133117572608) S V es ev ->
+  tmpl 35184372088832 0 268435488 0 835760252043128864768 S V es ev ->
+  tmpl 35184372088832 0 301989924 0 577303779024326361088 S V es ev ->
+  tmpl 0 35184372088832 503316540 0 2036330090902336569344 S V es ev ->
+  tmpl 0 35184372088832 536870976 0 1635011575492014505984 S V es ev ->
+  tmpl 0 35184372088832 570425412 0 1341813189461365227520 S V es ev ->
+  tmpl 0 35184372088832 603979848 0 1136039765702902677504 S V es ev ->
+  1000000 <= r <= 10000000000 -> 0 <= es -> 0 <= ev ->
+  8 * S' <= 7 * S + 65536 * r < 8 * S' + 8 ->
+  4 * V' <= 3 * V + Z.abs (S - 65536 * r) < 4 * V' + 4 ->
+  0 <= es' -> 8 * P45 * es' <= 7 * (P45 + E1) * es + E1 * (7 * S + 65536 * r) + 8 * P45 * (65536 + 1) ->
+  0 <= ev' -> 4 * P45 * ev' <= 3 * (P45 + E1) * ev + (P45 + E1) * es + E1 * (3 * V + Z.abs (S - 65536 * r)) + 4 * P45 * (65536 + 1) ->
+  tmpl 0 35184372088832 536870976 0 1635011575492014505984 S' V' es' ev'.
+Proof. unfold tmpl, P45, E1. intros. lia. Qed.
+Lemma inv1ms_10s_x2_step_160 S V es ev r S' V' es' ev' :
+  65536000000 <= S <= 655360000000000 -> 0 <= V <= 655360000000000 ->
+
+  tmpl 35184372088832 0 301989924 0 577303779024326361088 S V es ev ->
+  tmpl 35184372088832 0 335544360 0 461667282885208047616 S V es ev ->
+  tmpl 0 35184372088832 503316540 33554436 1345247683212672237568 S V es ev ->
+  tmpl 0 35184372088832 536870976 33554436 1139474271035213611008 S V es ev ->
+  tmpl 0 35184372088832 570425412 33554436 1002171708927130861568 S V es ev ->
+  tmpl 0 35184372088832 603979848 0 1136039765702902677504 S V es ev ->
+  tmpl 0 35184372088832 603979848 33554436 915863765843506888704 S V es ev ->
+  tmpl 0 35184372088832 671088720 0 912429251824725524480 S V es ev ->
+  1000000 <= r <= 10000000000 -> 0 <= es -> 0 <= ev ->
+  8 * S' <= 7 * S + 65536 * r < 8 * S' + 8 ->
+  4 * V' <= 3 * V + Z.abs (S - 65536 * r) < 4 * V' + 4 ->
+  0 <= es' -> 8 * P45 * es' <= 7 * (P45 + E1) * es + E1 * (7 * S + 65536 * r) + 8 * P45 * (65536 + 1) ->
+  0 <= ev' -> 4 * P45 * ev' <= 3 * (P45 + E1) * ev + (P45 + E1) * es + E1 * (3 * V + Z.abs (S - 65536 * r)) + 4 * P45 * (65536 + 1) ->
+  tmpl 0 35184372088832 536870976 33554436 1139474271035213611008 S' V' es' ev'.
+Proof. unfold tmpl, P45, E1. intros. lia. Qed.
+Lemma inv1ms_10s_x2_step_161 S V es ev r S' V' es' ev' :
+  65536000000 <= S <= 655360000000000 -> 0 <= V <= 655360000000000 ->
+
+  tmpl 35184372088832 0 335544360 0 461667282885208047616 S V es ev ->
+  tmpl 35184372088832 0 369098796 0 420731280936727019520 S V es ev ->
+  tmpl 0 35184372088832 503316540 67108872 1005627011641852559360 S V es ev ->
+  tmpl 0 35184372088832 536870976 67108872 919317398673313628160 S V es ev ->
+  tmpl 0 35184372088832 570425412 33554436 1002171708927130861568 S V es ev ->
+  tmpl 0 35184372088832 570425412 67108872 868524226007929978880 S V es ev ->
+  tmpl 0 35184372088832 603979848 67108872 840536072310487515136 S V es ev ->
+  tmpl 0 35184372088832 637534284 33554436 865071191426608267264 S V es ev ->
+  1000000 <= r <= 10000000000 -> 0 <= es -> 0 <= ev ->
+  8 * S' <= 7 * S + 65536 * r < 8 * S' + 8 ->
+  4 * V' <= 3 * V + Z.abs (S - 65536 * r) < 4 * V' + 4 ->
+  0 <= es' -> 8 * P45 * es' <= 7 * (P45 + E1) * es + E1 * (7 * S + 65536 * r) + 8 * P45 * (65536 + 1) ->
+  0 <= ev' -> 4 * P45 * ev' <= 3 * (P45 + E1) * ev + (P45 + E1) * es + E1 * (3 * V + Z.abs (S - 65536 * r)) + 4 * P45 * (65536 + 1) ->
+  tmpl 0 35184372088832 536870976 67108872 919317398673313628160 S' V' es' ev'.
+Proof. unfold tmpl, P45, E1. intros. lia. Qed.
+Lemma inv1ms_10s_x2_step_162 S V es ev r S' V' es' ev' :
+  65536000000 <= S <= 655360000000000 -> 0 <= V <= 655360000000000 ->
+
+  tmpl 0 0 16777218 (-8388609) (-820022133117572608) S V es ev ->
+  tmpl 35184372088832 0 285212706 0 683736837848755732480 S V es ev ->
+  tmpl 35184372088832 0 318767142 0 506330039654348357632 S V es ev ->
+  tmpl 0 35184372088832 536870976 0 1635011575492014505984 S V es ev ->
+  tmpl 0 35184372088832 570425412 0 1341813189461365227520 S V es ev ->
+  tmpl 0 35184372088832 603979848 0 1136039765702902677504 S V es ev ->
+  tmpl 0 35184372088832 637534284 0 998737197804198297600 S V es ev ->
+  1000000 <= r <= 10000000000 -> 0 <= es -> 0 <= ev ->
+  8 * S' <= 7 * S + 65536 * r < 8 * S' + 8 ->
+  4 * V' <= 3 * V + Z.abs (S - 65536 * r) < 4 * V' + 4 ->
+  0 <= es' -> 8 * P45 * es' <= 7 * (P45 + E1) * es + E1 * (7 * S + 65536 * r) + 8 * P45 * (65536 + 1) ->
+  0 <= ev' -> 4 * P45 * ev' <= 3 * (P45 + E1) * ev + (P45 + E1) * es + E1 * (3 * V + Z.abs (S - 65536 * r)) + 4 * P45 * (65536 + 1) ->
+  tmpl 0 35184372088832 570425412 0 1341813189461365227520 S' V' es' ev'.
+Proof. unfold tmpl, P45, E1. intros. lia. Qed.
+Lemma inv1ms_10s_x2_step_163 S V es ev r S' V' es' ev' :
+  65536000000 <= S <= 655360000000000 -> 0 <= V <= 655360000000000 ->
+
+  tmpl 35184372088832 0 318767142 0 506330039654348357632 S V es ev ->
+  tmpl 35184372088832 0 352321578 0 435312051427535486976 S V es ev ->
+  tmpl 0 35184372088832 536870976 33554436 1139474271035213611008 S V es ev ->
+  tmpl 0 35184372088832 570425412 33554436 1002171708927130861568 S V es ev ->
+  tmpl 0 35184372088832 603979848 33554436 915863765843506888704 S V es ev ->
+  tmpl 0 35184372088832 637534284 0 998737197804198297600 S V es ev ->
+  tmpl 0 35184372088832 637534284 33554436 865071191426608267264 S V es ev ->
+  tmpl 0 35184372088832 704643156 0 861636675957596094464 S V es ev ->
+  1000000 <= r <= 10000000000 -> 0 <= es -> 0 <= ev ->
+  8 * S' <= 7 * S + 65536 * r < 8 * S' + 8 ->
+  4 * V' <= 3 * V + Z.abs (S - 65536 * r) < 4 * V' + 4 ->
+  0 <= es' -> 8 * P45 * es' <= 7 * (P45 + E1) * es + E1 * (7 * S + 65536 * r) + 8 * P45 * (65536 + 1) ->
+  0 <= ev' -> 4 * P45 * ev' <= 3 * (P45 + E1) * ev + (P45 + E1) * es + E1 * (3 * V + Z.abs (S - 65536 * r)) + 4 * P45 * (65536 + 1) ->
+  tmpl 0 35184372088832 570425412 33554436 1002171708927130861568 S' V' es' ev'.
+Proof. unfold tmpl, P45, E1. intros. lia. Qed.
+Lemma inv1ms_10s_x2_step_164 S V es ev r S' V' es' ev' :
+  65536000000 <= S <= 655360000000000 -> 0 <= V <= 655360000000000 ->
+
+  tmpl 35184372088832 0 352321578 0 435312051427535486976 S V es ev ->
+  tmpl 35184372088832 0 385876014 0 413067719134013358080 S V es ev ->
+  tmpl 0 35184372088832 536870976 67108872 919317398673313628160 S V es ev ->
+  tmpl 0 35184372088832 570425412 67108872 868524226007929978880 S V es ev ->
+  tmpl 0 35184372088832 603979848 33554436 915863765843506888704 S V es ev ->
+  tmpl 0 35184372088832 603979848 67108872 840536072310487515136 S V es ev ->
+  tmpl 0 35184372088832 637534284 67108872 825889073319237779456 S V es ev ->
+  tmpl 0 35184372088832 671088720 33554436 837083242129642881024 S V es ev ->
+  1000000 <= r <= 10000000000 -> 0 <= es -> 0 <= ev ->
+  8 * S' <= 7 * S + 65536 * r < 8 * S' + 8 ->
+  4 * V' <= 3 * V + Z.abs (S - 65536 * r) < 4 * V' + 4 ->
+  0 <= es' -> 8 * P45 * es' <= 7 * (P45 + E1) * es + E1 * (7 * S + 65536 * r) + 8 * P45 * (65536 + 1) ->
+  0 <= ev' -> 4 * P45 * ev' <= 3 * (P45 + E1) * ev + (P45 + E1) * es + E1 * (3 * V + Z.abs (S - 65536 * r)) + 4 * P45 * (65536 + 1) ->
+  tmpl 0 35184372088832 570425412 67108872 868524226007929978880 S' V' es' ev'.
+Proof. unfold tmpl, P45, E1. intros. lia. Qed.
+Lemma inv1ms_10s_x2_step_165 S V es ev r S' V' es' ev' :
+  65536000000 <= S <= 655360000000000 -> 0 <= V <= 655360000000000 ->
+
+  tmpl 0 0 16777218 (-8388609) (-820022133117572608) S V es ev ->
+  tmpl 35184372088832 0 301989924 0 577303779024326361088 S V es ev ->
+  tmpl 35184372088832 0 335544360 0 461667282885208047616 S V es ev ->
+  tmpl 35184372088832 0 352321578 0 435312051427535486976 S V es ev ->
+  tmpl 0 35184372088832 570425412 0 1341813189461365227520 S V es ev ->
+  tmpl 0 35184372088832 603979848 0 1136039765702902677504 S V es ev ->
+  tmpl 0 35184372088832 671088720 0 912429251824725524480 S V es ev ->
+  1000000 <= r <= 10000000000 -> 0 <= es -> 0 <= ev ->
+  8 * S' <= 7 * S + 65536 * r < 8 * S' + 8 ->
+  4 * V' <= 3 * V + Z.abs (S - 65536 * r) < 4 * V' + 4 ->
+  0 <= es' -> 8 * P45 * es' <= 7 * (P45 + E1) * es + E1 * (7 * S + 65536 * r) + 8 * P45 * (65536 + 1) ->
+  0 <= ev' -> 4 * P45 * ev' <= 3 * (P45 + E1) * ev + (P45 + E1) * es + E1 * (3 * V + Z.abs (S - 65536 * r)) + 4 * P45 * (65536 + 1) ->
+  tmpl 0 35184372088832 603979848 0 1136039765702902677504 S' V' es' ev'.
+Proof. unfold tmpl, P45, E1. intros. lia. Qed.
+Lemma inv1ms_10s_x2_step_166 S V es ev r S' V' es' ev' :
+  65536000000 <= S <= 655360000000000 -> 0 <= V <= 655360000000000 ->
+
+  tmpl 35184372088832 0 335544360 0 461667282885208047616 S V es ev ->
+  tmpl 35184372088832 0 369098796 0 420731280936727019520 S V es ev ->
+  tmpl 0 35184372088832 570425412 33554436 1002171708927130861568 S V es ev ->
+  tmpl 0 35184372088832 603979848 33554436 915863765843506888704 S V es ev ->
+  tmpl 0 35184372088832 637534284 33554436 865071191426608267264 S V es ev ->
+  tmpl 0 35184372088832 671088720 0 912429251824725524480 S V es ev ->
+  tmpl 0 35184372088832 671088720 33554436 837083242129642881024 S V es ev ->
+  tmpl 0 35184372088832 738197592 0 833648725927076429824 S V es ev ->
+  1000000 <= r <= 10000000000 -> 0 <= es -> 0 <= ev ->
+  8 * S' <= 7 * S + 65536 * r < 8 * S' + 8 ->
+  4 * V' <= 3 * V + Z.abs (S - 65536 * r) < 4 * V' + 4 ->
+  0 <= es' -> 8 * P45 * es' <= 7 * (P45 + E1) * es + E1 * (7 * S + 65536 * r) + 8 * P45 * (65536 + 1) ->
+  0 <= ev' -> 4 * P45 * ev' <= 3 * (P45 + E1) * ev + (P45 + E1) * es + E1 * (3 * V + Z.abs (S - 65536 * r)) + 4 * P45 * (65536 + 1) ->
+  tmpl 0 35184372088832 603979848 33554436 915863765843506888704 S' V' es' ev'.
+Proof. unfold tmpl, P45, E1. intros. lia. Qed.
+Lemma inv1ms_10s_x2_step_167 S V es ev r S' V' es' ev' :
+  65536000000 <= S <= 655360000000000 -> 0 <= V <= 655360000000000 ->
+
+  tmpl 35184372088832 0 369098796 0 420731280936727019520 S V es ev ->
+  tmpl 35184372088832 0 402653232 0 409079293714468241408 S V es ev ->
+  tmpl 0 35184372088832 570425412 67108872 868524226007929978880 S V es ev ->
+  tmpl 0 35184372088832 603979848 67108872 840536072310487515136 S V es ev ->
+  tmpl 0 35184372088832 637534284 33554436 865071191426608267264 S V es ev ->
+  tmpl 0 35184372088832 637534284 67108872 825889073319237779456 S V es ev ->
+  tmpl 0 35184372088832 671088720 67108872 818279670959999025152 S V es ev ->
+  tmpl 0 35184372088832 704643156 33554436 822436307799724916736 S V es ev ->
+  1000000 <= r <= 10000000000 -> 0 <= es -> 0 <= ev ->
+  8 * S' <= 7 * S + 65536 * r < 8 * S' + 8 ->
+  4 * V' <= 3 * V + Z.abs (S - 65536 * r) < 4 * V' + 4 ->
+  0 <= es' -> 8 * P45 * es' <= 7 * (P45 + E1) * es + E1 * (7 * S + 65536 * r) + 8 * P45 * (65536 + 1) ->
+  0 <= ev' -> 4 * P45 * ev' <= 3 * (P45 + E1) * ev + (P45 + E1) * es + E1 * (3 * V + Z.abs (S - 65536 * r)) + 4 * P45 * (65536 + 1) ->
+  tmpl 0 35184372088832 603979848 67108872 840536072310487515136 S' V' es' ev'.
+Proof. unfold tmpl, P45, E1. intros. lia. Qed.
+Lemma inv1ms_10s_x2_step_168 S V es ev r S' V' es' ev' :
+  65536000000 <= S <= 655360000000000 -> 0 <= V <= 655360000000000 ->
+
+  tmpl 0 0 16777218 (-8388609) (-820022133117572608) S V es ev ->
+  tmpl 35184372088832 0 318767142 0 506330039654348357632 S V es ev ->
+  tmpl 35184372088832 0 369098796 0 420731280936727019520 S V es ev ->
+  tmpl 0 35184372088832 603979848 0 1136039765702902677504 S V es ev ->
+  tmpl 0 35184372088832 637534284 0 998737197804198297600 S V es ev ->
+  tmpl 0 35184372088832 704643156 0 861636675957596094464 S V es ev ->
+  tmpl 0 35184372088832 738197592 0 833648725927076429824 S V es ev ->
+  1000000 <= r <= 10000000000 -> 0 <= es -> 0 <= ev ->
+  8 * S' <= 7 * S + 65536 * r < 8 * S' + 8 ->
+  4 * V' <= 3 * V + Z.abs (S - 65536 * r) < 4 * V' + 4 ->
+  0 <= es' -> 8 * P45 * es' <= 7 * (P45 + E1) * es + E1 * (7 * S + 65536 * r) + 8 * P45 * (65536 + 1) ->
+  0 <= ev' -> 4 * P45 * ev' <= 3 * (P45 + E1) * ev + (P45 + E1) * es + E1 * (3 * V + Z.abs (S - 65536 * r)) + 4 * P45 * (65536 + 1) ->
+  tmpl 0 35184372088832 637534284 0 998737197804198297600 S' V' es' ev'.
+Proof. unfold tmpl, P45, E1. intros. lia. Qed.
+Lemma inv1ms_10s_x2_step_169 S V es ev r S' V' es' ev' :
+  65536000000 <= S <= 655360000000000 -> 0 <= V <= 655360000000000 ->
+
+  tmpl 35184372088832 0 352321578 0 435312051427535486976 S V es ev ->
+  tmpl 35184372088832 0 385876014 0 413067719134013358080 S V es ev ->
+  tmpl 0 35184372088832 603979848 33554436 915863765843506888704 S V es ev ->
+  tmpl 0 35184372088832 637534284 33554436 865071191426608267264 S V es ev ->
+  tmpl 0 35184372088832 671088720 33554436 837083242129642881024 S V es ev ->
+  tmpl 0 35184372088832 704643156 0 861636675957596094464 S V es ev ->
+  tmpl 0 35184372088832 704643156 33554436 822436307799724916736 S V es ev ->
+  tmpl 0 35184372088832 771752028 0 819001791204413800448 S V es ev ->
+  1000000 <= r <= 10000000000 -> 0 <= es -> 0 <= ev ->
+  8 * S' <= 7 * S + 65536 * r < 8 * S' + 8 ->
+  4 * V' <= 3 * V + Z.abs (S - 65536 * r) < 4 * V' + 4 ->
+  0 <= es' -> 8 * P45 * es' <= 7 * (P45 + E1) * es + E1 * (7 * S + 65536 * r) + 8 * P45 * (65536 + 1) ->
+  0 <= ev' -> 4 * P45 * ev' <= 3 * (P45 + E1) * ev + (P45 + E1) * es + E1 * (3 * V + Z.abs (S - 65536 * r)) + 4 * P45 * (65536 + 1) ->
+  tmpl 0 35184372088832 637534284 33554436 865071191426608267264 S' V' es' ev'.
+Proof. unfold tmpl, P45, E1. intros. lia. Qed.
+Lemma inv1ms_10s_x2_step_170 S V es ev r S' V' es' ev' :
+  65536000000 <= S <= 655360000000000 -> 0 <= V <= 655360000000000 ->
+
+  tmpl 35184372088832 0 385876014 0 413067719134013358080 S V es ev ->
+  tmpl 35184372088832 0 419430450 0 406841094355780763648 S V es ev ->
+  tmpl 0 35184372088832 603979848 67108872 840536072310487515136 S V es ev ->
+  tmpl 0 35184372088832 637534284 67108872 825889073319237779456 S V es ev ->
+  tmpl 0 35184372088832 671088720 33554436 837083242129642881024 S V es ev ->
+  tmpl 0 35184372088832 671088720 67108872 818279670959999025152 S V es ev ->
+  tmpl 0 35184372088832 704643156 67108872 813985414398976327680 S V es ev ->
+  tmpl 0 35184372088832 738197592 33554436 814826923239641841664 S V es ev ->
+  1000000 <= r <= 10000000000 -> 0 <= es -> 0 <= ev ->
+  8 * S' <= 7 * S + 65536 * r < 8 * S' + 8 ->
+  4 * V' <= 3 * V + Z.abs (S - 65536 * r) < 4 * V' + 4 ->
+  0 <= es' -> 8 * P45 * es' <= 7 * (P45 + E1) * es + E1 * (7 * S + 65536 * r) + 8 * P45 * (65536 + 1) ->
+  0 <= ev' -> 4 * P45 * ev' <= 3 * (P45 + E1) * ev + (P45 + E1) * es + E1 * (3 * V + Z.abs (S - 65536 * r)) + 4 * P45 * (65536 + 1) ->
+  tmpl 0 35184372088832 637534284 67108872 825889073319237779456 S' V' es' ev'.
+Proof. unfold tmpl, P45, E1. intros. lia. Qed.
+Lemma inv1ms_10s_x2_step_171 S V es ev r S' V' es' ev' :
+  65536000000 <= S <= 655360000000000 -> 0 <= V <= 655360000000000 ->
+
+  tmpl 0 0 16777218 (-8388609) (-820022133117572608) S V es ev ->
+  tmpl 35184372088832 0 335544360 0 461667282885208047616 S V es ev ->
+  tmpl 35184372088832 0 385876014 0 413067719134013358080 S V es ev ->
+  tmpl 0 35184372088832 637534284 0 998737197804198297600 S V es ev ->
+  tmpl 0 35184372088832 671088720 0 912429251824725524480 S V es ev ->
+  tmpl 0 35184372088832 738197592 0 833648725927076429824 S V es ev ->
+  tmpl 0 35184372088832 771752028 0 819001791204413800448 S V es ev ->
+  1000000 <= r <= 10000000000 -> 0 <= es -> 0 <= ev ->
+  8 * S' <= 7 * S + 65536 * r < 8 * S' + 8 ->
+  4 * V' <= 3 * V + Z.abs (S - 65536 * r) < 4 * V' + 4 ->
+  0 <= es' -> 8 * P45 * es' <= 7 * (P45 + E1) * es + E1 * (7 * S + 65536 * r) + 8 * P45 * (65536 + 1) ->
+  0 <= ev' -> 4 * P45 * ev' <= 3 * (P45 + E1) * ev + (P45 + E1) * es + E1 * (3 * V + Z.abs (S - 65536 * r)) + 4 * P45 * (65536 + 1) ->
+  tmpl 0 35184372088832 671088720 0 912429251824725524480 S' V' es' ev'.
+Proof. unfold tmpl, P45, E1. intros. lia. Qed.
+Lemma inv1ms_10s_x2_step_172 S V es ev r S' V' es' ev' :
+  65536000000 <= S <= 655360000000000 -> 0 <= V <= 655360000000000 ->
+
+  tmpl 35184372088832 0 369098796 0 420731280936727019520 S V es ev ->
+  tmpl 35184372088832 0 402653232 0 409079293714468241408 S V es ev ->
+  tmpl 35184372088832 0 419430450 0 406841094355780763648 S V es ev ->
+  tmpl 0 35184372088832 637534284 33554436 865071191426608267264 S V es ev ->
+  tmpl 0 35184372088832 671088720 33554436 837083242129642881024 S V es ev ->
+  tmpl 0 35184372088832 738197592 0 833648725927076429824 S V es ev ->
+  tmpl 0 35184372088832 738197592 33554436 814826923239641841664 S V es ev ->
+  tmpl 0 35184372088832 805306464 0 811392406381010747392 S V es ev ->
+  1000000 <= r <= 10000000000 -> 0 <= es -> 0 <= ev ->
+  8 * S' <= 7 * S + 65536 * r < 8 * S' + 8 ->
+  4 * V' <= 3 * V + Z.abs (S - 65536 * r) < 4 * V' + 4 ->
+  0 <= es' -> 8 * P45 * es' <= 7 * (P45 + E1) * es + E1 * (7 * S + 65536 * r) + 8 * P45 * (65536 + 1) ->
+  0 <= ev' -> 4 * P45 * ev' <= 3 * (P45 + E1) * ev + (P45 + E1) * es + E1 * (3 * V + Z.abs (S - 65536 * r)) + 4 * P45 * (65536 + 1) ->
+  tmpl 0 35184372088832 671088720 33554436 837083242129642881024 S' V' es' ev'.
+Proof. unfold tmpl, P45, E1. intros. lia. Qed.
+Lemma inv1ms_10s_x2_step_173 S V es ev r S' V' es' ev' :
+  65536000000 <= S <= 655360000000000 -> 0 <= V <= 655360000000000 ->
+
+  tmpl 35184372088832 0 402653232 0 409079293714468241408 S V es ev ->
+  tmpl 35184372088832 0 436207668 0 405343572022731079680 S V es ev ->
+  tmpl 0 35184372088832 637534284 67108872 825889073319237779456 S V es ev ->
+  tmpl 0 35184372088832 671088720 67108872 818279670959999025152 S V es ev ->
+  tmpl 0 35184372088832 704643156 33554436 822436307799724916736 S V es ev ->
+  tmpl 0 35184372088832 704643156 67108872 813985414398976327680 S V es ev ->
+  tmpl 0 35184372088832 738197592 67108872 811071882360405360640 S V es ev ->
+  tmpl 0 35184372088832 805306464 33554436 807619138085682806784 S V es ev ->
+  1000000 <= r <= 10000000000 -> 0 <= es -> 0 <= ev ->
+  8 * S' <= 7 * S + 65536 * r < 8 * S' + 8 ->
+  4 * V' <= 3 * V + Z.abs (S - 65536 * r) < 4 * V' + 4 ->
+  0 <= es' -> 8 * P45 * es' <= 7 * (P45 + E1) * es + E1 * (7 * S + 65536 * r) + 8 * P45 * (65536 + 1) ->
+  0 <= ev' -> 4 * P45 * ev' <= 3 * (P45 + E1) * ev + (P45 + E1) * es + E1 * (3 * V + Z.abs (S - 65536 * r)) + 4 * P45 * (65536 + 1) ->
+  tmpl 0 35184372088832 671088720 67108872 818279670959999025152 S' V' es' ev'.
+Proof. unfold tmpl, P45, E1. intros. lia. Qed.
+Lemma inv1ms_10s_x2_step_174 S V es ev r S' V' es' ev' :
+  65536000000 <= S <= 655360000000000 -> 0 <= V <= 655360000000000 ->
+
+  tmpl 0 0 16777218 (-8388609) (-820022133117572608) S V es ev ->
+  tmpl 35184372088832 0 352321578 0 435312051427535486976 S V es ev ->
+  tmpl 35184372088832 0 402653232 0 409079293714468241408 S V es ev ->
+  tmpl 0 35184372088832 671088720 0 912429251824725524480 S V es ev ->
+  tmpl 0 35184372088832 704643156 0 861636675957596094464 S V es ev ->
+  tmpl 0 35184372088832 771752028 0 819001791204413800448 S V es ev ->
+  tmpl 0 35184372088832 805306464 0 811392406381010747392 S V es ev ->
+  1000000 <= r <= 10000000000 -> 0 <= es -> 0 <= ev ->
+  8 * S' <= 7 * S + 65536 * r < 8 * S' + 8 ->
+  4 * V' <= 3 * V + Z.abs (S - 65536 * r) < 4 * V' + 4 ->
+  0 <= es' -> 8 * P45 * es' <= 7 * (P45 + E1) * es + E1 * (7 * S + 65536 * r) + 8 * P45 * (65536 + 1) ->
+  0 <= ev' -> 4 * P45 * ev' <= 3 * (P45 + E1) * ev + (P45 + E1) * es + E1 * (3 * V + Z.abs (S - 65536 * r)) + 4 * P45 * (65536 + 1) ->
+  tmpl 0 35184372088832 704643156 0 861636675957596094464 S' V' es' ev'.
+Proof. unfold tmpl, P45, E1. intros. lia. Qed.
+Lemma inv1ms_10s_x2_step_175 S V es ev r S' V' es' ev' :
+  65536000000 <= S <= 655360000000000 -> 0 <= V <= 655360000000000 ->
+
+  tmpl 35184372088832 0 385876014 0 413067719134013358080 S V es ev ->
+  tmpl 35184372088832 0 436207668 0 405343572022731079680 S V es ev ->
+  tmpl 0 35184372088832 671088720 33554436 837083242129642881024 S V es ev ->
+  tmpl 0 35184372088832 704643156 33554436 822436307799724916736 S V es ev ->
+  tmpl 0 35184372088832 771752028 0 819001791204413800448 S V es ev ->
+  tmpl 0 35184372088832 771752028 33554436 810532670181204688896 S V es ev ->
+  tmpl 0 35184372088832 838860900 0 807098153047217537024 S V es ev ->
+  tmpl 0 35184372088832 872415336 0 804184620559863119872 S V es ev ->
+  1000000 <= r <= 10000000000 -> 0 <= es -> 0 <= ev ->
+  8 * S' <= 7 * S + 65536 * r < 8 * S' + 8 ->
+  4 * V' <= 3 * V + Z.abs (S - 65536 * r) < 4 * V' + 4 ->
+  0 <= es' -> 8 * P45 * es' <= 7 * (P45 + E1) * es + E1 * (7 * S + 65536 * r) + 8 * P45 * (65536 + 1) ->
+  0 <= ev' -> 4 * P45 * ev' <= 3 * (P45 + E1) * ev + (P45 + E1) * es + E1 * (3 * V + Z.abs (S - 65536 * r)) + 4 * P45 * (65536 + 1) ->
+  tmpl 0 35184372088832 704643156 33554436 822436307799724916736 S' V' es' ev'.
+Proof. unfold tmpl, P45, E1. intros. lia. Qed.
+Lemma inv1ms_10s_x2_step_176 S V es ev r S' V' es' ev' :
+  65536000000 <= S <= 655360000000000 -> 0 <= V <= 655360000000000 ->
+
+  tmpl 35184372088832 0 419430450 0 406841094355780763648 S V es ev ->
+  tmpl 35184372088832 0 452984886 0 404122051557223038976 S V es ev ->
+  tmpl 0 35184372088832 671088720 67108872 818279670959999025152 S V es ev ->
+  tmpl 0 35184372088832 704643156 67108872 813985414398976327680 S V es ev ->
+  tmpl 0 35184372088832 738197592 33554436 814826923239641841664 S V es ev ->
+  tmpl 0 35184372088832 738197592 67108872 811071882360405360640 S V es ev ->
+  tmpl 0 35184372088832 771752028 67108872 808661221188320100352 S V es ev ->
+  tmpl 0 35184372088832 838860900 33554436 805208475499687968768 S V es ev ->
+  1000000 <= r <= 10000000000 -> 0 <= es -> 0 <= ev ->
+  8 * S' <= 7 * S + 65536 * r < 8 * S' + 8 ->
+  4 * V' <= 3 * V + Z.abs (S - 65536 * r) < 4 * V' + 4 ->
+  0 <= es' -> 8 * P45 * es' <= 7 * (P45 + E1) * es + E1 * (7 * S + 65536 * r) + 8 * P45 * (65536 + 1) ->
+  0 <= ev' -> 4 * P45 * ev' <= 3 * (P45 + E1) * ev + (P45 + E1) * es + E1 * (3 * V + Z.abs (S - 65536 * r)) + 4 * P45 * (65536 + 1) ->
+  tmpl 0 35184372088832 704643156 67108872 813985414398976327680 S' V' es' ev'.
+Proof. unfold tmpl, P45, E1. intros. lia. Qed.
+Lemma inv1ms_10s_x2_step_177 S V es ev r S' V' es' ev' :
+  65536000000 <= S <= 655360000000000 -> 0 <= V <= 655360000000000 ->
+
+  tmpl 0 0 16777218 (-8388609) (-820022133117572608) S V es ev ->
+  tmpl 35184372088832 0 369098796 0 420731280936727019520 S V es ev ->
+  tmpl 35184372088832 0 419430450 0 406841094355780763648 S V es ev ->
+  tmpl 0 35184372088832 704643156 0 861636675957596094464 S V es ev ->
+  tmpl 0 35184372088832 738197592 0 833648725927076429824 S V es ev ->
+  tmpl 0 35184372088832 805306464 0 811392406381010747392 S V es ev ->
+  tmpl 0 35184372088832 838860900 0 807098153047217537024 S V es ev ->
+  1000000 <= r <= 10000000000 -> 0 <= es -> 0 <= ev ->
+  8 * S' <= 7 * S + 65536 * r < 8 * S' + 8 ->
+  4 * V' <= 3 * V + Z.abs (S - 65536 * r) < 4 * V' + 4 ->
+  0 <= es' -> 8 * P45 * es' <= 7 * (P45 + E1) * es + E1 * (7 * S + 65536 * r) + 8 * P45 * (65536 + 1) ->
+  0 <= ev' -> 4 * P45 * ev' <= 3 * (P45 + E1) * ev + (P45 + E1) * es + E1 * (3 * V + Z.abs (S - 65536 * r)) + 4 * P45 * (65536 + 1) ->
+  tmpl 0 35184372088832 738197592 0 833648725927076429824 S' V' es' ev'.
+Proof. unfold tmpl, P45, E1. intros. lia. Qed.
+Lemma inv1ms_10s_x2_step_178 S V es ev r S' V' es' ev' :
+  65536000000 <= S <= 655360000000000 -> 0 <= V <= 655360000000000 ->
+
+  tmpl 35184372088832 0 402653232 0 409079293714468241408 S V es ev ->
+  tmpl 35184372088832 0 452984886 0 404122051557223038976 S V es ev ->
+  tmpl 0 35184372088832 704643156 33554436 822436307799724916736 S V es ev ->
+  tmpl 0 35184372088832 738197592 33554436 814826923239641841664 S V es ev ->
+  tmpl 0 35184372088832 805306464 0 811392406381010747392 S V es ev ->
+  tmpl 0 35184372088832 805306464 33554436 807619138085682806784 S V es ev ->
+  tmpl 0 35184372088832 838860900 33554436 805208475499687968768 S V es ev ->
+  tmpl 0 35184372088832 905969772 0 801773957413605998592 S V es ev ->
+  1000000 <= r <= 10000000000 -> 0 <= es -> 0 <= ev ->
+  8 * S' <= 7 * S + 65536 * r < 8 * S' + 8 ->
+  4 * V' <= 3 * V + Z.abs (S - 65536 * r) < 4 * V' + 4 ->
+  0 <= es' -> 8 * P45 * es' <= 7 * (P45 + E1) * es + E1 * (7 * S + 65536 * r) + 8 * P45 * (65536 + 1) ->
+  0 <= ev' -> 4 * P45 * ev' <= 3 * (P45 + E1) * ev + (P45 + E1) * es + E1 * (3 * V + Z.abs (S - 65536 * r)) + 4 * P45 * (65536 + 1) ->
+  tmpl 0 35184372088832 738197592 33554436 814826923239641841664 S' V' es' ev'.
+Proof. unfold tmpl, P45, E1. intros. lia. Qed.
+Lemma inv1ms_10s_x2_step_179 S V es ev r S' V' es' ev' :
+  65536000000 <= S <= 655360000000000 -> 0 <= V <= 655360000000000 ->
+
+  tmpl 35184372088832 0 436207668 0 405343572022731079680 S V es ev ->
+  tmpl 35184372088832 0 469762104 0 402990163558223446016 S V es ev ->
+  tmpl 35184372088832 0 486539322 0 401883333290772660224 S V es ev ->
+  tmpl 0 35184372088832 704643156 67108872 813985414398976327680 S V es ev ->
+  tmpl 0 35184372088832 738197592 67108872 811071882360405360640 S V es ev ->
+  tmpl 0 35184372088832 805306464 33554436 807619138085682806784 S V es ev ->
+  tmpl 0 35184372088832 805306464 67108872 806408655863763042304 S V es ev ->
+  tmpl 0 35184372088832 872415336 33554436 802955908075454332928 S V es ev ->
+  1000000 <= r <= 10000000000 -> 0 <= es -> 0 <= ev ->
+  8 * S' <= 7 * S + 65536 * r < 8 * S' + 8 ->
+  4 * V' <= 3 * V + Z.abs (S - 65536 * r) < 4 * V' + 4 ->
+  0 <= es' -> 8 * P45 * es' <= 7 * (P45 + E1) * es + E1 * (7 * S + 65536 * r) + 8 * P45 * (65536 + 1) ->
+  0 <= ev' -> 4 * P45 * ev' <= 3 * (P45 + E1) * ev + (P45 + E1) * es + E1 * (3 * V + Z.abs (S - 65536 * r)) + 4 * P45 * (65536 + 1) ->
+  tmpl 0 35184372088832 738197592 67108872 811071882360405360640 S' V' es' ev'.
+Proof. unfold tmpl, P45, E1. intros. lia. Qed.
+Lemma inv1ms_10s_x2_step_180 S V es ev r S' V' es' ev' :
+  65536000000 <= S <= 655360000000000 -> 0 <= V <= 655360000000000 ->
+
+  tmpl 0 0 16777218 (-8388609) (-820022133117572608) S V es ev ->
+  tmpl 35184372088832 0 385876014 0 413067719134013358080 S V es ev ->
+  tmpl 35184372088832 0 436207668 0 405343572022731079680 S V es ev ->
+  tmpl 0 35184372088832 738197592 0 833648725927076429824 S V es ev ->
+  tmpl 0 35184372088832 771752028 0 819001791204413800448 S V es ev ->
+  tmpl 0 35184372088832 838860900 0 807098153047217537024 S V es ev ->
+  tmpl 0 35184372088832 872415336 0 804184620559863119872 S V es ev ->
+  1000000 <= r <= 10000000000 -> 0 <= es -> 0 <= ev ->
+  8 * S' <= 7 * S + 65536 * r < 8 * S' + 8 ->
+  4 * V' <= 3 * V + Z.abs (S - 65536 * r) < 4 * V' + 4 ->
+  0 <= es' -> 8 * P45 * es' <= 7 * (P45 + E1) * es + E1 * (7 * S + 65536 * r) + 8 * P45 * (65536 + 1) ->
+  0 <= ev' -> 4 * P45 * ev' <= 3 * (P45 + E1) * ev + (P45 + E1) * es + E1 * (3 * V + Z.abs (S - 65536 * r)) + 4 * P45 * (65536 + 1) ->
+  tmpl 0 35184372088832 771752028 0 819001791204413800448 S' V' es' ev'.
+Proof. unfold tmpl, P45, E1. intros. lia. Qed.
+Lemma inv1ms_10s_x2_step_181 S V es ev r S' V' es' ev' :
+  65536000000 <= S <= 655360000000000 -> 0 <= V <= 655360000000000 ->
+
+  tmpl 35184372088832 0 419430450 0 406841094355780763648 S V es ev ->
+  tmpl 35184372088832 0 469762104 0 402990163558223446016 S V es ev ->
+  tmpl 0 35184372088832 738197592 33554436 814826923239641841664 S V es ev ->
+  tmpl 0 35184372088832 771752028 33554436 810532670181204688896 S V es ev ->
+  tmpl 0 35184372088832 838860900 0 807098153047217537024 S V es ev ->
+  tmpl 0 35184372088832 838860900 33554436 805208475499687968768 S V es ev ->
+  tmpl 0 35184372088832 872415336 33554436 802955908075454332928 S V es ev ->
+  tmpl 0 35184372088832 905969772 0 801773957413605998592 S V es ev ->
+  1000000 <= r <= 10000000000 -> 0 <= es -> 0 <= ev ->
+  8 * S' <= 7 * S + 65536 * r < 8 * S' + 8 ->
+  4 * V' <= 3 * V + Z.abs (S - 65536 * r) < 4 * V' + 4 ->
+  0 <= es' -> 8 * P45 * es' <= 7 * (P45 + E1) * es + E1 * (7 * S + 65536 * r) + 8 * P45 * (65536 + 1) ->
+  0 <= ev' -> 4 * P45 * ev' <= 3 * (P45 + E1) * ev + (P45 + E1) * es + E1 * (3 * V + Z.abs (S - 65536 * r)) + 4 * P45 * (65536 + 1) ->
+  tmpl 0 35184372088832 771752028 33554436 810532670181204688896 S' V' es' ev'.
+Proof. unfold tmpl, P45, E1. intros. lia. Qed.
+Lemma inv1ms_10s_x2_step_182 S V es ev r S' V' es' ev' :
+  65536000000 <= S <= 655360000000000 -> 0 <= V <= 655360000000000 ->
+
+  tmpl 35184372088832 0 452984886 0 404122051557223038976 S V es ev ->
+  tmpl 35184372088832 0 503316540 0 400782441201163960320 S V es ev ->
+  tmpl 0 35184372088832 738197592 67108872 811071882360405360640 S V es ev ->
+  tmpl 0 35184372088832 771752028 67108872 808661221188320100352 S V es ev ->
+  tmpl 0 35184372088832 838860900 33554436 805208475499687968768 S V es ev ->
+  tmpl 0 35184372088832 838860900 67108872 804198311164471934976 S V es ev ->
+  tmpl 0 35184372088832 872415336 67108872 801997633068815745024 S V es ev ->
+  tmpl 0 35184372088832 905969772 33554436 800749595285052850176 S V es ev ->
+  1000000 <= r <= 10000000000 -> 0 <= es -> 0 <= ev ->
+  8 * S' <= 7 * S + 65536 * r < 8 * S' + 8 ->
+  4 * V' <= 3 * V + Z.abs (S - 65536 * r) < 4 * V' + 4 ->
+  0 <= es' -> 8 * P45 * es' <= 7 * (P45 + E1) * es + E1 * (7 * S + 65536 * r) + 8 * P45 * (65536 + 1) ->
+  0 <= ev' -> 4 * P45 * ev' <= 3 * (P45 + E1) * ev + (P45 + E1) * es + E1 * (3 * V + Z.abs (S - 65536 * r)) + 4 * P45 * (65536 + 1) ->
+  tmpl 0 35184372088832 771752028 67108872 808661221188320100352 S' V' es' ev'.
+Proof. unfold tmpl, P45, E1. intros. lia. Qed.
+Lemma inv1ms_10s_x2_step_183 S V es ev r S' V' es' ev' :
+  65536000000 <= S <= 655360000000000 -> 0 <= V <= 655360000000000 ->
+
+  tmpl 0 0 16777218 (-8388609) (-820022133117572608) S V es ev ->
+  tmpl 35184372088832 0 402653232 0 409079293714468241408 S V es ev ->
+  tmpl 35184372088832 0 452984886 0 404122051557223038976 S V es ev ->
+  tmpl 0 35184372088832 771752028 0 819001791204413800448 S V es ev ->
+  tmpl 0 35184372088832 805306464 0 811392406381010747392 S V es ev ->
+  tmpl 0 35184372088832 872415336 0 804184620559863119872 S V es ev ->
+  tmpl 0 35184372088832 905969772 0 801773957413605998592 S V es ev ->
+  1000000 <= r <= 10000000000 -> 0 <= es -> 0 <= ev ->
+  8 * S' <= 7 * S + 65536 * r < 8 * S' + 8 ->
+  4 * V' <= 3 * V + Z.abs (S - 65536 * r) < 4 * V' + 4 ->
+  0 <= es' -> 8 * P45 * es' <= 7 * (P45 + E1) * es + E1 * (7 * S + 65536 * r) + 8 * P45 * (65536 + 1) ->
+  0 <= ev' -> 4 * P45 * ev' <= 3 * (P45 + E1) * ev + (P45 + E1) * es + E1 * (3 * V + Z.abs (S - 65536 * r)) + 4 * P45 * (65536 + 1) ->
+  tmpl 0 35184372088832 805306464 0 811392406381010747392 S' V' es' ev'.
+Proof. unfold tmpl, P45, E1. intros. lia. Qed.
+Lemma inv1ms_10s_x2_step_184 S V es ev r S' V' es' ev' :
+  65536000000 <= S <= 655360000000000 -> 0 <= V <= 655360000000000 ->
+
+  tmpl 35184372088832 0 436207668 0 405343572022731079680 S V es ev ->
+  tmpl 35184372088832 0 486539322 0 401883333290772660224 S V es ev ->
+  tmpl 35184372088832 0 503316540 0 400782441201163960320 S V es ev ->
+  tmpl 0 35184372088832 771752028 33554436 810532670181204688896 S V es ev ->
+  tmpl 0 35184372088832 805306464 33554436 807619138085682806784 S V es ev ->
+  tmpl 0 35184372088832 872415336 0 804184620559863119872 S V es ev ->
+  tmpl 0 35184372088832 905969772 0 801773957413605998592 S V es ev ->
+  tmpl 0 35184372088832 905969772 33554436 800749595285052850176 S V es ev ->
+  1000000 <= r <= 10000000000 -> 0 <= es -> 0 <= ev ->
+  8 * S' <= 7 * S + 65536 * r < 8 * S' + 8 ->
+  4 * V' <= 3 * V + Z.abs (S - 65536 * r) < 4 * V' + 4 ->
+  0 <= es' -> 8 * P45 * es' <= 7 * (P45 + E1) * es + E1 * (7 * S + 65536 * r) + 8 * P45 * (65536 + 1) ->
+  0 <= ev' -> 4 * P45 * ev' <= 3 * (P45 + E1) * ev + (P45 + E1) * es + E1 * (3 * V + Z.abs (S - 65536 * r)) + 4 * P45 * (65536 + 1) ->
+  tmpl 0 35184372088832 805306464 33554436 807619138085682806784 S' V' es' ev'.
+Proof. unfold tmpl, P45, E1. intros. lia. Qed.
+Lemma inv1ms_10s_x2_step_185 S V es ev r S' V' es' ev' :
+  65536000000 <= S <= 655360000000000 -> 0 <= V <= 655360000000000 ->
+
+  tmpl 35184372088832 0 469762104 0 402990163558223446016 S V es ev ->
+  tmpl 35184372088832 0 520093758 0 399682718237291184128 S V es ev ->
+  tmpl 0 35184372088832 771752028 67108872 808661221188320100352 S V es ev ->
+  tmpl 0 35184372088832 805306464 67108872 806408655863763042304 S V es ev ->
+  tmpl 0 35184372088832 872415336 33554436 802955908075454332928 S V es ev ->
+  tmpl 0 35184372088832 872415336 67108872 801997633068815745024 S V es ev ->
+  tmpl 0 35184372088832 905969772 33554436 800749595285052850176 S V es ev ->
+  tmpl 0 35184372088832 905969772 67108872 799798471680534642688 S V es ev ->
+  1000000 <= r <= 10000000000 -> 0 <= es -> 0 <= ev ->
+  8 * S' <= 7 * S + 65536 * r < 8 * S' + 8 ->
+  4 * V' <= 3 * V + Z.abs (S - 65536 * r) < 4 * V' + 4 ->
+  0 <= es' -> 8 * P45 * es' <= 7 * (P45 + E1) * es + E1 * (7 * S + 65536 * r) + 8 * P45 * (65536 + 1) ->
+  0 <= ev' -> 4 * P45 * ev' <= 3 * (P45 + E1) * ev + (P45 + E1) * es + E1 * (3 * V + Z.abs (S - 65536 * r)) + 4 * P45 * (65536 + 1) ->
+  tmpl 0 35184372088832 805306464 67108872 806408655863763042304 S' V' es' ev'.
+Proof. unfold tmpl, P45, E1. intros. lia. Qed.
+Lemma inv1ms_10s_x2_step_186 S V es ev r S' V' es' ev' :
+  65536000000 <= S <= 655360000000000 -> 0 <= V <= 655360000000000 ->
+
+  tmpl 0 0 16777218 (-8388609) (-820022133117572608) S V es ev ->
+  tmpl 35184372088832 0 419430450 0 406841094355780763648 S V es ev ->
+  tmpl 35184372088832 0 570425412 0 396384155471969583104 S V es ev ->
+  tmpl 35184372088832 0 587202630 0 395284643709735665664 S V es ev ->
+  tmpl 0 35184372088832 805306464 0 811392406381010747392 S V es ev ->
+  tmpl 0 35184372088832 838860900 0 807098153047217537024 S V es ev ->
+  tmpl 0 35184372088832 905969772 0 801773957413605998592 S V es ev ->
+  1000000 <= r <= 10000000000 -> 0 <= es -> 0 <= ev ->
+  8 * S' <= 7 * S + 65536 * r < 8 * S' + 8 ->
+  4 * V' <= 3 * V + Z.abs (S - 65536 * r) < 4 * V' + 4 ->
+  0 <= es' -> 8 * P45 * es' <= 7 * (P45 + E1) * es + E1 * (7 * S + 65536 * r) + 8 * P45 * (65536 + 1) ->
+  0 <= ev' -> 4 * P45 * ev' <= 3 * (P45 + E1) * ev + (P45 + E1) * es + E1 * (3 * V + Z.abs (S - 65536 * r)) + 4 * P45 * (65536 + 1) ->
+  tmpl 0 35184372088832 838860900 0 807098153047217537024 S' V' es' ev'.
+Proof. unfold tmpl, P45, E1. intros. lia. Qed.
+Lemma inv1ms_10s_x2_step_187 S V es ev r S' V' es' ev' :
+  65536000000 <= S <= 655360000000000 -> 0 <= V <= 655360000000000 ->
+
+  tmpl 35184372088832 0 452984886 0 404122051557223038976 S V es ev ->
+  tmpl 35184372088832 0 587202630 0 395284643709735665664 S V es ev ->
+  tmpl 0 35184372088832 805306464 33554436 807619138085682806784 S V es ev ->
+  tmpl 0 35184372088832 838860900 33554436 805208475499687968768 S V es ev ->
+  tmpl 0 35184372088832 905969772 0 801773957413605998592 S V es ev ->
+  tmpl 0 35184372088832 905969772 33554436 800749595285052850176 S V es ev ->
+  1000000 <= r <= 10000000000 -> 0 <= es -> 0 <= ev ->
+  8 * S' <= 7 * S + 65536 * r < 8 * S' + 8 ->
+  4 * V' <= 3 * V + Z.abs (S - 65536 * r) < 4 * V' + 4 ->
+  0 <= es' -> 8 * P45 * es' <= 7 * (P45 + E1) * es + E1 * (7 * S + 65536 * r) + 8 * P45 * (65536 + 1) ->
+  0 <= ev' -> 4 * P45 * ev' <= 3 * (P45 + E1) * ev + (P45 + E1) * es + E1 * (3 * V + Z.abs (S - 65536 * r)) + 4 * P45 * (65536 + 1) ->
+  tmpl 0 35184372088832 838860900 33554436 805208475499687968768 S' V' es' ev'.
+Proof. unfold tmpl, P45, E1. intros. lia. Qed.
+Lemma inv1ms_10s_x2_step_188 S V es ev r S' V' es' ev' :
+  65536000000 <= S <= 655360000000000 -> 0 <= V <= 655360000000000 ->
+
+  tmpl 35184372088832 0 486539322 0 401883333290772660224 S V es ev ->
+  tmpl 35184372088832 0 587202630 0 395284643709735665664 S V es ev ->
+  tmpl 0 35184372088832 805306464 67108872 806408655863763042304 S V es ev ->
+  tmpl 0 35184372088832 838860900 67108872 804198311164471934976 S V es ev ->
+  tmpl 0 35184372088832 872415336 33554436 802955908075454332928 S V es ev ->
+  tmpl 0 35184372088832 905969772 33554436 800749595285052850176 S V es ev ->
+  tmpl 0 35184372088832 905969772 67108872 799798471680534642688 S V es ev ->
+  1000000 <= r <= 10000000000 -> 0 <= es -> 0 <= ev ->
+  8 * S' <= 7 * S + 65536 * r < 8 * S' + 8 ->
+  4 * V' <= 3 * V + Z.abs (S - 65536 * r) < 4 * V' + 4 ->
+  0 <= es' -> 8 * P45 * es' <= 7 * (P45 + E1) * es + E1 * (7 * S + 65536 * r) + 8 * P45 * (65536 + 1) ->
+  0 <= ev' -> 4 * P45 * ev' <= 3 * (P45 + E1) * ev + (P45 + E1) * es + E1 * (3 * V + Z.abs (S - 65536 * r)) + 4 * P45 * (65536 + 1) ->
+  tmpl 0 35184372088832 838860900 67108872 804198311164471934976 S' V' es' ev'.
+Proof. unfold tmpl, P45, E1. intros. lia. Qed.
+Lemma inv1ms_10s_x2_step_189 S V es ev r S' V' es' ev' :
+  65536000000 <= S <= 655360000000000 -> 0 <= V <= 655360000000000 ->
+
+  tmpl 0 0 16777218 (-8388609) (-820022133117572608) S V es ev ->
+  tmpl 35184372088832 0 436207668 0 405343572022731079680 S V es ev ->
+  tmpl 35184372088832 0 587202630 0 395284643709735665664 S V es ev ->
+  tmpl 0 35184372088832 838860900 0 807098153047217537024 S V es ev ->
+  tmpl 0 35184372088832 872415336 0 804184620559863119872 S V es ev ->
+  tmpl 0 35184372088832 905969772 0 801773957413605998592 S V es ev ->
+  1000000 <= r <= 10000000000 -> 0 <= es -> 0 <= ev ->
+  8 * S' <= 7 * S + 65536 * r < 8 * S' + 8 ->
+  4 * V' <= 3 * V + Z.abs (S - 65536 * r) < 4 * V' + 4 ->
+  0 <= es' -> 8 * P45 * es' <= 7 * (P45 + E1) * es + E1 * (7 * S + 65536 * r) + 8 * P45 * (65536 + 1) ->
+  0 <= ev' -> 4 * P45 * ev' <= 3 * (P45 + E1) * ev + (P45 + E1) * es + E1 * (3 * V + Z.abs (S - 65536 * r)) + 4 * P45 * (65536 + 1) ->
+  tmpl 0 35184372088832 872415336 0 804184620559863119872 S' V' es' ev'.
+Proof. unfold tmpl, P45, E1. intros. lia. Qed.
+Lemma inv1ms_10s_x2_step_190 S V es ev r S' V' es' ev' :
+  65536000000 <= S <= 655360000000000 -> 0 <= V <= 655360000000000 ->
+
+  tmpl 35184372088832 0 469762104 0 402990163558223446016 S V es ev ->
+  tmpl 35184372088832 0 587202630 0 395284643709735665664 S V es ev ->
+  tmpl 0 35184372088832 838860900 33554436 805208475499687968768 S V es ev ->
+  tmpl 0 35184372088832 872415336 33554436 802955908075454332928 S V es ev ->
+  tmpl 0 35184372088832 905969772 0 801773957413605998592 S V es ev ->
+  tmpl 0 35184372088832 905969772 33554436 800749595285052850176 S V es ev ->
+  1000000 <= r <= 10000000000 -> 0 <= es -> 0 <= ev ->
+  8 * S' <= 7 * S + 65536 * r < 8 * S' + 8 ->
+  4 * V' <= 3 * V + Z.abs (S - 65536 * r) < 4 * V' + 4 ->
+  0 <= es' -> 8 * P45 * es' <= 7 * (P45 + E1) * es + E1 * (7 * S + 65536 * r) + 8 * P45 * (65536 + 1) ->
+  0 <= ev' -> 4 * P45 * ev' <= 3 * (P45 + E1) * ev + (P45 + E1) * es + E1 * (3 * V + Z.abs (S - 65536 * r)) + 4 * P45 * (65536 + 1) ->
+  tmpl 0 35184372088832 872415336 33554436 802955908075454332928 S' V' es' ev'.
+Proof. unfold tmpl, P45, E1. intros. lia. Qed.
+Lemma inv1ms_10s_x2_step_191 S V es ev r S' V' es' ev' :
+  65536000000 <= S <= 655360000000000 -> 0 <= V <= 655360000000000 ->
+
+  tmpl 35184372088832 0 503316540 0 400782441201163960320 S V es ev ->
+  tmpl 35184372088832 0 587202630 0 395284643709735665664 S V es ev ->
+  tmpl 0 35184372088832 838860900 67108872 804198311164471934976 S V es ev ->
+  tmpl 0 35184372088832 872415336 67108872 801997633068815745024 S V es ev ->
+  tmpl 0 35184372088832 905969772 33554436 800749595285052850176 S V es ev ->
+  tmpl 0 35184372088832 905969772 67108872 799798471680534642688 S V es ev ->
+  1000000 <= r <= 10000000000 -> 0 <= es -> 0 <= ev ->
+  8 * S' <= 7 * S + 65536 * r < 8 * S' + 8 ->
+  4 * V' <= 3 * V + Z.abs (S - 65536 * r) < 4 * V' + 4 ->
+  0 <= es' -> 8 * P45 * es' <= 7 * (P45 + E1) * es + E1 * (7 * S + 65536 * r) + 8 * P45 * (65536 + 1) ->
+  0 <= ev' -> 4 * P45 * ev' <= 3 * (P45 + E1) * ev + (P45 + E1) * es + E1 * (3 * V + Z.abs (S - 65536 * r)) + 4 * P45 * (65536 + 1) ->
+  tmpl 0 35184372088832 872415336 67108872 801997633068815745024 S' V' es' ev'.
+Proof. unfold tmpl, P45, E1. intros. lia. Qed.
+Lemma inv1ms_10s_x2_step_192 S V es ev r S' V' es' ev' :
+  65536000000 <= S <= 655360000000000 -> 0 <= V <= 655360000000000 ->
+
+  tmpl 0 0 16777218 (-8388609) (-820022133117572608) S V es ev ->
+  tmpl 35184372088832 0 452984886 0 404122051557223038976 S V es ev ->
+  tmpl 35184372088832 0 587202630 0 395284643709735665664 S V es ev ->
+  tmpl 0 35184372088832 872415336 0 804184620559863119872 S V es ev ->
+  tmpl 0 35184372088832 905969772 0 801773957413605998592 S V es ev ->
+  1000000 <= r <= 10000000000 -> 0 <= es -> 0 <= ev ->
+  8 * S' <= 7 * S + 65536 * r < 8 * S' + 8 ->
+  4 * V' <= 3 * V + Z.abs (S - 65536 * r) < 4 * V' + 4 ->
+  0 <= es' -> 8 * P45 * es' <= 7 * (P45 + E1) * es + E1 * (7 * S + 65536 * r) + 8 * P45 * (65536 + 1) ->
+  0 <= ev' -> 4 * P45 * ev' <= 3 * (P45 + E1) * ev + (P45 + E1) * es + E1 * (3 * V + Z.abs (S - 65536 * r)) + 4 * P45 * (65536 + 1) ->
+  tmpl 0 35184372088832 905969772 0 801773957413605998592 S' V' es' ev'.
+Proof. unfold tmpl, P45, E1. intros. lia. Qed.
+Lemma inv1ms_10s_x2_step_193 S V es ev r S' V' es' ev' :
+  65536000000 <= S <= 655360000000000 -> 0 <= V <= 655360000000000 ->
+
+  tmpl 35184372088832 0 486539322 0 401883333290772660224 S V es ev ->
+  tmpl 35184372088832 0 587202630 0 395284643709735665664 S V es ev ->
+  tmpl 0 35184372088832 872415336 33554436 802955908075454332928 S V es ev ->
+  tmpl 0 35184372088832 905969772 0 801773957413605998592 S V es ev ->
+  tmpl 0 35184372088832 905969772 33554436 800749595285052850176 S V es ev ->
+  1000000 <= r <= 10000000000 -> 0 <= es -> 0 <= ev ->
+  8 * S' <= 7 * S + 65536 * r < 8 * S' + 8 ->
+  4 * V' <= 3 * V + Z.abs (S - 65536 * r) < 4 * V' + 4 ->
+  0 <= es' -> 8 * P45 * es' <= 7 * (P45 + E1) * es + E1 * (7 * S + 65536 * r) + 8 * P45 * (65536 + 1) ->
+  0 <= ev' -> 4 * P45 * ev' <= 3 * (P45 + E1) * ev + (P45 + E1) * es + E1 * (3 * V + Z.abs (S - 65536 * r)) + 4 * P45 * (65536 + 1) ->
+  tmpl 0 35184372088832 905969772 33554436 800749595285052850176 S' V' es' ev'.
+Proof. unfold tmpl, P45, E1. intros. lia. Qed.
+Lemma inv1ms_10s_x2_step_194 S V es ev r S' V' es' ev' :
+  65536000000 <= S <= 655360000000000 -> 0 <= V <= 655360000000000 ->
+
+  tmpl 35184372088832 0 520093758 0 399682718237291184128 S V es ev ->
+  tmpl 35184372088832 0 587202630 0 395284643709735665664 S V es ev ->
+  tmpl 0 35184372088832 872415336 67108872 801997633068815745024 S V es ev ->
+  tmpl 0 35184372088832 905969772 33554436 800749595285052850176 S V es ev ->
+  tmpl 0 35184372088832 905969772 67108872 799798471680534642688 S V es ev ->
+  1000000 <= r <= 10000000000 -> 0 <= es -> 0 <= ev ->
+  8 * S' <= 7 * S + 65536 * r < 8 * S' + 8 ->
+  4 * V' <= 3 * V + Z.abs (S - 65536 * r) < 4 * V' + 4 ->
+  0 <= es' -> 8 * P45 * es' <= 7 * (P45 + E1) * es + E1 * (7 * S + 65536 * r) + 8 * P45 * (65536 + 1) ->
+  0 <= ev' -> 4 * P45 * ev' <= 3 * (P45 + E1) * ev + (P45 + E1) * es + E1 * (3 * V + Z.abs (S - 65536 * r)) + 4 * P45 * (65536 + 1) ->
+  tmpl 0 35184372088832 905969772 67108872 799798471680534642688 S' V' es' ev'.
+Proof. unfold tmpl, P45, E1. intros. lia. Qed.
+Lemma inv1ms_10s_x2_step_195 S V es ev r S' V' es' ev' :
+  65536000000 <= S <= 655360000000000 -> 0 <= V <= 655360000000000 ->
+
+  tmpl 35184372088832 0 0 0 43999234116437669838848 S V es ev ->
+  tmpl 35184372088832 0 16777218 0 34225674092040490582016 S V es ev ->
+  tmpl 35184372088832 140737521909764 0 0 305244166066025917317120 S V es ev ->
+  1000000 <= r <= 10000000000 -> 0 <= es -> 0 <= ev ->
+  8 * S' <= 7 * S + 65536 * r < 8 * S' + 8 ->
+  4 * V' <= 3 * V + Z.abs (S - 65536 * r) < 4 * V' + 4 ->
+  0 <= es' -> 8 * P45 * es' <= 7 * (P45 + E1) * es + E1 * (7 * S + 65536 * r) + 8 * P45 * (65536 + 1) ->
+  0 <= ev' -> 4 * P45 * ev' <= 3 * (P45 + E1) * ev + (P45 + E1) * es + E1 * (3 * V + Z.abs (S - 65536 * r)) + 4 * P45 * (65536 + 1) ->
+  tmpl 35184372088832 140737521909764 0 0 305244166066025917317120 S' V' es' ev'.
+Proof. unfold tmpl, P45, E1. intros. lia. Qed.
+Lemma inv1ms_10s_x2_step_196 S V es ev r S' V' es' ev' :
+  65536000000 <= S <= 655360000000000 -> 0 <= V <= 655360000000000 ->
+
+  tmpl 35184372088832 0 0 0 43999234116437669838848 S V es ev ->
+  tmpl 35184372088832 140737521909764 0 0 305244166066025917317120 S V es ev ->
+  1000000 <= r <= 10000000000 -> 0 <= es -> 0 <= ev ->
+  8 * S' <= 7 * S + 65536 * r < 8 * S' + 8 ->
+  4 * V' <= 3 * V + Z.abs (S - 65536 * r) < 4 * V' + 4 ->
+  0 <= es' -> 8 * P45 * es' <= 7 * (P45 + E1) * es + E1 * (7 * S + 65536 * r) + 8 * P45 * (65536 + 1) ->
+  0 <= ev' -> 4 * P45 * ev' <= 3 * (P45 + E1) * ev + (P45 + E1) * es + E1 * (3 * V + Z.abs (S - 65536 * r)) + 4 * P45 * (65536 + 1) ->
+  tmpl 35184372088832 140737521909764 0 33554436 283941605464151301292032 S' V' es' ev'.
+Proof. unfold tmpl, P45, E1. intros. lia. Qed.
+Lemma inv1ms_10s_x2_step_197 S V es ev r S' V' es' ev' :
+  65536000000 <= S <= 655360000000000 -> 0 <= V <= 655360000000000 ->
+
+  tmpl 35184372088832 0 0 0 43999234116437669838848 S V es ev ->
+  tmpl 35184372088832 140737521909764 0 0 305244166066025917317120 S V es ev ->
+  tmpl 35184372088832 140737521909764 0 33554436 283941605464151301292032 S V es ev ->
+  1000000 <= r <= 10000000000 -> 0 <= es -> 0 <= ev ->
+  8 * S' <= 7 * S + 65536 * r < 8 * S' + 8 ->
+  4 * V' <= 3 * V + Z.abs (S - 65536 * r) < 4 * V' + 4 ->
+  0 <= es' -> 8 * P45 * es' <= 7 * (P45 + E1) * es + E1 * (7 * S + 65536 * r) + 8 * P45 * (65536 + 1) ->
+  0 <= ev' -> 4 * P45 * ev' <= 3 * (P45 + E1) * ev + (P45 + E1) * es + E1 * (3 * V + Z.abs (S - 65536 * r)) + 4 * P45 * (65536 + 1) ->
+  tmpl 35184372088832 140737521909764 0 67108872 267964684889779553173504 S' V' es' ev'.
+Proof. unfold tmpl, P45, E1. intros. lia. Qed.
+Lemma inv1ms_10s_x2_step_198 S V es ev r S' V' es' ev' :
+  65536000000 <= S <= 655360000000000 -> 0 <= V <= 655360000000000 ->
+
+  tmpl 0 0 8388609 (-16777218) 6596535554603892080640 S V es ev ->
+  tmpl 35184372088832 0 33554436 0 26623771154023886880768 S V es ev ->
+  tmpl 0 35184372088832 0 0 65483003519166450761728 S V es ev ->
+  tmpl 0 35184372088832 33554436 0 51856350919460565024768 S V es ev ->
+  1000000 <= r <= 10000000000 -> 0 <= es -> 0 <= ev ->
+  8 * S' <= 7 * S + 65536 * r < 8 * S' + 8 ->
+  4 * V' <= 3 * V + Z.abs (S - 65536 * r) < 4 * V' + 4 ->
+  0 <= es' -> 8 * P45 * es' <= 7 * (P45 + E1) * es + E1 * (7 * S + 65536 * r) + 8 * P45 * (65536 + 1) ->
+  0 <= ev' -> 4 * P45 * ev' <= 3 * (P45 + E1) * ev + (P45 + E1) * es + E1 * (3 * V + Z.abs (S - 65536 * r)) + 4 * P45 * (65536 + 1) ->
+  tmpl 109951162777600000 439804755968012500 549755813888 0 721275684630122463232000000 S' V' es' ev'.
+Proof. unfold tmpl, P45, E1. intros. lia. Qed.
+Lemma inv1ms_10s_x2_step_199 S V es ev r S' V' es' ev' :
+  65536000000 <= S <= 655360000000000 -> 0 <= V <= 655360000000000 ->
+
+  tmpl 0 0 8388609 (-16777218) 6596535554603892080640 S V es ev ->
+  tmpl 35184372088832 0 33554436 0 26623771154023886880768 S V es ev ->
+  tmpl 0 35184372088832 0 0 65483003519166450761728 S V es ev ->
+  tmpl 0 35184372088832 33554436 0 51856350919460565024768 S V es ev ->
+  tmpl 109951162777600000 439804755968012500 549755813888 0 721275684630122463232000000 S V es ev ->
+  1000000 <= r <= 10000000000 -> 0 <= es -> 0 <= ev ->
+  8 * S' <= 7 * S + 65536 * r < 8 * S' + 8 ->
+  4 * V' <= 3 * V + Z.abs (S - 65536 * r) < 4 * V' + 4 ->
+  0 <= es' -> 8 * P45 * es' <= 7 * (P45 + E1) * es + E1 * (7 * S + 65536 * r) + 8 * P45 * (65536 + 1) ->
+  0 <= ev' -> 4 * P45 * ev' <= 3 * (P45 + E1) * ev + (P45 + E1) * es + E1 * (3 * V + Z.abs (S - 65536 * r)) + 4 * P45 * (65536 + 1) ->
+  tmpl 109951162777600000 439804755968012500 549755813888 104857612500 663741586352604341862400000 S' V' es' ev'.
+Proof. unfold tmpl, P45, E1. intros. lia. Qed.
+Lemma inv1ms_10s_x2_step_200 S V es ev r S' V' es' ev' :
+  65536000000 <= S <= 655360000000000 -> 0 <= V <= 655360000000000 ->
+
+  tmpl 35184372088832 0 33554436 0 26623771154023886880768 S V es ev ->
+  tmpl 0 35184372088832 0 0 65483003519166450761728 S V es ev ->
+  tmpl 35184372088832 140737521909764 0 33554436 283941605464151301292032 S V es ev ->
+  tmpl 109951162777600000 439804755968012500 549755813888 104857612500 663741586352604341862400000 S V es ev ->
+  1000000 <= r <= 10000000000 -> 0 <= es -> 0 <= ev ->
+  8 * S' <= 7 * S + 65536 * r < 8 * S' + 8 ->
+  4 * V' <= 3 * V + Z.abs (S - 65536 * r) < 4 * V' + 4 ->
+  0 <= es' -> 8 * P45 * es' <= 7 * (P45 + E1) * es + E1 * (7 * S + 65536 * r) + 8 * P45 * (65536 + 1) ->
+  0 <= ev' -> 4 * P45 * ev' <= 3 * (P45 + E1) * ev + (P45 + E1) * es + E1 * (3 * V + Z.abs (S - 65536 * r)) + 4 * P45 * (65536 + 1) ->
+  tmpl 109951162777600000 439804755968012500 549755813888 209715225000 610134219416973449625600000 S' V' es' ev'.
+Proof. unfold tmpl, P45, E1. intros. lia. Qed.
+Lemma inv1ms_10s_x2_step_201 S V es ev r S' V' es' ev' :
+  65536000000 <= S <= 655360000000000 -> 0 <= V <= 655360000000000 ->
+
+  tmpl 35184372088832 0 33554436 0 26623771154023886880768 S V es ev ->
+  tmpl 35184372088832 140737521909764 0 67108872 267964684889779553173504 S V es ev ->
+  tmpl 109951162777600000 439804755968012500 549755813888 209715225000 610134219416973449625600000 S V es ev ->
+  tmpl 109951162777600000 439804755968012500 549755813888 419430450000 520356152558334718771200000 S V es ev ->
+  1000000 <= r <= 10000000000 -> 0 <= es -> 0 <= ev ->
+  8 * S' <= 7 * S + 65536 * r < 8 * S' + 8 ->
+  4 * V' <= 3 * V + Z.abs (S - 65536 * r) < 4 * V' + 4 ->
+  0 <= es' -> 8 * P45 * es' <= 7 * (P45 + E1) * es + E1 * (7 * S + 65536 * r) + 8 * P45 * (65536 + 1) ->
+  0 <= ev' -> 4 * P45 * ev' <= 3 * (P45 + E1) * ev + (P45 + E1) * es + E1 * (3 * V + Z.abs (S - 65536 * r)) + 4 * P45 * (65536 + 1) ->
+  tmpl 109951162777600000 439804755968012500 549755813888 419430450000 520356152558334718771200000 S' V' es' ev'.
+Proof. unfold tmpl, P45, E1. intros. lia. Qed.
+Lemma inv1ms_10s_x2_step_202 S V es ev r S' V' es' ev' :
+  65536000000 <= S <= 655360000000000 -> 0 <= V <= 655360000000000 ->
+
+  tmpl 0 0 8388609 (-8388609) 1648730796089356582912 S V es ev ->
+  tmpl 35184372088832 0 50331654 0 20710934392785520820224 S V es ev ->
+  tmpl 0 35184372088832 67108872 0 41117121641585139777536 S V es ev ->
+  tmpl 109951162777600000 439804755968012500 549755813888 209715225000 610134219416973449625600000 S V es ev ->
+  tmpl 109951162777600000 439804755968012500 1099511627776 0 549874615207871800934400000 S V es ev ->
+  1000000 <= r <= 10000000000 -> 0 <= es -> 0 <= ev ->
+  8 * S' <= 7 * S + 65536 * r < 8 * S' + 8 ->
+  4 * V' <= 3 * V + Z.abs (S - 65536 * r) < 4 * V' + 4 ->
+  0 <= es' -> 8 * P45 * es' <= 7 * (P45 + E1) * es + E1 * (7 * S + 65536 * r) + 8 * P45 * (65536 + 1) ->
+  0 <= ev' -> 4 * P45 * ev' <= 3 * (P45 + E1) * ev + (P45 + E1) * es + E1 * (3 * V + Z.abs (S - 65536 * r)) + 4 * P45 * (65536 + 1) ->
+  tmpl 109951162777600000 439804755968012500 1099511627776 0 549874615207871800934400000 S' V' es' ev'.
+Proof. unfold tmpl, P45, E1. intros. lia. Qed.
+Lemma inv1ms_10s_x2_step_203 S V es ev r S' V' es' ev' :
+  65536000000 <= S <= 655360000000000 -> 0 <= V <= 655360000000000 ->
+
+  tmpl 0 0 8388609 (-8388609) 1648730796089356582912 S V es ev ->
+  tmpl 35184372088832 0 50331654 0 20710934392785520820224 S V es ev ->
+  tmpl 35184372088832 0 67108872 0 16111815576034815770624 S V es ev ->
+  tmpl 0 35184372088832 67108872 0 41117121641585139777536 S V es ev ->
+  tmpl 109951162777600000 439804755968012500 1099511627776 0 549874615207871800934400000 S V es ev ->
+  tmpl 109951162777600000 439804755968012500 1099511627776 104857612500 502651689723456126976000000 S V es ev ->
+  1000000 <= r <= 10000000000 -> 0 <= es -> 0 <= ev ->
+  8 * S' <= 7 * S + 65536 * r < 8 * S' + 8 ->
+  4 * V' <= 3 * V + Z.abs (S - 65536 * r) < 4 * V' + 4 ->
+  0 <= es' -> 8 * P45 * es' <= 7 * (P45 + E1) * es + E1 * (7 * S + 65536 * r) + 8 * P45 * (65536 + 1) ->
+  0 <= ev' -> 4 * P45 * ev' <= 3 * (P45 + E1) * ev + (P45 + E1) * es + E1 * (3 * V + Z.abs (S - 65536 * r)) + 4 * P45 * (65536 + 1) ->
+  tmpl 109951162777600000 439804755968012500 1099511627776 104857612500 502651689723456126976000000 S' V' es' ev'.
+Proof. unfold tmpl, P45, E1. intros. lia. Qed.
+Lemma inv1ms_10s_x2_step_204 S V es ev r S' V' es' ev' :
+  65536000000 <= S <= 655360000000000 -> 0 <= V <= 655360000000000 ->
+
+  tmpl 35184372088832 0 50331654 0 20710934392785520820224 S V es ev ->
+  tmpl 35184372088832 0 67108872 0 16111815576034815770624 S V es ev ->
+  tmpl 0 35184372088832 67108872 0 41117121641585139777536 S V es ev ->
+  tmpl 0 35184372088832 100663308 0 32880950580924523741184 S V es ev ->
+  tmpl 109951162777600000 439804755968012500 549755813888 209715225000 610134219416973449625600000 S V es ev ->
+  tmpl 109951162777600000 439804755968012500 1099511627776 104857612500 502651689723456126976000000 S V es ev ->
+  tmpl 109951162777600000 439804755968012500 1099511627776 209715225000 460010847367308456755200000 S V es ev ->
+  1000000 <= r <= 10000000000 -> 0 <= es -> 0 <= ev ->
+  8 * S' <= 7 * S + 65536 * r < 8 * S' + 8 ->
+  4 * V' <= 3 * V + Z.abs (S - 65536 * r) < 4 * V' + 4 ->
+  0 <= es' -> 8 * P45 * es' <= 7 * (P45 + E1) * es + E1 * (7 * S + 65536 * r) + 8 * P45 * (65536 + 1) ->
+  0 <= ev' -> 4 * P45 * ev' <= 3 * (P45 + E1) * ev + (P45 + E1) * es + E1 * (3 * V + Z.abs (S - 65536 * r)) + 4 * P45 * (65536 + 1) ->
+  tmpl 109951162777600000 439804755968012500 1099511627776 209715225000 460010847367308456755200000 S' V' es' ev'.
+Proof. unfold tmpl, P45, E1. intros. lia. Qed.
+Lemma inv1ms_10s_x2_step_205 S V es ev r S' V' es' ev' :
+  65536000000 <= S <= 655360000000000 -> 0 <= V <= 655360000000000 ->
+
+  tmpl 35184372088832 0 67108872 0 16111815576034815770624 S V es ev ->
+  tmpl 35184372088832 0 83886090 0 12534477450322265505792 S V es ev ->
+  tmpl 0 35184372088832 67108872 33554436 27569976611144382545920 S V es ev ->
+  tmpl 109951162777600000 439804755968012500 549755813888 419430450000 520356152558334718771200000 S V es ev ->
+  tmpl 109951162777600000 439804755968012500 1099511627776 209715225000 460010847367308456755200000 S V es ev ->
+  tmpl 109951162777600000 439804755968012500 1099511627776 419430450000 383248869666463888179200000 S V es ev ->
+  1000000 <= r <= 10000000000 -> 0 <= es -> 0 <= ev ->
+  8 * S' <= 7 * S + 65536 * r < 8 * S' + 8 ->
+  4 * V' <= 3 * V + Z.abs (S - 65536 * r) < 4 * V' + 4 ->
+  0 <= es' -> 8 * P45 * es' <= 7 * (P45 + E1) * es + E1 * (7 * S + 65536 * r) + 8 * P45 * (65536 + 1) ->
+  0 <= ev' -> 4 * P45 * ev' <= 3 * (P45 + E1) * ev + (P45 + E1) * es + E1 * (3 * V + Z.abs (S - 65536 * r)) + 4 * P45 * (65536 + 1) ->
+  tmpl 109951162777600000 439804755968012500 1099511627776 419430450000 383248869666463888179200000 S' V' es' ev'.
+Proof. unfold tmpl, P45, E1. intros. lia. Qed.
+Lemma inv1ms_10s_x2_step_206 S V es ev r S' V' es' ev' :
+  65536000000 <= S <= 655360000000000 -> 0 <= V <= 655360000000000 ->
+
+  tmpl 0 0 8388609 (-8388609) 1648730796089356582912 S V es ev ->
+  tmpl 0 0 16777218 (-8388609) (-820022133117572608) S V es ev ->
+  tmpl 35184372088832 0 67108872 0 16111815576034815770624 S V es ev ->
+  tmpl 35184372088832 0 83886090 0 12534477450322265505792 S V es ev ->
+  tmpl 0 35184372088832 100663308 0 32880950580924523741184 S V es ev ->
+  tmpl 109951162777600000 439804755968012500 1099511627776 104857612500 502651689723456126976000000 S V es ev ->
+  tmpl 109951162777600000 439804755968012500 1649267441664 0 423219155169629962240000000 S V es ev ->
+  1000000 <= r <= 10000000000 -> 0 <= es -> 0 <= ev ->
+  8 * S' <= 7 * S + 65536 * r < 8 * S' + 8 ->
+  4 * V' <= 3 * V + Z.abs (S - 65536 * r) < 4 * V' + 4 ->
+  0 <= es' -> 8 * P45 * es' <= 7 * (P45 + E1) * es + E1 * (7 * S + 65536 * r) + 8 * P45 * (65536 + 1) ->
+  0 <= ev' -> 4 * P45 * ev' <= 3 * (P45 + E1) * ev + (P45 + E1) * es + E1 * (3 * V + Z.abs (S - 65536 * r)) + 4 * P45 * (65536 + 1) ->
+  tmpl 109951162777600000 439804755968012500 1649267441664 0 423219155169629962240000000 S' V' es' ev'.
+Proof. unfold tmpl, P45, E1. intros. lia. Qed.
+Lemma inv1ms_10s_x2_step_207 S V es ev r S' V' es' ev' :
+  65536000000 <= S <= 655360000000000 -> 0 <= V <= 655360000000000 ->
+
+  tmpl 0 0 8388609 (-8388609) 1648730796089356582912 S V es ev ->
+  tmpl 0 0 16777218 (-8388609) (-820022133117572608) S V es ev ->
+  tmpl 35184372088832 0 67108872 0 16111815576034815770624 S V es ev ->
+  tmpl 35184372088832 0 83886090 0 12534477450322265505792 S V es ev ->
+  tmpl 0 35184372088832 100663308 0 32880950580924523741184 S V es ev ->
+  tmpl 0 35184372088832 134217744 0 26459941626017174519808 S V es ev ->
+  tmpl 109951162777600000 439804755968012500 1649267441664 0 423219155169629962240000000 S V es ev ->
+  1000000 <= r <= 10000000000 -> 0 <= es -> 0 <= ev ->
+  8 * S' <= 7 * S + 65536 * r < 8 * S' + 8 ->
+  4 * V' <= 3 * V + Z.abs (S - 65536 * r) < 4 * V' + 4 ->
+  0 <= es' -> 8 * P45 * es' <= 7 * (P45 + E1) * es + E1 * (7 * S + 65536 * r) + 8 * P45 * (65536 + 1) ->
+  0 <= ev' -> 4 * P45 * ev' <= 3 * (P45 + E1) * ev + (P45 + E1) * es + E1 * (3 * V + Z.abs (S - 65536 * r)) + 4 * P45 * (65536 + 1) ->
+  tmpl 109951162777600000 439804755968012500 1649267441664 104857612500 384939419637849102745600000 S' V' es' ev'.
+Proof. unfold tmpl, P45, E1. intros. lia. Qed.
+Lemma inv1ms_10s_x2_step_208 S V es ev r S' V' es' ev' :
+  65536000000 <= S <= 655360000000000 -> 0 <= V <= 655360000000000 ->
+
+  tmpl 35184372088832 0 83886090 0 12534477450322265505792 S V es ev ->
+  tmpl 0 35184372088832 134217744 0 26459941626017174519808 S V es ev ->
+  tmpl 109951162777600000 439804755968012500 1099511627776 419430450000 383248869666463888179200000 S V es ev ->
+  tmpl 109951162777600000 439804755968012500 1649267441664 0 423219155169629962240000000 S V es ev ->
+  tmpl 109951162777600000 439804755968012500 1649267441664 104857612500 384939419637849102745600000 S V es ev ->
+  tmpl 109951162777600000 439804755968012500 1649267441664 209715225000 350388785952571575500800000 S V es ev ->
+  1000000 <= r <= 10000000000 -> 0 <= es -> 0 <= ev ->
+  8 * S' <= 7 * S + 65536 * r < 8 * S' + 8 ->
+  4 * V' <= 3 * V + Z.abs (S - 65536 * r) < 4 * V' + 4 ->
+  0 <= es' -> 8 * P45 * es' <= 7 * (P45 + E1) * es + E1 * (7 * S + 65536 * r) + 8 * P45 * (65536 + 1) ->
+  0 <= ev' -> 4 * P45 * ev' <= 3 * (P45 + E1) * ev + (P45 + E1) * es + E1 * (3 * V + Z.abs (S - 65536 * r)) + 4 * P45 * (65536 + 1) ->
+  tmpl 109951162777600000 439804755968012500 1649267441664 209715225000 350388785952571575500800000 S' V' es' ev'.
+Proof. unfold tmpl, P45, E1. intros. lia. Qed.
+Lemma inv1ms_10s_x2_step_209 S V es ev r S' V' es' ev' :
+  65536000000 <= S <= 655360000000000 -> 0 <= V <= 655360000000000 ->
+
+  tmpl 35184372088832 0 83886090 0 12534477450322265505792 S V es ev ->
+  tmpl 35184372088832 0 100663308 0 9751858405112184569856 S V es ev ->
+  tmpl 0 35184372088832 100663308 33554436 21626668937271157194752 S V es ev ->
+  tmpl 109951162777600000 439804755968012500 1649267441664 209715225000 350388785952571575500800000 S V es ev ->
+  tmpl 109951162777600000 439804755968012500 1649267441664 419430450000 289023183573708963840000000 S V es ev ->
+  tmpl 109951162777600000 439804755968012500 2199023255552 104857612500 296536192690772246528000000 S V es ev ->
+  1000000 <= r <= 10000000000 -> 0 <= es -> 0 <= ev ->
+  8 * S' <= 7 * S + 65536 * r < 8 * S' + 8 ->
+  4 * V' <= 3 * V + Z.abs (S - 65536 * r) < 4 * V' + 4 ->
+  0 <= es' -> 8 * P45 * es' <= 7 * (P45 + E1) * es + E1 * (7 * S + 65536 * r) + 8 * P45 * (65536 + 1) ->
+  0 <= ev' -> 4 * P45 * ev' <= 3 * (P45 + E1) * ev + (P45 + E1) * es + E1 * (3 * V + Z.abs (S - 65536 * r)) + 4 * P45 * (65536 + 1) ->
+  tmpl 109951162777600000 439804755968012500 1649267441664 419430450000 289023183573708963840000000 S' V' es' ev'.
+Proof. unfold tmpl, P45, E1. intros. lia. Qed.
+Lemma inv1ms_10s_x2_step_210 S V es ev r S' V' es' ev' :
+  65536000000 <= S <= 655360000000000 -> 0 <= V <= 655360000000000 ->
+
+  tmpl 35184372088832 0 100663308 0 9751858405112184569856 S V es ev ->
+  tmpl 0 35184372088832 134217744 33554436 17071037512916144226304 S V es ev ->
+  tmpl 109951162777600000 439804755968012500 1649267441664 419430450000 289023183573708963840000000 S V es ev ->
+  tmpl 109951162777600000 439804755968012500 1649267441664 838860900000 198452313444015354675200000 S V es ev ->
+  1000000 <= r <= 10000000000 -> 0 <= es -> 0 <= ev ->
+  8 * S' <= 7 * S + 65536 * r < 8 * S' + 8 ->
+  4 * V' <= 3 * V + Z.abs (S - 65536 * r) < 4 * V' + 4 ->
+  0 <= es' -> 8 * P45 * es' <= 7 * (P45 + E1) * es + E1 * (7 * S + 65536 * r) + 8 * P45 * (65536 + 1) ->
+  0 <= ev' -> 4 * P45 * ev' <= 3 * (P45 + E1) * ev + (P45 + E1) * es + E1 * (3 * V + Z.abs (S - 65536 * r)) + 4 * P45 * (65536 + 1) ->
+  tmpl 109951162777600000 439804755968012500 1649267441664 838860900000 198452313444015354675200000 S' V' es' ev'.
+Proof. unfold tmpl, P45, E1. intros. lia. Qed.
+Lemma inv1ms_10s_x2_step_211 S V es ev r S' V' es' ev' :
+  65536000000 <= S <= 655360000000000 -> 0 <= V <= 655360000000000 ->
+
+  tmpl 0 0 16777218 (-8388609) (-820022133117572608) S V es ev ->
+  tmpl 35184372088832 0 83886090 0 12534477450322265505792 S V es ev ->
+  tmpl 35184372088832 0 100663308 0 9751858405112184569856 S V es ev ->
+  tmpl 0 35184372088832 134217744 0 26459941626017174519808 S V es ev ->
+  tmpl 109951162777600000 439804755968012500 1649267441664 0 423219155169629962240000000 S V es ev ->
+  tmpl 109951162777600000 439804755968012500 2199023255552 0 327405141875354448691200000 S V es ev ->
+  tmpl 109951162777600000 439804755968012500 2199023255552 104857612500 296536192690772246528000000 S V es ev ->
+  1000000 <= r <= 10000000000 -> 0 <= es -> 0 <= ev ->
+  8 * S' <= 7 * S + 65536 * r < 8 * S' + 8 ->
+  4 * V' <= 3 * V + Z.abs (S - 65536 * r) < 4 * V' + 4 ->
+  0 <= es' -> 8 * P45 * es' <= 7 * (P45 + E1) * es + E1 * (7 * S + 65536 * r) + 8 * P45 * (65536 + 1) ->
+  0 <= ev' -> 4 * P45 * ev' <= 3 * (P45 + E1) * ev + (P45 + E1) * es + E1 * (3 * V + Z.abs (S - 65536 * r)) + 4 * P45 * (65536 + 1) ->
+  tmpl 109951162777600000 439804755968012500 2199023255552 0 327405141875354448691200000 S' V' es' ev'.
+Proof. unfold tmpl, P45, E1. intros. lia. Qed.
+Lemma inv1ms_10s_x2_step_212 S V es ev r S' V' es' ev' :
+  65536000000 <= S <= 655360000000000 -> 0 <= V <= 655360000000000 ->
+
+  tmpl 0 0 16777218 (-8388609) (-820022133117572608) S V es ev ->
+  tmpl 35184372088832 0 100663308 0 9751858405112184569856 S V es ev ->
+  tmpl 0 35184372088832 134217744 0 26459941626017174519808 S V es ev ->
+  tmpl 109951162777600000 439804755968012500 2199023255552 0 327405141875354448691200000 S V es ev ->
+  tmpl 109951162777600000 439804755968012500 2199023255552 104857612500 296536192690772246528000000 S V es ev ->
+  tmpl 109951162777600000 439804755968012500 2199023255552 209715225000 268379475142951829504000000 S V es ev ->
+  1000000 <= r <= 10000000000 -> 0 <= es -> 0 <= ev ->
+  8 * S' <= 7 * S + 65536 * r < 8 * S' + 8 ->
+  4 * V' <= 3 * V + Z.abs (S - 65536 * r) < 4 * V' + 4 ->
+  0 <= es' -> 8 * P45 * es' <= 7 * (P45 + E1) * es + E1 * (7 * S + 65536 * r) + 8 * P45 * (65536 + 1) ->
+  0 <= ev' -> 4 * P45 * ev' <= 3 * (P45 + E1) * ev + (P45 + E1) * es + E1 * (3 * V + Z.abs (S - 65536 * r)) + 4 * P45 * (65536 + 1) ->
+  tmpl 109951162777600000 439804755968012500 2199023255552 104857612500 296536192690772246528000000 S' V' es' ev'.
+Proof. unfold tmpl, P45, E1. intros. lia. Qed.
+Lemma inv1ms_10s_x2_step_213 S V es ev r S' V' es' ev' :
+  65536000000 <= S <= 655360000000000 -> 0 <= V <= 655360000000000 ->
+
+  tmpl 0 0 16777218 (-8388609) (-820022133117572608) S V es ev ->
+  tmpl 35184372088832 0 100663308 0 9751858405112184569856 S V es ev ->
+  tmpl 35184372088832 0 117440526 0 7587357747373541425152 S V es ev ->
+  tmpl 109951162777600000 439804755968012500 1649267441664 209715225000 350388785952571575500800000 S V es ev ->
+  tmpl 109951162777600000 439804755968012500 2199023255552 0 327405141875354448691200000 S V es ev ->
+  tmpl 109951162777600000 439804755968012500 2199023255552 104857612500 296536192690772246528000000 S V es ev ->
+  tmpl 109951162777600000 439804755968012500 2199023255552 209715225000 268379475142951829504000000 S V es ev ->
+  1000000 <= r <= 10000000000 -> 0 <= es -> 0 <= ev ->
+  8 * S' <= 7 * S + 65536 * r < 8 * S' + 8 ->
+  4 * V' <= 3 * V + Z.abs (S - 65536 * r) < 4 * V' + 4 ->
+  0 <= es' -> 8 * P45 * es' <= 7 * (P45 + E1) * es + E1 * (7 * S + 65536 * r) + 8 * P45 * (65536 + 1) ->
+  0 <= ev' -> 4 * P45 * ev' <= 3 * (P45 + E1) * ev + (P45 + E1) * es + E1 * (3 * V + Z.abs (S - 65536 * r)) + 4 * P45 * (65536 + 1) ->
+  tmpl 109951162777600000 439804755968012500 2199023255552 209715225000 268379475142951829504000000 S' V' es' ev'.
+Proof. unfold tmpl, P45, E1. intros. lia. Qed.
+Lemma inv1ms_10s_x2_step_214 S V es ev r S' V' es' ev' :
+  65536000000 <= S <= 655360000000000 -> 0 <= V <= 655360000000000 ->
+
+  tmpl 35184372088832 0 100663308 0 9751858405112184569856 S V es ev ->
+  tmpl 35184372088832 0 117440526 0 7587357747373541425152 S V es ev ->
+  tmpl 0 35184372088832 134217744 33554436 17071037512916144226304 S V es ev ->
+  tmpl 0 35184372088832 201326616 0 16968742878223288762368 S V es ev ->
+  tmpl 109951162777600000 439804755968012500 2199023255552 209715225000 268379475142951829504000000 S V es ev ->
+  tmpl 109951162777600000 439804755968012500 2199023255552 419430450000 219405188725302126182400000 S V es ev ->
+  1000000 <= r <= 10000000000 -> 0 <= es -> 0 <= ev ->
+  8 * S' <= 7 * S + 65536 * r < 8 * S' + 8 ->
+  4 * V' <= 3 * V + Z.abs (S - 65536 * r) < 4 * V' + 4 ->
+  0 <= es' -> 8 * P45 * es' <= 7 * (P45 + E1) * es + E1 * (7 * S + 65536 * r) + 8 * P45 * (65536 + 1) ->
+  0 <= ev' -> 4 * P45 * ev' <= 3 * (P45 + E1) * ev + (P45 + E1) * es + E1 * (3 * V + Z.abs (S - 65536 * r)) + 4 * P45 * (65536 + 1) ->
+  tmpl 109951162777600000 439804755968012500 2199023255552 419430450000 219405188725302126182400000 S' V' es' ev'.
+Proof. unfold tmpl, P45, E1. intros. lia. Qed.
+Lemma inv1ms_10s_x2_step_215 S V es ev r S' V' es' ev' :
+  65536000000 <= S <= 655360000000000 -> 0 <= V <= 655360000000000 ->
+
+  tmpl 35184372088832 0 134217744 0 5903629511765034795008 S V es ev ->
+  tmpl 0 35184372088832 134217744 67108872 10993953939810357870592 S V es ev ->
+  tmpl 0 35184372088832 167772180 33554436 13515504633843921453056 S V es ev ->
+  tmpl 109951162777600000 439804755968012500 1649267441664 838860900000 198452313444015354675200000 S V es ev ->
+  tmpl 109951162777600000 439804755968012500 2199023255552 838860900000 147277324490028928204800000 S V es ev ->
+  1000000 <= r <= 10000000000 -> 0 <= es -> 0 <= ev ->
+  8 * S' <= 7 * S + 65536 * r < 8 * S' + 8 ->
+  4 * V' <= 3 * V + Z.abs (S - 65536 * r) < 4 * V' + 4 ->
+  0 <= es' -> 8 * P45 * es' <= 7 * (P45 + E1) * es + E1 * (7 * S + 65536 * r) + 8 * P45 * (65536 + 1) ->
+  0 <= ev' -> 4 * P45 * ev' <= 3 * (P45 + E1) * ev + (P45 + E1) * es + E1 * (3 * V + Z.abs (S - 65536 * r)) + 4 * P45 * (65536 + 1) ->
+  tmpl 109951162777600000 439804755968012500 2199023255552 838860900000 147277324490028928204800000 S' V' es' ev'.
+Proof. unfold tmpl, P45, E1. intros. lia. Qed.
+Lemma inv1ms_10s_x2_step_216 S V es ev r S' V' es' ev' :
+  65536000000 <= S <= 655360000000000 -> 0 <= V <= 655360000000000 ->
+
+  tmpl 35184372088832 0 117440526 33554436 3057196847105324875776 S V es ev ->
+  tmpl 0 35184372088832 167772180 67108872 8572064083350197895168 S V es ev ->
+  tmpl 0 35184372088832 201326616 67108872 6741615387513599295488 S V es ev ->
+  tmpl 109951162777600000 439804755968012500 2199023255552 1677721800000 77077647401638572851200000 S V es ev ->
+  1000000 <= r <= 10000000000 -> 0 <= es -> 0 <= ev ->
+  8 * S' <= 7 * S + 65536 * r < 8 * S' + 8 ->
+  4 * V' <= 3 * V + Z.abs (S - 65536 * r) < 4 * V' + 4 ->
+  0 <= es' -> 8 * P45 * es' <= 7 * (P45 + E1) * es + E1 * (7 * S + 65536 * r) + 8 * P45 * (65536 + 1) ->
+  0 <= ev' -> 4 * P45 * ev' <= 3 * (P45 + E1) * ev + (P45 + E1) * es + E1 * (3 * V + Z.abs (S - 65536 * r)) + 4 * P45 * (65536 + 1) ->
+  tmpl 109951162777600000 439804755968012500 2199023255552 1677721800000 77077647401638572851200000 S' V' es' ev'.
+Proof. unfold tmpl, P45, E1. intros. lia. Qed.
+Lemma inv1ms_10s_x2_step_217 S V es ev r S' V' es' ev' :
+  65536000000 <= S <= 655360000000000 -> 0 <= V <= 655360000000000 ->
+
+  tmpl 35184372088832 0 117440526 67108872 1392397500307826278400 S V es ev ->
+  tmpl 0 35184372088832 167772180 134217744 4215169424604657090560 S V es ev ->
+  tmpl 0 35184372088832 201326616 134217744 3058891721611971919872 S V es ev ->
+  tmpl 109951162777600000 439804755968012500 2199023255552 3355443600000 33480816810973095526400000 S V es ev ->
+  1000000 <= r <= 10000000000 -> 0 <= es -> 0 <= ev ->
+  8 * S' <= 7 * S + 65536 * r < 8 * S' + 8 ->
+  4 * V' <= 3 * V + Z.abs (S - 65536 * r) < 4 * V' + 4 ->
+  0 <= es' -> 8 * P45 * es' <= 7 * (P45 + E1) * es + E1 * (7 * S + 65536 * r) + 8 * P45 * (65536 + 1) ->
+  0 <= ev' -> 4 * P45 * ev' <= 3 * (P45 + E1) * ev + (P45 + E1) * es + E1 * (3 * V + Z.abs (S - 65536 * r)) + 4 * P45 * (65536 + 1) ->
+  tmpl 109951162777600000 439804755968012500 2199023255552 3355443600000 33480816810973095526400000 S' V' es' ev'.
+Proof. unfold tmpl, P45, E1. intros. lia. Qed.
+Lemma inv1ms_10s_x2_step_218 S V es ev r S' V' es' ev' :
+  65536000000 <= S <= 655360000000000 -> 0 <= V <= 655360000000000 ->
+
+  tmpl 35184372088832 0 117440526 134217744 638004304566461267968 S V es ev ->
+  tmpl 0 35184372088832 167772180 268435488 1693521709208180883456 S V es ev ->
+  tmpl 0 35184372088832 201326616 268435488 1226431088791035052032 S V es ev ->
+  tmpl 109951162777600000 439804755968012500 2199023255552 6710887200000 15280163592723192217600000 S V es ev ->
+  1000000 <= r <= 10000000000 -> 0 <= es -> 0 <= ev ->
+  8 * S' <= 7 * S + 65536 * r < 8 * S' + 8 ->
+  4 * V' <= 3 * V + Z.abs (S - 65536 * r) < 4 * V' + 4 ->
+  0 <= es' -> 8 * P45 * es' <= 7 * (P45 + E1) * es + E1 * (7 * S + 65536 * r) + 8 * P45 * (65536 + 1) ->
+  0 <= ev' -> 4 * P45 * ev' <= 3 * (P45 + E1) * ev + (P45 + E1) * es + E1 * (3 * V + Z.abs (S - 65536 * r)) + 4 * P45 * (65536 + 1) ->
+  tmpl 109951162777600000 439804755968012500 2199023255552 6710887200000 15280163592723192217600000 S' V' es' ev'.
+Proof. unfold tmpl, P45, E1. intros. lia. Qed.
+Lemma inv1ms_10s_x2_step_219 S V es ev r S' V' es' ev' :
+  65536000000 <= S <= 655360000000000 -> 0 <= V <= 655360000000000 ->
+
+  tmpl 35184372088832 0 100663308 268435488 524880204234233085952 S V es ev ->
+  tmpl 35184372088832 0 134217744 134217744 503140616911589605376 S V es ev ->
+  tmpl 0 35184372088832 167772180 536870976 923897766221642858496 S V es ev ->
+  tmpl 109951162777600000 439804755968012500 2199023255552 6710887200000 15280163592723192217600000 S V es ev ->
+  1000000 <= r <= 10000000000 -> 0 <= es -> 0 <= ev ->
+  8 * S' <= 7 * S + 65536 * r < 8 * S' + 8 ->
+  4 * V' <= 3 * V + Z.abs (S - 65536 * r) < 4 * V' + 4 ->
+  0 <= es' -> 8 * P45 * es' <= 7 * (P45 + E1) * es + E1 * (7 * S + 65536 * r) + 8 * P45 * (65536 + 1) ->
+  0 <= ev' -> 4 * P45 * ev' <= 3 * (P45 + E1) * ev + (P45 + E1) * es + E1 * (3 * V + Z.abs (S - 65536 * r)) + 4 * P45 * (65536 + 1) ->
+  tmpl 109951162777600000 439804755968012500 2199023255552 8691235409708 13082718307439291596800000 S' V' es' ev'.
+Proof. unfold tmpl, P45, E1. intros. lia. Qed.
+Lemma Inv1ms_10s_x2_step S V es ev r S' V' es' ev' : Inv1ms_10s_x2 S V es ev ->
+  1000000 <= r <= 10000000000 -> 0 <= es -> 0 <= ev ->
+  8 * S' <= 7 * S + 65536 * r < 8 * S' + 8 ->
+  4 * V' <= 3 * V + Z.abs (S - 65536 * r) < 4 * V' + 4 ->
+  0 <= es' -> 8 * P45 * es' <= 7 * (P45 + E1) * es + E1 * (7 * S + 65536 * r) + 8 * P45 * (65536 + 1) ->
+  0 <= ev' -> 4 * P45 * ev' <= 3 * (P45 + E1) * ev + (P45 + E1) * es + E1 * (3 * V + Z.abs (S - 65536 * r)) + 4 * P45 * (65536 + 1) ->
+  Inv1ms_10s_x2 S' V' es' ev'.
+Proof.
+  intros [[[[[[[B1 [B2 H4]] [H5 [H6 H7]]] [[H8 [H9 H10]] [[H11 H12] [H13 H14]]]] [[[H15 [H16 H17]] [[H18 H19] [H20 H21]]] [[H22 [H23 H24]] [[H25 H26] [H27 H28]]]]] [[[[H29 [H30 H31]] [H32 [H33 H34]]] [[H35 [H36 H37]] [[H38 H39] [H40 H41]]]] [[[H42 [H43 H44]] [[H45 H46] [H47 H48]]] [[H49 [H50 H51]] [[H52 H53] [H54 H55]]]]]] [[[[[H56 [H57 H58]] [H59 [H60 H61]]] [[H62 [H63 H64]] [[H65 H66] [H67 H68]]]] [[[H69 [H70 H71]] [[H72 H73] [H74 H75]]] [[H76 [H77 H78]] [[H79 H80] [H81 H82]]]]] [[[[H83 [H84 H85]] [[H86 H87] [H88 H89]]] [[H90 [H91 H92]] [[H93 H94] [H95 H96]]]] [[[H97 [H98 H99]] [[H100 H101] [H102 H103]]] [[H104 [H105 H106]] [[H107 H108] [H109 H110]]]]]]] [[[[[[H111 [H112 H113]] [H114 [H115 H116]]] [[H117 [H118 H119]] [[H120 H121] [H122 H123]]]] [[[H124 [H125 H126]] [[H127 H128] [H129 H130]]] [[H131 [H132 H133]] [[H134 H135] [H136 H137]]]]] [[[[H138 [H139 H140]] [H141 [H142 H143]]] [[H144 [H145 H146]] [[H147 H148] [H149 H150]]]] [[[H151 [H152 H153]] [[H154 H155] [H156 H157]]] [[H158 [H159 H160]] [[H161 H162] [H163 H164]]]]]] [[[[[H165 [H166 H167]] [H168 [H169 H170]]] [[H171 [H172 H173]] [[H174 H175] [H176 H177]]]] [[[H178 [H179 H180]] [[H181 H182] [H183 H184]]] [[H185 [H186 H187]] [[H188 H189] [H190 H191]]]]] [[[[H192 [H193 H194]] [[H195 H196] [H197 H198]]] [[H199 [H200 H201]] [[H202 H203] [H204 H205]]]] [[[H206 [H207 H208]] [[H209 H210] [H211 H212]]] [[H213 [H214 H215]] [[H216 H217] [H218 H219]]]]]]]] Hr He Hv HS HV He' Re Hv' Rv.
+  unfold Inv1ms_10s_x2.
+  split; [split; [split; [split; [split; [split; [split; [lia|split; [lia|apply (inv1ms_10s_x2_step_4 S V es ev r S' V' es' ev'); assumption]]|split; [apply (inv1ms_10s_x2_step_5 S V es ev r S' V' es' ev'); assumption|split; [apply (inv1ms_10s_x2_step_6 S V es ev r S' V' es' ev'); assumption|apply (inv1ms_10s_x2_step_7 S V es ev r S' V' es' ev'); assumption]]]|split; [split; [apply (inv1ms_10s_x2_step_8 S V es ev r S' V' es' ev'); assumption|split; [apply (inv1ms_10s_x2_step_9 S V es ev r S' V' es' ev'); assumption|apply (inv1ms_10s_x2_step_10 S V es ev r S' V' es' ev'); assumption]]|split; [split; [apply (inv1ms_10s_x2_step_11 S V es ev r S' V' es' ev'); assumption|apply (inv1ms_10s_x2_step_12 S V es ev r S' V' es' ev'); assumption]|split; [apply (inv1ms_10s_x2_step_13 S V es ev r S' V' es' ev'); assumption|apply (inv1ms_10s_x2_step_14 S V es ev r S' V' es' ev'); assumption]]]]|split; [split; [split; [apply (inv1ms_10s_x2_step_15 S V es ev r S' V' es' ev'); assumption|split; [apply (inv1ms_10s_x2_step_16 S V es ev r S' V' es' ev'); assumption|apply (inv1ms_10s_x2_step_17 S V es ev r S' V' es' ev'); assumption]]|split; [split; [apply (inv1ms_10s_x2_step_18 S V es ev r S' V' es' ev'); assumption|apply (inv1ms_10s_x2_step_19 S V es ev r S' V' es' ev'); assumption]|split; [apply (inv1ms_10s_x2_step_20 S V es ev r S' V' es' ev'); assumption|apply (inv1ms_10s_x2_step_21 S V es ev r S' V' es' ev'); assumption]]]|split; [split; [apply (inv1ms_10s_x2_step_22 S V es ev r S' V' es' ev'); assumption|split; [apply (inv1ms_10s_x2_step_23 S V es ev r S' V' es' ev'); assumption|apply (inv1ms_10s_x2_step_24 S V es ev r S' V' es' ev'); assumption]]|split; [split; [apply (inv1ms_10s_x2_step_25 S V es ev r S' V' es' ev'); assumption|apply (inv1ms_10s_x2_step_26 S V es ev r S' V' es' ev'); assumption]|split; [apply (inv1ms_10s_x2_step_27 S V es ev r S' V' es' ev'); assumption|apply (inv1ms_10s_x2_step_28 S V es ev r S' V' es' ev'); assumption]]]]]|split; [split; [split; [split; [apply (inv1ms_10s_x2_step_29 S V es ev r S' V' es' ev'); assumption|split; [apply (inv1ms_10s_x2_step_30 S V es ev r S' V' es' ev'); assumption|apply (inv1ms_10s_x2_step_31 S V es ev r S' V' es' ev'); assumption]]|split; [apply (inv1ms_10s_x2_step_32 S V es ev r S' V' es' ev'); assumption|split; [apply (inv1ms_10s_x2_step_33 S V es ev r S' V' es' ev'); assumption|apply (inv1ms_10s_x2_step_34 S V es ev r S' V' es' ev'); assumption]]]|split; [split; [apply (inv1ms_10s_x2_step_35 S V es ev r S' V' es' ev'); assumption|split; [apply (inv1ms_10s_x2_step_36 S V es ev r S' V' es' ev'); assumption|apply (inv1ms_10s_x2_step_37 S V es ev r S' V' es' ev'); assumption]]|split; [split; [apply (inv1ms_10s_x2_step_38 S V es ev r S' V' es' ev'); assumption|apply (inv1ms_10s_x2_step_39 S V es ev r S' V' es' ev'); assumption]|split; [apply (inv1ms_10s_x2_step_40 S V es ev r S' V' es' ev'); assumption|apply (inv1ms_10s_x2_step_41 S V es ev r S' V' es' ev'); assumption]]]]|split; [split; [split; [apply (inv1ms_10s_x2_step_42 S V es ev r S' V' es' ev'); assumption|split; [apply (inv1ms_10s_x2_step_43 S V es ev r S' V' es' ev'); assumption|apply (inv1ms_10s_x2_step_44 S V es ev r S' V' es' ev'); assumption]]|split; [split; [apply (inv1ms_10s_x2_step_45 S V es ev r S' V' es' ev'); assumption|apply (inv1ms_10s_x2_step_46 S V es ev r S' V' es' ev'); assumption]|split; [apply (inv1ms_10s_x2_step_47 S V es ev r S' V' es' ev'); assumption|apply (inv1ms_10s_x2_step_48 S V es ev r S' V' es' ev'); assumption]]]|split; [split; [apply (inv1ms_10s_x2_step_49 S V es ev r S' V' es' ev'); assumption|split; [apply (inv1ms_10s_x2_step_50 S V es ev r S' V' es' ev'); assumption|apply (inv1ms_10s_x2_step_51 S V es ev r S' V' es' ev'); assumption]]|split; [split; [apply (inv1ms_10s_x2_step_52 S V es ev r S' V' es' ev'); assumption|apply (inv1ms_10s_x2_step_53 S V es ev r S' V' es' ev'); assumption]|split; [apply (inv1ms_10s_x2_step_54 S V es ev r S' V' es' ev'); assumption|apply (inv1ms_10s_x2_step_55 S V es ev r S' V' es' ev'); assumption]]]]]]|split; [split; [split; [split; [split; [apply (inv1ms_10s_x2_step_56 S V es ev r S' V' es' ev'); assumption|split; [apply (inv1ms_10s_x2_step_57 S V es ev r S' V' es' ev'); assumption|apply (inv1ms_10s_x2_step_58 S V es ev r S' V' es' ev'); assumption]]|split; [apply (inv1ms_10s_x2_step_59 S V es ev r S' V' es' ev'); assumption|split; [apply (inv1ms_10s_x2_step_60 S V es ev r S' V' es' ev'); assumption|apply (inv1ms_10s_x2_step_61 S V es ev r S' V' es' ev'); assumption]]]|split; [split; [apply (inv1ms_10s_x2_step_62 S V es ev r S' V' es' ev'); assumption|split; [apply (inv1ms_10s_x2_step_63 S V es ev r S' V' es' ev'); assumption|apply (inv1ms_10s_x2_step_64 S V es ev r S' V' es' ev'); assumption]]|split; [split; [apply (inv1ms_10s_x2_step_65 S V es ev r S' V' es' ev'); assumption|apply (inv1ms_10s_x2_step_66 S V es ev r S' V' es' ev'); assumption]|split; [apply (inv1ms_10s_x2_step_67 S V es ev r S' V' es' ev'); assumption|apply (inv1ms_10s_x2_step_68 S V es ev r S' V' es' ev'); assumption]]]]|split; [split; [split; [apply (inv1ms_10s_x2_step_69 S V es ev r S' V' es' ev'); assumption|split; [apply (inv1ms_10s_x2_step_70 S V es ev r S' V' es' ev'); assumption|apply (inv1ms_10s_x2_step_71 S V es ev r S' V' es' ev'); assumption]]|split; [split; [apply (inv1ms_10s_x2_step_72 S V es ev r S' V' es' ev'); assumption|apply (inv1ms_10s_x2_step_73 S V es ev r S' V' es' ev'); assumption]|split; [apply (inv1ms_10s_x2_step_74 S V es ev r S' V' es' ev'); assumption|apply (inv1ms_10s_x2_step_75 S V es ev r S' V' es' ev'); assumption]]]|split; [split; [apply (inv1ms_10s_x2_step_76 S V es ev r S' V' es' ev'); assumption|split; [apply (inv1ms_10s_x2_step_77 S V es ev r S' V' es' ev'); assumption|apply (inv1ms_10s_x2_step_78 S V es ev r S' V' es' ev'); assumption]]|split; [split; [apply (inv1ms_10s_x2_step_79 S V es ev r S' V' es' ev'); assumption|apply (inv1ms_10s_x2_step_80 S V es ev r S' V' es' ev'); assumption]|split; [apply (inv1ms_10s_x2_step_81 S V es ev r S' V' es' ev'); assumption|apply (inv1ms_10s_x2_step_82 S V es ev r S' V' es' ev'); assumption]]]]]|split; [split; [split; [split; [apply (inv1ms_10s_x2_step_83 S V es ev r S' V' es' ev'); assumption|split; [apply (inv1ms_10s_x2_step_84 S V es ev r S' V' es' ev'); assumption|apply (inv1ms_10s_x2_step_85 S V es ev r S' V' es' ev'); assumption]]|split; [split; [apply (inv1ms_10s_x2_step_86 S V es ev r S' V' es' ev'); assumption|apply (inv1ms_10s_x2_step_87 S V es ev r S' V' es' ev'); assumption]|split; [apply (inv1ms_10s_x2_step_88 S V es ev r S' V' es' ev'); assumption|apply (inv1ms_10s_x2_step_89 S V es ev r S' V' es' ev'); assumption]]]|split; [split; [apply (inv1ms_10s_x2_step_90 S V es ev r S' V' es' ev'); assumption|split; [apply (inv1ms_10s_x2_step_91 S V es ev r S' V' es' ev'); assumption|apply (inv1ms_10s_x2_step_92 S V es ev r S' V' es' ev'); assumption]]|split; [split; [apply (inv1ms_10s_x2_step_93 S V es ev r S' V' es' ev'); assumption|apply (inv1ms_10s_x2_step_94 S V es ev r S' V' es' ev'); assumption]|split; [apply (inv1ms_10s_x2_step_95 S V es ev r S' V' es' ev'); assumption|apply (inv1ms_10s_x2_step_96 S V es ev r S' V' es' ev'); assumption]]]]|split; [split; [split; [apply (inv1ms_10s_x2_step_97 S V es ev r S' V' es' ev'); assumption|split; [apply (inv1ms_10s_x2_step_98 S V es ev r S' V' es' ev'); assumption|apply (inv1ms_10s_x2_step_99 S V es ev r S' V' es' ev'); assumption]]|split; [split; [apply (inv1ms_10s_x2_step_100 S V es ev r S' V' es' ev'); assumption|apply (inv1ms_10s_x2_step_101 S V es ev r S' V' es' ev'); assumption]|split; [apply (inv1ms_10s_x2_step_102 S V es ev r S' V' es' ev'); assumption|apply (inv1ms_10s_x2_step_103 S V es ev r S' V' es' ev'); assumption]]]|split; [split; [apply (inv1ms_10s_x2_step_104 S V es ev r S' V' es' ev'); assumption|split; [apply (inv1ms_10s_x2_step_105 S V es ev r S' V' es' ev'); assumption|apply (inv1ms_10s_x2_step_106 S V es ev r S' V' es' ev'); assumption]]|split; [split; [apply (inv1ms_10s_x2_step_107 S V es ev r S' V' es' ev'); assumption|apply (inv1ms_10s_x2_step_108 S V es ev r S' V' es' ev'); assumption]|split; [apply (inv1ms_10s_x2_step_109 S V es ev r S' V' es' ev'); assumption|apply (inv1ms_10s_x2_step_110 S V es ev r S' V' es' ev'); assumption]]]]]]]|split; [split; [split; [split; [split; [split; [apply (inv1ms_10s_x2_step_111 S V es ev r S' V' es' ev'); assumption|split; [apply (inv1ms_10s_x2_step_112 S V es ev r S' V' es' ev'); assumption|apply (inv1ms_10s_x2_step_113 S V es ev r S' V' es' ev'); assumption]]|split; [apply (inv1ms_10s_x2_step_114 S V es ev r S' V' es' ev'); assumption|split; [apply (inv1ms_10s_x2_step_115 S V es ev r S' V' es' ev'); assumption|apply (inv1ms_10s_x2_step_116 S V es ev r S' V' es' ev'); assumption]]]|split; [split; [apply (inv1ms_10s_x2_step_117 S V es ev r S' V' es' ev'); assumption|split; [apply (inv1ms_10s_x2_step_118 S V es ev r S' V' es' ev'); assumption|apply (inv1ms_10s_x2_step_119 S V es ev r S' V' es' ev'); assumption]]|split; [split; [apply (inv1ms_10s_x2_step_120 S V es ev r S' V' es' ev'); assumption|apply (inv1ms_10s_x2_step_121 S V es ev r S' V' es' ev'); assumption]|split; [apply (inv1ms_10s_x2_step_122 S V es ev r S' V' es' ev'); assumption|apply (inv1ms_10s_x2_step_123 S V es ev r S' V' es' ev'); assumption]]]]|split; [split; [split; [apply (inv1ms_10s_x2_step_124 S V es ev r S' V' es' ev'); assumption|split; [apply (inv1ms_10s_x2_step_125 S V es ev r S' V' es' ev'); assumption|apply (inv1ms_10s_x2_step_126 S V es ev r S' V' es' ev'); assumption]]|split; [split; [apply (inv1ms_10s_x2_step_127 S V es ev r S' V' es' ev'); assumption|apply (inv1ms_10s_x2_step_128 S V es ev r S' V' es' ev'); assumption]|split; [apply (inv1ms_10s_x2_step_129 S V es ev r S' V' es' ev'); assumption|apply (inv1ms_10s_x2_step_130 S V es ev r S' V' es' ev'); assumption]]]|split; [split; [apply (inv1ms_10s_x2_step_131 S V es ev r S' V' es' ev'); assumption|split; [apply (inv1ms_10s_x2_step_132 S V es ev r S' V' es' ev'); assumption|apply (inv1ms_10s_x2_step_133 S V es ev r S' V' es' ev'); assumption]]|split; [split; [apply (inv1ms_10s_x2_step_134 S V es ev r S' V' es' ev'); assumption|apply (inv1ms_10s_x2_step_135 S V es ev r S' V' es' ev'); assumption]|split; [apply (inv1ms_10s_x2_step_136 S V es ev r S' V' es' ev'); assumption|apply (inv1ms_10s_x2_step_137 S V es ev r S' V' es' ev'); assumption]]]]]|split; [split; [split; [split; [apply (inv1ms_10s_x2_step_138 S V es ev r S' V' es' ev'); assumption|split; [apply (inv1ms_10s_x2_step_139 S V es ev r S' V' es' ev'); assumption|apply (inv1ms_10s_x2_step_140 S V es ev r S' V' es' ev'); assumption]]|split; [apply (inv1ms_10s_x2_step_141 S V es ev r S' V' es' ev'); assumption|split; [apply (inv1ms_10s_x2_step_142 S V es ev r S' V' es' ev'); assumption|apply (inv1ms_10s_x2_step_143 S V es ev r S' V' es' ev'); assumption]]]|split; [split; [apply (inv1ms_10s_x2_step_144 S V es ev r S' V' es' ev'); assumption|split; [apply (inv1ms_10s_x2_step_145 S V es ev r S' V' es' ev'); assumption|apply (inv1ms_10s_x2_step_146 S V es ev r S' V' es' ev'); assumption]]|split; [split; [apply (inv1ms_10s_x2_step_147 S V es ev r S' V' es' ev'); assumption|apply (inv1ms_10s_x2_step_148 S V es ev r S' V' es' ev'); assumption]|split; [apply (inv1ms_10s_x2_step_149 S V es ev r S' V' es' ev'); assumption|apply (inv1ms_10s_x2_step_150 S V es ev r S' V' es' ev'); assumption]]]]|split; [split; [split; [apply (inv1ms_10s_x2_step_151 S V es ev r S' V' es' ev'); assumption|split; [apply (inv1ms_10s_x2_step_152 S V es ev r S' V' es' ev'); assumption|apply (inv1ms_10s_x2_step_153 S V es ev r S' V' es' ev'); assumption]]|split; [split; [apply (inv1ms_10s_x2_step_154 S V es ev r S' V' es' ev'); assumption|apply (inv1ms_10s_x2_step_155 S V es ev r S' V' es' ev'); assumption]|split; [apply (inv1ms_10s_x2_step_156 S V es ev r S' V' es' ev'); assumption|apply (inv1ms_10s_x2_step_157 S V es ev r S' V' es' ev'); assumption]]]|split; [split; [apply (inv1ms_10s_x2_step_158 S V es ev r S' V' es' ev'); assumption|split; [apply (inv1ms_10s_x2_step_159 S V es ev r S' V' es' ev'); assumption|apply (inv1ms_10s_x2_step_160 S V es ev r S' V' es' ev'); assumption]]|split; [split; [apply (inv1ms_10s_x2_step_161 S V es ev r S' V' es' ev'); assumption|apply (inv1ms_10s_x2_step_162 S V es ev r S' V' es' ev'); assumption]|split; [apply (inv1ms_10s_x2_step_163 S V es ev r S' V' es' ev'); assumption|apply (inv1ms_10s_x2_step_164 S V es ev r S' V' es' ev'); assumption]]]]]]|split; [split; [split; [split; [split; [apply (inv1ms_10s_x2_step_165 S V es ev r S' V' es' ev'); assumption|split; [apply (inv1ms_10s_x2_step_166 S V es ev r S' V' es' ev'); assumption|apply (inv1ms_10s_x2_step_167 S V es ev r S' V' es' ev'); assumption]]|split; [apply (inv1ms_10s_x2_step_168 S V es ev r S' V' es' ev'); assumption|split; [apply (inv1ms_10s_x2_step_169 S V es ev r S' V' es' ev'); assumption|apply (inv1ms_10s_x2_step_170 S V es ev r S' V' es' ev'); assumption]]]|split; [split; [apply (inv1ms_10s_x2_step_171 S V es ev r S' V' es' ev'); assumption|split; [apply (inv1ms_10s_x2_step_172 S V es ev r S' V' es' ev'); assumption|apply (inv1ms_10s_x2_step_173 S V es ev r S' V' es' ev'); assumption]]|split; [split; [apply (inv1ms_10s_x2_step_174 S V es ev r S' V' es' ev'); assumption|apply (inv1ms_10s_x2_step_175 S V es ev r S' V' es' ev'); assumption]|split; [apply (inv1ms_10s_x2_step_176 S V es ev r S' V' es' ev'); assumption|apply (inv1ms_10s_x2_step_177 S V es ev r S' V' es' ev'); assumption]]]]|split; [split; [split; [apply (inv1ms_10s_x2_step_178 S V es ev r S' V' es' ev'); assumption|split; [apply (inv1ms_10s_x2_step_179 S V es ev r S' V' es' ev'); assumption|apply (inv1ms_10s_x2_step_180 S V es ev r S' V' es' ev'); assumption]]|split; [split; [apply (inv1ms_10s_x2_step_181 S V es ev r S' V' es' ev'); assumption|apply (inv1ms_10s_x2_step_182 S V es ev r S' V' es' ev'); assumption]|split; [apply (inv1ms_10s_x2_step_183 S V es ev r S' V' es' ev'); assumption|apply (inv1ms_10s_x2_step_184 S V es ev r S' V' es' ev'); assumption]]]|split; [split; [apply (inv1ms_10s_x2_step_185 S V es ev r S' V' es' ev'); assumption|split; [apply (inv1ms_10s_x2_step_186 S V es ev r S' V' es' ev'); assumption|apply (inv1ms_10s_x2_step_187 S V es ev r S' V' es' ev'); assumption]]|split; [split; [apply (inv1ms_10s_x2_step_188 S V es ev r S' V' es' ev'); assumption|apply (inv1ms_10s_x2_step_189 S V es ev r S' V' es' ev'); assumption]|split; [apply (inv1ms_10s_x2_step_190 S V es ev r S' V' es' ev'); assumption|apply (inv1ms_10s_x2_step_191 S V es ev r S' V' es' ev'); assumption]]]]]|split; [split; [split; [split; [apply (inv1ms_10s_x2_step_192 S V es ev r S' V' es' ev'); assumption|split; [apply (inv1ms_10s_x2_step_193 S V es ev r S' V' es' ev'); assumption|apply (inv1ms_10s_x2_step_194 S V es ev r S' V' es' ev'); assumption]]|split; [split; [apply (inv1ms_10s_x2_step_195 S V es ev r S' V' es' ev'); assumption|apply (inv1ms_10s_x2_step_196 S V es ev r S' V' es' ev'); assumption]|split; [apply (inv1ms_10s_x2_step_197 S V es ev r S' V' es' ev'); assumption|apply (inv1ms_10s_x2_step_198 S V es ev r S' V' es' ev'); assumption]]]|split; [split; [apply (inv1ms_10s_x2_step_199 S V es ev r S' V' es' ev'); assumption|split; [apply (inv1ms_10s_x2_step_200 S V es ev r S' V' es' ev'); assumption|apply (inv1ms_10s_x2_step_201 S V es ev r S' V' es' ev'); assumption]]|split; [split; [apply (inv1ms_10s_x2_step_202 S V es ev r S' V' es' ev'); assumption|apply (inv1ms_10s_x2_step_203 S V es ev r S' V' es' ev'); assumption]|split; [apply (inv1ms_10s_x2_step_204 S V es ev r S' V' es' ev'); assumption|apply (inv1ms_10s_x2_step_205 S V es ev r S' V' es' ev'); assumption]]]]|split; [split; [split; [apply (inv1ms_10s_x2_step_206 S V es ev r S' V' es' ev'); assumption|split; [apply (inv1ms_10s_x2_step_207 S V es ev r S' V' es' ev'); assumption|apply (inv1ms_10s_x2_step_208 S V es ev r S' V' es' ev'); assumption]]|split; [split; [apply (inv1ms_10s_x2_step_209 S V es ev r S' V' es' ev'); assumption|apply (inv1ms_10s_x2_step_210 S V es ev r S' V' es' ev'); assumption]|split; [apply (inv1ms_10s_x2_step_211 S V es ev r S' V' es' ev'); assumption|apply (inv1ms_10s_x2_step_212 S V es ev r S' V' es' ev'); assumption]]]|split; [split; [apply (inv1ms_10s_x2_step_213 S V es ev r S' V' es' ev'); assumption|split; [apply (inv1ms_10s_x2_step_214 S V es ev r S' V' es' ev'); assumption|apply (inv1ms_10s_x2_step_215 S V es ev r S' V' es' ev'); assumption]]|split; [split; [apply (inv1ms_10s_x2_step_216 S V es ev r S' V' es' ev'); assumption|apply (inv1ms_10s_x2_step_217 S V es ev r S' V' es' ev'); assumption]|split; [apply (inv1ms_10s_x2_step_218 S V es ev r S' V' es' ev'); assumption|apply (inv1ms_10s_x2_step_219 S V es ev r S' V' es' ev'); assumption]]]]]]]].
+Qed.
+Lemma Inv1ms_10s_x2_mono S V es ev es' ev' : Inv1ms_10s_x2 S V es ev -> 0 <= es' <= es -> 0 <= ev' <= ev -> Inv1ms_10s_x2 S V es' ev'.
+Proof.
+  intros [[[[[[[B1 [B2 H4]] [H5 [H6 H7]]] [[H8 [H9 H10]] [[H11 H12] [H13 H14]]]] [[[H15 [H16 H17]] [[H18 H19] [H20 H21]]] [[H22 [H23 H24]] [[H25 H26] [H27 H28]]]]] [[[[H29 [H30 H31]] [H32 [H33 H34]]] [[H35 [H36 H37]] [[H38 H39] [H40 H41]]]] [[[H42 [H43 H44]] [[H45 H46] [H47 H48]]] [[H49 [H50 H51]] [[H52 H53] [H54 H55]]]]]] [[[[[H56 [H57 H58]] [H59 [H60 H61]]] [[H62 [H63 H64]] [[H65 H66] [H67 H68]]]] [[[H69 [H70 H71]] [[H72 H73] [H74 H75]]] [[H76 [H77 H78]] [[H79 H80] [H81 H82]]]]] [[[[H83 [H84 H85]] [[H86 H87] [H88 H89]]] [[H90 [H91 H92]] [[H93 H94] [H95 H96]]]] [[[H97 [H98 H99]] [[H100 H101] [H102 H103]]] [[H104 [H105 H106]] [[H107 H108] [H109 H110]]]]]]] [[[[[[H111 [H112 H113]] [H114 [H115 H116]]] [[H117 [H118 H119]] [[H120 H121] [H122 H123]]]] [[[H124 [H125 H126]] [[H127 H128] [H129 H130]]] [[H131 [H132 H133]] [[H134 H135] [H136 H137]]]]] [[[[H138 [H139 H140]] [H141 [H142 H143]]] [[H144 [H145 H146]] [[H147 H148] [H149 H150]]]] [[[H151 [H152 H153]] [[H154 H155] [H156 H157]]] [[H158 [H159 H160]] [[H161 H162] [H163 H164]]]]]] [[[[[H165 [H166 H167]] [H168 [H169 H170]]] [[H171 [H172 H173]] [[H174 H175] [H176 H177]]]] [[[H178 [H179 H180]] [[H181 H182] [H183 H184]]] [[H185 [H186 H187]] [[H188 H189] [H190 H191]]]]] [[[[H192 [H193 H194]] [[H195 H196] [H197 H198]]] [[H199 [H200 H201]] [[H202 H203] [H204 H205]]]] [[[H206 [H207 H208]] [[H209 H210] [H211 H212]]] [[H213 [H214 H215]] [[H216 H217] [H218 H219]]]]]]]] He Hv.
+  unfold Inv1ms_10s_x2.
+  split; [split; [split; [split; [split; [split; [split; [exact B1|split; [exact B2|apply (tmpl_mono _ _ _ _ _ S V es ev es' ev'); [lia|lia|exact H4|lia|lia]]]|split; [apply (tmpl_mono _ _ _ _ _ S V es ev es' ev'); [lia|lia|exact H5|lia|lia]|split; [apply (tmpl_mono _ _ _ _ _ S V es ev es' ev'); [lia|lia|exact H6|lia|lia]|apply (tmpl_mono _ _ _ _ _ S V es ev es' ev'); [lia|lia|exact H7|lia|lia]]]]|split; [split; [apply (tmpl_mono _ _ _ _ _ S V es ev es' ev'); [lia|lia|exact H8|lia|lia]|split; [apply (tmpl_mono _ _ _ _ _ S V es ev es' ev'); [lia|lia|exact H9|lia|lia]|apply (tmpl_mono _ _ _ _ _ S V es ev es' ev'); [lia|lia|exact H10|lia|lia]]]|split; [split; [apply (tmpl_mono _ _ _ _ _ S V es ev es' ev'); [lia|lia|exact H11|lia|lia]|apply (tmpl_mono _ _ _ _ _ S V es ev es' ev'); [lia|lia|exact H12|lia|lia]]|split; [apply (tmpl_mono _ _ _ _ _ S V es ev es' ev'); [lia|lia|exact H13|lia|lia]|apply (tmpl_mono _ _ _ _ _ S V es ev es' ev'); [lia|lia|exact H14|lia|lia]]]]]|split; [split; [split; [apply (tmpl_mono _ _ _ _ _ S V es ev es' ev'); [lia|lia|exact H15|lia|lia]|split; [apply (tmpl_mono _ _ _ _ _ S V es ev es' ev'); [lia|lia|exact H16|lia|lia]|apply (tmpl_mono _ _ _ _ _ S V es ev es' ev'); [lia|lia|exact H17|lia|lia]]]|split; [split; [apply (tmpl_mono _ _ _ _ _ S V es ev es' ev'); [lia|lia|exact H18|lia|lia]|apply (tmpl_mono _ _ _ _ _ S V es ev es' ev'); [lia|lia|exact H19|lia|lia]]|split; [apply (tmpl_mono _ _ _ _ _ S V es ev es' ev'); [lia|lia|exact H20|lia|lia]|apply (tmpl_mono _ _ _ _ _ S V es ev es' ev'); [lia|lia|exact H21|lia|lia]]]]|split; [split; [apply (tmpl_mono _ _ _ _ _ S V es ev es' ev'); [lia|lia|exact H22|lia|lia]|split; [apply (tmpl_mono _ _ _ _ _ S V es ev es' ev'); [lia|lia|exact H23|lia|lia]|apply (tmpl_mono _ _ _ _ _ S V es ev es' ev'); [lia|lia|exact H24|lia|lia]]]|split; [split; [apply (tmpl_mono _ _ _ _ _ S V es ev es' ev'); [lia|lia|exact H25|lia|lia]|apply (tmpl_mono _ _ _ _ _ S V es ev es' ev'); [lia|lia|exact H26|lia|lia]]|split; [apply (tmpl_mono _ _ _ _ _ S V es ev es' ev'); [lia|lia|exact H27|lia|lia]|apply (tmpl_mono _ _ _ _ _ S V es ev es' ev'); [lia|lia|exact H28|lia|lia]]]]]]|split; [split; [split; [split; [apply (tmpl_mono _ _ _ _ _ S V es ev es' ev'); [lia|lia|exact H29|lia|lia]|split; [apply (tmpl_mono _ _ _ _ _ S V es ev es' ev'); [lia|lia|exact H30|lia|lia]|apply (tmpl_mono _ _ _ _ _ S V es ev es' ev'); [lia|lia|exact H31|lia|lia]]]|split; [apply (tmpl_mono _ _ _ _ _ S V es ev es' ev'); [lia|lia|exact H32|lia|lia]|split; [apply (tmpl_mono _ _ _ _ _ S V es ev es' ev'); [lia|lia|exact H33|lia|lia]|apply (tmpl_mono _ _ _ _ _ S V es ev es' ev'); [lia|lia|exact H34|lia|lia]]]]|split; [split; [apply (tmpl_mono _ _ _ _ _ S V es ev es' ev'); [lia|lia|exact H35|lia|lia]|split; [apply (tmpl_mono _ _ _ _ _ S V es ev es' ev'); [lia|lia|exact H36|lia|lia]|apply (tmpl_mono _ _ _ _ _ S V es ev es' ev'); [lia|lia|exact H37|lia|lia]]]|split; [split; [apply (tmpl_mono _ _ _ _ _ S V es ev es' ev'); [lia|lia|exact H38|lia|lia]|apply (tmpl_mono _ _ _ _ _ S V es ev es' ev'); [lia|lia|exact H39|lia|lia]]|split; [apply (tmpl_mono _ _ _ _ _ S V es ev es' ev'); [lia|lia|exact H40|lia|lia]|apply (tmpl_mono _ _ _ _ _ S V es ev es' ev'); [lia|lia|exact H41|lia|lia]]]]]|split; [split; [split; [apply (tmpl_mono _ _ _ _ _ S V es ev es' ev'); [lia|lia|exact H42|lia|lia]|split; [apply (tmpl_mono _ _ _ _ _ S V es ev es' ev'); [lia|lia|exact H43|lia|lia]|apply (tmpl_mono _ _ _ _ _ S V es ev es' ev'); [lia|lia|exact H44|lia|lia]]]|split; [split; [apply (tmpl_mono _ _ _ _ _ S V es ev es' ev'); [lia|lia|exact H45|lia|lia]|apply (tmpl_mono _ _ _ _ _ S V es ev es' ev'); [lia|lia|exact H46|lia|lia]]|split; [apply (tmpl_mono _ _ _ _ _ S V es ev es' ev'); [lia|lia|exact H47|lia|lia]|apply (tmpl_mono _ _ _ _ _ S V es ev es' ev'); [lia|lia|exact H48|lia|lia]]]]|split; [split; [apply (tmpl_mono _ _ _ _ _ S V es ev es' ev'); [lia|lia|exact H49|lia|lia]|split; [apply (tmpl_mono _ _ _ _ _ S V es ev es' ev'); [lia|lia|exact H50|lia|lia]|apply (tmpl_mono _ _ _ _ _ S V es ev es' ev'); [lia|lia|exact H51|lia|lia]]]|split; [split; [apply (tmpl_mono _ _ _ _ _ S V es ev es' ev'); [lia|lia|exact H52|lia|lia]|apply (tmpl_mono _ _ _ _ _ S V es ev es' ev'); [lia|lia|exact H53|lia|lia]]|split; [apply (tmpl_mono _ _ _ _ _ S V es ev es' ev'); [lia|lia|exact H54|lia|lia]|apply (tmpl_mono _ _ _ _ _ S V es ev es' ev'); [lia|lia|exact H55|lia|lia]]]]]]]|split; [split; [split; [split; [split; [apply (tmpl_mono _ _ _ _ _ S V es ev es' ev'); [lia|lia|exact H56|lia|lia]|split; [apply (tmpl_mono _ _ _ _ _ S V es ev es' ev'); [lia|lia|exact H57|lia|lia]|apply (tmpl_mono _ _ _ _ _ S V es ev es' ev'); [lia|lia|exact H58|lia|lia]]]|split; [apply (tmpl_mono _ _ _ _ _ S V es ev es' ev'); [lia|lia|exact H59|lia|lia]|split; [apply (tmpl_mono _ _ _ _ _ S V es ev es' ev'); [lia|lia|exact H60|lia|lia]|apply (tmpl_mono _ _ _ _ _ S V es ev es' ev'); [lia|lia|exact H61|lia|lia]]]]|split; [split; [apply (tmpl_mono _ _ _ _ _ S V es ev es' ev'); [lia|lia|exact H62|lia|lia]|split; [apply (tmpl_mono _ _ _ _ _ S V es ev es' ev'); [lia|lia|exact H63|lia|lia]|apply (tmpl_mono _ _ _ _ _ S V es ev es' ev'); [lia|lia|exact H64|lia|lia]]]|split; [split; [apply (tmpl_mono _ _ _ _ _ S V es ev es' ev'); [lia|lia|exact H65|lia|lia]|apply (tmpl_mono _ _ _ _ _ S V es ev es' ev'); [lia|lia|exact H66|lia|lia]]|split; [apply (tmpl_mono _ _ _ _ _ S V es ev es' ev'); [lia|lia|exact H67|lia|lia]|apply (tmpl_mono _ _ _ _ _ S V es ev es' ev'); [lia|lia|exact H68|lia|lia]]]]]|split; [split; [split; [apply (tmpl_mono _ _ _ _ _ S V es ev es' ev'); [lia|lia|exact H69|lia|lia]|split; [apply (tmpl_mono _ _ _ _ _ S V es ev es' ev'); [lia|lia|exact H70|lia|lia]|apply (tmpl_mono _ _ _ _ _ S V es ev es' ev'); [lia|lia|exact H71|lia|lia]]]|split; [split; [apply (tmpl_mono _ _ _ _ _ S V es ev es' ev'); [lia|lia|exact H72|lia|lia]|apply (tmpl_mono _ _ _ _ _ S V es ev es' ev'); [lia|lia|exact H73|lia|lia]]|split; [apply (tmpl_mono _ _ _ _ _ S V es ev es' ev'); [lia|lia|exact H74|lia|lia]|apply (tmpl_mono _ _ _ _ _ S V es ev es' ev'); [lia|lia|exact H75|lia|lia]]]]|split; [split; [apply (tmpl_mono _ _ _ _ _ S V es ev es' ev'); [lia|lia|exact H76|lia|lia]|split; [apply (tmpl_mono _ _ _ _ _ S V es ev es' ev'); [lia|lia|exact H77|lia|lia]|apply (tmpl_mono _ _ _ _ _ S V es ev es' ev'); [lia|lia|exact H78|lia|lia]]]|split; [split; [apply (tmpl_mono _ _ _ _ _ S V es ev es' ev'); [lia|lia|exact H79|lia|lia]|apply (tmpl_mono _ _ _ _ _ S V es ev es' ev'); [lia|lia|exact H80|lia|lia]]|split; [apply (tmpl_mono _ _ _ _ _ S V es ev es' ev'); [lia|lia|exact H81|lia|lia]|apply (tmpl_mono _ _ _ _ _ S V es ev es' ev'); [lia|lia|exact H82|lia|lia]]]]]]|split; [split; [split; [split; [apply (tmpl_mono _ _ _ _ _ S V es ev es' ev'); [lia|lia|exact H83|lia|lia]|split; [apply (tmpl_mono _ _ _ _ _ S V es ev es' ev'); [lia|lia|exact H84|lia|lia]|apply (tmpl_mono _ _ _ _ _ S V es ev es' ev'); [lia|lia|exact H85|lia|lia]]]|split; [split; [apply (tmpl_mono _ _ _ _ _ S V es ev es' ev'); [lia|lia|exact H86|lia|lia]|apply (tmpl_mono _ _ _ _ _ S V es ev es' ev'); [lia|lia|exact H87|lia|lia]]|split; [apply (tmpl_mono _ _ _ _ _ S V es ev es' ev'); [lia|lia|exact H88|lia|lia]|apply (tmpl_mono _ _ _ _ _ S V es ev es' ev'); [lia|lia|exact H89|lia|lia]]]]|split; [split; [apply (tmpl_mono _ _ _ _ _ S V es ev es' ev'); [lia|lia|exact H90|lia|lia]|split; [apply (tmpl_mono _ _ _ _ _ S V es ev es' ev'); [lia|lia|exact H91|lia|lia]|apply (tmpl_mono _ _ _ _ _ S V es ev es' ev'); [lia|lia|exact H92|lia|lia]]]|split; [split; [apply (tmpl_mono _ _ _ _ _ S V es ev es' ev'); [lia|lia|exact H93|lia|lia]|apply (tmpl_mono _ _ _ _ _ S V es ev es' ev'); [lia|lia|exact H94|lia|lia]]|split; [apply (tmpl_mono _ _ _ _ _ S V es ev es' ev'); [lia|lia|exact H95|lia|lia]|apply (tmpl_mono _ _ _ _ _ S V es ev es' ev'); [lia|lia|exact H96|lia|lia]]]]]|split; [split; [split; [apply (tmpl_mono _ _ _ _ _ S V es ev es' ev'); [lia|lia|exact H97|lia|lia]|split; [apply (tmpl_mono _ _ _ _ _ S V es ev es' ev'); [lia|lia|exact H98|lia|lia]|apply (tmpl_mono _ _ _ _ _ S V es ev es' ev'); [lia|lia|exact H99|lia|lia]]]|split; [split; [apply (tmpl_mono _ _ _ _ _ S V es ev es' ev'); [lia|lia|exact H100|lia|lia]|apply (tmpl_mono _ _ _ _ _ S V es ev es' ev'); [lia|lia|exact H101|lia|lia]]|split; [apply (tmpl_mono _ _ _ _ _ S V es ev es' ev'); [lia|lia|exact H102|lia|lia]|apply (tmpl_mono _ _ _ _ _ S V es ev es' ev'); [lia|lia|exact H103|lia|lia]]]]|split; [split; [apply (tmpl_mono _ _ _ _ _ S V es ev es' ev'); [lia|lia|exact H104|lia|lia]|split; [apply (tmpl_mono _ _ _ _ _ S V es ev es' ev'); [lia|lia|exact H105|lia|lia]|apply (tmpl_mono _ _ _ _ _ S V es ev es' ev'); [lia|lia|exact H106|lia|lia]]]|split; [split; [apply (tmpl_mono _ _ _ _ _ S V es ev es' ev'); [lia|lia|exact H107|lia|lia]|apply (tmpl_mono _ _ _ _ _ S V es ev es' ev'); [lia|lia|exact H108|lia|lia]]|split; [apply (tmpl_mono _ _ _ _ _ S V es ev es' ev'); [lia|lia|exact H109|lia|lia]|apply (tmpl_mono _ _ _ _ _ S V es ev es' ev'); [lia|lia|exact H110|lia|lia]]]]]]]]|split; [split; [split; [split; [split; [split; [apply (tmpl_mono _ _ _ _ _ S V es ev es' ev'); [lia|lia|exact H111|lia|lia]|split; [apply (tmpl_mono _ _ _ _ _ S V es ev es' ev'); [lia|lia|exact H112|lia|lia]|apply (tmpl_mono _ _ _ _ _ S V es ev es' ev'); [lia|lia|exact H113|lia|lia]]]|split; [apply (tmpl_mono _ _ _ _ _ S V es ev es' ev'); [lia|lia|exact H114|lia|lia]|split; [apply (tmpl_mono _ _ _ _ _ S V es ev es' ev'); [lia|lia|exact H115|lia|lia]|apply (tmpl_mono _ _ _ _ _ S V es ev es' ev'); [lia|lia|exact H116|lia|lia]]]]|split; [split; [apply (tmpl_mono _ _ _ _ _ S V es ev es' ev'); [lia|lia|exact H117|lia|lia]|split; [apply (tmpl_mono _ _ _ _ _ S V es ev es' ev'); [lia|lia|exact H118|lia|lia]|apply (tmpl_mono _ _ _ _ _ S V es ev es' ev'); [lia|lia|exact H119|lia|lia]]]|split; [split; [apply (tmpl_mono _ _ _ _ _ S V es ev es' ev'); [lia|lia|exact H120|lia|lia]|apply (tmpl_mono _ _ _ _ _ S V es ev es' ev'); [lia|lia|exact H121|lia|lia]]|split; [apply (tmpl_mono _ _ _ _ _ S V es ev es' ev'); [lia|lia|exact H122|lia|lia]|apply (tmpl_mono _ _ _ _ _ S V es ev es' ev'); [lia|lia|exact H123|lia|lia]]]]]|split; [split; [split; [apply (tmpl_mono _ _ _ _ _ S V es ev es' ev'); [lia|lia|exact H124|lia|lia]|split; [apply (tmpl_mono _ _ _ _ _ S V es ev es' ev'); [lia|lia|exact H125|lia|lia]|apply (tmpl_mono _ _ _ _ _ S V es ev es' ev'); [lia|lia|exact H126|lia|lia]]]|split; [split; [apply (tmpl_mono _ _ _ _ _ S V es ev es' ev'); [lia|lia|exact H127|lia|lia]|apply (tmpl_mono _ _ _ _ _ S V es ev es' ev'); [lia|lia|exact H128|lia|lia]]|split; [apply (tmpl_mono _ _ _ _ _ S V es ev es' ev'); [lia|lia|exact H129|lia|lia]|apply (tmpl_mono _ _ _ _ _ S V es ev es' ev'); [lia|lia|exact H130|lia|lia]]]]|split; [split; [apply (tmpl_mono _ _ _ _ _ S V es ev es' ev'); [lia|lia|exact H131|lia|lia]|split; [apply (tmpl_mono _ _ _ _ _ S V es ev es' ev'); [lia|lia|exact H132|lia|lia]|apply (tmpl_mono _ _ _ _ _ S V es ev es' ev'); [lia|lia|exact H133|lia|lia]]]|split; [split; [apply (tmpl_mono _ _ _ _ _ S V es ev es' ev'); [lia|lia|exact H134|lia|lia]|apply (tmpl_mono _ _ _ _ _ S V es ev es' ev'); [lia|lia|exact H135|lia|lia]]|split; [apply (tmpl_mono _ _ _ _ _ S V es ev es' ev'); [lia|lia|exact H136|lia|lia]|apply (tmpl_mono _ _ _ _ _ S V es ev es' ev'); [lia|lia|exact H137|lia|lia]]]]]]|split; [split; [split; [split; [apply (tmpl_mono _ _ _ _ _ S V es ev es' ev'); [lia|lia|exact H138|lia|lia]|split; [apply (tmpl_mono _ _ _ _ _ S V es ev es' ev'); [lia|lia|exact H139|lia|lia]|apply (tmpl_mono _ _ _ _ _ S V es ev es' ev'); [lia|lia|exact H140|lia|lia]]]|split; [apply (tmpl_mono _ _ _ _ _ S V es ev es' ev'); [lia|lia|exact H141|lia|lia]|split; [apply (tmpl_mono _ _ _ _ _ S V es ev es' ev'); [lia|lia|exact H142|lia|lia]|apply (tmpl_mono _ _ _ _ _ S V es ev es' ev'); [lia|lia|exact H143|lia|lia]]]]|split; [split; [apply (tmpl_mono _ _ _ _ _ S V es ev es' ev'); [lia|lia|exact H144|lia|lia]|split; [apply (tmpl_mono _ _ _ _ _ S V es ev es' ev'); [lia|lia|exact H145|lia|lia]|apply (tmpl_mono _ _ _ _ _ S V es ev es' ev'); [lia|lia|exact H146|lia|lia]]]|split; [split; [apply (tmpl_mono _ _ _ _ _ S V es ev es' ev'); [lia|lia|exact H147|lia|lia]|apply (tmpl_mono _ _ _ _ _ S V es ev es' ev'); [lia|lia|exact H148|lia|lia]]|split; [apply (tmpl_mono _ _ _ _ _ S V es ev es' ev'); [lia|lia|exact H149|lia|lia]|apply (tmpl_mono _ _ _ _ _ S V es ev es' ev'); [lia|lia|exact H150|lia|lia]]]]]|split; [split; [split; [apply (tmpl_mono _ _ _ _ _ S V es ev es' ev'); [lia|lia|exact H151|lia|lia]|split; [apply (tmpl_mono _ _ _ _ _ S V es ev es' ev'); [lia|lia|exact H152|lia|lia]|apply (tmpl_mono _ _ _ _ _ S V es ev es' ev'); [lia|lia|exact H153|lia|lia]]]|split; [split; [apply (tmpl_mono _ _ _ _ _ S V es ev es' ev'); [lia|lia|exact H154|lia|lia]|apply (tmpl_mono _ _ _ _ _ S V es ev es' ev'); [lia|lia|exact H155|lia|lia]]|split; [apply (tmpl_mono _ _ _ _ _ S V es ev es' ev'); [lia|lia|exact H156|lia|lia]|apply (tmpl_mono _ _ _ _ _ S V es ev es' ev'); [lia|lia|exact H157|lia|lia]]]]|split; [split; [apply (tmpl_mono _ _ _ _ _ S V es ev es' ev'); [lia|lia|exact H158|lia|lia]|split; [apply (tmpl_mono _ _ _ _ _ S V es ev es' ev'); [lia|lia|exact H159|lia|lia]|apply (tmpl_mono _ _ _ _ _ S V es ev es' ev'); [lia|lia|exact H160|lia|lia]]]|split; [split; [apply (tmpl_mono _ _ _ _ _ S V es ev es' ev'); [lia|lia|exact H161|lia|lia]|apply (tmpl_mono _ _ _ _ _ S V es ev es' ev'); [lia|lia|exact H162|lia|lia]]|split; [apply (tmpl_mono _ _ _ _ _ S V es ev es' ev'); [lia|lia|exact H163|lia|lia]|apply (tmpl_mono _ _ _ _ _ S V es ev es' ev'); [lia|lia|exact H164|lia|lia]]]]]]]|split; [split; [split; [split; [split; [apply (tmpl_mono _ _ _ _ _ S V es ev es' ev'); [lia|lia|exact H165|lia|lia]|split; [apply (tmpl_mono _ _ _ _ _ S V es ev es' ev'); [lia|lia|exact H166|lia|lia]|apply (tmpl_mono _ _ _ _ _ S V es ev es' ev'); [lia|lia|exact H167|lia|lia]]]|split; [apply (tmpl_mono _ _ _ _ _ S V es ev es' ev'); [lia|lia|exact H168|lia|lia]|split; [apply (tmpl_mono _ _ _ _ _ S V es ev es' ev'); [lia|lia|exact H169|lia|lia]|apply (tmpl_mono _ _ _ _ _ S V es ev es' ev'); [lia|lia|exact H170|lia|lia]]]]|split; [split; [apply (tmpl_mono _ _ _ _ _ S V es ev es' ev'); [lia|lia|exact H171|lia|lia]|split; [apply (tmpl_mono _ _ _ _ _ S V es ev es' ev'); [lia|lia|exact H172|lia|lia]|apply (tmpl_mono _ _ _ _ _ S V es ev es' ev'); [lia|lia|exact H173|lia|lia]]]|split; [split; [apply (tmpl_mono _ _ _ _ _ S V es ev es' ev'); [lia|lia|exact H174|lia|lia]|apply (tmpl_mono _ _ _ _ _ S V es ev es' ev'); [lia|lia|exact H175|lia|lia]]|split; [apply (tmpl_mono _ _ _ _ _ S V es ev es' ev'); [lia|lia|exact H176|lia|lia]|apply (tmpl_mono _ _ _ _ _ S V es ev es' ev'); [lia|lia|exact H177|lia|lia]]]]]|split; [split; [split; [apply (tmpl_mono _ _ _ _ _ S V es ev es' ev'); [lia|lia|exact H178|lia|lia]|split; [apply (tmpl_mono _ _ _ _ _ S V es ev es' ev'); [lia|lia|exact H179|lia|lia]|apply (tmpl_mono _ _ _ _ _ S V es ev es' ev'); [lia|lia|exact H180|lia|lia]]]|split; [split; [apply (tmpl_mono _ _ _ _ _ S V es ev es' ev'); [lia|lia|exact H181|lia|lia]|apply (tmpl_mono _ _ _ _ _ S V es ev es' ev'); [lia|lia|exact H182|lia|lia]]|split; [apply (tmpl_mono _ _ _ _ _ S V es ev es' ev'); [lia|lia|exact H183|lia|lia]|apply (tmpl_mono _ _ _ _ _ S V es ev es' ev'); [lia|lia|exact H184|lia|lia]]]]|split; [split; [apply (tmpl_mono _ _ _ _ _ S V es ev es' ev'); [lia|lia|exact H185|lia|lia]|split; [apply (tmpl_mono _ _ _ _ _ S V es ev es' ev'); [lia|lia|exact H186|lia|lia]|apply (tmpl_mono _ _ _ _ _ S V es ev es' ev'); [lia|lia|exact H187|lia|lia]]]|split; [split; [apply (tmpl_mono _ _ _ _ _ S V es ev es' ev'); [lia|lia|exact H188|lia|lia]|apply (tmpl_mono _ _ _ _ _ S V es ev es' ev'); [lia|lia|exact H189|lia|lia]]|split; [apply (tmpl_mono _ _ _ _ _ S V es ev es' ev'); [lia|lia|exact H190|lia|lia]|apply (tmpl_mono _ _ _ _ _ S V es ev es' ev'); [lia|lia|exact H191|lia|lia]]]]]]|split; [split; [split; [split; [apply (tmpl_mono _ _ _ _ _ S V es ev es' ev'); [lia|lia|exact H192|lia|lia]|split; [apply (tmpl_mono _ _ _ _ _ S V es ev es' ev'); [lia|lia|exact H193|lia|lia]|apply (tmpl_mono _ _ _ _ _ S V es ev es' ev'); [lia|lia|exact H194|lia|lia]]]|split; [split; [apply (tmpl_mono _ _ _ _ _ S V es ev es' ev'); [lia|lia|exact H195|lia|lia]|apply (tmpl_mono _ _ _ _ _ S V es ev es' ev'); [lia|lia|exact H196|lia|lia]]|split; [apply (tmpl_mono _ _ _ _ _ S V es ev es' ev'); [lia|lia|exact H197|lia|lia]|apply (tmpl_mono _ _ _ _ _ S V es ev es' ev'); [lia|lia|exact H198|lia|lia]]]]|split; [split; [apply (tmpl_mono _ _ _ _ _ S V es ev es' ev'); [lia|lia|exact H199|lia|lia]|split; [apply (tmpl_mono _ _ _ _ _ S V es ev es' ev'); [lia|lia|exact H200|lia|lia]|apply (tmpl_mono _ _ _ _ _ S V es ev es' ev'); [lia|lia|exact H201|lia|lia]]]|split; [split; [apply (tmpl_mono _ _ _ _ _ S V es ev es' ev'); [lia|lia|exact H202|lia|lia]|apply (tmpl_mono _ _ _ _ _ S V es ev es' ev'); [lia|lia|exact H203|lia|lia]]|split; [apply (tmpl_mono _ _ _ _ _ S V es ev es' ev'); [lia|lia|exact H204|lia|lia]|apply (tmpl_mono _ _ _ _ _ S V es ev es' ev'); [lia|lia|exact H205|lia|lia]]]]]|split; [split; [split; [apply (tmpl_mono _ _ _ _ _ S V es ev es' ev'); [lia|lia|exact H206|lia|lia]|split; [apply (tmpl_mono _ _ _ _ _ S V es ev es' ev'); [lia|lia|exact H207|lia|lia]|apply (tmpl_mono _ _ _ _ _ S V es ev es' ev'); [lia|lia|exact H208|lia|lia]]]|split; [split; [apply (tmpl_mono _ _ _ _ _ S V es ev es' ev'); [lia|lia|exact H209|lia|lia]|apply (tmpl_mono _ _ _ _ _ S V es ev es' ev'); [lia|lia|exact H210|lia|lia]]|split; [apply (tmpl_mono _ _ _ _ _ S V es ev es' ev'); [lia|lia|exact H211|lia|lia]|apply (tmpl_mono _ _ _ _ _ S V es ev es' ev'); [lia|lia|exact H212|lia|lia]]]]|split; [split; [apply (tmpl_mono _ _ _ _ _ S V es ev es' ev'); [lia|lia|exact H213|lia|lia]|split; [apply (tmpl_mono _ _ _ _ _ S V es ev es' ev'); [lia|lia|exact H214|lia|lia]|apply (tmpl_mono _ _ _ _ _ S V es ev es' ev'); [lia|lia|exact H215|lia|lia]]]|split; [split; [apply (tmpl_mono _ _ _ _ _ S V es ev es' ev'); [lia|lia|exact H216|lia|lia]|apply (tmpl_mono _ _ _ _ _ S V es ev es' ev'); [lia|lia|exact H217|lia|lia]]|split; [apply (tmpl_mono _ _ _ _ _ S V es ev es' ev'); [lia|lia|exact H218|lia|lia]|apply (tmpl_mono _ _ _ _ _ S V es ev es' ev'); [lia|lia|exact H219|lia|lia]]]]]]]]].
+Qed.
+Lemma Inv1ms_10s_x2_init r : 1000000 <= r <= 10000000000 -> Inv1ms_10s_x2 (65536 * r) (32768 * r) 0 32768.
+Proof. intros Hr. unfold Inv1ms_10s_x2, tmpl. repeat split; lia. Qed.
+Lemma Inv1ms_10s_x2_final S V es ev T : Inv1ms_10s_x2 S V es ev -> 0 <= es -> 0 <= ev -> 0 <= S -> 0 <= V ->
+  ZN 50000 * T <= S + 4 * V < ZN 50000 * T + ZN 50000 ->
+  P45 * es + 4 * (P45 + E1) * ev + 4 * E1 * V + P45 * 32768 <= P45 * (T + 65536 * ZN 2000).
+Proof.
+  change (ZN 50000) with 50000. change (ZN 2000) with 2000.
+  intros [[[[[[[B1 [B2 H4]] [H5 [H6 H7]]] [[H8 [H9 H10]] [[H11 H12] [H13 H14]]]] [[[H15 [H16 H17]] [[H18 H19] [H20 H21]]] [[H22 [H23 H24]] [[H25 H26] [H27 H28]]]]] [[[[H29 [H30 H31]] [H32 [H33 H34]]] [[H35 [H36 H37]] [[H38 H39] [H40 H41]]]] [[[H42 [H43 H44]] [[H45 H46] [H47 H48]]] [[H49 [H50 H51]] [[H52 H53] [H54 H55]]]]]] [[[[[H56 [H57 H58]] [H59 [H60 H61]]] [[H62 [H63 H64]] [[H65 H66] [H67 H68]]]] [[[H69 [H70 H71]] [[H72 H73] [H74 H75]]] [[H76 [H77 H78]] [[H79 H80] [H81 H82]]]]] [[[[H83 [H84 H85]] [[H86 H87] [H88 H89]]] [[H90 [H91 H92]] [[H93 H94] [H95 H96]]]] [[[H97 [H98 H99]] [[H100 H101] [H102 H103]]] [[H104 [H105 H106]] [[H107 H108] [H109 H110]]]]]]] [[[[[[H111 [H112 H113]] [H114 [H115 H116]]] [[H117 [H118 H119]] [[H120 H121] [H122 H123]]]] [[[H124 [H125 H126]] [[H127 H128] [H129 H130]]] [[H131 [H132 H133]] [[H134 H135] [H136 H137]]]]] [[[[H138 [H139 H140]] [H141 [H142 H143]]] [[H144 [H145 H146]] [[H147 H148] [H149 H150]]]] [[[H151 [H152 H153]] [[H154 H155] [H156 H157]]] [[H158 [H159 H160]] [[H161 H162] [H163 H164]]]]]] [[[[[H165 [H166 H167]] [H168 [H169 H170]]] [[H171 [H172 H173]] [[H174 H175] [H176 H177]]]] [[[H178 [H179 H180]] [[H181 H182] [H183 H184]]] [[H185 [H186 H187]] [[H188 H189] [H190 H191]]]]] [[[[H192 [H193 H194]] [[H195 H196] [H197 H198]]] [[H199 [H200 H201]] [[H202 H203] [H204 H205]]]] [[[H206 [H207 H208]] [[H209 H210] [H211 H212]]] [[H213 [H214 H215]] [[H216 H217] [H218 H219]]]]]]]] He Hv HS HV HT.
+  clear - B1 B2 H219 He Hv HS HV HT. unfold tmpl, P45, E1 in *. lia.
+Qed.
+
+Theorem global_1ms_10s_x2 c rto gran rs : cc_gran c = gran -> cc_rto c = rto ->
+  (forall r, In r rs -> (1000000 <= r <= 10000000000)%N) ->
+  within_tol 50000 2000 (fx (rc_rto (run (rtt_new rto gran) rs))) (rfc6298_rto c (ref_run None rs)) = true.
+Proof.
+  intros HG HR. apply (global_generic 1000000 10000000000 50000 2000 ltac:(lia) ltac:(lia) ltac:(lia) Inv1ms_10s_x2); try assumption.
+  - intros r Hr. apply Inv1ms_10s_x2_init. lia.
+  - apply Inv1ms_10s_x2_mono.
+  - intros. eapply Inv1ms_10s_x2_step; eauto; lia.
+  - apply Inv1ms_10s_x2_final.
+Qed.
+Print Assumptions global_1ms_10s_x2.
+(* the same with resets between the samples *)
+Theorem global_1ms_10s_x2_ops c rto gran os : cc_gran c = gran -> cc_rto c = rto ->
+  Forall (eop_ok 1000000 10000000000) os ->
+  within_tol 50000 2000 (fx (rc_rto (run_ops (rtt_new rto gran) os))) (rfc6298_rto c (ref_ops None os)) = true.
+Proof.
+  intros HG HR. apply (global_generic_ops 1000000 10000000000 50000 2000 ltac:(lia) ltac:(lia) ltac:(lia) Inv1ms_10s_x2); try assumption.
+  - intros r Hr. apply Inv1ms_10s_x2_init. lia.
+  - apply Inv1ms_10s_x2_mono.
+  - intros. eapply Inv1ms_10s_x2_step; eauto; lia.
+  - apply Inv1ms_10s_x2_final.
+Qed.
+Print Assumptions global_1ms_10s_x2_ops.
+
+(* ---- Sanity runs of the exact model (vm_compute).
+   The worst-case recurrences of Stage 3 do NOT fit the tolerance on the whole range 1 ms .. 10 s: on the sequence
+   60 x 10 s, 25 x 1 ms, 9 x 355.94241 ms (SRTT decays while its error bound decays more slowly, then RTTVAR collapses)
+   the bound reaches 1.48 times the tolerance.  The exact model is nowhere near that: every interval of that run is
+   inside the tolerance, the last one deviates by 437357 units (6.7 ns) where 435570880 (6.6 us) are allowed. *)
+Import ListNotations.
+Fixpoint track (rd ab:N) (c:ccfg) (st:rtt_calc) (est:option (N * N)) (rs:list N) : bool :=
+  match rs with
+  | [] => true
+  | r :: rs' =>
+      let st' := rtt_update st r in let est' := rfc6298_update est (fx r) in
+      within_tol rd ab (fx (rc_rto st')) (rfc6298_rto c est') && track rd ab c st' est' rs'
+  end.
+Definition cfg0 : ccfg := {| cc_mech := 0; cc_fp := false; cc_reliable := false; cc_rto := 500000000; cc_gran := 0 |}.
+Definition bound_witness : list N := repeat 10000000000%N 60%nat ++ repeat 1000000%N 25%nat ++ repeat 355942410%N 9%nat.
+Example bound_witness_run :
+  track 100000 1000 cfg0 (rtt_new 500000000 0) None bound_witness = true /\
+  (let st := run (rtt_new 500000000 0) bound_witness in
+   let e := rfc6298_rto cfg0 (ref_run None bound_witness) in
+   (absdiff (fx (rc_rto st)) e, (e / 100000 + fx 1000)%N)) = (437357%N, 435570880%N).
+Proof. vm_compute. split; reflexivity. Qed.
+(* the largest deviation a greedy adversarial search on the model found (samples steered around 10 s so that the
+   roundings add up): 35 % of the tolerance *)
+Definition greedy_witness : list N :=
+  [10000000000; 9942045583; 9837108924; 9738911548; 9850131961; 9716687422; 9863323063; 9838664614; 9840877149;
+   9873622611; 9824596379; 9800518289; 9832592171; 9783198994; 9730739666; 9805904767; 9813762903; 9776104399;
+   9705486537; 9730663329; 9739361243; 9727428452; 9781597460; 9781292327; 9761944326; 9748271903; 9715404328;
+   9717754405; 9739300197; 9732112727; 9712795628; 9706508151; 9731120899; 9731060048; 9709728731; 9718395684;
+   9717785224; 9702144440; 9722667606; 9725246354; 9725200557]%N.
+Example greedy_witness_run :
+  track 100000 1000 cfg0 (rtt_new 500000000 0) None greedy_witness = true /\
+  (let st := run (rtt_new 500000000 0) greedy_witness in
+   let e := rfc6298_rto cfg0 (ref_run None greedy_witness) in
+   (absdiff (fx (rc_rto st)) e, (e / 100000 + fx 1000)%N)) = (2287848802%N, 6475714687%N).
+Proof. vm_compute. split; reflexivity. Qed.
